@@ -119,6 +119,12 @@ let rec map f = function
 | [] -> []
 | a :: t -> (f a) :: (map f t)
 
+(** val fold_right : ('a2 -> 'a1 -> 'a1) -> 'a1 -> 'a2 list -> 'a1 **)
+
+let rec fold_right f a0 = function
+| [] -> a0
+| b :: t -> f b (fold_right f a0 t)
+
 (** val existsb : ('a1 -> bool) -> 'a1 list -> bool **)
 
 let rec existsb f = function
@@ -583,13 +589,20 @@ type stmt =
 | SPop
 | SFound of event * z
 | SAddCur of z
-| SIf of cond * stmt list * stmt list
+| SIf of cond * stmt * stmt
+| SSeq of stmt * stmt
+| SSkip
 | SOracle of okind
 | SRetNil
 | SRetErr of string * string
 | SRetErrBasic of string
 | SRetCall of state
 | SRetRedispatch
+
+(** val block : stmt list -> stmt **)
+
+let block l =
+  fold_right (fun x x0 -> SSeq (x, x0)) SSkip l
 
 (** val n_eqb_list : n list -> n list -> bool **)
 
@@ -1446,11 +1459,11 @@ let rec eval_cond nl_cond ws_cond data cf c = function
 let mk_unexpected data cf w e =
   EUnexpected (w, e, cf.c_cur, (negb (Z.ltb cf.c_cur (data_size data))))
 
-(** val exec_stmt :
+(** val exec :
     cond -> cond -> bytes -> (okind -> z -> olen_res) -> byte -> stmt -> conf
     -> flow **)
 
-let rec exec_stmt nl_cond ws_cond data olen c s cf =
+let rec exec nl_cond ws_cond data olen c s cf =
   match s with
   | SSetStep st -> FFall (set_step cf st)
   | SPush st -> FFall (set_sstack cf (st :: cf.c_sstack))
@@ -1463,19 +1476,17 @@ let rec exec_stmt nl_cond ws_cond data olen c s cf =
     FFall (set_finds cf (app cf.c_finds ((ev, (Z.add cf.c_cur off)) :: [])))
   | SAddCur dz -> FFall (set_cur cf (Z.add cf.c_cur dz))
   | SIf (k, t, e) ->
-    let go =
-      let rec go l cf0 =
-        match l with
-        | [] -> FFall cf0
-        | x :: r ->
-          (match exec_stmt nl_cond ws_cond data olen c x cf0 with
-           | FFall cf' -> go r cf'
-           | x0 -> x0)
-      in go
-    in
     (match eval_cond nl_cond ws_cond data cf c k with
-     | Some b -> if b then go t cf else go e cf
+     | Some b ->
+       if b
+       then exec nl_cond ws_cond data olen c t cf
+       else exec nl_cond ws_cond data olen c e cf
      | None -> FPanic PIndexRange)
+  | SSeq (a, b) ->
+    (match exec nl_cond ws_cond data olen c a cf with
+     | FFall cf' -> exec nl_cond ws_cond data olen c b cf'
+     | x -> x)
+  | SSkip -> FFall cf
   | SOracle k ->
     (match olen k cf.c_cur with
      | OLen n0 ->
@@ -1490,26 +1501,14 @@ let rec exec_stmt nl_cond ws_cond data olen c s cf =
   | SRetCall st -> FRet ((KCall st), cf)
   | SRetRedispatch -> FRet (KRedispatch, cf)
 
-(** val exec_list :
-    cond -> cond -> bytes -> (okind -> z -> olen_res) -> byte -> stmt list ->
-    conf -> flow **)
-
-let rec exec_list nl_cond ws_cond data olen c l cf =
-  match l with
-  | [] -> FFall cf
-  | x :: r ->
-    (match exec_stmt nl_cond ws_cond data olen c x cf with
-     | FFall cf' -> exec_list nl_cond ws_cond data olen c r cf'
-     | x0 -> x0)
-
-(** val body_of : (string * stmt list) list -> state -> stmt list option **)
+(** val body_of : (string * stmt) list -> state -> stmt option **)
 
 let body_of prog st =
   option_map snd (nth_error prog (N.to_nat st))
 
 (** val run_step :
-    (string * stmt list) list -> cond -> cond -> bytes -> (okind -> z ->
-    olen_res) -> nat -> state -> byte -> conf -> conf res **)
+    (string * stmt) list -> cond -> cond -> bytes -> (okind -> z -> olen_res)
+    -> nat -> state -> byte -> conf -> conf res **)
 
 let rec run_step prog nl_cond ws_cond data olen fuel st c cf =
   match fuel with
@@ -1517,7 +1516,7 @@ let rec run_step prog nl_cond ws_cond data olen fuel st c cf =
   | S fuel' ->
     (match body_of prog st with
      | Some body ->
-       (match exec_list nl_cond ws_cond data olen c body cf with
+       (match exec nl_cond ws_cond data olen c body cf with
         | FFall _ -> RPanic PFallthrough
         | FRet (k, cf') ->
           (match k with
@@ -1716,8 +1715,8 @@ let step_fuel =
   S (S (S (S (S (S (S (S O)))))))
 
 (** val next_loop :
-    (string * stmt list) list -> cond -> cond -> bytes -> (okind -> z ->
-    olen_res) -> nat -> conf -> (lexeme option * conf) res **)
+    (string * stmt) list -> cond -> cond -> bytes -> (okind -> z -> olen_res)
+    -> nat -> conf -> (lexeme option * conf) res **)
 
 let rec next_loop prog nl_cond ws_cond data olen fuel cf =
   match fuel with
@@ -1800,8 +1799,8 @@ let loop_fuel data =
     (S (S (S (S (S O))))))))))))))))
 
 (** val next :
-    (string * stmt list) list -> cond -> cond -> bytes -> (okind -> z ->
-    olen_res) -> conf -> (lexeme option * conf) res **)
+    (string * stmt) list -> cond -> cond -> bytes -> (okind -> z -> olen_res)
+    -> conf -> (lexeme option * conf) res **)
 
 let next prog nl_cond ws_cond data olen cf =
   match cf.c_finds with
@@ -2672,7 +2671,7 @@ let st_stateVersi =
 let st_stateVersio =
   Npos (XI (XO (XO (XI (XO (XI (XO XH)))))))
 
-(** val prog_table : (string * stmt list) list **)
+(** val prog_table : (string * stmt) list **)
 
 let prog_table =
   ((String ((Ascii (true, true, false, false, true, true, true, false)),
@@ -2690,38 +2689,40 @@ let prog_table =
     (String ((Ascii (true, false, false, true, false, true, true, false)),
     (String ((Ascii (true, true, true, true, false, true, true, false)),
     (String ((Ascii (false, true, true, true, false, true, true, false)),
-    EmptyString)))))))))))))))))))))))))))))), ((SIf ((CByte (Npos (XI (XI
-    (XO (XO (XO XH))))))), ((SFound (AnnotationEnd, (Zneg XH))) :: ((SSetStep
-    st_stateSingleComment) :: (SRetNil :: []))), ((SIf ((COr (CNewLine,
-    (CByte N0))), ((SFound (AnnotationEnd, (Zneg
-    XH))) :: (SPop :: (SRetRedispatch :: []))),
-    [])) :: []))) :: (SRetNil :: []))) :: (((String ((Ascii (true, true,
-    false, false, true, true, true, false)), (String ((Ascii (false, false,
-    true, false, true, true, true, false)), (String ((Ascii (true, false,
-    false, false, false, true, true, false)), (String ((Ascii (false, false,
-    true, false, true, true, true, false)), (String ((Ascii (true, false,
-    true, false, false, true, true, false)), (String ((Ascii (true, false,
-    false, false, false, false, true, false)), (String ((Ascii (false, true,
-    true, true, false, true, true, false)), (String ((Ascii (false, true,
-    true, true, false, true, true, false)), (String ((Ascii (true, true,
-    true, true, false, true, true, false)), (String ((Ascii (false, false,
-    true, false, true, true, true, false)), (String ((Ascii (true, false,
-    false, false, false, true, true, false)), (String ((Ascii (false, false,
-    true, false, true, true, true, false)), (String ((Ascii (true, false,
-    false, true, false, true, true, false)), (String ((Ascii (true, true,
-    true, true, false, true, true, false)), (String ((Ascii (false, true,
-    true, true, false, true, true, false)), (String ((Ascii (true, true,
-    false, false, true, false, true, false)), (String ((Ascii (true, false,
-    false, true, false, true, true, false)), (String ((Ascii (true, true,
-    true, false, false, true, true, false)), (String ((Ascii (false, true,
-    true, true, false, true, true, false)), (String ((Ascii (false, true,
-    false, false, true, true, false, false)),
-    EmptyString)))))))))))))))))))))))))))))))))))))))), ((SIf ((CByte (Npos
-    (XI (XI (XI (XI (XO XH))))))), ((SSetStep
-    st_stateAnnotationTextStart) :: []), ((SIf ((CByte (Npos (XO (XI (XO (XI
-    (XO XH))))))), ((SSetStep st_stateMultilineAnnotationTextStart) :: []),
-    ((SAddCur (Zneg (XO XH))) :: ((SSetStep
-    st_stateParameterStart) :: [])))) :: []))) :: (SRetNil :: []))) :: (((String
+    EmptyString)))))))))))))))))))))))))))))),
+    (block ((SIf ((CByte (Npos (XI (XI (XO (XO (XO XH))))))),
+      (block ((SFound (AnnotationEnd, (Zneg XH))) :: ((SSetStep
+        st_stateSingleComment) :: (SRetNil :: [])))),
+      (block ((SIf ((COr (CNewLine, (CByte N0))),
+        (block ((SFound (AnnotationEnd, (Zneg
+          XH))) :: (SPop :: (SRetRedispatch :: [])))), SSkip)) :: [])))) :: (SRetNil :: [])))) :: (((String
+    ((Ascii (true, true, false, false, true, true, true, false)), (String
+    ((Ascii (false, false, true, false, true, true, true, false)), (String
+    ((Ascii (true, false, false, false, false, true, true, false)), (String
+    ((Ascii (false, false, true, false, true, true, true, false)), (String
+    ((Ascii (true, false, true, false, false, true, true, false)), (String
+    ((Ascii (true, false, false, false, false, false, true, false)), (String
+    ((Ascii (false, true, true, true, false, true, true, false)), (String
+    ((Ascii (false, true, true, true, false, true, true, false)), (String
+    ((Ascii (true, true, true, true, false, true, true, false)), (String
+    ((Ascii (false, false, true, false, true, true, true, false)), (String
+    ((Ascii (true, false, false, false, false, true, true, false)), (String
+    ((Ascii (false, false, true, false, true, true, true, false)), (String
+    ((Ascii (true, false, false, true, false, true, true, false)), (String
+    ((Ascii (true, true, true, true, false, true, true, false)), (String
+    ((Ascii (false, true, true, true, false, true, true, false)), (String
+    ((Ascii (true, true, false, false, true, false, true, false)), (String
+    ((Ascii (true, false, false, true, false, true, true, false)), (String
+    ((Ascii (true, true, true, false, false, true, true, false)), (String
+    ((Ascii (false, true, true, true, false, true, true, false)), (String
+    ((Ascii (false, true, false, false, true, true, false, false)),
+    EmptyString)))))))))))))))))))))))))))))))))))))))),
+    (block ((SIf ((CByte (Npos (XI (XI (XI (XI (XO XH))))))),
+      (block ((SSetStep st_stateAnnotationTextStart) :: [])),
+      (block ((SIf ((CByte (Npos (XO (XI (XO (XI (XO XH))))))),
+        (block ((SSetStep st_stateMultilineAnnotationTextStart) :: [])),
+        (block ((SAddCur (Zneg (XO XH))) :: ((SSetStep
+          st_stateParameterStart) :: []))))) :: [])))) :: (SRetNil :: [])))) :: (((String
     ((Ascii (true, true, false, false, true, true, true, false)), (String
     ((Ascii (false, false, true, false, true, true, true, false)), (String
     ((Ascii (true, false, false, false, false, true, true, false)), (String
@@ -2746,298 +2747,320 @@ let prog_table =
     ((Ascii (true, false, false, false, false, true, true, false)), (String
     ((Ascii (false, true, false, false, true, true, true, false)), (String
     ((Ascii (false, false, true, false, true, true, true, false)),
-    EmptyString)))))))))))))))))))))))))))))))))))))))))))))))), ((SFound
-    (AnnotationBegin, Z0)) :: ((SSetStep st_stateAnnotation) :: ((SRetCall
-    st_stateAnnotation) :: [])))) :: (((String ((Ascii (true, true, false,
-    false, true, true, true, false)), (String ((Ascii (false, false, true,
-    false, true, true, true, false)), (String ((Ascii (true, false, false,
-    false, false, true, true, false)), (String ((Ascii (false, false, true,
-    false, true, true, true, false)), (String ((Ascii (true, false, true,
-    false, false, true, true, false)), (String ((Ascii (false, true, false,
-    false, false, false, true, false)), EmptyString)))))))))))), ((SIf
-    ((CByte (Npos (XI (XI (XI (XI (XO (XI XH)))))))), ((SSetStep
-    st_stateBo) :: (SRetNil :: [])), ((SIf ((CByte (Npos (XI (XO (XO (XO (XO
-    (XI XH)))))))), ((SSetStep st_stateBa) :: (SRetNil :: [])), ((SRetErr
-    ((String ((Ascii (true, false, false, true, false, true, true, false)),
-    (String ((Ascii (false, true, true, true, false, true, true, false)),
-    (String ((Ascii (false, false, false, false, false, true, false, false)),
-    (String ((Ascii (false, false, true, false, false, true, true, false)),
-    (String ((Ascii (true, false, false, true, false, true, true, false)),
-    (String ((Ascii (false, true, false, false, true, true, true, false)),
-    (String ((Ascii (true, false, true, false, false, true, true, false)),
-    (String ((Ascii (true, true, false, false, false, true, true, false)),
-    (String ((Ascii (false, false, true, false, true, true, true, false)),
-    (String ((Ascii (true, false, false, true, false, true, true, false)),
-    (String ((Ascii (false, true, true, false, true, true, true, false)),
-    (String ((Ascii (true, false, true, false, false, true, true, false)),
-    (String ((Ascii (false, false, false, false, false, true, false, false)),
-    (String ((Ascii (false, true, true, true, false, true, true, false)),
-    (String ((Ascii (true, false, false, false, false, true, true, false)),
-    (String ((Ascii (true, false, true, true, false, true, true, false)),
-    (String ((Ascii (true, false, true, false, false, true, true, false)),
-    EmptyString)))))))))))))))))))))))))))))))))),
-    EmptyString)) :: []))) :: []))) :: [])) :: (((String ((Ascii (true, true,
-    false, false, true, true, true, false)), (String ((Ascii (false, false,
-    true, false, true, true, true, false)), (String ((Ascii (true, false,
-    false, false, false, true, true, false)), (String ((Ascii (false, false,
-    true, false, true, true, true, false)), (String ((Ascii (true, false,
-    true, false, false, true, true, false)), (String ((Ascii (false, true,
-    false, false, false, false, true, false)), (String ((Ascii (true, false,
-    false, false, false, true, true, false)), EmptyString)))))))))))))),
-    ((SIf ((CByte (Npos (XI (XI (XO (XO (XI (XI XH)))))))), ((SSetStep
-    st_stateBas) :: (SRetNil :: [])), ((SRetErr ((String ((Ascii (true,
-    false, false, true, false, true, true, false)), (String ((Ascii (false,
-    true, true, true, false, true, true, false)), (String ((Ascii (false,
-    false, false, false, false, true, false, false)), (String ((Ascii (true,
-    true, false, true, false, true, true, false)), (String ((Ascii (true,
-    false, true, false, false, true, true, false)), (String ((Ascii (true,
-    false, false, true, true, true, true, false)), (String ((Ascii (true,
-    true, true, false, true, true, true, false)), (String ((Ascii (true,
-    true, true, true, false, true, true, false)), (String ((Ascii (false,
-    true, false, false, true, true, true, false)), (String ((Ascii (false,
-    false, true, false, false, true, true, false)), (String ((Ascii (false,
-    false, false, false, false, true, false, false)), (String ((Ascii (false,
-    true, false, false, false, false, true, false)), (String ((Ascii (true,
-    false, false, false, false, true, true, false)), (String ((Ascii (true,
-    true, false, false, true, true, true, false)), (String ((Ascii (true,
-    false, true, false, false, true, true, false)), (String ((Ascii (true,
-    false, true, false, true, false, true, false)), (String ((Ascii (false,
-    true, false, false, true, true, true, false)), (String ((Ascii (false,
-    false, true, true, false, true, true, false)),
-    EmptyString)))))))))))))))))))))))))))))))))))), (String ((Ascii (true,
-    true, false, false, true, true, true, false)),
-    EmptyString)))) :: []))) :: [])) :: (((String ((Ascii (true, true, false,
-    false, true, true, true, false)), (String ((Ascii (false, false, true,
-    false, true, true, true, false)), (String ((Ascii (true, false, false,
-    false, false, true, true, false)), (String ((Ascii (false, false, true,
-    false, true, true, true, false)), (String ((Ascii (true, false, true,
-    false, false, true, true, false)), (String ((Ascii (false, true, false,
-    false, false, false, true, false)), (String ((Ascii (true, false, false,
-    false, false, true, true, false)), (String ((Ascii (true, true, false,
-    false, true, true, true, false)), EmptyString)))))))))))))))), ((SIf
-    ((CByte (Npos (XI (XO (XI (XO (XO (XI XH)))))))), ((SSetStep
-    st_stateBase) :: (SRetNil :: [])), ((SRetErr ((String ((Ascii (true,
-    false, false, true, false, true, true, false)), (String ((Ascii (false,
-    true, true, true, false, true, true, false)), (String ((Ascii (false,
-    false, false, false, false, true, false, false)), (String ((Ascii (true,
-    true, false, true, false, true, true, false)), (String ((Ascii (true,
-    false, true, false, false, true, true, false)), (String ((Ascii (true,
-    false, false, true, true, true, true, false)), (String ((Ascii (true,
-    true, true, false, true, true, true, false)), (String ((Ascii (true,
-    true, true, true, false, true, true, false)), (String ((Ascii (false,
-    true, false, false, true, true, true, false)), (String ((Ascii (false,
-    false, true, false, false, true, true, false)), (String ((Ascii (false,
-    false, false, false, false, true, false, false)), (String ((Ascii (false,
-    true, false, false, false, false, true, false)), (String ((Ascii (true,
-    false, false, false, false, true, true, false)), (String ((Ascii (true,
-    true, false, false, true, true, true, false)), (String ((Ascii (true,
-    false, true, false, false, true, true, false)), (String ((Ascii (true,
-    false, true, false, true, false, true, false)), (String ((Ascii (false,
-    true, false, false, true, true, true, false)), (String ((Ascii (false,
-    false, true, true, false, true, true, false)),
-    EmptyString)))))))))))))))))))))))))))))))))))), (String ((Ascii (true,
-    false, true, false, false, true, true, false)),
-    EmptyString)))) :: []))) :: [])) :: (((String ((Ascii (true, true, false,
-    false, true, true, true, false)), (String ((Ascii (false, false, true,
-    false, true, true, true, false)), (String ((Ascii (true, false, false,
-    false, false, true, true, false)), (String ((Ascii (false, false, true,
-    false, true, true, true, false)), (String ((Ascii (true, false, true,
-    false, false, true, true, false)), (String ((Ascii (false, true, false,
-    false, false, false, true, false)), (String ((Ascii (true, false, false,
-    false, false, true, true, false)), (String ((Ascii (true, true, false,
-    false, true, true, true, false)), (String ((Ascii (true, false, true,
-    false, false, true, true, false)), EmptyString)))))))))))))))))), ((SIf
-    ((CByte (Npos (XI (XO (XI (XO (XI (XO XH)))))))), ((SSetStep
-    st_stateBaseU) :: (SRetNil :: [])), ((SRetErr ((String ((Ascii (true,
-    false, false, true, false, true, true, false)), (String ((Ascii (false,
-    true, true, true, false, true, true, false)), (String ((Ascii (false,
-    false, false, false, false, true, false, false)), (String ((Ascii (true,
-    true, false, true, false, true, true, false)), (String ((Ascii (true,
-    false, true, false, false, true, true, false)), (String ((Ascii (true,
-    false, false, true, true, true, true, false)), (String ((Ascii (true,
-    true, true, false, true, true, true, false)), (String ((Ascii (true,
-    true, true, true, false, true, true, false)), (String ((Ascii (false,
-    true, false, false, true, true, true, false)), (String ((Ascii (false,
-    false, true, false, false, true, true, false)), (String ((Ascii (false,
-    false, false, false, false, true, false, false)), (String ((Ascii (false,
-    true, false, false, false, false, true, false)), (String ((Ascii (true,
-    false, false, false, false, true, true, false)), (String ((Ascii (true,
-    true, false, false, true, true, true, false)), (String ((Ascii (true,
-    false, true, false, false, true, true, false)), (String ((Ascii (true,
-    false, true, false, true, false, true, false)), (String ((Ascii (false,
-    true, false, false, true, true, true, false)), (String ((Ascii (false,
-    false, true, true, false, true, true, false)),
-    EmptyString)))))))))))))))))))))))))))))))))))), (String ((Ascii (true,
-    false, true, false, true, false, true, false)),
-    EmptyString)))) :: []))) :: [])) :: (((String ((Ascii (true, true, false,
-    false, true, true, true, false)), (String ((Ascii (false, false, true,
-    false, true, true, true, false)), (String ((Ascii (true, false, false,
-    false, false, true, true, false)), (String ((Ascii (false, false, true,
-    false, true, true, true, false)), (String ((Ascii (true, false, true,
-    false, false, true, true, false)), (String ((Ascii (false, true, false,
-    false, false, false, true, false)), (String ((Ascii (true, false, false,
-    false, false, true, true, false)), (String ((Ascii (true, true, false,
-    false, true, true, true, false)), (String ((Ascii (true, false, true,
-    false, false, true, true, false)), (String ((Ascii (true, false, true,
-    false, true, false, true, false)), EmptyString)))))))))))))))))))), ((SIf
-    ((CByte (Npos (XO (XI (XO (XO (XI (XI XH)))))))), ((SSetStep
-    st_stateBaseUr) :: (SRetNil :: [])), ((SRetErr ((String ((Ascii (true,
-    false, false, true, false, true, true, false)), (String ((Ascii (false,
-    true, true, true, false, true, true, false)), (String ((Ascii (false,
-    false, false, false, false, true, false, false)), (String ((Ascii (true,
-    true, false, true, false, true, true, false)), (String ((Ascii (true,
-    false, true, false, false, true, true, false)), (String ((Ascii (true,
-    false, false, true, true, true, true, false)), (String ((Ascii (true,
-    true, true, false, true, true, true, false)), (String ((Ascii (true,
-    true, true, true, false, true, true, false)), (String ((Ascii (false,
-    true, false, false, true, true, true, false)), (String ((Ascii (false,
-    false, true, false, false, true, true, false)), (String ((Ascii (false,
-    false, false, false, false, true, false, false)), (String ((Ascii (false,
-    true, false, false, false, false, true, false)), (String ((Ascii (true,
-    false, false, false, false, true, true, false)), (String ((Ascii (true,
-    true, false, false, true, true, true, false)), (String ((Ascii (true,
-    false, true, false, false, true, true, false)), (String ((Ascii (true,
-    false, true, false, true, false, true, false)), (String ((Ascii (false,
-    true, false, false, true, true, true, false)), (String ((Ascii (false,
-    false, true, true, false, true, true, false)),
-    EmptyString)))))))))))))))))))))))))))))))))))), (String ((Ascii (false,
-    true, false, false, true, true, true, false)),
-    EmptyString)))) :: []))) :: [])) :: (((String ((Ascii (true, true, false,
-    false, true, true, true, false)), (String ((Ascii (false, false, true,
-    false, true, true, true, false)), (String ((Ascii (true, false, false,
-    false, false, true, true, false)), (String ((Ascii (false, false, true,
-    false, true, true, true, false)), (String ((Ascii (true, false, true,
-    false, false, true, true, false)), (String ((Ascii (false, true, false,
-    false, false, false, true, false)), (String ((Ascii (true, false, false,
-    false, false, true, true, false)), (String ((Ascii (true, true, false,
-    false, true, true, true, false)), (String ((Ascii (true, false, true,
-    false, false, true, true, false)), (String ((Ascii (true, false, true,
-    false, true, false, true, false)), (String ((Ascii (false, true, false,
-    false, true, true, true, false)), EmptyString)))))))))))))))))))))),
-    ((SIf ((CByte (Npos (XO (XO (XI (XI (XO (XI XH)))))))), ((SFound
-    (KeywordEnd, Z0)) :: ((SPush st_stateExpectKeyword) :: ((SSetStep
-    st_stateParameterOrAnnotation) :: (SRetNil :: [])))), ((SRetErr ((String
-    ((Ascii (true, false, false, true, false, true, true, false)), (String
-    ((Ascii (false, true, true, true, false, true, true, false)), (String
-    ((Ascii (false, false, false, false, false, true, false, false)), (String
-    ((Ascii (true, true, false, true, false, true, true, false)), (String
-    ((Ascii (true, false, true, false, false, true, true, false)), (String
-    ((Ascii (true, false, false, true, true, true, true, false)), (String
-    ((Ascii (true, true, true, false, true, true, true, false)), (String
-    ((Ascii (true, true, true, true, false, true, true, false)), (String
-    ((Ascii (false, true, false, false, true, true, true, false)), (String
-    ((Ascii (false, false, true, false, false, true, true, false)), (String
-    ((Ascii (false, false, false, false, false, true, false, false)), (String
-    ((Ascii (false, true, false, false, false, false, true, false)), (String
-    ((Ascii (true, false, false, false, false, true, true, false)), (String
+    EmptyString)))))))))))))))))))))))))))))))))))))))))))))))),
+    (block ((SFound (AnnotationBegin, Z0)) :: ((SSetStep
+      st_stateAnnotation) :: ((SRetCall st_stateAnnotation) :: []))))) :: (((String
     ((Ascii (true, true, false, false, true, true, true, false)), (String
+    ((Ascii (false, false, true, false, true, true, true, false)), (String
+    ((Ascii (true, false, false, false, false, true, true, false)), (String
+    ((Ascii (false, false, true, false, true, true, true, false)), (String
     ((Ascii (true, false, true, false, false, true, true, false)), (String
-    ((Ascii (true, false, true, false, true, false, true, false)), (String
-    ((Ascii (false, true, false, false, true, true, true, false)), (String
-    ((Ascii (false, false, true, true, false, true, true, false)),
-    EmptyString)))))))))))))))))))))))))))))))))))), (String ((Ascii (false,
-    false, true, true, false, true, true, false)),
-    EmptyString)))) :: []))) :: [])) :: (((String ((Ascii (true, true, false,
-    false, true, true, true, false)), (String ((Ascii (false, false, true,
-    false, true, true, true, false)), (String ((Ascii (true, false, false,
-    false, false, true, true, false)), (String ((Ascii (false, false, true,
-    false, true, true, true, false)), (String ((Ascii (true, false, true,
-    false, false, true, true, false)), (String ((Ascii (false, true, false,
-    false, false, false, true, false)), (String ((Ascii (true, true, true,
-    true, false, true, true, false)), EmptyString)))))))))))))), ((SIf
-    ((CByte (Npos (XO (XO (XI (XO (XO (XI XH)))))))), ((SSetStep
-    st_stateBod) :: (SRetNil :: [])), ((SRetErr ((String ((Ascii (true,
-    false, false, true, false, true, true, false)), (String ((Ascii (false,
-    true, true, true, false, true, true, false)), (String ((Ascii (false,
-    false, false, false, false, true, false, false)), (String ((Ascii (true,
-    true, false, true, false, true, true, false)), (String ((Ascii (true,
-    false, true, false, false, true, true, false)), (String ((Ascii (true,
-    false, false, true, true, true, true, false)), (String ((Ascii (true,
-    true, true, false, true, true, true, false)), (String ((Ascii (true,
-    true, true, true, false, true, true, false)), (String ((Ascii (false,
-    true, false, false, true, true, true, false)), (String ((Ascii (false,
-    false, true, false, false, true, true, false)), (String ((Ascii (false,
-    false, false, false, false, true, false, false)), (String ((Ascii (false,
-    true, false, false, false, false, true, false)), (String ((Ascii (true,
-    true, true, true, false, true, true, false)), (String ((Ascii (false,
-    false, true, false, false, true, true, false)), (String ((Ascii (true,
-    false, false, true, true, true, true, false)),
-    EmptyString)))))))))))))))))))))))))))))), (String ((Ascii (false, false,
-    true, false, false, true, true, false)),
-    EmptyString)))) :: []))) :: [])) :: (((String ((Ascii (true, true, false,
-    false, true, true, true, false)), (String ((Ascii (false, false, true,
-    false, true, true, true, false)), (String ((Ascii (true, false, false,
-    false, false, true, true, false)), (String ((Ascii (false, false, true,
-    false, true, true, true, false)), (String ((Ascii (true, false, true,
-    false, false, true, true, false)), (String ((Ascii (false, true, false,
-    false, false, false, true, false)), (String ((Ascii (true, true, true,
-    true, false, true, true, false)), (String ((Ascii (false, false, true,
-    false, false, true, true, false)), EmptyString)))))))))))))))), ((SIf
-    ((CByte (Npos (XI (XO (XO (XI (XI (XI XH)))))))), ((SFound (KeywordEnd,
-    Z0)) :: ((SPush st_stateBodyBodyOrKeyword) :: ((SSetStep
-    st_stateParameterOrAnnotation) :: (SRetNil :: [])))), ((SRetErr ((String
-    ((Ascii (true, false, false, true, false, true, true, false)), (String
-    ((Ascii (false, true, true, true, false, true, true, false)), (String
-    ((Ascii (false, false, false, false, false, true, false, false)), (String
-    ((Ascii (true, true, false, true, false, true, true, false)), (String
-    ((Ascii (true, false, true, false, false, true, true, false)), (String
-    ((Ascii (true, false, false, true, true, true, true, false)), (String
-    ((Ascii (true, true, true, false, true, true, true, false)), (String
-    ((Ascii (true, true, true, true, false, true, true, false)), (String
-    ((Ascii (false, true, false, false, true, true, true, false)), (String
-    ((Ascii (false, false, true, false, false, true, true, false)), (String
-    ((Ascii (false, false, false, false, false, true, false, false)), (String
-    ((Ascii (false, true, false, false, false, false, true, false)), (String
-    ((Ascii (true, true, true, true, false, true, true, false)), (String
-    ((Ascii (false, false, true, false, false, true, true, false)), (String
-    ((Ascii (true, false, false, true, true, true, true, false)),
-    EmptyString)))))))))))))))))))))))))))))), (String ((Ascii (true, false,
-    false, true, true, true, true, false)),
-    EmptyString)))) :: []))) :: [])) :: (((String ((Ascii (true, true, false,
-    false, true, true, true, false)), (String ((Ascii (false, false, true,
-    false, true, true, true, false)), (String ((Ascii (true, false, false,
-    false, false, true, true, false)), (String ((Ascii (false, false, true,
-    false, true, true, true, false)), (String ((Ascii (true, false, true,
-    false, false, true, true, false)), (String ((Ascii (false, true, false,
-    false, false, false, true, false)), (String ((Ascii (true, true, true,
-    true, false, true, true, false)), (String ((Ascii (false, false, true,
-    false, false, true, true, false)), (String ((Ascii (true, false, false,
-    true, true, true, true, false)), (String ((Ascii (false, true, false,
-    false, false, false, true, false)), (String ((Ascii (true, true, true,
-    true, false, true, true, false)), (String ((Ascii (false, false, true,
-    false, false, true, true, false)), (String ((Ascii (true, false, false,
-    true, true, true, true, false)), EmptyString)))))))))))))))))))))))))),
-    ((SIf ((COr (CWhitespace, CNewLine)), (SRetNil :: []), ((SIf ((CByte
-    (Npos (XO (XO (XO (XI (XO XH))))))), ((SFound (ContextOpen,
-    Z0)) :: (SRetNil :: [])),
-    (SPop :: (SRetRedispatch :: [])))) :: []))) :: [])) :: (((String ((Ascii
+    ((Ascii (false, true, false, false, false, false, true, false)),
+    EmptyString)))))))))))),
+    (block ((SIf ((CByte (Npos (XI (XI (XI (XI (XO (XI XH)))))))),
+      (block ((SSetStep st_stateBo) :: (SRetNil :: []))),
+      (block ((SIf ((CByte (Npos (XI (XO (XO (XO (XO (XI XH)))))))),
+        (block ((SSetStep st_stateBa) :: (SRetNil :: []))),
+        (block ((SRetErr ((String ((Ascii (true, false, false, true, false,
+          true, true, false)), (String ((Ascii (false, true, true, true,
+          false, true, true, false)), (String ((Ascii (false, false, false,
+          false, false, true, false, false)), (String ((Ascii (false, false,
+          true, false, false, true, true, false)), (String ((Ascii (true,
+          false, false, true, false, true, true, false)), (String ((Ascii
+          (false, true, false, false, true, true, true, false)), (String
+          ((Ascii (true, false, true, false, false, true, true, false)),
+          (String ((Ascii (true, true, false, false, false, true, true,
+          false)), (String ((Ascii (false, false, true, false, true, true,
+          true, false)), (String ((Ascii (true, false, false, true, false,
+          true, true, false)), (String ((Ascii (false, true, true, false,
+          true, true, true, false)), (String ((Ascii (true, false, true,
+          false, false, true, true, false)), (String ((Ascii (false, false,
+          false, false, false, true, false, false)), (String ((Ascii (false,
+          true, true, true, false, true, true, false)), (String ((Ascii
+          (true, false, false, false, false, true, true, false)), (String
+          ((Ascii (true, false, true, true, false, true, true, false)),
+          (String ((Ascii (true, false, true, false, false, true, true,
+          false)), EmptyString)))))))))))))))))))))))))))))))))),
+          EmptyString)) :: [])))) :: [])))) :: []))) :: (((String ((Ascii
     (true, true, false, false, true, true, true, false)), (String ((Ascii
     (false, false, true, false, true, true, true, false)), (String ((Ascii
     (true, false, false, false, false, true, true, false)), (String ((Ascii
     (false, false, true, false, true, true, true, false)), (String ((Ascii
     (true, false, true, false, false, true, true, false)), (String ((Ascii
     (false, true, false, false, false, false, true, false)), (String ((Ascii
-    (true, true, true, true, false, true, true, false)), (String ((Ascii
-    (false, false, true, false, false, true, true, false)), (String ((Ascii
-    (true, false, false, true, true, true, true, false)), (String ((Ascii
-    (false, true, false, false, false, false, true, false)), (String ((Ascii
-    (true, true, true, true, false, true, true, false)), (String ((Ascii
-    (false, false, true, false, false, true, true, false)), (String ((Ascii
-    (true, false, false, true, true, true, true, false)), (String ((Ascii
-    (true, true, true, true, false, false, true, false)), (String ((Ascii
-    (false, true, false, false, true, true, true, false)), (String ((Ascii
-    (true, true, false, true, false, false, true, false)), (String ((Ascii
-    (true, false, true, false, false, true, true, false)), (String ((Ascii
-    (true, false, false, true, true, true, true, false)), (String ((Ascii
-    (true, true, true, false, true, true, true, false)), (String ((Ascii
-    (true, true, true, true, false, true, true, false)), (String ((Ascii
-    (false, true, false, false, true, true, true, false)), (String ((Ascii
-    (false, false, true, false, false, true, true, false)),
-    EmptyString)))))))))))))))))))))))))))))))))))))))))))), ((SIf ((CNot
-    (CCtx QTypeOrAnyOrEmpty)), ((SIf ((CCtx QRegex), ((SPush
-    st_stateRegex) :: []), ((SPush st_stateJSchema) :: []))) :: ((SSetStep
-    st_stateBodyBody) :: [])), ((SSetStep
-    st_stateExpectKeyword) :: []))) :: (SRetRedispatch :: []))) :: (((String
+    (true, false, false, false, false, true, true, false)),
+    EmptyString)))))))))))))),
+    (block ((SIf ((CByte (Npos (XI (XI (XO (XO (XI (XI XH)))))))),
+      (block ((SSetStep st_stateBas) :: (SRetNil :: []))),
+      (block ((SRetErr ((String ((Ascii (true, false, false, true, false,
+        true, true, false)), (String ((Ascii (false, true, true, true, false,
+        true, true, false)), (String ((Ascii (false, false, false, false,
+        false, true, false, false)), (String ((Ascii (true, true, false,
+        true, false, true, true, false)), (String ((Ascii (true, false, true,
+        false, false, true, true, false)), (String ((Ascii (true, false,
+        false, true, true, true, true, false)), (String ((Ascii (true, true,
+        true, false, true, true, true, false)), (String ((Ascii (true, true,
+        true, true, false, true, true, false)), (String ((Ascii (false, true,
+        false, false, true, true, true, false)), (String ((Ascii (false,
+        false, true, false, false, true, true, false)), (String ((Ascii
+        (false, false, false, false, false, true, false, false)), (String
+        ((Ascii (false, true, false, false, false, false, true, false)),
+        (String ((Ascii (true, false, false, false, false, true, true,
+        false)), (String ((Ascii (true, true, false, false, true, true, true,
+        false)), (String ((Ascii (true, false, true, false, false, true,
+        true, false)), (String ((Ascii (true, false, true, false, true,
+        false, true, false)), (String ((Ascii (false, true, false, false,
+        true, true, true, false)), (String ((Ascii (false, false, true, true,
+        false, true, true, false)),
+        EmptyString)))))))))))))))))))))))))))))))))))), (String ((Ascii
+        (true, true, false, false, true, true, true, false)),
+        EmptyString)))) :: [])))) :: []))) :: (((String ((Ascii (true, true,
+    false, false, true, true, true, false)), (String ((Ascii (false, false,
+    true, false, true, true, true, false)), (String ((Ascii (true, false,
+    false, false, false, true, true, false)), (String ((Ascii (false, false,
+    true, false, true, true, true, false)), (String ((Ascii (true, false,
+    true, false, false, true, true, false)), (String ((Ascii (false, true,
+    false, false, false, false, true, false)), (String ((Ascii (true, false,
+    false, false, false, true, true, false)), (String ((Ascii (true, true,
+    false, false, true, true, true, false)), EmptyString)))))))))))))))),
+    (block ((SIf ((CByte (Npos (XI (XO (XI (XO (XO (XI XH)))))))),
+      (block ((SSetStep st_stateBase) :: (SRetNil :: []))),
+      (block ((SRetErr ((String ((Ascii (true, false, false, true, false,
+        true, true, false)), (String ((Ascii (false, true, true, true, false,
+        true, true, false)), (String ((Ascii (false, false, false, false,
+        false, true, false, false)), (String ((Ascii (true, true, false,
+        true, false, true, true, false)), (String ((Ascii (true, false, true,
+        false, false, true, true, false)), (String ((Ascii (true, false,
+        false, true, true, true, true, false)), (String ((Ascii (true, true,
+        true, false, true, true, true, false)), (String ((Ascii (true, true,
+        true, true, false, true, true, false)), (String ((Ascii (false, true,
+        false, false, true, true, true, false)), (String ((Ascii (false,
+        false, true, false, false, true, true, false)), (String ((Ascii
+        (false, false, false, false, false, true, false, false)), (String
+        ((Ascii (false, true, false, false, false, false, true, false)),
+        (String ((Ascii (true, false, false, false, false, true, true,
+        false)), (String ((Ascii (true, true, false, false, true, true, true,
+        false)), (String ((Ascii (true, false, true, false, false, true,
+        true, false)), (String ((Ascii (true, false, true, false, true,
+        false, true, false)), (String ((Ascii (false, true, false, false,
+        true, true, true, false)), (String ((Ascii (false, false, true, true,
+        false, true, true, false)),
+        EmptyString)))))))))))))))))))))))))))))))))))), (String ((Ascii
+        (true, false, true, false, false, true, true, false)),
+        EmptyString)))) :: [])))) :: []))) :: (((String ((Ascii (true, true,
+    false, false, true, true, true, false)), (String ((Ascii (false, false,
+    true, false, true, true, true, false)), (String ((Ascii (true, false,
+    false, false, false, true, true, false)), (String ((Ascii (false, false,
+    true, false, true, true, true, false)), (String ((Ascii (true, false,
+    true, false, false, true, true, false)), (String ((Ascii (false, true,
+    false, false, false, false, true, false)), (String ((Ascii (true, false,
+    false, false, false, true, true, false)), (String ((Ascii (true, true,
+    false, false, true, true, true, false)), (String ((Ascii (true, false,
+    true, false, false, true, true, false)), EmptyString)))))))))))))))))),
+    (block ((SIf ((CByte (Npos (XI (XO (XI (XO (XI (XO XH)))))))),
+      (block ((SSetStep st_stateBaseU) :: (SRetNil :: []))),
+      (block ((SRetErr ((String ((Ascii (true, false, false, true, false,
+        true, true, false)), (String ((Ascii (false, true, true, true, false,
+        true, true, false)), (String ((Ascii (false, false, false, false,
+        false, true, false, false)), (String ((Ascii (true, true, false,
+        true, false, true, true, false)), (String ((Ascii (true, false, true,
+        false, false, true, true, false)), (String ((Ascii (true, false,
+        false, true, true, true, true, false)), (String ((Ascii (true, true,
+        true, false, true, true, true, false)), (String ((Ascii (true, true,
+        true, true, false, true, true, false)), (String ((Ascii (false, true,
+        false, false, true, true, true, false)), (String ((Ascii (false,
+        false, true, false, false, true, true, false)), (String ((Ascii
+        (false, false, false, false, false, true, false, false)), (String
+        ((Ascii (false, true, false, false, false, false, true, false)),
+        (String ((Ascii (true, false, false, false, false, true, true,
+        false)), (String ((Ascii (true, true, false, false, true, true, true,
+        false)), (String ((Ascii (true, false, true, false, false, true,
+        true, false)), (String ((Ascii (true, false, true, false, true,
+        false, true, false)), (String ((Ascii (false, true, false, false,
+        true, true, true, false)), (String ((Ascii (false, false, true, true,
+        false, true, true, false)),
+        EmptyString)))))))))))))))))))))))))))))))))))), (String ((Ascii
+        (true, false, true, false, true, false, true, false)),
+        EmptyString)))) :: [])))) :: []))) :: (((String ((Ascii (true, true,
+    false, false, true, true, true, false)), (String ((Ascii (false, false,
+    true, false, true, true, true, false)), (String ((Ascii (true, false,
+    false, false, false, true, true, false)), (String ((Ascii (false, false,
+    true, false, true, true, true, false)), (String ((Ascii (true, false,
+    true, false, false, true, true, false)), (String ((Ascii (false, true,
+    false, false, false, false, true, false)), (String ((Ascii (true, false,
+    false, false, false, true, true, false)), (String ((Ascii (true, true,
+    false, false, true, true, true, false)), (String ((Ascii (true, false,
+    true, false, false, true, true, false)), (String ((Ascii (true, false,
+    true, false, true, false, true, false)), EmptyString)))))))))))))))))))),
+    (block ((SIf ((CByte (Npos (XO (XI (XO (XO (XI (XI XH)))))))),
+      (block ((SSetStep st_stateBaseUr) :: (SRetNil :: []))),
+      (block ((SRetErr ((String ((Ascii (true, false, false, true, false,
+        true, true, false)), (String ((Ascii (false, true, true, true, false,
+        true, true, false)), (String ((Ascii (false, false, false, false,
+        false, true, false, false)), (String ((Ascii (true, true, false,
+        true, false, true, true, false)), (String ((Ascii (true, false, true,
+        false, false, true, true, false)), (String ((Ascii (true, false,
+        false, true, true, true, true, false)), (String ((Ascii (true, true,
+        true, false, true, true, true, false)), (String ((Ascii (true, true,
+        true, true, false, true, true, false)), (String ((Ascii (false, true,
+        false, false, true, true, true, false)), (String ((Ascii (false,
+        false, true, false, false, true, true, false)), (String ((Ascii
+        (false, false, false, false, false, true, false, false)), (String
+        ((Ascii (false, true, false, false, false, false, true, false)),
+        (String ((Ascii (true, false, false, false, false, true, true,
+        false)), (String ((Ascii (true, true, false, false, true, true, true,
+        false)), (String ((Ascii (true, false, true, false, false, true,
+        true, false)), (String ((Ascii (true, false, true, false, true,
+        false, true, false)), (String ((Ascii (false, true, false, false,
+        true, true, true, false)), (String ((Ascii (false, false, true, true,
+        false, true, true, false)),
+        EmptyString)))))))))))))))))))))))))))))))))))), (String ((Ascii
+        (false, true, false, false, true, true, true, false)),
+        EmptyString)))) :: [])))) :: []))) :: (((String ((Ascii (true, true,
+    false, false, true, true, true, false)), (String ((Ascii (false, false,
+    true, false, true, true, true, false)), (String ((Ascii (true, false,
+    false, false, false, true, true, false)), (String ((Ascii (false, false,
+    true, false, true, true, true, false)), (String ((Ascii (true, false,
+    true, false, false, true, true, false)), (String ((Ascii (false, true,
+    false, false, false, false, true, false)), (String ((Ascii (true, false,
+    false, false, false, true, true, false)), (String ((Ascii (true, true,
+    false, false, true, true, true, false)), (String ((Ascii (true, false,
+    true, false, false, true, true, false)), (String ((Ascii (true, false,
+    true, false, true, false, true, false)), (String ((Ascii (false, true,
+    false, false, true, true, true, false)),
+    EmptyString)))))))))))))))))))))),
+    (block ((SIf ((CByte (Npos (XO (XO (XI (XI (XO (XI XH)))))))),
+      (block ((SFound (KeywordEnd, Z0)) :: ((SPush
+        st_stateExpectKeyword) :: ((SSetStep
+        st_stateParameterOrAnnotation) :: (SRetNil :: []))))),
+      (block ((SRetErr ((String ((Ascii (true, false, false, true, false,
+        true, true, false)), (String ((Ascii (false, true, true, true, false,
+        true, true, false)), (String ((Ascii (false, false, false, false,
+        false, true, false, false)), (String ((Ascii (true, true, false,
+        true, false, true, true, false)), (String ((Ascii (true, false, true,
+        false, false, true, true, false)), (String ((Ascii (true, false,
+        false, true, true, true, true, false)), (String ((Ascii (true, true,
+        true, false, true, true, true, false)), (String ((Ascii (true, true,
+        true, true, false, true, true, false)), (String ((Ascii (false, true,
+        false, false, true, true, true, false)), (String ((Ascii (false,
+        false, true, false, false, true, true, false)), (String ((Ascii
+        (false, false, false, false, false, true, false, false)), (String
+        ((Ascii (false, true, false, false, false, false, true, false)),
+        (String ((Ascii (true, false, false, false, false, true, true,
+        false)), (String ((Ascii (true, true, false, false, true, true, true,
+        false)), (String ((Ascii (true, false, true, false, false, true,
+        true, false)), (String ((Ascii (true, false, true, false, true,
+        false, true, false)), (String ((Ascii (false, true, false, false,
+        true, true, true, false)), (String ((Ascii (false, false, true, true,
+        false, true, true, false)),
+        EmptyString)))))))))))))))))))))))))))))))))))), (String ((Ascii
+        (false, false, true, true, false, true, true, false)),
+        EmptyString)))) :: [])))) :: []))) :: (((String ((Ascii (true, true,
+    false, false, true, true, true, false)), (String ((Ascii (false, false,
+    true, false, true, true, true, false)), (String ((Ascii (true, false,
+    false, false, false, true, true, false)), (String ((Ascii (false, false,
+    true, false, true, true, true, false)), (String ((Ascii (true, false,
+    true, false, false, true, true, false)), (String ((Ascii (false, true,
+    false, false, false, false, true, false)), (String ((Ascii (true, true,
+    true, true, false, true, true, false)), EmptyString)))))))))))))),
+    (block ((SIf ((CByte (Npos (XO (XO (XI (XO (XO (XI XH)))))))),
+      (block ((SSetStep st_stateBod) :: (SRetNil :: []))),
+      (block ((SRetErr ((String ((Ascii (true, false, false, true, false,
+        true, true, false)), (String ((Ascii (false, true, true, true, false,
+        true, true, false)), (String ((Ascii (false, false, false, false,
+        false, true, false, false)), (String ((Ascii (true, true, false,
+        true, false, true, true, false)), (String ((Ascii (true, false, true,
+        false, false, true, true, false)), (String ((Ascii (true, false,
+        false, true, true, true, true, false)), (String ((Ascii (true, true,
+        true, false, true, true, true, false)), (String ((Ascii (true, true,
+        true, true, false, true, true, false)), (String ((Ascii (false, true,
+        false, false, true, true, true, false)), (String ((Ascii (false,
+        false, true, false, false, true, true, false)), (String ((Ascii
+        (false, false, false, false, false, true, false, false)), (String
+        ((Ascii (false, true, false, false, false, false, true, false)),
+        (String ((Ascii (true, true, true, true, false, true, true, false)),
+        (String ((Ascii (false, false, true, false, false, true, true,
+        false)), (String ((Ascii (true, false, false, true, true, true, true,
+        false)), EmptyString)))))))))))))))))))))))))))))), (String ((Ascii
+        (false, false, true, false, false, true, true, false)),
+        EmptyString)))) :: [])))) :: []))) :: (((String ((Ascii (true, true,
+    false, false, true, true, true, false)), (String ((Ascii (false, false,
+    true, false, true, true, true, false)), (String ((Ascii (true, false,
+    false, false, false, true, true, false)), (String ((Ascii (false, false,
+    true, false, true, true, true, false)), (String ((Ascii (true, false,
+    true, false, false, true, true, false)), (String ((Ascii (false, true,
+    false, false, false, false, true, false)), (String ((Ascii (true, true,
+    true, true, false, true, true, false)), (String ((Ascii (false, false,
+    true, false, false, true, true, false)), EmptyString)))))))))))))))),
+    (block ((SIf ((CByte (Npos (XI (XO (XO (XI (XI (XI XH)))))))),
+      (block ((SFound (KeywordEnd, Z0)) :: ((SPush
+        st_stateBodyBodyOrKeyword) :: ((SSetStep
+        st_stateParameterOrAnnotation) :: (SRetNil :: []))))),
+      (block ((SRetErr ((String ((Ascii (true, false, false, true, false,
+        true, true, false)), (String ((Ascii (false, true, true, true, false,
+        true, true, false)), (String ((Ascii (false, false, false, false,
+        false, true, false, false)), (String ((Ascii (true, true, false,
+        true, false, true, true, false)), (String ((Ascii (true, false, true,
+        false, false, true, true, false)), (String ((Ascii (true, false,
+        false, true, true, true, true, false)), (String ((Ascii (true, true,
+        true, false, true, true, true, false)), (String ((Ascii (true, true,
+        true, true, false, true, true, false)), (String ((Ascii (false, true,
+        false, false, true, true, true, false)), (String ((Ascii (false,
+        false, true, false, false, true, true, false)), (String ((Ascii
+        (false, false, false, false, false, true, false, false)), (String
+        ((Ascii (false, true, false, false, false, false, true, false)),
+        (String ((Ascii (true, true, true, true, false, true, true, false)),
+        (String ((Ascii (false, false, true, false, false, true, true,
+        false)), (String ((Ascii (true, false, false, true, true, true, true,
+        false)), EmptyString)))))))))))))))))))))))))))))), (String ((Ascii
+        (true, false, false, true, true, true, true, false)),
+        EmptyString)))) :: [])))) :: []))) :: (((String ((Ascii (true, true,
+    false, false, true, true, true, false)), (String ((Ascii (false, false,
+    true, false, true, true, true, false)), (String ((Ascii (true, false,
+    false, false, false, true, true, false)), (String ((Ascii (false, false,
+    true, false, true, true, true, false)), (String ((Ascii (true, false,
+    true, false, false, true, true, false)), (String ((Ascii (false, true,
+    false, false, false, false, true, false)), (String ((Ascii (true, true,
+    true, true, false, true, true, false)), (String ((Ascii (false, false,
+    true, false, false, true, true, false)), (String ((Ascii (true, false,
+    false, true, true, true, true, false)), (String ((Ascii (false, true,
+    false, false, false, false, true, false)), (String ((Ascii (true, true,
+    true, true, false, true, true, false)), (String ((Ascii (false, false,
+    true, false, false, true, true, false)), (String ((Ascii (true, false,
+    false, true, true, true, true, false)),
+    EmptyString)))))))))))))))))))))))))),
+    (block ((SIf ((COr (CWhitespace, CNewLine)), (block (SRetNil :: [])),
+      (block ((SIf ((CByte (Npos (XO (XO (XO (XI (XO XH))))))),
+        (block ((SFound (ContextOpen, Z0)) :: (SRetNil :: []))),
+        (block (SPop :: (SRetRedispatch :: []))))) :: [])))) :: []))) :: (((String
+    ((Ascii (true, true, false, false, true, true, true, false)), (String
+    ((Ascii (false, false, true, false, true, true, true, false)), (String
+    ((Ascii (true, false, false, false, false, true, true, false)), (String
+    ((Ascii (false, false, true, false, true, true, true, false)), (String
+    ((Ascii (true, false, true, false, false, true, true, false)), (String
+    ((Ascii (false, true, false, false, false, false, true, false)), (String
+    ((Ascii (true, true, true, true, false, true, true, false)), (String
+    ((Ascii (false, false, true, false, false, true, true, false)), (String
+    ((Ascii (true, false, false, true, true, true, true, false)), (String
+    ((Ascii (false, true, false, false, false, false, true, false)), (String
+    ((Ascii (true, true, true, true, false, true, true, false)), (String
+    ((Ascii (false, false, true, false, false, true, true, false)), (String
+    ((Ascii (true, false, false, true, true, true, true, false)), (String
+    ((Ascii (true, true, true, true, false, false, true, false)), (String
+    ((Ascii (false, true, false, false, true, true, true, false)), (String
+    ((Ascii (true, true, false, true, false, false, true, false)), (String
+    ((Ascii (true, false, true, false, false, true, true, false)), (String
+    ((Ascii (true, false, false, true, true, true, true, false)), (String
+    ((Ascii (true, true, true, false, true, true, true, false)), (String
+    ((Ascii (true, true, true, true, false, true, true, false)), (String
+    ((Ascii (false, true, false, false, true, true, true, false)), (String
+    ((Ascii (false, false, true, false, false, true, true, false)),
+    EmptyString)))))))))))))))))))))))))))))))))))))))))))),
+    (block ((SIf ((CNot (CCtx QTypeOrAnyOrEmpty)),
+      (block ((SIf ((CCtx QRegex), (block ((SPush st_stateRegex) :: [])),
+        (block ((SPush st_stateJSchema) :: [])))) :: ((SSetStep
+        st_stateBodyBody) :: []))),
+      (block ((SSetStep st_stateExpectKeyword) :: [])))) :: (SRetRedispatch :: [])))) :: (((String
     ((Ascii (true, true, false, false, true, true, true, false)), (String
     ((Ascii (false, false, true, false, true, true, true, false)), (String
     ((Ascii (true, false, false, false, false, true, true, false)), (String
@@ -3052,23 +3075,86 @@ let prog_table =
     ((Ascii (false, false, true, false, false, true, true, false)), (String
     ((Ascii (true, false, true, false, false, true, true, false)), (String
     ((Ascii (false, false, true, false, false, true, true, false)),
-    EmptyString)))))))))))))))))))))))))))), ((SIf (CWhitespace,
-    (SRetNil :: []), ((SIf ((COr (CNewLine, (CByte N0))), ((SSetStep
-    st_stateExpectKeyword) :: (SRetNil :: [])), ((SIf ((CByte (Npos (XI (XI
-    (XO (XO (XO XH))))))), (SPushCur :: ((SSetStep
-    st_stateCommentStarted) :: (SRetNil :: []))), ((SRetErr ((String ((Ascii
-    (true, false, false, false, false, true, true, false)), (String ((Ascii
-    (false, true, true, false, false, true, true, false)), (String ((Ascii
-    (false, false, true, false, true, true, true, false)), (String ((Ascii
-    (true, false, true, false, false, true, true, false)), (String ((Ascii
-    (false, true, false, false, true, true, true, false)), (String ((Ascii
-    (false, false, false, false, false, true, false, false)), (String ((Ascii
-    (false, true, false, false, false, true, true, false)), (String ((Ascii
-    (true, true, true, true, false, true, true, false)), (String ((Ascii
-    (false, false, true, false, false, true, true, false)), (String ((Ascii
-    (true, false, false, true, true, true, true, false)),
-    EmptyString)))))))))))))))))))),
-    EmptyString)) :: []))) :: []))) :: []))) :: [])) :: (((String ((Ascii
+    EmptyString)))))))))))))))))))))))))))),
+    (block ((SIf (CWhitespace, (block (SRetNil :: [])),
+      (block ((SIf ((COr (CNewLine, (CByte N0))),
+        (block ((SSetStep st_stateExpectKeyword) :: (SRetNil :: []))),
+        (block ((SIf ((CByte (Npos (XI (XI (XO (XO (XO XH))))))),
+          (block (SPushCur :: ((SSetStep
+            st_stateCommentStarted) :: (SRetNil :: [])))),
+          (block ((SRetErr ((String ((Ascii (true, false, false, false,
+            false, true, true, false)), (String ((Ascii (false, true, true,
+            false, false, true, true, false)), (String ((Ascii (false, false,
+            true, false, true, true, true, false)), (String ((Ascii (true,
+            false, true, false, false, true, true, false)), (String ((Ascii
+            (false, true, false, false, true, true, true, false)), (String
+            ((Ascii (false, false, false, false, false, true, false, false)),
+            (String ((Ascii (false, true, false, false, false, true, true,
+            false)), (String ((Ascii (true, true, true, true, false, true,
+            true, false)), (String ((Ascii (false, false, true, false, false,
+            true, true, false)), (String ((Ascii (true, false, false, true,
+            true, true, true, false)), EmptyString)))))))))))))))))))),
+            EmptyString)) :: [])))) :: [])))) :: [])))) :: []))) :: (((String
+    ((Ascii (true, true, false, false, true, true, true, false)), (String
+    ((Ascii (false, false, true, false, true, true, true, false)), (String
+    ((Ascii (true, false, false, false, false, true, true, false)), (String
+    ((Ascii (false, false, true, false, true, true, true, false)), (String
+    ((Ascii (true, false, true, false, false, true, true, false)), (String
+    ((Ascii (true, true, false, false, false, false, true, false)), (String
+    ((Ascii (true, true, true, true, false, true, true, false)), (String
+    ((Ascii (true, false, true, true, false, true, true, false)), (String
+    ((Ascii (true, false, true, true, false, true, true, false)), (String
+    ((Ascii (true, false, true, false, false, true, true, false)), (String
+    ((Ascii (false, true, true, true, false, true, true, false)), (String
+    ((Ascii (false, false, true, false, true, true, true, false)), (String
+    ((Ascii (false, true, false, false, false, false, true, false)), (String
+    ((Ascii (false, false, true, true, false, true, true, false)), (String
+    ((Ascii (true, true, true, true, false, true, true, false)), (String
+    ((Ascii (true, true, false, false, false, true, true, false)), (String
+    ((Ascii (true, true, false, true, false, true, true, false)),
+    EmptyString)))))))))))))))))))))))))))))))))),
+    (block ((SIf ((CByte N0),
+      (block ((SRetErr ((String ((Ascii (false, true, true, true, false,
+        true, true, false)), (String ((Ascii (true, true, true, true, false,
+        true, true, false)), (String ((Ascii (false, false, true, false,
+        true, true, true, false)), (String ((Ascii (false, false, false,
+        false, false, true, false, false)), (String ((Ascii (false, true,
+        true, false, false, true, true, false)), (String ((Ascii (true, true,
+        true, true, false, true, true, false)), (String ((Ascii (true, false,
+        true, false, true, true, true, false)), (String ((Ascii (false, true,
+        true, true, false, true, true, false)), (String ((Ascii (false,
+        false, true, false, false, true, true, false)), (String ((Ascii
+        (false, false, false, false, false, true, false, false)), (String
+        ((Ascii (false, true, false, false, false, true, true, false)),
+        (String ((Ascii (true, true, true, true, false, true, true, false)),
+        (String ((Ascii (true, false, true, false, true, true, true, false)),
+        (String ((Ascii (false, true, true, true, false, true, true, false)),
+        (String ((Ascii (false, false, true, false, false, true, true,
+        false)), (String ((Ascii (true, false, false, false, false, true,
+        true, false)), (String ((Ascii (false, true, false, false, true,
+        true, true, false)), (String ((Ascii (true, false, false, true, true,
+        true, true, false)), (String ((Ascii (false, false, false, false,
+        false, true, false, false)), (String ((Ascii (true, false, true,
+        false, false, true, true, false)), (String ((Ascii (false, true,
+        true, true, false, true, true, false)), (String ((Ascii (false,
+        false, true, false, false, true, true, false)), (String ((Ascii
+        (false, false, false, false, false, true, false, false)), (String
+        ((Ascii (true, true, false, false, true, true, true, false)), (String
+        ((Ascii (true, false, false, true, true, true, true, false)), (String
+        ((Ascii (true, false, true, true, false, true, true, false)), (String
+        ((Ascii (false, true, false, false, false, true, true, false)),
+        (String ((Ascii (true, true, true, true, false, true, true, false)),
+        (String ((Ascii (false, false, true, true, false, true, true,
+        false)), (String ((Ascii (true, true, false, false, true, true, true,
+        false)),
+        EmptyString)))))))))))))))))))))))))))))))))))))))))))))))))))))))))))),
+        (String ((Ascii (true, true, false, false, false, true, false,
+        false)), (String ((Ascii (true, true, false, false, false, true,
+        false, false)), (String ((Ascii (true, true, false, false, false,
+        true, false, false)), EmptyString)))))))) :: [])),
+      (block ((SIf ((CByte (Npos (XI (XI (XO (XO (XO XH))))))),
+        (block ((SSetStep st_stateCommentOnceClosed) :: (SRetNil :: []))),
+        (block (SRetNil :: [])))) :: [])))) :: []))) :: (((String ((Ascii
     (true, true, false, false, true, true, true, false)), (String ((Ascii
     (false, false, true, false, true, true, true, false)), (String ((Ascii
     (true, false, false, false, false, true, true, false)), (String ((Ascii
@@ -3081,98 +3167,42 @@ let prog_table =
     (true, false, true, false, false, true, true, false)), (String ((Ascii
     (false, true, true, true, false, true, true, false)), (String ((Ascii
     (false, false, true, false, true, true, true, false)), (String ((Ascii
-    (false, true, false, false, false, false, true, false)), (String ((Ascii
-    (false, false, true, true, false, true, true, false)), (String ((Ascii
+    (false, false, true, false, false, false, true, false)), (String ((Ascii
     (true, true, true, true, false, true, true, false)), (String ((Ascii
-    (true, true, false, false, false, true, true, false)), (String ((Ascii
-    (true, true, false, true, false, true, true, false)),
-    EmptyString)))))))))))))))))))))))))))))))))), ((SIf ((CByte N0),
-    ((SRetErr ((String ((Ascii (false, true, true, true, false, true, true,
-    false)), (String ((Ascii (true, true, true, true, false, true, true,
-    false)), (String ((Ascii (false, false, true, false, true, true, true,
-    false)), (String ((Ascii (false, false, false, false, false, true, false,
-    false)), (String ((Ascii (false, true, true, false, false, true, true,
-    false)), (String ((Ascii (true, true, true, true, false, true, true,
-    false)), (String ((Ascii (true, false, true, false, true, true, true,
-    false)), (String ((Ascii (false, true, true, true, false, true, true,
-    false)), (String ((Ascii (false, false, true, false, false, true, true,
-    false)), (String ((Ascii (false, false, false, false, false, true, false,
-    false)), (String ((Ascii (false, true, false, false, false, true, true,
-    false)), (String ((Ascii (true, true, true, true, false, true, true,
-    false)), (String ((Ascii (true, false, true, false, true, true, true,
-    false)), (String ((Ascii (false, true, true, true, false, true, true,
-    false)), (String ((Ascii (false, false, true, false, false, true, true,
-    false)), (String ((Ascii (true, false, false, false, false, true, true,
-    false)), (String ((Ascii (false, true, false, false, true, true, true,
-    false)), (String ((Ascii (true, false, false, true, true, true, true,
-    false)), (String ((Ascii (false, false, false, false, false, true, false,
-    false)), (String ((Ascii (true, false, true, false, false, true, true,
-    false)), (String ((Ascii (false, true, true, true, false, true, true,
-    false)), (String ((Ascii (false, false, true, false, false, true, true,
-    false)), (String ((Ascii (false, false, false, false, false, true, false,
-    false)), (String ((Ascii (true, true, false, false, true, true, true,
-    false)), (String ((Ascii (true, false, false, true, true, true, true,
-    false)), (String ((Ascii (true, false, true, true, false, true, true,
-    false)), (String ((Ascii (false, true, false, false, false, true, true,
-    false)), (String ((Ascii (true, true, true, true, false, true, true,
-    false)), (String ((Ascii (false, false, true, true, false, true, true,
-    false)), (String ((Ascii (true, true, false, false, true, true, true,
-    false)),
-    EmptyString)))))))))))))))))))))))))))))))))))))))))))))))))))))))))))),
-    (String ((Ascii (true, true, false, false, false, true, false, false)),
-    (String ((Ascii (true, true, false, false, false, true, false, false)),
-    (String ((Ascii (true, true, false, false, false, true, false, false)),
-    EmptyString)))))))) :: []), ((SIf ((CByte (Npos (XI (XI (XO (XO (XO
-    XH))))))), ((SSetStep st_stateCommentOnceClosed) :: (SRetNil :: [])),
-    (SRetNil :: []))) :: []))) :: [])) :: (((String ((Ascii (true, true,
-    false, false, true, true, true, false)), (String ((Ascii (false, false,
-    true, false, true, true, true, false)), (String ((Ascii (true, false,
-    false, false, false, true, true, false)), (String ((Ascii (false, false,
-    true, false, true, true, true, false)), (String ((Ascii (true, false,
-    true, false, false, true, true, false)), (String ((Ascii (true, true,
-    false, false, false, false, true, false)), (String ((Ascii (true, true,
-    true, true, false, true, true, false)), (String ((Ascii (true, false,
-    true, true, false, true, true, false)), (String ((Ascii (true, false,
-    true, true, false, true, true, false)), (String ((Ascii (true, false,
-    true, false, false, true, true, false)), (String ((Ascii (false, true,
-    true, true, false, true, true, false)), (String ((Ascii (false, false,
-    true, false, true, true, true, false)), (String ((Ascii (false, false,
-    true, false, false, false, true, false)), (String ((Ascii (true, true,
-    true, true, false, true, true, false)), (String ((Ascii (true, false,
-    true, false, true, true, true, false)), (String ((Ascii (false, true,
-    false, false, false, true, true, false)), (String ((Ascii (false, false,
-    true, true, false, true, true, false)), (String ((Ascii (true, false,
-    true, false, false, true, true, false)),
-    EmptyString)))))))))))))))))))))))))))))))))))), ((SIf ((CByte (Npos (XI
-    (XI (XO (XO (XO XH))))))), ((SSetStep
-    st_stateCommentBlock) :: (SRetNil :: [])), ((SRetCall
-    st_stateSingleComment) :: []))) :: [])) :: (((String ((Ascii (true, true,
-    false, false, true, true, true, false)), (String ((Ascii (false, false,
-    true, false, true, true, true, false)), (String ((Ascii (true, false,
-    false, false, false, true, true, false)), (String ((Ascii (false, false,
-    true, false, true, true, true, false)), (String ((Ascii (true, false,
-    true, false, false, true, true, false)), (String ((Ascii (true, true,
-    false, false, false, false, true, false)), (String ((Ascii (true, true,
-    true, true, false, true, true, false)), (String ((Ascii (true, false,
-    true, true, false, true, true, false)), (String ((Ascii (true, false,
-    true, true, false, true, true, false)), (String ((Ascii (true, false,
-    true, false, false, true, true, false)), (String ((Ascii (false, true,
-    true, true, false, true, true, false)), (String ((Ascii (false, false,
-    true, false, true, true, true, false)), (String ((Ascii (true, true,
-    true, true, false, false, true, false)), (String ((Ascii (false, true,
-    true, true, false, true, true, false)), (String ((Ascii (true, true,
-    false, false, false, true, true, false)), (String ((Ascii (true, false,
-    true, false, false, true, true, false)), (String ((Ascii (true, true,
-    false, false, false, false, true, false)), (String ((Ascii (false, false,
-    true, true, false, true, true, false)), (String ((Ascii (true, true,
-    true, true, false, true, true, false)), (String ((Ascii (true, true,
-    false, false, true, true, true, false)), (String ((Ascii (true, false,
-    true, false, false, true, true, false)), (String ((Ascii (false, false,
-    true, false, false, true, true, false)),
-    EmptyString)))))))))))))))))))))))))))))))))))))))))))), ((SIf ((CByte
-    (Npos (XI (XI (XO (XO (XO XH))))))), ((SSetStep
-    st_stateCommentTwiceClosed) :: (SRetNil :: [])), ((SSetStep
-    st_stateCommentBlock) :: (SRetRedispatch :: [])))) :: [])) :: (((String
+    (true, false, true, false, true, true, true, false)), (String ((Ascii
+    (false, true, false, false, false, true, true, false)), (String ((Ascii
+    (false, false, true, true, false, true, true, false)), (String ((Ascii
+    (true, false, true, false, false, true, true, false)),
+    EmptyString)))))))))))))))))))))))))))))))))))),
+    (block ((SIf ((CByte (Npos (XI (XI (XO (XO (XO XH))))))),
+      (block ((SSetStep st_stateCommentBlock) :: (SRetNil :: []))),
+      (block ((SRetCall st_stateSingleComment) :: [])))) :: []))) :: (((String
+    ((Ascii (true, true, false, false, true, true, true, false)), (String
+    ((Ascii (false, false, true, false, true, true, true, false)), (String
+    ((Ascii (true, false, false, false, false, true, true, false)), (String
+    ((Ascii (false, false, true, false, true, true, true, false)), (String
+    ((Ascii (true, false, true, false, false, true, true, false)), (String
+    ((Ascii (true, true, false, false, false, false, true, false)), (String
+    ((Ascii (true, true, true, true, false, true, true, false)), (String
+    ((Ascii (true, false, true, true, false, true, true, false)), (String
+    ((Ascii (true, false, true, true, false, true, true, false)), (String
+    ((Ascii (true, false, true, false, false, true, true, false)), (String
+    ((Ascii (false, true, true, true, false, true, true, false)), (String
+    ((Ascii (false, false, true, false, true, true, true, false)), (String
+    ((Ascii (true, true, true, true, false, false, true, false)), (String
+    ((Ascii (false, true, true, true, false, true, true, false)), (String
+    ((Ascii (true, true, false, false, false, true, true, false)), (String
+    ((Ascii (true, false, true, false, false, true, true, false)), (String
+    ((Ascii (true, true, false, false, false, false, true, false)), (String
+    ((Ascii (false, false, true, true, false, true, true, false)), (String
+    ((Ascii (true, true, true, true, false, true, true, false)), (String
+    ((Ascii (true, true, false, false, true, true, true, false)), (String
+    ((Ascii (true, false, true, false, false, true, true, false)), (String
+    ((Ascii (false, false, true, false, false, true, true, false)),
+    EmptyString)))))))))))))))))))))))))))))))))))))))))))),
+    (block ((SIf ((CByte (Npos (XI (XI (XO (XO (XO XH))))))),
+      (block ((SSetStep st_stateCommentTwiceClosed) :: (SRetNil :: []))),
+      (block ((SSetStep st_stateCommentBlock) :: (SRetRedispatch :: []))))) :: []))) :: (((String
     ((Ascii (true, true, false, false, true, true, true, false)), (String
     ((Ascii (false, false, true, false, true, true, true, false)), (String
     ((Ascii (true, false, false, false, false, true, true, false)), (String
@@ -3192,37 +3222,37 @@ let prog_table =
     ((Ascii (false, false, true, false, true, true, true, false)), (String
     ((Ascii (true, false, true, false, false, true, true, false)), (String
     ((Ascii (false, false, true, false, false, true, true, false)),
-    EmptyString)))))))))))))))))))))))))))))))))))))), ((SIf ((CByte (Npos
-    (XI (XI (XO (XO (XO XH))))))), ((SSetStep
-    st_stateCommentDouble) :: (SRetNil :: [])), ((SRetCall
-    st_stateSingleComment) :: []))) :: [])) :: (((String ((Ascii (true, true,
-    false, false, true, true, true, false)), (String ((Ascii (false, false,
-    true, false, true, true, true, false)), (String ((Ascii (true, false,
-    false, false, false, true, true, false)), (String ((Ascii (false, false,
-    true, false, true, true, true, false)), (String ((Ascii (true, false,
-    true, false, false, true, true, false)), (String ((Ascii (true, true,
-    false, false, false, false, true, false)), (String ((Ascii (true, true,
-    true, true, false, true, true, false)), (String ((Ascii (true, false,
-    true, true, false, true, true, false)), (String ((Ascii (true, false,
-    true, true, false, true, true, false)), (String ((Ascii (true, false,
-    true, false, false, true, true, false)), (String ((Ascii (false, true,
-    true, true, false, true, true, false)), (String ((Ascii (false, false,
-    true, false, true, true, true, false)), (String ((Ascii (false, false,
-    true, false, true, false, true, false)), (String ((Ascii (true, true,
-    true, false, true, true, true, false)), (String ((Ascii (true, false,
-    false, true, false, true, true, false)), (String ((Ascii (true, true,
-    false, false, false, true, true, false)), (String ((Ascii (true, false,
-    true, false, false, true, true, false)), (String ((Ascii (true, true,
-    false, false, false, false, true, false)), (String ((Ascii (false, false,
-    true, true, false, true, true, false)), (String ((Ascii (true, true,
-    true, true, false, true, true, false)), (String ((Ascii (true, true,
-    false, false, true, true, true, false)), (String ((Ascii (true, false,
-    true, false, false, true, true, false)), (String ((Ascii (false, false,
-    true, false, false, true, true, false)),
-    EmptyString)))))))))))))))))))))))))))))))))))))))))))))), ((SIf ((CByte
-    (Npos (XI (XI (XO (XO (XO XH))))))), (SPop :: (SRetNil :: [])),
-    ((SSetStep
-    st_stateCommentBlock) :: (SRetRedispatch :: [])))) :: [])) :: (((String
+    EmptyString)))))))))))))))))))))))))))))))))))))),
+    (block ((SIf ((CByte (Npos (XI (XI (XO (XO (XO XH))))))),
+      (block ((SSetStep st_stateCommentDouble) :: (SRetNil :: []))),
+      (block ((SRetCall st_stateSingleComment) :: [])))) :: []))) :: (((String
+    ((Ascii (true, true, false, false, true, true, true, false)), (String
+    ((Ascii (false, false, true, false, true, true, true, false)), (String
+    ((Ascii (true, false, false, false, false, true, true, false)), (String
+    ((Ascii (false, false, true, false, true, true, true, false)), (String
+    ((Ascii (true, false, true, false, false, true, true, false)), (String
+    ((Ascii (true, true, false, false, false, false, true, false)), (String
+    ((Ascii (true, true, true, true, false, true, true, false)), (String
+    ((Ascii (true, false, true, true, false, true, true, false)), (String
+    ((Ascii (true, false, true, true, false, true, true, false)), (String
+    ((Ascii (true, false, true, false, false, true, true, false)), (String
+    ((Ascii (false, true, true, true, false, true, true, false)), (String
+    ((Ascii (false, false, true, false, true, true, true, false)), (String
+    ((Ascii (false, false, true, false, true, false, true, false)), (String
+    ((Ascii (true, true, true, false, true, true, true, false)), (String
+    ((Ascii (true, false, false, true, false, true, true, false)), (String
+    ((Ascii (true, true, false, false, false, true, true, false)), (String
+    ((Ascii (true, false, true, false, false, true, true, false)), (String
+    ((Ascii (true, true, false, false, false, false, true, false)), (String
+    ((Ascii (false, false, true, true, false, true, true, false)), (String
+    ((Ascii (true, true, true, true, false, true, true, false)), (String
+    ((Ascii (true, true, false, false, true, true, true, false)), (String
+    ((Ascii (true, false, true, false, false, true, true, false)), (String
+    ((Ascii (false, false, true, false, false, true, true, false)),
+    EmptyString)))))))))))))))))))))))))))))))))))))))))))))),
+    (block ((SIf ((CByte (Npos (XI (XI (XO (XO (XO XH))))))),
+      (block (SPop :: (SRetNil :: []))),
+      (block ((SSetStep st_stateCommentBlock) :: (SRetRedispatch :: []))))) :: []))) :: (((String
     ((Ascii (true, true, false, false, true, true, true, false)), (String
     ((Ascii (false, false, true, false, true, true, true, false)), (String
     ((Ascii (true, false, false, false, false, true, true, false)), (String
@@ -3241,808 +3271,853 @@ let prog_table =
     ((Ascii (true, true, false, false, true, true, true, false)), (String
     ((Ascii (true, false, true, false, false, true, true, false)), (String
     ((Ascii (false, false, true, false, false, true, true, false)),
-    EmptyString)))))))))))))))))))))))))))))))))))), ((SIf ((COr
-    (CWhitespace, (CByte N0))), (SRetNil :: []), ((SIf (CNewLine, ((SSetStep
-    st_stateExpectKeyword) :: (SRetNil :: [])), ((SIf ((CByte (Npos (XI (XI
-    (XO (XO (XO XH))))))), (SPushCur :: ((SSetStep
-    st_stateCommentStarted) :: (SRetNil :: []))), ((SRetErr ((String ((Ascii
-    (true, false, false, false, false, true, true, false)), (String ((Ascii
-    (false, true, true, false, false, true, true, false)), (String ((Ascii
-    (false, false, true, false, true, true, true, false)), (String ((Ascii
-    (true, false, true, false, false, true, true, false)), (String ((Ascii
-    (false, true, false, false, true, true, true, false)), (String ((Ascii
-    (false, false, false, false, false, true, false, false)), (String ((Ascii
-    (true, false, true, false, false, true, true, false)), (String ((Ascii
-    (false, false, false, true, true, true, true, false)), (String ((Ascii
-    (false, false, false, false, true, true, true, false)), (String ((Ascii
-    (false, false, true, true, false, true, true, false)), (String ((Ascii
-    (true, false, false, true, false, true, true, false)), (String ((Ascii
-    (true, true, false, false, false, true, true, false)), (String ((Ascii
-    (true, false, false, true, false, true, true, false)), (String ((Ascii
-    (false, false, true, false, true, true, true, false)), (String ((Ascii
-    (false, false, false, false, false, true, false, false)), (String ((Ascii
-    (true, true, false, false, false, true, true, false)), (String ((Ascii
-    (true, true, true, true, false, true, true, false)), (String ((Ascii
-    (false, true, true, true, false, true, true, false)), (String ((Ascii
-    (false, false, true, false, true, true, true, false)), (String ((Ascii
-    (true, false, true, false, false, true, true, false)), (String ((Ascii
-    (false, false, false, true, true, true, true, false)), (String ((Ascii
-    (false, false, true, false, true, true, true, false)), (String ((Ascii
-    (false, false, false, false, false, true, false, false)), (String ((Ascii
-    (true, true, false, false, false, true, true, false)), (String ((Ascii
-    (false, false, true, true, false, true, true, false)), (String ((Ascii
-    (true, true, true, true, false, true, true, false)), (String ((Ascii
-    (true, true, false, false, true, true, true, false)), (String ((Ascii
-    (true, false, true, false, false, true, true, false)),
-    EmptyString)))))))))))))))))))))))))))))))))))))))))))))))))))))))),
-    EmptyString)) :: []))) :: []))) :: []))) :: [])) :: (((String ((Ascii
-    (true, true, false, false, true, true, true, false)), (String ((Ascii
-    (false, false, true, false, true, true, true, false)), (String ((Ascii
-    (true, false, false, false, false, true, true, false)), (String ((Ascii
-    (false, false, true, false, true, true, true, false)), (String ((Ascii
-    (true, false, true, false, false, true, true, false)), (String ((Ascii
-    (true, true, false, false, false, false, true, false)), (String ((Ascii
-    (true, true, true, true, false, true, true, false)), (String ((Ascii
-    (false, true, true, true, false, true, true, false)), (String ((Ascii
-    (false, false, true, false, true, true, true, false)), (String ((Ascii
-    (true, false, true, false, false, true, true, false)), (String ((Ascii
-    (false, false, false, true, true, true, true, false)), (String ((Ascii
-    (false, false, true, false, true, true, true, false)), (String ((Ascii
-    (true, true, true, true, false, false, true, false)), (String ((Ascii
-    (false, false, false, false, true, true, true, false)), (String ((Ascii
-    (true, false, true, false, false, true, true, false)), (String ((Ascii
-    (false, true, true, true, false, true, true, false)), (String ((Ascii
-    (true, false, true, false, false, true, true, false)), (String ((Ascii
-    (false, false, true, false, false, true, true, false)), (String ((Ascii
-    (true, true, true, true, false, false, true, false)), (String ((Ascii
-    (false, true, true, true, false, true, true, false)), (String ((Ascii
-    (false, true, true, true, false, false, true, false)), (String ((Ascii
-    (true, false, true, false, false, true, true, false)), (String ((Ascii
-    (true, true, true, false, true, true, true, false)), (String ((Ascii
-    (false, false, true, true, false, true, true, false)), (String ((Ascii
-    (true, false, false, true, false, true, true, false)), (String ((Ascii
-    (false, true, true, true, false, true, true, false)), (String ((Ascii
-    (true, false, true, false, false, true, true, false)),
-    EmptyString)))))))))))))))))))))))))))))))))))))))))))))))))))))), ((SIf
-    (CWhitespace, (SRetNil :: []), ((SIf (CNewLine, ((SSetStep
-    st_stateExpectKeyword) :: (SRetNil :: [])), ((SIf ((CByte (Npos (XI (XI
-    (XO (XO (XO XH))))))), (SPushCur :: ((SSetStep
-    st_stateCommentStarted) :: (SRetNil :: []))), ((SRetErrBasic (String
-    ((Ascii (true, false, false, false, false, true, true, false)), (String
-    ((Ascii (false, false, false, false, true, true, true, false)), (String
-    ((Ascii (true, false, false, false, false, true, true, false)), (String
-    ((Ascii (false, true, false, false, true, true, true, false)), (String
-    ((Ascii (false, false, true, false, true, true, true, false)), (String
-    ((Ascii (false, false, false, false, false, true, false, false)), (String
-    ((Ascii (false, true, true, false, false, true, true, false)), (String
-    ((Ascii (false, true, false, false, true, true, true, false)), (String
-    ((Ascii (true, true, true, true, false, true, true, false)), (String
-    ((Ascii (true, false, true, true, false, true, true, false)), (String
-    ((Ascii (false, false, false, false, false, true, false, false)), (String
-    ((Ascii (false, false, true, false, true, true, true, false)), (String
-    ((Ascii (false, false, false, true, false, true, true, false)), (String
-    ((Ascii (true, false, true, false, false, true, true, false)), (String
-    ((Ascii (false, false, false, false, false, true, false, false)), (String
-    ((Ascii (true, true, true, true, false, true, true, false)), (String
-    ((Ascii (false, false, false, false, true, true, true, false)), (String
-    ((Ascii (true, false, true, false, false, true, true, false)), (String
-    ((Ascii (false, true, true, true, false, true, true, false)), (String
-    ((Ascii (true, false, false, true, false, true, true, false)), (String
-    ((Ascii (false, true, true, true, false, true, true, false)), (String
-    ((Ascii (true, true, true, false, false, true, true, false)), (String
-    ((Ascii (false, false, false, false, false, true, false, false)), (String
-    ((Ascii (false, false, false, false, true, true, true, false)), (String
-    ((Ascii (true, false, false, false, false, true, true, false)), (String
-    ((Ascii (false, true, false, false, true, true, true, false)), (String
-    ((Ascii (true, false, true, false, false, true, true, false)), (String
-    ((Ascii (false, true, true, true, false, true, true, false)), (String
-    ((Ascii (false, false, true, false, true, true, true, false)), (String
-    ((Ascii (false, false, false, true, false, true, true, false)), (String
-    ((Ascii (true, false, true, false, false, true, true, false)), (String
+    EmptyString)))))))))))))))))))))))))))))))))))),
+    (block ((SIf ((COr (CWhitespace, (CByte N0))), (block (SRetNil :: [])),
+      (block ((SIf (CNewLine,
+        (block ((SSetStep st_stateExpectKeyword) :: (SRetNil :: []))),
+        (block ((SIf ((CByte (Npos (XI (XI (XO (XO (XO XH))))))),
+          (block (SPushCur :: ((SSetStep
+            st_stateCommentStarted) :: (SRetNil :: [])))),
+          (block ((SRetErr ((String ((Ascii (true, false, false, false,
+            false, true, true, false)), (String ((Ascii (false, true, true,
+            false, false, true, true, false)), (String ((Ascii (false, false,
+            true, false, true, true, true, false)), (String ((Ascii (true,
+            false, true, false, false, true, true, false)), (String ((Ascii
+            (false, true, false, false, true, true, true, false)), (String
+            ((Ascii (false, false, false, false, false, true, false, false)),
+            (String ((Ascii (true, false, true, false, false, true, true,
+            false)), (String ((Ascii (false, false, false, true, true, true,
+            true, false)), (String ((Ascii (false, false, false, false, true,
+            true, true, false)), (String ((Ascii (false, false, true, true,
+            false, true, true, false)), (String ((Ascii (true, false, false,
+            true, false, true, true, false)), (String ((Ascii (true, true,
+            false, false, false, true, true, false)), (String ((Ascii (true,
+            false, false, true, false, true, true, false)), (String ((Ascii
+            (false, false, true, false, true, true, true, false)), (String
+            ((Ascii (false, false, false, false, false, true, false, false)),
+            (String ((Ascii (true, true, false, false, false, true, true,
+            false)), (String ((Ascii (true, true, true, true, false, true,
+            true, false)), (String ((Ascii (false, true, true, true, false,
+            true, true, false)), (String ((Ascii (false, false, true, false,
+            true, true, true, false)), (String ((Ascii (true, false, true,
+            false, false, true, true, false)), (String ((Ascii (false, false,
+            false, true, true, true, true, false)), (String ((Ascii (false,
+            false, true, false, true, true, true, false)), (String ((Ascii
+            (false, false, false, false, false, true, false, false)), (String
+            ((Ascii (true, true, false, false, false, true, true, false)),
+            (String ((Ascii (false, false, true, true, false, true, true,
+            false)), (String ((Ascii (true, true, true, true, false, true,
+            true, false)), (String ((Ascii (true, true, false, false, true,
+            true, true, false)), (String ((Ascii (true, false, true, false,
+            false, true, true, false)),
+            EmptyString)))))))))))))))))))))))))))))))))))))))))))))))))))))))),
+            EmptyString)) :: [])))) :: [])))) :: [])))) :: []))) :: (((String
     ((Ascii (true, true, false, false, true, true, true, false)), (String
-    ((Ascii (true, false, false, true, false, true, true, false)), (String
-    ((Ascii (true, true, false, false, true, true, true, false)), (String
-    ((Ascii (false, false, true, true, false, true, false, false)), (String
-    ((Ascii (false, false, false, false, false, true, false, false)), (String
     ((Ascii (false, false, true, false, true, true, true, false)), (String
-    ((Ascii (false, false, false, true, false, true, true, false)), (String
-    ((Ascii (true, false, true, false, false, true, true, false)), (String
-    ((Ascii (false, true, false, false, true, true, true, false)), (String
-    ((Ascii (true, false, true, false, false, true, true, false)), (String
-    ((Ascii (false, false, false, false, false, true, false, false)), (String
-    ((Ascii (true, true, false, false, true, true, true, false)), (String
-    ((Ascii (false, false, false, true, false, true, true, false)), (String
-    ((Ascii (true, true, true, true, false, true, true, false)), (String
-    ((Ascii (true, false, true, false, true, true, true, false)), (String
-    ((Ascii (false, false, true, true, false, true, true, false)), (String
-    ((Ascii (false, false, true, false, false, true, true, false)), (String
-    ((Ascii (false, false, false, false, false, true, false, false)), (String
-    ((Ascii (false, true, false, false, false, true, true, false)), (String
-    ((Ascii (true, false, true, false, false, true, true, false)), (String
-    ((Ascii (false, false, false, false, false, true, false, false)), (String
-    ((Ascii (false, true, true, true, false, true, true, false)), (String
-    ((Ascii (true, true, true, true, false, true, true, false)), (String
-    ((Ascii (false, false, true, false, true, true, true, false)), (String
-    ((Ascii (false, false, false, true, false, true, true, false)), (String
-    ((Ascii (true, false, false, true, false, true, true, false)), (String
-    ((Ascii (false, true, true, true, false, true, true, false)), (String
-    ((Ascii (true, true, true, false, false, true, true, false)), (String
-    ((Ascii (false, false, false, false, false, true, false, false)), (String
-    ((Ascii (true, false, true, false, false, true, true, false)), (String
-    ((Ascii (false, false, true, true, false, true, true, false)), (String
-    ((Ascii (true, true, false, false, true, true, true, false)), (String
-    ((Ascii (true, false, true, false, false, true, true, false)), (String
-    ((Ascii (false, false, false, false, false, true, false, false)), (String
-    ((Ascii (true, true, true, true, false, true, true, false)), (String
-    ((Ascii (false, true, true, true, false, true, true, false)), (String
-    ((Ascii (false, false, false, false, false, true, false, false)), (String
-    ((Ascii (false, false, true, false, true, true, true, false)), (String
-    ((Ascii (false, false, false, true, false, true, true, false)), (String
-    ((Ascii (true, false, false, true, false, true, true, false)), (String
-    ((Ascii (true, true, false, false, true, true, true, false)), (String
-    ((Ascii (false, false, false, false, false, true, false, false)), (String
-    ((Ascii (false, false, true, true, false, true, true, false)), (String
-    ((Ascii (true, false, false, true, false, true, true, false)), (String
-    ((Ascii (false, true, true, true, false, true, true, false)), (String
-    ((Ascii (true, false, true, false, false, true, true, false)), (String
-    ((Ascii (false, false, true, true, false, true, false, false)), (String
-    ((Ascii (false, false, false, false, false, true, false, false)), (String
-    ((Ascii (false, false, true, true, false, true, true, false)), (String
-    ((Ascii (true, false, true, false, false, true, true, false)), (String
     ((Ascii (true, false, false, false, false, true, true, false)), (String
-    ((Ascii (false, true, false, false, true, true, true, false)), (String
+    ((Ascii (false, false, true, false, true, true, true, false)), (String
+    ((Ascii (true, false, true, false, false, true, true, false)), (String
+    ((Ascii (true, true, false, false, false, false, true, false)), (String
+    ((Ascii (true, true, true, true, false, true, true, false)), (String
     ((Ascii (false, true, true, true, false, true, true, false)), (String
-    ((Ascii (false, false, false, false, false, true, false, false)), (String
-    ((Ascii (true, false, true, true, false, true, true, false)), (String
-    ((Ascii (true, true, true, true, false, true, true, false)), (String
-    ((Ascii (false, true, false, false, true, true, true, false)), (String
-    ((Ascii (true, false, true, false, false, true, true, false)), (String
-    ((Ascii (false, false, false, false, false, true, false, false)), (String
-    ((Ascii (true, false, false, false, false, true, true, false)), (String
-    ((Ascii (false, true, false, false, false, true, true, false)), (String
-    ((Ascii (true, true, true, true, false, true, true, false)), (String
-    ((Ascii (true, false, true, false, true, true, true, false)), (String
     ((Ascii (false, false, true, false, true, true, true, false)), (String
-    ((Ascii (false, false, false, false, false, true, false, false)), (String
-    ((Ascii (false, false, true, false, true, true, true, false)), (String
-    ((Ascii (false, false, false, true, false, true, true, false)), (String
-    ((Ascii (true, false, true, false, false, true, true, false)), (String
-    ((Ascii (false, false, false, false, false, true, false, false)), (String
     ((Ascii (true, false, true, false, false, true, true, false)), (String
     ((Ascii (false, false, false, true, true, true, true, false)), (String
+    ((Ascii (false, false, true, false, true, true, true, false)), (String
+    ((Ascii (true, true, true, true, false, false, true, false)), (String
     ((Ascii (false, false, false, false, true, true, true, false)), (String
+    ((Ascii (true, false, true, false, false, true, true, false)), (String
+    ((Ascii (false, true, true, true, false, true, true, false)), (String
+    ((Ascii (true, false, true, false, false, true, true, false)), (String
+    ((Ascii (false, false, true, false, false, true, true, false)), (String
+    ((Ascii (true, true, true, true, false, false, true, false)), (String
+    ((Ascii (false, true, true, true, false, true, true, false)), (String
+    ((Ascii (false, true, true, true, false, false, true, false)), (String
+    ((Ascii (true, false, true, false, false, true, true, false)), (String
+    ((Ascii (true, true, true, false, true, true, true, false)), (String
     ((Ascii (false, false, true, true, false, true, true, false)), (String
     ((Ascii (true, false, false, true, false, true, true, false)), (String
-    ((Ascii (true, true, false, false, false, true, true, false)), (String
-    ((Ascii (true, false, false, true, false, true, true, false)), (String
-    ((Ascii (false, false, true, false, true, true, true, false)), (String
-    ((Ascii (false, false, false, false, false, true, false, false)), (String
-    ((Ascii (false, false, true, false, false, true, true, false)), (String
-    ((Ascii (true, false, false, true, false, true, true, false)), (String
-    ((Ascii (false, true, false, false, true, true, true, false)), (String
-    ((Ascii (true, false, true, false, false, true, true, false)), (String
-    ((Ascii (true, true, false, false, false, true, true, false)), (String
-    ((Ascii (true, false, false, true, false, true, true, false)), (String
-    ((Ascii (false, false, true, false, true, true, true, false)), (String
-    ((Ascii (false, true, true, false, true, true, true, false)), (String
-    ((Ascii (true, false, true, false, false, true, true, false)), (String
-    ((Ascii (false, false, false, false, false, true, false, false)), (String
-    ((Ascii (false, true, false, false, false, true, true, false)), (String
-    ((Ascii (true, true, true, true, false, true, true, false)), (String
-    ((Ascii (true, false, true, false, true, true, true, false)), (String
     ((Ascii (false, true, true, true, false, true, true, false)), (String
-    ((Ascii (false, false, true, false, false, true, true, false)), (String
-    ((Ascii (true, false, false, false, false, true, true, false)), (String
-    ((Ascii (false, true, false, false, true, true, true, false)), (String
-    ((Ascii (true, false, false, true, false, true, true, false)), (String
-    ((Ascii (true, false, true, false, false, true, true, false)), (String
-    ((Ascii (true, true, false, false, true, true, true, false)), (String
-    ((Ascii (false, false, false, false, false, true, false, false)), (String
-    ((Ascii (false, false, false, true, false, true, true, false)), (String
-    ((Ascii (true, false, true, false, false, true, true, false)), (String
-    ((Ascii (false, true, false, false, true, true, true, false)), (String
-    ((Ascii (true, false, true, false, false, true, true, false)), (String
-    ((Ascii (false, true, false, true, true, true, false, false)), (String
-    ((Ascii (false, false, false, false, false, true, false, false)), (String
-    ((Ascii (false, false, false, true, false, true, true, false)), (String
-    ((Ascii (false, false, true, false, true, true, true, false)), (String
-    ((Ascii (false, false, true, false, true, true, true, false)), (String
-    ((Ascii (false, false, false, false, true, true, true, false)), (String
-    ((Ascii (true, true, false, false, true, true, true, false)), (String
-    ((Ascii (false, true, false, true, true, true, false, false)), (String
-    ((Ascii (true, true, true, true, false, true, false, false)), (String
-    ((Ascii (true, true, true, true, false, true, false, false)), (String
-    ((Ascii (false, true, false, true, false, true, true, false)), (String
-    ((Ascii (true, true, false, false, true, true, true, false)), (String
-    ((Ascii (true, false, false, true, false, true, true, false)), (String
-    ((Ascii (true, true, true, false, false, true, true, false)), (String
-    ((Ascii (false, false, false, true, false, true, true, false)), (String
-    ((Ascii (false, false, true, false, true, true, true, false)), (String
-    ((Ascii (false, true, true, true, false, true, false, false)), (String
-    ((Ascii (true, false, false, true, false, true, true, false)), (String
-    ((Ascii (true, true, true, true, false, true, true, false)), (String
-    ((Ascii (true, true, true, true, false, true, false, false)), (String
-    ((Ascii (false, false, true, false, false, true, true, false)), (String
-    ((Ascii (true, true, true, true, false, true, true, false)), (String
-    ((Ascii (true, true, false, false, false, true, true, false)), (String
-    ((Ascii (true, true, false, false, true, true, true, false)), (String
-    ((Ascii (true, true, true, true, false, true, false, false)), (String
-    ((Ascii (false, true, false, true, false, true, true, false)), (String
-    ((Ascii (true, true, false, false, true, true, true, false)), (String
-    ((Ascii (true, false, false, true, false, true, true, false)), (String
-    ((Ascii (true, true, true, false, false, true, true, false)), (String
-    ((Ascii (false, false, false, true, false, true, true, false)), (String
-    ((Ascii (false, false, true, false, true, true, true, false)), (String
-    ((Ascii (true, false, true, true, false, true, false, false)), (String
-    ((Ascii (true, false, false, false, false, true, true, false)), (String
-    ((Ascii (false, false, false, false, true, true, true, false)), (String
-    ((Ascii (true, false, false, true, false, true, true, false)), (String
-    ((Ascii (true, false, true, true, false, true, false, false)), (String
-    ((Ascii (false, false, false, false, true, true, false, false)), (String
-    ((Ascii (true, false, true, true, false, true, false, false)), (String
-    ((Ascii (true, true, false, false, true, true, false, false)), (String
-    ((Ascii (true, true, false, false, false, true, false, false)), (String
-    ((Ascii (false, true, false, false, false, true, true, false)), (String
-    ((Ascii (true, true, true, true, false, true, true, false)), (String
-    ((Ascii (true, false, true, false, true, true, true, false)), (String
-    ((Ascii (false, true, true, true, false, true, true, false)), (String
-    ((Ascii (false, false, true, false, false, true, true, false)), (String
-    ((Ascii (true, false, false, false, false, true, true, false)), (String
-    ((Ascii (false, true, false, false, true, true, true, false)), (String
-    ((Ascii (true, false, false, true, false, true, true, false)), (String
-    ((Ascii (true, false, true, false, false, true, true, false)), (String
-    ((Ascii (true, true, false, false, true, true, true, false)), (String
-    ((Ascii (true, false, true, true, false, true, false, false)), (String
-    ((Ascii (true, true, true, true, false, true, true, false)), (String
-    ((Ascii (false, true, true, false, false, true, true, false)), (String
-    ((Ascii (true, false, true, true, false, true, false, false)), (String
-    ((Ascii (false, false, true, false, true, true, true, false)), (String
-    ((Ascii (false, false, false, true, false, true, true, false)), (String
-    ((Ascii (true, false, true, false, false, true, true, false)), (String
-    ((Ascii (true, false, true, true, false, true, false, false)), (String
-    ((Ascii (false, true, false, false, false, true, true, false)), (String
-    ((Ascii (true, true, true, true, false, true, true, false)), (String
-    ((Ascii (false, false, true, false, false, true, true, false)), (String
-    ((Ascii (true, false, false, true, true, true, true, false)), (String
-    ((Ascii (true, false, true, true, false, true, false, false)), (String
-    ((Ascii (true, true, true, true, false, true, true, false)), (String
-    ((Ascii (false, true, true, false, false, true, true, false)), (String
-    ((Ascii (true, false, true, true, false, true, false, false)), (String
-    ((Ascii (false, false, true, false, true, true, true, false)), (String
-    ((Ascii (false, false, false, true, false, true, true, false)), (String
-    ((Ascii (true, false, true, false, false, true, true, false)), (String
-    ((Ascii (true, false, true, true, false, true, false, false)), (String
-    ((Ascii (false, false, true, false, false, true, true, false)), (String
-    ((Ascii (true, false, false, true, false, true, true, false)), (String
-    ((Ascii (false, true, false, false, true, true, true, false)), (String
-    ((Ascii (true, false, true, false, false, true, true, false)), (String
-    ((Ascii (true, true, false, false, false, true, true, false)), (String
-    ((Ascii (false, false, true, false, true, true, true, false)), (String
-    ((Ascii (true, false, false, true, false, true, true, false)), (String
-    ((Ascii (false, true, true, false, true, true, true, false)), (String
     ((Ascii (true, false, true, false, false, true, true, false)),
-    EmptyString))))))))))))))))))))))))))))))))))))))))))))))))))))))))))))))))))))))))))))))))))))))))))))))))))))))))))))))))))))))))))))))))))))))))))))))))))))))))))))))))))))))))))))))))))))))))))))))))))))))))))))))))))))))))))))))))))))))))))))))))))))))))))))))))))))))))))))))))))))))))))))))))))))))))))))))))))))))))))))))))))))))))))))))))))))))))))))))))))))))))))))))))))))))))))))))))))))))))))))))))))))))))))))))))))))))))))) :: []))) :: []))) :: []))) :: [])) :: (((String
+    EmptyString)))))))))))))))))))))))))))))))))))))))))))))))))))))),
+    (block ((SIf (CWhitespace, (block (SRetNil :: [])),
+      (block ((SIf (CNewLine,
+        (block ((SSetStep st_stateExpectKeyword) :: (SRetNil :: []))),
+        (block ((SIf ((CByte (Npos (XI (XI (XO (XO (XO XH))))))),
+          (block (SPushCur :: ((SSetStep
+            st_stateCommentStarted) :: (SRetNil :: [])))),
+          (block ((SRetErrBasic (String ((Ascii (true, false, false, false,
+            false, true, true, false)), (String ((Ascii (false, false, false,
+            false, true, true, true, false)), (String ((Ascii (true, false,
+            false, false, false, true, true, false)), (String ((Ascii (false,
+            true, false, false, true, true, true, false)), (String ((Ascii
+            (false, false, true, false, true, true, true, false)), (String
+            ((Ascii (false, false, false, false, false, true, false, false)),
+            (String ((Ascii (false, true, true, false, false, true, true,
+            false)), (String ((Ascii (false, true, false, false, true, true,
+            true, false)), (String ((Ascii (true, true, true, true, false,
+            true, true, false)), (String ((Ascii (true, false, true, true,
+            false, true, true, false)), (String ((Ascii (false, false, false,
+            false, false, true, false, false)), (String ((Ascii (false,
+            false, true, false, true, true, true, false)), (String ((Ascii
+            (false, false, false, true, false, true, true, false)), (String
+            ((Ascii (true, false, true, false, false, true, true, false)),
+            (String ((Ascii (false, false, false, false, false, true, false,
+            false)), (String ((Ascii (true, true, true, true, false, true,
+            true, false)), (String ((Ascii (false, false, false, false, true,
+            true, true, false)), (String ((Ascii (true, false, true, false,
+            false, true, true, false)), (String ((Ascii (false, true, true,
+            true, false, true, true, false)), (String ((Ascii (true, false,
+            false, true, false, true, true, false)), (String ((Ascii (false,
+            true, true, true, false, true, true, false)), (String ((Ascii
+            (true, true, true, false, false, true, true, false)), (String
+            ((Ascii (false, false, false, false, false, true, false, false)),
+            (String ((Ascii (false, false, false, false, true, true, true,
+            false)), (String ((Ascii (true, false, false, false, false, true,
+            true, false)), (String ((Ascii (false, true, false, false, true,
+            true, true, false)), (String ((Ascii (true, false, true, false,
+            false, true, true, false)), (String ((Ascii (false, true, true,
+            true, false, true, true, false)), (String ((Ascii (false, false,
+            true, false, true, true, true, false)), (String ((Ascii (false,
+            false, false, true, false, true, true, false)), (String ((Ascii
+            (true, false, true, false, false, true, true, false)), (String
+            ((Ascii (true, true, false, false, true, true, true, false)),
+            (String ((Ascii (true, false, false, true, false, true, true,
+            false)), (String ((Ascii (true, true, false, false, true, true,
+            true, false)), (String ((Ascii (false, false, true, true, false,
+            true, false, false)), (String ((Ascii (false, false, false,
+            false, false, true, false, false)), (String ((Ascii (false,
+            false, true, false, true, true, true, false)), (String ((Ascii
+            (false, false, false, true, false, true, true, false)), (String
+            ((Ascii (true, false, true, false, false, true, true, false)),
+            (String ((Ascii (false, true, false, false, true, true, true,
+            false)), (String ((Ascii (true, false, true, false, false, true,
+            true, false)), (String ((Ascii (false, false, false, false,
+            false, true, false, false)), (String ((Ascii (true, true, false,
+            false, true, true, true, false)), (String ((Ascii (false, false,
+            false, true, false, true, true, false)), (String ((Ascii (true,
+            true, true, true, false, true, true, false)), (String ((Ascii
+            (true, false, true, false, true, true, true, false)), (String
+            ((Ascii (false, false, true, true, false, true, true, false)),
+            (String ((Ascii (false, false, true, false, false, true, true,
+            false)), (String ((Ascii (false, false, false, false, false,
+            true, false, false)), (String ((Ascii (false, true, false, false,
+            false, true, true, false)), (String ((Ascii (true, false, true,
+            false, false, true, true, false)), (String ((Ascii (false, false,
+            false, false, false, true, false, false)), (String ((Ascii
+            (false, true, true, true, false, true, true, false)), (String
+            ((Ascii (true, true, true, true, false, true, true, false)),
+            (String ((Ascii (false, false, true, false, true, true, true,
+            false)), (String ((Ascii (false, false, false, true, false, true,
+            true, false)), (String ((Ascii (true, false, false, true, false,
+            true, true, false)), (String ((Ascii (false, true, true, true,
+            false, true, true, false)), (String ((Ascii (true, true, true,
+            false, false, true, true, false)), (String ((Ascii (false, false,
+            false, false, false, true, false, false)), (String ((Ascii (true,
+            false, true, false, false, true, true, false)), (String ((Ascii
+            (false, false, true, true, false, true, true, false)), (String
+            ((Ascii (true, true, false, false, true, true, true, false)),
+            (String ((Ascii (true, false, true, false, false, true, true,
+            false)), (String ((Ascii (false, false, false, false, false,
+            true, false, false)), (String ((Ascii (true, true, true, true,
+            false, true, true, false)), (String ((Ascii (false, true, true,
+            true, false, true, true, false)), (String ((Ascii (false, false,
+            false, false, false, true, false, false)), (String ((Ascii
+            (false, false, true, false, true, true, true, false)), (String
+            ((Ascii (false, false, false, true, false, true, true, false)),
+            (String ((Ascii (true, false, false, true, false, true, true,
+            false)), (String ((Ascii (true, true, false, false, true, true,
+            true, false)), (String ((Ascii (false, false, false, false,
+            false, true, false, false)), (String ((Ascii (false, false, true,
+            true, false, true, true, false)), (String ((Ascii (true, false,
+            false, true, false, true, true, false)), (String ((Ascii (false,
+            true, true, true, false, true, true, false)), (String ((Ascii
+            (true, false, true, false, false, true, true, false)), (String
+            ((Ascii (false, false, true, true, false, true, false, false)),
+            (String ((Ascii (false, false, false, false, false, true, false,
+            false)), (String ((Ascii (false, false, true, true, false, true,
+            true, false)), (String ((Ascii (true, false, true, false, false,
+            true, true, false)), (String ((Ascii (true, false, false, false,
+            false, true, true, false)), (String ((Ascii (false, true, false,
+            false, true, true, true, false)), (String ((Ascii (false, true,
+            true, true, false, true, true, false)), (String ((Ascii (false,
+            false, false, false, false, true, false, false)), (String ((Ascii
+            (true, false, true, true, false, true, true, false)), (String
+            ((Ascii (true, true, true, true, false, true, true, false)),
+            (String ((Ascii (false, true, false, false, true, true, true,
+            false)), (String ((Ascii (true, false, true, false, false, true,
+            true, false)), (String ((Ascii (false, false, false, false,
+            false, true, false, false)), (String ((Ascii (true, false, false,
+            false, false, true, true, false)), (String ((Ascii (false, true,
+            false, false, false, true, true, false)), (String ((Ascii (true,
+            true, true, true, false, true, true, false)), (String ((Ascii
+            (true, false, true, false, true, true, true, false)), (String
+            ((Ascii (false, false, true, false, true, true, true, false)),
+            (String ((Ascii (false, false, false, false, false, true, false,
+            false)), (String ((Ascii (false, false, true, false, true, true,
+            true, false)), (String ((Ascii (false, false, false, true, false,
+            true, true, false)), (String ((Ascii (true, false, true, false,
+            false, true, true, false)), (String ((Ascii (false, false, false,
+            false, false, true, false, false)), (String ((Ascii (true, false,
+            true, false, false, true, true, false)), (String ((Ascii (false,
+            false, false, true, true, true, true, false)), (String ((Ascii
+            (false, false, false, false, true, true, true, false)), (String
+            ((Ascii (false, false, true, true, false, true, true, false)),
+            (String ((Ascii (true, false, false, true, false, true, true,
+            false)), (String ((Ascii (true, true, false, false, false, true,
+            true, false)), (String ((Ascii (true, false, false, true, false,
+            true, true, false)), (String ((Ascii (false, false, true, false,
+            true, true, true, false)), (String ((Ascii (false, false, false,
+            false, false, true, false, false)), (String ((Ascii (false,
+            false, true, false, false, true, true, false)), (String ((Ascii
+            (true, false, false, true, false, true, true, false)), (String
+            ((Ascii (false, true, false, false, true, true, true, false)),
+            (String ((Ascii (true, false, true, false, false, true, true,
+            false)), (String ((Ascii (true, true, false, false, false, true,
+            true, false)), (String ((Ascii (true, false, false, true, false,
+            true, true, false)), (String ((Ascii (false, false, true, false,
+            true, true, true, false)), (String ((Ascii (false, true, true,
+            false, true, true, true, false)), (String ((Ascii (true, false,
+            true, false, false, true, true, false)), (String ((Ascii (false,
+            false, false, false, false, true, false, false)), (String ((Ascii
+            (false, true, false, false, false, true, true, false)), (String
+            ((Ascii (true, true, true, true, false, true, true, false)),
+            (String ((Ascii (true, false, true, false, true, true, true,
+            false)), (String ((Ascii (false, true, true, true, false, true,
+            true, false)), (String ((Ascii (false, false, true, false, false,
+            true, true, false)), (String ((Ascii (true, false, false, false,
+            false, true, true, false)), (String ((Ascii (false, true, false,
+            false, true, true, true, false)), (String ((Ascii (true, false,
+            false, true, false, true, true, false)), (String ((Ascii (true,
+            false, true, false, false, true, true, false)), (String ((Ascii
+            (true, true, false, false, true, true, true, false)), (String
+            ((Ascii (false, false, false, false, false, true, false, false)),
+            (String ((Ascii (false, false, false, true, false, true, true,
+            false)), (String ((Ascii (true, false, true, false, false, true,
+            true, false)), (String ((Ascii (false, true, false, false, true,
+            true, true, false)), (String ((Ascii (true, false, true, false,
+            false, true, true, false)), (String ((Ascii (false, true, false,
+            true, true, true, false, false)), (String ((Ascii (false, false,
+            false, false, false, true, false, false)), (String ((Ascii
+            (false, false, false, true, false, true, true, false)), (String
+            ((Ascii (false, false, true, false, true, true, true, false)),
+            (String ((Ascii (false, false, true, false, true, true, true,
+            false)), (String ((Ascii (false, false, false, false, true, true,
+            true, false)), (String ((Ascii (true, true, false, false, true,
+            true, true, false)), (String ((Ascii (false, true, false, true,
+            true, true, false, false)), (String ((Ascii (true, true, true,
+            true, false, true, false, false)), (String ((Ascii (true, true,
+            true, true, false, true, false, false)), (String ((Ascii (false,
+            true, false, true, false, true, true, false)), (String ((Ascii
+            (true, true, false, false, true, true, true, false)), (String
+            ((Ascii (true, false, false, true, false, true, true, false)),
+            (String ((Ascii (true, true, true, false, false, true, true,
+            false)), (String ((Ascii (false, false, false, true, false, true,
+            true, false)), (String ((Ascii (false, false, true, false, true,
+            true, true, false)), (String ((Ascii (false, true, true, true,
+            false, true, false, false)), (String ((Ascii (true, false, false,
+            true, false, true, true, false)), (String ((Ascii (true, true,
+            true, true, false, true, true, false)), (String ((Ascii (true,
+            true, true, true, false, true, false, false)), (String ((Ascii
+            (false, false, true, false, false, true, true, false)), (String
+            ((Ascii (true, true, true, true, false, true, true, false)),
+            (String ((Ascii (true, true, false, false, false, true, true,
+            false)), (String ((Ascii (true, true, false, false, true, true,
+            true, false)), (String ((Ascii (true, true, true, true, false,
+            true, false, false)), (String ((Ascii (false, true, false, true,
+            false, true, true, false)), (String ((Ascii (true, true, false,
+            false, true, true, true, false)), (String ((Ascii (true, false,
+            false, true, false, true, true, false)), (String ((Ascii (true,
+            true, true, false, false, true, true, false)), (String ((Ascii
+            (false, false, false, true, false, true, true, false)), (String
+            ((Ascii (false, false, true, false, true, true, true, false)),
+            (String ((Ascii (true, false, true, true, false, true, false,
+            false)), (String ((Ascii (true, false, false, false, false, true,
+            true, false)), (String ((Ascii (false, false, false, false, true,
+            true, true, false)), (String ((Ascii (true, false, false, true,
+            false, true, true, false)), (String ((Ascii (true, false, true,
+            true, false, true, false, false)), (String ((Ascii (false, false,
+            false, false, true, true, false, false)), (String ((Ascii (true,
+            false, true, true, false, true, false, false)), (String ((Ascii
+            (true, true, false, false, true, true, false, false)), (String
+            ((Ascii (true, true, false, false, false, true, false, false)),
+            (String ((Ascii (false, true, false, false, false, true, true,
+            false)), (String ((Ascii (true, true, true, true, false, true,
+            true, false)), (String ((Ascii (true, false, true, false, true,
+            true, true, false)), (String ((Ascii (false, true, true, true,
+            false, true, true, false)), (String ((Ascii (false, false, true,
+            false, false, true, true, false)), (String ((Ascii (true, false,
+            false, false, false, true, true, false)), (String ((Ascii (false,
+            true, false, false, true, true, true, false)), (String ((Ascii
+            (true, false, false, true, false, true, true, false)), (String
+            ((Ascii (true, false, true, false, false, true, true, false)),
+            (String ((Ascii (true, true, false, false, true, true, true,
+            false)), (String ((Ascii (true, false, true, true, false, true,
+            false, false)), (String ((Ascii (true, true, true, true, false,
+            true, true, false)), (String ((Ascii (false, true, true, false,
+            false, true, true, false)), (String ((Ascii (true, false, true,
+            true, false, true, false, false)), (String ((Ascii (false, false,
+            true, false, true, true, true, false)), (String ((Ascii (false,
+            false, false, true, false, true, true, false)), (String ((Ascii
+            (true, false, true, false, false, true, true, false)), (String
+            ((Ascii (true, false, true, true, false, true, false, false)),
+            (String ((Ascii (false, true, false, false, false, true, true,
+            false)), (String ((Ascii (true, true, true, true, false, true,
+            true, false)), (String ((Ascii (false, false, true, false, false,
+            true, true, false)), (String ((Ascii (true, false, false, true,
+            true, true, true, false)), (String ((Ascii (true, false, true,
+            true, false, true, false, false)), (String ((Ascii (true, true,
+            true, true, false, true, true, false)), (String ((Ascii (false,
+            true, true, false, false, true, true, false)), (String ((Ascii
+            (true, false, true, true, false, true, false, false)), (String
+            ((Ascii (false, false, true, false, true, true, true, false)),
+            (String ((Ascii (false, false, false, true, false, true, true,
+            false)), (String ((Ascii (true, false, true, false, false, true,
+            true, false)), (String ((Ascii (true, false, true, true, false,
+            true, false, false)), (String ((Ascii (false, false, true, false,
+            false, true, true, false)), (String ((Ascii (true, false, false,
+            true, false, true, true, false)), (String ((Ascii (false, true,
+            false, false, true, true, true, false)), (String ((Ascii (true,
+            false, true, false, false, true, true, false)), (String ((Ascii
+            (true, true, false, false, false, true, true, false)), (String
+            ((Ascii (false, false, true, false, true, true, true, false)),
+            (String ((Ascii (true, false, false, true, false, true, true,
+            false)), (String ((Ascii (false, true, true, false, true, true,
+            true, false)), (String ((Ascii (true, false, true, false, false,
+            true, true, false)),
+            EmptyString))))))))))))))))))))))))))))))))))))))))))))))))))))))))))))))))))))))))))))))))))))))))))))))))))))))))))))))))))))))))))))))))))))))))))))))))))))))))))))))))))))))))))))))))))))))))))))))))))))))))))))))))))))))))))))))))))))))))))))))))))))))))))))))))))))))))))))))))))))))))))))))))))))))))))))))))))))))))))))))))))))))))))))))))))))))))))))))))))))))))))))))))))))))))))))))))))))))))))))))))))))))))))))))))))))))))))) :: [])))) :: [])))) :: [])))) :: []))) :: (((String
     ((Ascii (true, true, false, false, true, true, true, false)), (String
     ((Ascii (false, false, true, false, true, true, true, false)), (String
     ((Ascii (true, false, false, false, false, true, true, false)), (String
     ((Ascii (false, false, true, false, true, true, true, false)), (String
     ((Ascii (true, false, true, false, false, true, true, false)), (String
     ((Ascii (false, false, true, false, false, false, true, false)),
-    EmptyString)))))))))))), ((SIf ((CByte (Npos (XI (XO (XI (XO (XO (XO
-    XH)))))))), ((SSetStep st_stateDE) :: (SRetNil :: [])), ((SIf ((CByte
-    (Npos (XI (XO (XI (XO (XO (XI XH)))))))), ((SSetStep
-    st_stateDe) :: (SRetNil :: [])), ((SRetErr ((String ((Ascii (true, false,
-    false, true, false, true, true, false)), (String ((Ascii (false, true,
-    true, true, false, true, true, false)), (String ((Ascii (false, false,
-    false, false, false, true, false, false)), (String ((Ascii (false, false,
-    true, false, false, true, true, false)), (String ((Ascii (true, false,
-    false, true, false, true, true, false)), (String ((Ascii (false, true,
-    false, false, true, true, true, false)), (String ((Ascii (true, false,
-    true, false, false, true, true, false)), (String ((Ascii (true, true,
-    false, false, false, true, true, false)), (String ((Ascii (false, false,
-    true, false, true, true, true, false)), (String ((Ascii (true, false,
-    false, true, false, true, true, false)), (String ((Ascii (false, true,
-    true, false, true, true, true, false)), (String ((Ascii (true, false,
-    true, false, false, true, true, false)), (String ((Ascii (false, false,
-    false, false, false, true, false, false)), (String ((Ascii (false, true,
-    true, true, false, true, true, false)), (String ((Ascii (true, false,
-    false, false, false, true, true, false)), (String ((Ascii (true, false,
-    true, true, false, true, true, false)), (String ((Ascii (true, false,
-    true, false, false, true, true, false)),
-    EmptyString)))))))))))))))))))))))))))))))))),
-    EmptyString)) :: []))) :: []))) :: [])) :: (((String ((Ascii (true, true,
+    EmptyString)))))))))))),
+    (block ((SIf ((CByte (Npos (XI (XO (XI (XO (XO (XO XH)))))))),
+      (block ((SSetStep st_stateDE) :: (SRetNil :: []))),
+      (block ((SIf ((CByte (Npos (XI (XO (XI (XO (XO (XI XH)))))))),
+        (block ((SSetStep st_stateDe) :: (SRetNil :: []))),
+        (block ((SRetErr ((String ((Ascii (true, false, false, true, false,
+          true, true, false)), (String ((Ascii (false, true, true, true,
+          false, true, true, false)), (String ((Ascii (false, false, false,
+          false, false, true, false, false)), (String ((Ascii (false, false,
+          true, false, false, true, true, false)), (String ((Ascii (true,
+          false, false, true, false, true, true, false)), (String ((Ascii
+          (false, true, false, false, true, true, true, false)), (String
+          ((Ascii (true, false, true, false, false, true, true, false)),
+          (String ((Ascii (true, true, false, false, false, true, true,
+          false)), (String ((Ascii (false, false, true, false, true, true,
+          true, false)), (String ((Ascii (true, false, false, true, false,
+          true, true, false)), (String ((Ascii (false, true, true, false,
+          true, true, true, false)), (String ((Ascii (true, false, true,
+          false, false, true, true, false)), (String ((Ascii (false, false,
+          false, false, false, true, false, false)), (String ((Ascii (false,
+          true, true, true, false, true, true, false)), (String ((Ascii
+          (true, false, false, false, false, true, true, false)), (String
+          ((Ascii (true, false, true, true, false, true, true, false)),
+          (String ((Ascii (true, false, true, false, false, true, true,
+          false)), EmptyString)))))))))))))))))))))))))))))))))),
+          EmptyString)) :: [])))) :: [])))) :: []))) :: (((String ((Ascii
+    (true, true, false, false, true, true, true, false)), (String ((Ascii
+    (false, false, true, false, true, true, true, false)), (String ((Ascii
+    (true, false, false, false, false, true, true, false)), (String ((Ascii
+    (false, false, true, false, true, true, true, false)), (String ((Ascii
+    (true, false, true, false, false, true, true, false)), (String ((Ascii
+    (false, false, true, false, false, false, true, false)), (String ((Ascii
+    (true, false, true, false, false, false, true, false)),
+    EmptyString)))))))))))))),
+    (block ((SIf ((CByte (Npos (XO (XO (XI (XI (XO (XO XH)))))))),
+      (block ((SSetStep st_stateDEL) :: (SRetNil :: []))),
+      (block ((SRetErr ((String ((Ascii (true, false, false, true, false,
+        true, true, false)), (String ((Ascii (false, true, true, true, false,
+        true, true, false)), (String ((Ascii (false, false, false, false,
+        false, true, false, false)), (String ((Ascii (true, true, false,
+        true, false, true, true, false)), (String ((Ascii (true, false, true,
+        false, false, true, true, false)), (String ((Ascii (true, false,
+        false, true, true, true, true, false)), (String ((Ascii (true, true,
+        true, false, true, true, true, false)), (String ((Ascii (true, true,
+        true, true, false, true, true, false)), (String ((Ascii (false, true,
+        false, false, true, true, true, false)), (String ((Ascii (false,
+        false, true, false, false, true, true, false)), (String ((Ascii
+        (false, false, false, false, false, true, false, false)), (String
+        ((Ascii (false, false, true, false, false, false, true, false)),
+        (String ((Ascii (true, false, true, false, false, false, true,
+        false)), (String ((Ascii (false, false, true, true, false, false,
+        true, false)), (String ((Ascii (true, false, true, false, false,
+        false, true, false)), (String ((Ascii (false, false, true, false,
+        true, false, true, false)), (String ((Ascii (true, false, true,
+        false, false, false, true, false)),
+        EmptyString)))))))))))))))))))))))))))))))))), (String ((Ascii
+        (false, false, true, true, false, false, true, false)),
+        EmptyString)))) :: [])))) :: []))) :: (((String ((Ascii (true, true,
     false, false, true, true, true, false)), (String ((Ascii (false, false,
     true, false, true, true, true, false)), (String ((Ascii (true, false,
     false, false, false, true, true, false)), (String ((Ascii (false, false,
     true, false, true, true, true, false)), (String ((Ascii (true, false,
     true, false, false, true, true, false)), (String ((Ascii (false, false,
     true, false, false, false, true, false)), (String ((Ascii (true, false,
-    true, false, false, false, true, false)), EmptyString)))))))))))))),
-    ((SIf ((CByte (Npos (XO (XO (XI (XI (XO (XO XH)))))))), ((SSetStep
-    st_stateDEL) :: (SRetNil :: [])), ((SRetErr ((String ((Ascii (true,
-    false, false, true, false, true, true, false)), (String ((Ascii (false,
-    true, true, true, false, true, true, false)), (String ((Ascii (false,
-    false, false, false, false, true, false, false)), (String ((Ascii (true,
-    true, false, true, false, true, true, false)), (String ((Ascii (true,
-    false, true, false, false, true, true, false)), (String ((Ascii (true,
-    false, false, true, true, true, true, false)), (String ((Ascii (true,
-    true, true, false, true, true, true, false)), (String ((Ascii (true,
-    true, true, true, false, true, true, false)), (String ((Ascii (false,
-    true, false, false, true, true, true, false)), (String ((Ascii (false,
-    false, true, false, false, true, true, false)), (String ((Ascii (false,
-    false, false, false, false, true, false, false)), (String ((Ascii (false,
-    false, true, false, false, false, true, false)), (String ((Ascii (true,
-    false, true, false, false, false, true, false)), (String ((Ascii (false,
-    false, true, true, false, false, true, false)), (String ((Ascii (true,
-    false, true, false, false, false, true, false)), (String ((Ascii (false,
-    false, true, false, true, false, true, false)), (String ((Ascii (true,
-    false, true, false, false, false, true, false)),
-    EmptyString)))))))))))))))))))))))))))))))))), (String ((Ascii (false,
-    false, true, true, false, false, true, false)),
-    EmptyString)))) :: []))) :: [])) :: (((String ((Ascii (true, true, false,
-    false, true, true, true, false)), (String ((Ascii (false, false, true,
-    false, true, true, true, false)), (String ((Ascii (true, false, false,
-    false, false, true, true, false)), (String ((Ascii (false, false, true,
-    false, true, true, true, false)), (String ((Ascii (true, false, true,
-    false, false, true, true, false)), (String ((Ascii (false, false, true,
-    false, false, false, true, false)), (String ((Ascii (true, false, true,
-    false, false, false, true, false)), (String ((Ascii (false, false, true,
-    true, false, false, true, false)), EmptyString)))))))))))))))), ((SIf
-    ((CByte (Npos (XI (XO (XI (XO (XO (XO XH)))))))), ((SSetStep
-    st_stateDELE) :: (SRetNil :: [])), ((SRetErr ((String ((Ascii (true,
-    false, false, true, false, true, true, false)), (String ((Ascii (false,
-    true, true, true, false, true, true, false)), (String ((Ascii (false,
-    false, false, false, false, true, false, false)), (String ((Ascii (true,
-    true, false, true, false, true, true, false)), (String ((Ascii (true,
-    false, true, false, false, true, true, false)), (String ((Ascii (true,
-    false, false, true, true, true, true, false)), (String ((Ascii (true,
-    true, true, false, true, true, true, false)), (String ((Ascii (true,
-    true, true, true, false, true, true, false)), (String ((Ascii (false,
-    true, false, false, true, true, true, false)), (String ((Ascii (false,
-    false, true, false, false, true, true, false)), (String ((Ascii (false,
-    false, false, false, false, true, false, false)), (String ((Ascii (false,
-    false, true, false, false, false, true, false)), (String ((Ascii (true,
-    false, true, false, false, false, true, false)), (String ((Ascii (false,
-    false, true, true, false, false, true, false)), (String ((Ascii (true,
-    false, true, false, false, false, true, false)), (String ((Ascii (false,
-    false, true, false, true, false, true, false)), (String ((Ascii (true,
-    false, true, false, false, false, true, false)),
-    EmptyString)))))))))))))))))))))))))))))))))), (String ((Ascii (true,
-    false, true, false, false, false, true, false)),
-    EmptyString)))) :: []))) :: [])) :: (((String ((Ascii (true, true, false,
-    false, true, true, true, false)), (String ((Ascii (false, false, true,
-    false, true, true, true, false)), (String ((Ascii (true, false, false,
-    false, false, true, true, false)), (String ((Ascii (false, false, true,
-    false, true, true, true, false)), (String ((Ascii (true, false, true,
-    false, false, true, true, false)), (String ((Ascii (false, false, true,
-    false, false, false, true, false)), (String ((Ascii (true, false, true,
-    false, false, false, true, false)), (String ((Ascii (false, false, true,
-    true, false, false, true, false)), (String ((Ascii (true, false, true,
-    false, false, false, true, false)), EmptyString)))))))))))))))))), ((SIf
-    ((CByte (Npos (XO (XO (XI (XO (XI (XO XH)))))))), ((SSetStep
-    st_stateDELET) :: (SRetNil :: [])), ((SRetErr ((String ((Ascii (true,
-    false, false, true, false, true, true, false)), (String ((Ascii (false,
-    true, true, true, false, true, true, false)), (String ((Ascii (false,
-    false, false, false, false, true, false, false)), (String ((Ascii (true,
-    true, false, true, false, true, true, false)), (String ((Ascii (true,
-    false, true, false, false, true, true, false)), (String ((Ascii (true,
-    false, false, true, true, true, true, false)), (String ((Ascii (true,
-    true, true, false, true, true, true, false)), (String ((Ascii (true,
-    true, true, true, false, true, true, false)), (String ((Ascii (false,
-    true, false, false, true, true, true, false)), (String ((Ascii (false,
-    false, true, false, false, true, true, false)), (String ((Ascii (false,
-    false, false, false, false, true, false, false)), (String ((Ascii (false,
-    false, true, false, false, false, true, false)), (String ((Ascii (true,
-    false, true, false, false, false, true, false)), (String ((Ascii (false,
-    false, true, true, false, false, true, false)), (String ((Ascii (true,
-    false, true, false, false, false, true, false)), (String ((Ascii (false,
-    false, true, false, true, false, true, false)), (String ((Ascii (true,
-    false, true, false, false, false, true, false)),
-    EmptyString)))))))))))))))))))))))))))))))))), (String ((Ascii (false,
-    false, true, false, true, false, true, false)),
-    EmptyString)))) :: []))) :: [])) :: (((String ((Ascii (true, true, false,
-    false, true, true, true, false)), (String ((Ascii (false, false, true,
-    false, true, true, true, false)), (String ((Ascii (true, false, false,
-    false, false, true, true, false)), (String ((Ascii (false, false, true,
-    false, true, true, true, false)), (String ((Ascii (true, false, true,
-    false, false, true, true, false)), (String ((Ascii (false, false, true,
-    false, false, false, true, false)), (String ((Ascii (true, false, true,
-    false, false, false, true, false)), (String ((Ascii (false, false, true,
-    true, false, false, true, false)), (String ((Ascii (true, false, true,
-    false, false, false, true, false)), (String ((Ascii (false, false, true,
-    false, true, false, true, false)), EmptyString)))))))))))))))))))), ((SIf
-    ((CByte (Npos (XI (XO (XI (XO (XO (XO XH)))))))), ((SFound (KeywordEnd,
-    Z0)) :: ((SPush st_stateExpectKeyword) :: ((SSetStep
-    st_stateParameterOrAnnotation) :: (SRetNil :: [])))), ((SRetErr ((String
-    ((Ascii (true, false, false, true, false, true, true, false)), (String
-    ((Ascii (false, true, true, true, false, true, true, false)), (String
-    ((Ascii (false, false, false, false, false, true, false, false)), (String
-    ((Ascii (true, true, false, true, false, true, true, false)), (String
-    ((Ascii (true, false, true, false, false, true, true, false)), (String
-    ((Ascii (true, false, false, true, true, true, true, false)), (String
-    ((Ascii (true, true, true, false, true, true, true, false)), (String
-    ((Ascii (true, true, true, true, false, true, true, false)), (String
-    ((Ascii (false, true, false, false, true, true, true, false)), (String
-    ((Ascii (false, false, true, false, false, true, true, false)), (String
-    ((Ascii (false, false, false, false, false, true, false, false)), (String
-    ((Ascii (false, false, true, false, false, false, true, false)), (String
-    ((Ascii (true, false, true, false, false, false, true, false)), (String
-    ((Ascii (false, false, true, true, false, false, true, false)), (String
-    ((Ascii (true, false, true, false, false, false, true, false)), (String
-    ((Ascii (false, false, true, false, true, false, true, false)), (String
-    ((Ascii (true, false, true, false, false, false, true, false)),
-    EmptyString)))))))))))))))))))))))))))))))))), (String ((Ascii (true,
-    false, true, false, false, false, true, false)),
-    EmptyString)))) :: []))) :: [])) :: (((String ((Ascii (true, true, false,
-    false, true, true, true, false)), (String ((Ascii (false, false, true,
-    false, true, true, true, false)), (String ((Ascii (true, false, false,
-    false, false, true, true, false)), (String ((Ascii (false, false, true,
-    false, true, true, true, false)), (String ((Ascii (true, false, true,
-    false, false, true, true, false)), (String ((Ascii (false, false, true,
-    false, false, false, true, false)), (String ((Ascii (true, false, true,
-    false, false, true, true, false)), EmptyString)))))))))))))), ((SIf
-    ((CByte (Npos (XI (XI (XO (XO (XI (XI XH)))))))), ((SSetStep
-    st_stateDes) :: (SRetNil :: [])), ((SRetErr ((String ((Ascii (true,
-    false, false, true, false, true, true, false)), (String ((Ascii (false,
-    true, true, true, false, true, true, false)), (String ((Ascii (false,
-    false, false, false, false, true, false, false)), (String ((Ascii (true,
-    true, false, true, false, true, true, false)), (String ((Ascii (true,
-    false, true, false, false, true, true, false)), (String ((Ascii (true,
-    false, false, true, true, true, true, false)), (String ((Ascii (true,
-    true, true, false, true, true, true, false)), (String ((Ascii (true,
-    true, true, true, false, true, true, false)), (String ((Ascii (false,
-    true, false, false, true, true, true, false)), (String ((Ascii (false,
-    false, true, false, false, true, true, false)), (String ((Ascii (false,
-    false, false, false, false, true, false, false)), (String ((Ascii (false,
-    false, true, false, false, false, true, false)), (String ((Ascii (true,
-    false, true, false, false, true, true, false)), (String ((Ascii (true,
-    true, false, false, true, true, true, false)), (String ((Ascii (true,
-    true, false, false, false, true, true, false)), (String ((Ascii (false,
-    true, false, false, true, true, true, false)), (String ((Ascii (true,
-    false, false, true, false, true, true, false)), (String ((Ascii (false,
-    false, false, false, true, true, true, false)), (String ((Ascii (false,
-    false, true, false, true, true, true, false)), (String ((Ascii (true,
-    false, false, true, false, true, true, false)), (String ((Ascii (true,
-    true, true, true, false, true, true, false)), (String ((Ascii (false,
-    true, true, true, false, true, true, false)),
-    EmptyString)))))))))))))))))))))))))))))))))))))))))))), (String ((Ascii
-    (true, true, false, false, true, true, true, false)),
-    EmptyString)))) :: []))) :: [])) :: (((String ((Ascii (true, true, false,
-    false, true, true, true, false)), (String ((Ascii (false, false, true,
-    false, true, true, true, false)), (String ((Ascii (true, false, false,
-    false, false, true, true, false)), (String ((Ascii (false, false, true,
-    false, true, true, true, false)), (String ((Ascii (true, false, true,
-    false, false, true, true, false)), (String ((Ascii (false, false, true,
-    false, false, false, true, false)), (String ((Ascii (true, false, true,
-    false, false, true, true, false)), (String ((Ascii (true, true, false,
-    false, true, true, true, false)), EmptyString)))))))))))))))), ((SIf
-    ((CByte (Npos (XI (XI (XO (XO (XO (XI XH)))))))), ((SSetStep
-    st_stateDesc) :: (SRetNil :: [])), ((SRetErr ((String ((Ascii (true,
-    false, false, true, false, true, true, false)), (String ((Ascii (false,
-    true, true, true, false, true, true, false)), (String ((Ascii (false,
-    false, false, false, false, true, false, false)), (String ((Ascii (true,
-    true, false, true, false, true, true, false)), (String ((Ascii (true,
-    false, true, false, false, true, true, false)), (String ((Ascii (true,
-    false, false, true, true, true, true, false)), (String ((Ascii (true,
-    true, true, false, true, true, true, false)), (String ((Ascii (true,
-    true, true, true, false, true, true, false)), (String ((Ascii (false,
-    true, false, false, true, true, true, false)), (String ((Ascii (false,
-    false, true, false, false, true, true, false)), (String ((Ascii (false,
-    false, false, false, false, true, false, false)), (String ((Ascii (false,
-    false, true, false, false, false, true, false)), (String ((Ascii (true,
-    false, true, false, false, true, true, false)), (String ((Ascii (true,
-    true, false, false, true, true, true, false)), (String ((Ascii (true,
-    true, false, false, false, true, true, false)), (String ((Ascii (false,
-    true, false, false, true, true, true, false)), (String ((Ascii (true,
-    false, false, true, false, true, true, false)), (String ((Ascii (false,
-    false, false, false, true, true, true, false)), (String ((Ascii (false,
-    false, true, false, true, true, true, false)), (String ((Ascii (true,
-    false, false, true, false, true, true, false)), (String ((Ascii (true,
-    true, true, true, false, true, true, false)), (String ((Ascii (false,
-    true, true, true, false, true, true, false)),
-    EmptyString)))))))))))))))))))))))))))))))))))))))))))), (String ((Ascii
-    (true, true, false, false, false, true, true, false)),
-    EmptyString)))) :: []))) :: [])) :: (((String ((Ascii (true, true, false,
-    false, true, true, true, false)), (String ((Ascii (false, false, true,
-    false, true, true, true, false)), (String ((Ascii (true, false, false,
-    false, false, true, true, false)), (String ((Ascii (false, false, true,
-    false, true, true, true, false)), (String ((Ascii (true, false, true,
-    false, false, true, true, false)), (String ((Ascii (false, false, true,
-    false, false, false, true, false)), (String ((Ascii (true, false, true,
-    false, false, true, true, false)), (String ((Ascii (true, true, false,
-    false, true, true, true, false)), (String ((Ascii (true, true, false,
-    false, false, true, true, false)), EmptyString)))))))))))))))))), ((SIf
-    ((CByte (Npos (XO (XI (XO (XO (XI (XI XH)))))))), ((SSetStep
-    st_stateDescr) :: (SRetNil :: [])), ((SRetErr ((String ((Ascii (true,
-    false, false, true, false, true, true, false)), (String ((Ascii (false,
-    true, true, true, false, true, true, false)), (String ((Ascii (false,
-    false, false, false, false, true, false, false)), (String ((Ascii (true,
-    true, false, true, false, true, true, false)), (String ((Ascii (true,
-    false, true, false, false, true, true, false)), (String ((Ascii (true,
-    false, false, true, true, true, true, false)), (String ((Ascii (true,
-    true, true, false, true, true, true, false)), (String ((Ascii (true,
-    true, true, true, false, true, true, false)), (String ((Ascii (false,
-    true, false, false, true, true, true, false)), (String ((Ascii (false,
-    false, true, false, false, true, true, false)), (String ((Ascii (false,
-    false, false, false, false, true, false, false)), (String ((Ascii (false,
-    false, true, false, false, false, true, false)), (String ((Ascii (true,
-    false, true, false, false, true, true, false)), (String ((Ascii (true,
-    true, false, false, true, true, true, false)), (String ((Ascii (true,
-    true, false, false, false, true, true, false)), (String ((Ascii (false,
-    true, false, false, true, true, true, false)), (String ((Ascii (true,
-    false, false, true, false, true, true, false)), (String ((Ascii (false,
-    false, false, false, true, true, true, false)), (String ((Ascii (false,
-    false, true, false, true, true, true, false)), (String ((Ascii (true,
-    false, false, true, false, true, true, false)), (String ((Ascii (true,
-    true, true, true, false, true, true, false)), (String ((Ascii (false,
-    true, true, true, false, true, true, false)),
-    EmptyString)))))))))))))))))))))))))))))))))))))))))))), (String ((Ascii
-    (false, true, false, false, true, true, true, false)),
-    EmptyString)))) :: []))) :: [])) :: (((String ((Ascii (true, true, false,
-    false, true, true, true, false)), (String ((Ascii (false, false, true,
-    false, true, true, true, false)), (String ((Ascii (true, false, false,
-    false, false, true, true, false)), (String ((Ascii (false, false, true,
-    false, true, true, true, false)), (String ((Ascii (true, false, true,
-    false, false, true, true, false)), (String ((Ascii (false, false, true,
-    false, false, false, true, false)), (String ((Ascii (true, false, true,
-    false, false, true, true, false)), (String ((Ascii (true, true, false,
-    false, true, true, true, false)), (String ((Ascii (true, true, false,
-    false, false, true, true, false)), (String ((Ascii (false, true, false,
-    false, true, true, true, false)), EmptyString)))))))))))))))))))), ((SIf
-    ((CByte (Npos (XI (XO (XO (XI (XO (XI XH)))))))), ((SSetStep
-    st_stateDescri) :: (SRetNil :: [])), ((SRetErr ((String ((Ascii (true,
-    false, false, true, false, true, true, false)), (String ((Ascii (false,
-    true, true, true, false, true, true, false)), (String ((Ascii (false,
-    false, false, false, false, true, false, false)), (String ((Ascii (true,
-    true, false, true, false, true, true, false)), (String ((Ascii (true,
-    false, true, false, false, true, true, false)), (String ((Ascii (true,
-    false, false, true, true, true, true, false)), (String ((Ascii (true,
-    true, true, false, true, true, true, false)), (String ((Ascii (true,
-    true, true, true, false, true, true, false)), (String ((Ascii (false,
-    true, false, false, true, true, true, false)), (String ((Ascii (false,
-    false, true, false, false, true, true, false)), (String ((Ascii (false,
-    false, false, false, false, true, false, false)), (String ((Ascii (false,
-    false, true, false, false, false, true, false)), (String ((Ascii (true,
-    false, true, false, false, true, true, false)), (String ((Ascii (true,
-    true, false, false, true, true, true, false)), (String ((Ascii (true,
-    true, false, false, false, true, true, false)), (String ((Ascii (false,
-    true, false, false, true, true, true, false)), (String ((Ascii (true,
-    false, false, true, false, true, true, false)), (String ((Ascii (false,
-    false, false, false, true, true, true, false)), (String ((Ascii (false,
-    false, true, false, true, true, true, false)), (String ((Ascii (true,
-    false, false, true, false, true, true, false)), (String ((Ascii (true,
-    true, true, true, false, true, true, false)), (String ((Ascii (false,
-    true, true, true, false, true, true, false)),
-    EmptyString)))))))))))))))))))))))))))))))))))))))))))), (String ((Ascii
-    (true, false, false, true, false, true, true, false)),
-    EmptyString)))) :: []))) :: [])) :: (((String ((Ascii (true, true, false,
-    false, true, true, true, false)), (String ((Ascii (false, false, true,
-    false, true, true, true, false)), (String ((Ascii (true, false, false,
-    false, false, true, true, false)), (String ((Ascii (false, false, true,
-    false, true, true, true, false)), (String ((Ascii (true, false, true,
-    false, false, true, true, false)), (String ((Ascii (false, false, true,
-    false, false, false, true, false)), (String ((Ascii (true, false, true,
-    false, false, true, true, false)), (String ((Ascii (true, true, false,
-    false, true, true, true, false)), (String ((Ascii (true, true, false,
-    false, false, true, true, false)), (String ((Ascii (false, true, false,
-    false, true, true, true, false)), (String ((Ascii (true, false, false,
-    true, false, true, true, false)), EmptyString)))))))))))))))))))))),
-    ((SIf ((CByte (Npos (XO (XO (XO (XO (XI (XI XH)))))))), ((SSetStep
-    st_stateDescrip) :: (SRetNil :: [])), ((SRetErr ((String ((Ascii (true,
-    false, false, true, false, true, true, false)), (String ((Ascii (false,
-    true, true, true, false, true, true, false)), (String ((Ascii (false,
-    false, false, false, false, true, false, false)), (String ((Ascii (true,
-    true, false, true, false, true, true, false)), (String ((Ascii (true,
-    false, true, false, false, true, true, false)), (String ((Ascii (true,
-    false, false, true, true, true, true, false)), (String ((Ascii (true,
-    true, true, false, true, true, true, false)), (String ((Ascii (true,
-    true, true, true, false, true, true, false)), (String ((Ascii (false,
-    true, false, false, true, true, true, false)), (String ((Ascii (false,
-    false, true, false, false, true, true, false)), (String ((Ascii (false,
-    false, false, false, false, true, false, false)), (String ((Ascii (false,
-    false, true, false, false, false, true, false)), (String ((Ascii (true,
-    false, true, false, false, true, true, false)), (String ((Ascii (true,
-    true, false, false, true, true, true, false)), (String ((Ascii (true,
-    true, false, false, false, true, true, false)), (String ((Ascii (false,
-    true, false, false, true, true, true, false)), (String ((Ascii (true,
-    false, false, true, false, true, true, false)), (String ((Ascii (false,
-    false, false, false, true, true, true, false)), (String ((Ascii (false,
-    false, true, false, true, true, true, false)), (String ((Ascii (true,
-    false, false, true, false, true, true, false)), (String ((Ascii (true,
-    true, true, true, false, true, true, false)), (String ((Ascii (false,
-    true, true, true, false, true, true, false)),
-    EmptyString)))))))))))))))))))))))))))))))))))))))))))), (String ((Ascii
-    (false, false, false, false, true, true, true, false)),
-    EmptyString)))) :: []))) :: [])) :: (((String ((Ascii (true, true, false,
-    false, true, true, true, false)), (String ((Ascii (false, false, true,
-    false, true, true, true, false)), (String ((Ascii (true, false, false,
-    false, false, true, true, false)), (String ((Ascii (false, false, true,
-    false, true, true, true, false)), (String ((Ascii (true, false, true,
-    false, false, true, true, false)), (String ((Ascii (false, false, true,
-    false, false, false, true, false)), (String ((Ascii (true, false, true,
-    false, false, true, true, false)), (String ((Ascii (true, true, false,
-    false, true, true, true, false)), (String ((Ascii (true, true, false,
-    false, false, true, true, false)), (String ((Ascii (false, true, false,
-    false, true, true, true, false)), (String ((Ascii (true, false, false,
-    true, false, true, true, false)), (String ((Ascii (false, false, false,
-    false, true, true, true, false)), EmptyString)))))))))))))))))))))))),
-    ((SIf ((CByte (Npos (XO (XO (XI (XO (XI (XI XH)))))))), ((SSetStep
-    st_stateDescript) :: (SRetNil :: [])), ((SRetErr ((String ((Ascii (true,
-    false, false, true, false, true, true, false)), (String ((Ascii (false,
-    true, true, true, false, true, true, false)), (String ((Ascii (false,
-    false, false, false, false, true, false, false)), (String ((Ascii (true,
-    true, false, true, false, true, true, false)), (String ((Ascii (true,
-    false, true, false, false, true, true, false)), (String ((Ascii (true,
-    false, false, true, true, true, true, false)), (String ((Ascii (true,
-    true, true, false, true, true, true, false)), (String ((Ascii (true,
-    true, true, true, false, true, true, false)), (String ((Ascii (false,
-    true, false, false, true, true, true, false)), (String ((Ascii (false,
-    false, true, false, false, true, true, false)), (String ((Ascii (false,
-    false, false, false, false, true, false, false)), (String ((Ascii (false,
-    false, true, false, false, false, true, false)), (String ((Ascii (true,
-    false, true, false, false, true, true, false)), (String ((Ascii (true,
-    true, false, false, true, true, true, false)), (String ((Ascii (true,
-    true, false, false, false, true, true, false)), (String ((Ascii (false,
-    true, false, false, true, true, true, false)), (String ((Ascii (true,
-    false, false, true, false, true, true, false)), (String ((Ascii (false,
-    false, false, false, true, true, true, false)), (String ((Ascii (false,
-    false, true, false, true, true, true, false)), (String ((Ascii (true,
-    false, false, true, false, true, true, false)), (String ((Ascii (true,
-    true, true, true, false, true, true, false)), (String ((Ascii (false,
-    true, true, true, false, true, true, false)),
-    EmptyString)))))))))))))))))))))))))))))))))))))))))))), (String ((Ascii
-    (false, false, true, false, true, true, true, false)),
-    EmptyString)))) :: []))) :: [])) :: (((String ((Ascii (true, true, false,
-    false, true, true, true, false)), (String ((Ascii (false, false, true,
-    false, true, true, true, false)), (String ((Ascii (true, false, false,
-    false, false, true, true, false)), (String ((Ascii (false, false, true,
-    false, true, true, true, false)), (String ((Ascii (true, false, true,
-    false, false, true, true, false)), (String ((Ascii (false, false, true,
-    false, false, false, true, false)), (String ((Ascii (true, false, true,
-    false, false, true, true, false)), (String ((Ascii (true, true, false,
-    false, true, true, true, false)), (String ((Ascii (true, true, false,
-    false, false, true, true, false)), (String ((Ascii (false, true, false,
-    false, true, true, true, false)), (String ((Ascii (true, false, false,
-    true, false, true, true, false)), (String ((Ascii (false, false, false,
-    false, true, true, true, false)), (String ((Ascii (false, false, true,
-    false, true, true, true, false)), EmptyString)))))))))))))))))))))))))),
-    ((SIf ((CByte (Npos (XI (XO (XO (XI (XO (XI XH)))))))), ((SSetStep
-    st_stateDescripti) :: (SRetNil :: [])), ((SRetErr ((String ((Ascii (true,
-    false, false, true, false, true, true, false)), (String ((Ascii (false,
-    true, true, true, false, true, true, false)), (String ((Ascii (false,
-    false, false, false, false, true, false, false)), (String ((Ascii (true,
-    true, false, true, false, true, true, false)), (String ((Ascii (true,
-    false, true, false, false, true, true, false)), (String ((Ascii (true,
-    false, false, true, true, true, true, false)), (String ((Ascii (true,
-    true, true, false, true, true, true, false)), (String ((Ascii (true,
-    true, true, true, false, true, true, false)), (String ((Ascii (false,
-    true, false, false, true, true, true, false)), (String ((Ascii (false,
-    false, true, false, false, true, true, false)), (String ((Ascii (false,
-    false, false, false, false, true, false, false)), (String ((Ascii (false,
-    false, true, false, false, false, true, false)), (String ((Ascii (true,
-    false, true, false, false, true, true, false)), (String ((Ascii (true,
-    true, false, false, true, true, true, false)), (String ((Ascii (true,
-    true, false, false, false, true, true, false)), (String ((Ascii (false,
-    true, false, false, true, true, true, false)), (String ((Ascii (true,
-    false, false, true, false, true, true, false)), (String ((Ascii (false,
-    false, false, false, true, true, true, false)), (String ((Ascii (false,
-    false, true, false, true, true, true, false)), (String ((Ascii (true,
-    false, false, true, false, true, true, false)), (String ((Ascii (true,
-    true, true, true, false, true, true, false)), (String ((Ascii (false,
-    true, true, true, false, true, true, false)),
-    EmptyString)))))))))))))))))))))))))))))))))))))))))))), (String ((Ascii
-    (true, false, false, true, false, true, true, false)),
-    EmptyString)))) :: []))) :: [])) :: (((String ((Ascii (true, true, false,
-    false, true, true, true, false)), (String ((Ascii (false, false, true,
-    false, true, true, true, false)), (String ((Ascii (true, false, false,
-    false, false, true, true, false)), (String ((Ascii (false, false, true,
-    false, true, true, true, false)), (String ((Ascii (true, false, true,
-    false, false, true, true, false)), (String ((Ascii (false, false, true,
-    false, false, false, true, false)), (String ((Ascii (true, false, true,
-    false, false, true, true, false)), (String ((Ascii (true, true, false,
-    false, true, true, true, false)), (String ((Ascii (true, true, false,
-    false, false, true, true, false)), (String ((Ascii (false, true, false,
-    false, true, true, true, false)), (String ((Ascii (true, false, false,
-    true, false, true, true, false)), (String ((Ascii (false, false, false,
-    false, true, true, true, false)), (String ((Ascii (false, false, true,
-    false, true, true, true, false)), (String ((Ascii (true, false, false,
-    true, false, true, true, false)),
-    EmptyString)))))))))))))))))))))))))))), ((SIf ((CByte (Npos (XI (XI (XI
-    (XI (XO (XI XH)))))))), ((SSetStep
-    st_stateDescriptio) :: (SRetNil :: [])), ((SRetErr ((String ((Ascii
-    (true, false, false, true, false, true, true, false)), (String ((Ascii
-    (false, true, true, true, false, true, true, false)), (String ((Ascii
-    (false, false, false, false, false, true, false, false)), (String ((Ascii
-    (true, true, false, true, false, true, true, false)), (String ((Ascii
-    (true, false, true, false, false, true, true, false)), (String ((Ascii
-    (true, false, false, true, true, true, true, false)), (String ((Ascii
-    (true, true, true, false, true, true, true, false)), (String ((Ascii
-    (true, true, true, true, false, true, true, false)), (String ((Ascii
-    (false, true, false, false, true, true, true, false)), (String ((Ascii
-    (false, false, true, false, false, true, true, false)), (String ((Ascii
-    (false, false, false, false, false, true, false, false)), (String ((Ascii
-    (false, false, true, false, false, false, true, false)), (String ((Ascii
-    (true, false, true, false, false, true, true, false)), (String ((Ascii
-    (true, true, false, false, true, true, true, false)), (String ((Ascii
-    (true, true, false, false, false, true, true, false)), (String ((Ascii
-    (false, true, false, false, true, true, true, false)), (String ((Ascii
-    (true, false, false, true, false, true, true, false)), (String ((Ascii
-    (false, false, false, false, true, true, true, false)), (String ((Ascii
-    (false, false, true, false, true, true, true, false)), (String ((Ascii
-    (true, false, false, true, false, true, true, false)), (String ((Ascii
-    (true, true, true, true, false, true, true, false)), (String ((Ascii
-    (false, true, true, true, false, true, true, false)),
-    EmptyString)))))))))))))))))))))))))))))))))))))))))))), (String ((Ascii
-    (true, true, true, true, false, true, true, false)),
-    EmptyString)))) :: []))) :: [])) :: (((String ((Ascii (true, true, false,
-    false, true, true, true, false)), (String ((Ascii (false, false, true,
-    false, true, true, true, false)), (String ((Ascii (true, false, false,
-    false, false, true, true, false)), (String ((Ascii (false, false, true,
-    false, true, true, true, false)), (String ((Ascii (true, false, true,
-    false, false, true, true, false)), (String ((Ascii (false, false, true,
-    false, false, false, true, false)), (String ((Ascii (true, false, true,
-    false, false, true, true, false)), (String ((Ascii (true, true, false,
-    false, true, true, true, false)), (String ((Ascii (true, true, false,
-    false, false, true, true, false)), (String ((Ascii (false, true, false,
-    false, true, true, true, false)), (String ((Ascii (true, false, false,
-    true, false, true, true, false)), (String ((Ascii (false, false, false,
-    false, true, true, true, false)), (String ((Ascii (false, false, true,
-    false, true, true, true, false)), (String ((Ascii (true, false, false,
-    true, false, true, true, false)), (String ((Ascii (true, true, true,
-    true, false, true, true, false)),
-    EmptyString)))))))))))))))))))))))))))))), ((SIf ((CByte (Npos (XO (XI
-    (XI (XI (XO (XI XH)))))))), ((SFound (KeywordEnd, Z0)) :: ((SPush
-    st_stateDescriptionTextBeginStarter) :: ((SSetStep
-    st_stateParameterOrAnnotation) :: (SRetNil :: [])))), ((SRetErr ((String
-    ((Ascii (true, false, false, true, false, true, true, false)), (String
-    ((Ascii (false, true, true, true, false, true, true, false)), (String
-    ((Ascii (false, false, false, false, false, true, false, false)), (String
-    ((Ascii (true, true, false, true, false, true, true, false)), (String
-    ((Ascii (true, false, true, false, false, true, true, false)), (String
-    ((Ascii (true, false, false, true, true, true, true, false)), (String
-    ((Ascii (true, true, true, false, true, true, true, false)), (String
-    ((Ascii (true, true, true, true, false, true, true, false)), (String
-    ((Ascii (false, true, false, false, true, true, true, false)), (String
-    ((Ascii (false, false, true, false, false, true, true, false)), (String
-    ((Ascii (false, false, false, false, false, true, false, false)), (String
-    ((Ascii (false, false, true, false, false, false, true, false)), (String
-    ((Ascii (true, false, true, false, false, true, true, false)), (String
-    ((Ascii (true, true, false, false, true, true, true, false)), (String
-    ((Ascii (true, true, false, false, false, true, true, false)), (String
-    ((Ascii (false, true, false, false, true, true, true, false)), (String
-    ((Ascii (true, false, false, true, false, true, true, false)), (String
-    ((Ascii (false, false, false, false, true, true, true, false)), (String
-    ((Ascii (false, false, true, false, true, true, true, false)), (String
-    ((Ascii (true, false, false, true, false, true, true, false)), (String
-    ((Ascii (true, true, true, true, false, true, true, false)), (String
-    ((Ascii (false, true, true, true, false, true, true, false)),
-    EmptyString)))))))))))))))))))))))))))))))))))))))))))), (String ((Ascii
-    (false, true, true, true, false, true, true, false)),
-    EmptyString)))) :: []))) :: [])) :: (((String ((Ascii (true, true, false,
-    false, true, true, true, false)), (String ((Ascii (false, false, true,
-    false, true, true, true, false)), (String ((Ascii (true, false, false,
-    false, false, true, true, false)), (String ((Ascii (false, false, true,
-    false, true, true, true, false)), (String ((Ascii (true, false, true,
-    false, false, true, true, false)), (String ((Ascii (false, false, true,
-    false, false, false, true, false)), (String ((Ascii (true, false, true,
-    false, false, true, true, false)), (String ((Ascii (true, true, false,
-    false, true, true, true, false)), (String ((Ascii (true, true, false,
-    false, false, true, true, false)), (String ((Ascii (false, true, false,
-    false, true, true, true, false)), (String ((Ascii (true, false, false,
-    true, false, true, true, false)), (String ((Ascii (false, false, false,
-    false, true, true, true, false)), (String ((Ascii (false, false, true,
-    false, true, true, true, false)), (String ((Ascii (true, false, false,
-    true, false, true, true, false)), (String ((Ascii (true, true, true,
-    true, false, true, true, false)), (String ((Ascii (false, true, true,
-    true, false, true, true, false)), (String ((Ascii (false, false, true,
-    false, true, false, true, false)), (String ((Ascii (true, false, true,
-    false, false, true, true, false)), (String ((Ascii (false, false, false,
-    true, true, true, true, false)), (String ((Ascii (false, false, true,
-    false, true, true, true, false)),
-    EmptyString)))))))))))))))))))))))))))))))))))))))), ((SIf (CNewLine,
-    ((SSetStep st_stateDescriptionTextNewline) :: (SRetNil :: [])), ((SIf
-    ((CByte N0), ((SFound (TextEnd, (Zneg XH))) :: (SRetNil :: [])),
-    (SRetNil :: []))) :: []))) :: [])) :: (((String ((Ascii (true, true,
+    true, false, false, false, true, false)), (String ((Ascii (false, false,
+    true, true, false, false, true, false)), EmptyString)))))))))))))))),
+    (block ((SIf ((CByte (Npos (XI (XO (XI (XO (XO (XO XH)))))))),
+      (block ((SSetStep st_stateDELE) :: (SRetNil :: []))),
+      (block ((SRetErr ((String ((Ascii (true, false, false, true, false,
+        true, true, false)), (String ((Ascii (false, true, true, true, false,
+        true, true, false)), (String ((Ascii (false, false, false, false,
+        false, true, false, false)), (String ((Ascii (true, true, false,
+        true, false, true, true, false)), (String ((Ascii (true, false, true,
+        false, false, true, true, false)), (String ((Ascii (true, false,
+        false, true, true, true, true, false)), (String ((Ascii (true, true,
+        true, false, true, true, true, false)), (String ((Ascii (true, true,
+        true, true, false, true, true, false)), (String ((Ascii (false, true,
+        false, false, true, true, true, false)), (String ((Ascii (false,
+        false, true, false, false, true, true, false)), (String ((Ascii
+        (false, false, false, false, false, true, false, false)), (String
+        ((Ascii (false, false, true, false, false, false, true, false)),
+        (String ((Ascii (true, false, true, false, false, false, true,
+        false)), (String ((Ascii (false, false, true, true, false, false,
+        true, false)), (String ((Ascii (true, false, true, false, false,
+        false, true, false)), (String ((Ascii (false, false, true, false,
+        true, false, true, false)), (String ((Ascii (true, false, true,
+        false, false, false, true, false)),
+        EmptyString)))))))))))))))))))))))))))))))))), (String ((Ascii (true,
+        false, true, false, false, false, true, false)),
+        EmptyString)))) :: [])))) :: []))) :: (((String ((Ascii (true, true,
+    false, false, true, true, true, false)), (String ((Ascii (false, false,
+    true, false, true, true, true, false)), (String ((Ascii (true, false,
+    false, false, false, true, true, false)), (String ((Ascii (false, false,
+    true, false, true, true, true, false)), (String ((Ascii (true, false,
+    true, false, false, true, true, false)), (String ((Ascii (false, false,
+    true, false, false, false, true, false)), (String ((Ascii (true, false,
+    true, false, false, false, true, false)), (String ((Ascii (false, false,
+    true, true, false, false, true, false)), (String ((Ascii (true, false,
+    true, false, false, false, true, false)), EmptyString)))))))))))))))))),
+    (block ((SIf ((CByte (Npos (XO (XO (XI (XO (XI (XO XH)))))))),
+      (block ((SSetStep st_stateDELET) :: (SRetNil :: []))),
+      (block ((SRetErr ((String ((Ascii (true, false, false, true, false,
+        true, true, false)), (String ((Ascii (false, true, true, true, false,
+        true, true, false)), (String ((Ascii (false, false, false, false,
+        false, true, false, false)), (String ((Ascii (true, true, false,
+        true, false, true, true, false)), (String ((Ascii (true, false, true,
+        false, false, true, true, false)), (String ((Ascii (true, false,
+        false, true, true, true, true, false)), (String ((Ascii (true, true,
+        true, false, true, true, true, false)), (String ((Ascii (true, true,
+        true, true, false, true, true, false)), (String ((Ascii (false, true,
+        false, false, true, true, true, false)), (String ((Ascii (false,
+        false, true, false, false, true, true, false)), (String ((Ascii
+        (false, false, false, false, false, true, false, false)), (String
+        ((Ascii (false, false, true, false, false, false, true, false)),
+        (String ((Ascii (true, false, true, false, false, false, true,
+        false)), (String ((Ascii (false, false, true, true, false, false,
+        true, false)), (String ((Ascii (true, false, true, false, false,
+        false, true, false)), (String ((Ascii (false, false, true, false,
+        true, false, true, false)), (String ((Ascii (true, false, true,
+        false, false, false, true, false)),
+        EmptyString)))))))))))))))))))))))))))))))))), (String ((Ascii
+        (false, false, true, false, true, false, true, false)),
+        EmptyString)))) :: [])))) :: []))) :: (((String ((Ascii (true, true,
+    false, false, true, true, true, false)), (String ((Ascii (false, false,
+    true, false, true, true, true, false)), (String ((Ascii (true, false,
+    false, false, false, true, true, false)), (String ((Ascii (false, false,
+    true, false, true, true, true, false)), (String ((Ascii (true, false,
+    true, false, false, true, true, false)), (String ((Ascii (false, false,
+    true, false, false, false, true, false)), (String ((Ascii (true, false,
+    true, false, false, false, true, false)), (String ((Ascii (false, false,
+    true, true, false, false, true, false)), (String ((Ascii (true, false,
+    true, false, false, false, true, false)), (String ((Ascii (false, false,
+    true, false, true, false, true, false)), EmptyString)))))))))))))))))))),
+    (block ((SIf ((CByte (Npos (XI (XO (XI (XO (XO (XO XH)))))))),
+      (block ((SFound (KeywordEnd, Z0)) :: ((SPush
+        st_stateExpectKeyword) :: ((SSetStep
+        st_stateParameterOrAnnotation) :: (SRetNil :: []))))),
+      (block ((SRetErr ((String ((Ascii (true, false, false, true, false,
+        true, true, false)), (String ((Ascii (false, true, true, true, false,
+        true, true, false)), (String ((Ascii (false, false, false, false,
+        false, true, false, false)), (String ((Ascii (true, true, false,
+        true, false, true, true, false)), (String ((Ascii (true, false, true,
+        false, false, true, true, false)), (String ((Ascii (true, false,
+        false, true, true, true, true, false)), (String ((Ascii (true, true,
+        true, false, true, true, true, false)), (String ((Ascii (true, true,
+        true, true, false, true, true, false)), (String ((Ascii (false, true,
+        false, false, true, true, true, false)), (String ((Ascii (false,
+        false, true, false, false, true, true, false)), (String ((Ascii
+        (false, false, false, false, false, true, false, false)), (String
+        ((Ascii (false, false, true, false, false, false, true, false)),
+        (String ((Ascii (true, false, true, false, false, false, true,
+        false)), (String ((Ascii (false, false, true, true, false, false,
+        true, false)), (String ((Ascii (true, false, true, false, false,
+        false, true, false)), (String ((Ascii (false, false, true, false,
+        true, false, true, false)), (String ((Ascii (true, false, true,
+        false, false, false, true, false)),
+        EmptyString)))))))))))))))))))))))))))))))))), (String ((Ascii (true,
+        false, true, false, false, false, true, false)),
+        EmptyString)))) :: [])))) :: []))) :: (((String ((Ascii (true, true,
+    false, false, true, true, true, false)), (String ((Ascii (false, false,
+    true, false, true, true, true, false)), (String ((Ascii (true, false,
+    false, false, false, true, true, false)), (String ((Ascii (false, false,
+    true, false, true, true, true, false)), (String ((Ascii (true, false,
+    true, false, false, true, true, false)), (String ((Ascii (false, false,
+    true, false, false, false, true, false)), (String ((Ascii (true, false,
+    true, false, false, true, true, false)), EmptyString)))))))))))))),
+    (block ((SIf ((CByte (Npos (XI (XI (XO (XO (XI (XI XH)))))))),
+      (block ((SSetStep st_stateDes) :: (SRetNil :: []))),
+      (block ((SRetErr ((String ((Ascii (true, false, false, true, false,
+        true, true, false)), (String ((Ascii (false, true, true, true, false,
+        true, true, false)), (String ((Ascii (false, false, false, false,
+        false, true, false, false)), (String ((Ascii (true, true, false,
+        true, false, true, true, false)), (String ((Ascii (true, false, true,
+        false, false, true, true, false)), (String ((Ascii (true, false,
+        false, true, true, true, true, false)), (String ((Ascii (true, true,
+        true, false, true, true, true, false)), (String ((Ascii (true, true,
+        true, true, false, true, true, false)), (String ((Ascii (false, true,
+        false, false, true, true, true, false)), (String ((Ascii (false,
+        false, true, false, false, true, true, false)), (String ((Ascii
+        (false, false, false, false, false, true, false, false)), (String
+        ((Ascii (false, false, true, false, false, false, true, false)),
+        (String ((Ascii (true, false, true, false, false, true, true,
+        false)), (String ((Ascii (true, true, false, false, true, true, true,
+        false)), (String ((Ascii (true, true, false, false, false, true,
+        true, false)), (String ((Ascii (false, true, false, false, true,
+        true, true, false)), (String ((Ascii (true, false, false, true,
+        false, true, true, false)), (String ((Ascii (false, false, false,
+        false, true, true, true, false)), (String ((Ascii (false, false,
+        true, false, true, true, true, false)), (String ((Ascii (true, false,
+        false, true, false, true, true, false)), (String ((Ascii (true, true,
+        true, true, false, true, true, false)), (String ((Ascii (false, true,
+        true, true, false, true, true, false)),
+        EmptyString)))))))))))))))))))))))))))))))))))))))))))), (String
+        ((Ascii (true, true, false, false, true, true, true, false)),
+        EmptyString)))) :: [])))) :: []))) :: (((String ((Ascii (true, true,
+    false, false, true, true, true, false)), (String ((Ascii (false, false,
+    true, false, true, true, true, false)), (String ((Ascii (true, false,
+    false, false, false, true, true, false)), (String ((Ascii (false, false,
+    true, false, true, true, true, false)), (String ((Ascii (true, false,
+    true, false, false, true, true, false)), (String ((Ascii (false, false,
+    true, false, false, false, true, false)), (String ((Ascii (true, false,
+    true, false, false, true, true, false)), (String ((Ascii (true, true,
+    false, false, true, true, true, false)), EmptyString)))))))))))))))),
+    (block ((SIf ((CByte (Npos (XI (XI (XO (XO (XO (XI XH)))))))),
+      (block ((SSetStep st_stateDesc) :: (SRetNil :: []))),
+      (block ((SRetErr ((String ((Ascii (true, false, false, true, false,
+        true, true, false)), (String ((Ascii (false, true, true, true, false,
+        true, true, false)), (String ((Ascii (false, false, false, false,
+        false, true, false, false)), (String ((Ascii (true, true, false,
+        true, false, true, true, false)), (String ((Ascii (true, false, true,
+        false, false, true, true, false)), (String ((Ascii (true, false,
+        false, true, true, true, true, false)), (String ((Ascii (true, true,
+        true, false, true, true, true, false)), (String ((Ascii (true, true,
+        true, true, false, true, true, false)), (String ((Ascii (false, true,
+        false, false, true, true, true, false)), (String ((Ascii (false,
+        false, true, false, false, true, true, false)), (String ((Ascii
+        (false, false, false, false, false, true, false, false)), (String
+        ((Ascii (false, false, true, false, false, false, true, false)),
+        (String ((Ascii (true, false, true, false, false, true, true,
+        false)), (String ((Ascii (true, true, false, false, true, true, true,
+        false)), (String ((Ascii (true, true, false, false, false, true,
+        true, false)), (String ((Ascii (false, true, false, false, true,
+        true, true, false)), (String ((Ascii (true, false, false, true,
+        false, true, true, false)), (String ((Ascii (false, false, false,
+        false, true, true, true, false)), (String ((Ascii (false, false,
+        true, false, true, true, true, false)), (String ((Ascii (true, false,
+        false, true, false, true, true, false)), (String ((Ascii (true, true,
+        true, true, false, true, true, false)), (String ((Ascii (false, true,
+        true, true, false, true, true, false)),
+        EmptyString)))))))))))))))))))))))))))))))))))))))))))), (String
+        ((Ascii (true, true, false, false, false, true, true, false)),
+        EmptyString)))) :: [])))) :: []))) :: (((String ((Ascii (true, true,
+    false, false, true, true, true, false)), (String ((Ascii (false, false,
+    true, false, true, true, true, false)), (String ((Ascii (true, false,
+    false, false, false, true, true, false)), (String ((Ascii (false, false,
+    true, false, true, true, true, false)), (String ((Ascii (true, false,
+    true, false, false, true, true, false)), (String ((Ascii (false, false,
+    true, false, false, false, true, false)), (String ((Ascii (true, false,
+    true, false, false, true, true, false)), (String ((Ascii (true, true,
+    false, false, true, true, true, false)), (String ((Ascii (true, true,
+    false, false, false, true, true, false)), EmptyString)))))))))))))))))),
+    (block ((SIf ((CByte (Npos (XO (XI (XO (XO (XI (XI XH)))))))),
+      (block ((SSetStep st_stateDescr) :: (SRetNil :: []))),
+      (block ((SRetErr ((String ((Ascii (true, false, false, true, false,
+        true, true, false)), (String ((Ascii (false, true, true, true, false,
+        true, true, false)), (String ((Ascii (false, false, false, false,
+        false, true, false, false)), (String ((Ascii (true, true, false,
+        true, false, true, true, false)), (String ((Ascii (true, false, true,
+        false, false, true, true, false)), (String ((Ascii (true, false,
+        false, true, true, true, true, false)), (String ((Ascii (true, true,
+        true, false, true, true, true, false)), (String ((Ascii (true, true,
+        true, true, false, true, true, false)), (String ((Ascii (false, true,
+        false, false, true, true, true, false)), (String ((Ascii (false,
+        false, true, false, false, true, true, false)), (String ((Ascii
+        (false, false, false, false, false, true, false, false)), (String
+        ((Ascii (false, false, true, false, false, false, true, false)),
+        (String ((Ascii (true, false, true, false, false, true, true,
+        false)), (String ((Ascii (true, true, false, false, true, true, true,
+        false)), (String ((Ascii (true, true, false, false, false, true,
+        true, false)), (String ((Ascii (false, true, false, false, true,
+        true, true, false)), (String ((Ascii (true, false, false, true,
+        false, true, true, false)), (String ((Ascii (false, false, false,
+        false, true, true, true, false)), (String ((Ascii (false, false,
+        true, false, true, true, true, false)), (String ((Ascii (true, false,
+        false, true, false, true, true, false)), (String ((Ascii (true, true,
+        true, true, false, true, true, false)), (String ((Ascii (false, true,
+        true, true, false, true, true, false)),
+        EmptyString)))))))))))))))))))))))))))))))))))))))))))), (String
+        ((Ascii (false, true, false, false, true, true, true, false)),
+        EmptyString)))) :: [])))) :: []))) :: (((String ((Ascii (true, true,
+    false, false, true, true, true, false)), (String ((Ascii (false, false,
+    true, false, true, true, true, false)), (String ((Ascii (true, false,
+    false, false, false, true, true, false)), (String ((Ascii (false, false,
+    true, false, true, true, true, false)), (String ((Ascii (true, false,
+    true, false, false, true, true, false)), (String ((Ascii (false, false,
+    true, false, false, false, true, false)), (String ((Ascii (true, false,
+    true, false, false, true, true, false)), (String ((Ascii (true, true,
+    false, false, true, true, true, false)), (String ((Ascii (true, true,
+    false, false, false, true, true, false)), (String ((Ascii (false, true,
+    false, false, true, true, true, false)), EmptyString)))))))))))))))))))),
+    (block ((SIf ((CByte (Npos (XI (XO (XO (XI (XO (XI XH)))))))),
+      (block ((SSetStep st_stateDescri) :: (SRetNil :: []))),
+      (block ((SRetErr ((String ((Ascii (true, false, false, true, false,
+        true, true, false)), (String ((Ascii (false, true, true, true, false,
+        true, true, false)), (String ((Ascii (false, false, false, false,
+        false, true, false, false)), (String ((Ascii (true, true, false,
+        true, false, true, true, false)), (String ((Ascii (true, false, true,
+        false, false, true, true, false)), (String ((Ascii (true, false,
+        false, true, true, true, true, false)), (String ((Ascii (true, true,
+        true, false, true, true, true, false)), (String ((Ascii (true, true,
+        true, true, false, true, true, false)), (String ((Ascii (false, true,
+        false, false, true, true, true, false)), (String ((Ascii (false,
+        false, true, false, false, true, true, false)), (String ((Ascii
+        (false, false, false, false, false, true, false, false)), (String
+        ((Ascii (false, false, true, false, false, false, true, false)),
+        (String ((Ascii (true, false, true, false, false, true, true,
+        false)), (String ((Ascii (true, true, false, false, true, true, true,
+        false)), (String ((Ascii (true, true, false, false, false, true,
+        true, false)), (String ((Ascii (false, true, false, false, true,
+        true, true, false)), (String ((Ascii (true, false, false, true,
+        false, true, true, false)), (String ((Ascii (false, false, false,
+        false, true, true, true, false)), (String ((Ascii (false, false,
+        true, false, true, true, true, false)), (String ((Ascii (true, false,
+        false, true, false, true, true, false)), (String ((Ascii (true, true,
+        true, true, false, true, true, false)), (String ((Ascii (false, true,
+        true, true, false, true, true, false)),
+        EmptyString)))))))))))))))))))))))))))))))))))))))))))), (String
+        ((Ascii (true, false, false, true, false, true, true, false)),
+        EmptyString)))) :: [])))) :: []))) :: (((String ((Ascii (true, true,
+    false, false, true, true, true, false)), (String ((Ascii (false, false,
+    true, false, true, true, true, false)), (String ((Ascii (true, false,
+    false, false, false, true, true, false)), (String ((Ascii (false, false,
+    true, false, true, true, true, false)), (String ((Ascii (true, false,
+    true, false, false, true, true, false)), (String ((Ascii (false, false,
+    true, false, false, false, true, false)), (String ((Ascii (true, false,
+    true, false, false, true, true, false)), (String ((Ascii (true, true,
+    false, false, true, true, true, false)), (String ((Ascii (true, true,
+    false, false, false, true, true, false)), (String ((Ascii (false, true,
+    false, false, true, true, true, false)), (String ((Ascii (true, false,
+    false, true, false, true, true, false)),
+    EmptyString)))))))))))))))))))))),
+    (block ((SIf ((CByte (Npos (XO (XO (XO (XO (XI (XI XH)))))))),
+      (block ((SSetStep st_stateDescrip) :: (SRetNil :: []))),
+      (block ((SRetErr ((String ((Ascii (true, false, false, true, false,
+        true, true, false)), (String ((Ascii (false, true, true, true, false,
+        true, true, false)), (String ((Ascii (false, false, false, false,
+        false, true, false, false)), (String ((Ascii (true, true, false,
+        true, false, true, true, false)), (String ((Ascii (true, false, true,
+        false, false, true, true, false)), (String ((Ascii (true, false,
+        false, true, true, true, true, false)), (String ((Ascii (true, true,
+        true, false, true, true, true, false)), (String ((Ascii (true, true,
+        true, true, false, true, true, false)), (String ((Ascii (false, true,
+        false, false, true, true, true, false)), (String ((Ascii (false,
+        false, true, false, false, true, true, false)), (String ((Ascii
+        (false, false, false, false, false, true, false, false)), (String
+        ((Ascii (false, false, true, false, false, false, true, false)),
+        (String ((Ascii (true, false, true, false, false, true, true,
+        false)), (String ((Ascii (true, true, false, false, true, true, true,
+        false)), (String ((Ascii (true, true, false, false, false, true,
+        true, false)), (String ((Ascii (false, true, false, false, true,
+        true, true, false)), (String ((Ascii (true, false, false, true,
+        false, true, true, false)), (String ((Ascii (false, false, false,
+        false, true, true, true, false)), (String ((Ascii (false, false,
+        true, false, true, true, true, false)), (String ((Ascii (true, false,
+        false, true, false, true, true, false)), (String ((Ascii (true, true,
+        true, true, false, true, true, false)), (String ((Ascii (false, true,
+        true, true, false, true, true, false)),
+        EmptyString)))))))))))))))))))))))))))))))))))))))))))), (String
+        ((Ascii (false, false, false, false, true, true, true, false)),
+        EmptyString)))) :: [])))) :: []))) :: (((String ((Ascii (true, true,
+    false, false, true, true, true, false)), (String ((Ascii (false, false,
+    true, false, true, true, true, false)), (String ((Ascii (true, false,
+    false, false, false, true, true, false)), (String ((Ascii (false, false,
+    true, false, true, true, true, false)), (String ((Ascii (true, false,
+    true, false, false, true, true, false)), (String ((Ascii (false, false,
+    true, false, false, false, true, false)), (String ((Ascii (true, false,
+    true, false, false, true, true, false)), (String ((Ascii (true, true,
+    false, false, true, true, true, false)), (String ((Ascii (true, true,
+    false, false, false, true, true, false)), (String ((Ascii (false, true,
+    false, false, true, true, true, false)), (String ((Ascii (true, false,
+    false, true, false, true, true, false)), (String ((Ascii (false, false,
+    false, false, true, true, true, false)),
+    EmptyString)))))))))))))))))))))))),
+    (block ((SIf ((CByte (Npos (XO (XO (XI (XO (XI (XI XH)))))))),
+      (block ((SSetStep st_stateDescript) :: (SRetNil :: []))),
+      (block ((SRetErr ((String ((Ascii (true, false, false, true, false,
+        true, true, false)), (String ((Ascii (false, true, true, true, false,
+        true, true, false)), (String ((Ascii (false, false, false, false,
+        false, true, false, false)), (String ((Ascii (true, true, false,
+        true, false, true, true, false)), (String ((Ascii (true, false, true,
+        false, false, true, true, false)), (String ((Ascii (true, false,
+        false, true, true, true, true, false)), (String ((Ascii (true, true,
+        true, false, true, true, true, false)), (String ((Ascii (true, true,
+        true, true, false, true, true, false)), (String ((Ascii (false, true,
+        false, false, true, true, true, false)), (String ((Ascii (false,
+        false, true, false, false, true, true, false)), (String ((Ascii
+        (false, false, false, false, false, true, false, false)), (String
+        ((Ascii (false, false, true, false, false, false, true, false)),
+        (String ((Ascii (true, false, true, false, false, true, true,
+        false)), (String ((Ascii (true, true, false, false, true, true, true,
+        false)), (String ((Ascii (true, true, false, false, false, true,
+        true, false)), (String ((Ascii (false, true, false, false, true,
+        true, true, false)), (String ((Ascii (true, false, false, true,
+        false, true, true, false)), (String ((Ascii (false, false, false,
+        false, true, true, true, false)), (String ((Ascii (false, false,
+        true, false, true, true, true, false)), (String ((Ascii (true, false,
+        false, true, false, true, true, false)), (String ((Ascii (true, true,
+        true, true, false, true, true, false)), (String ((Ascii (false, true,
+        true, true, false, true, true, false)),
+        EmptyString)))))))))))))))))))))))))))))))))))))))))))), (String
+        ((Ascii (false, false, true, false, true, true, true, false)),
+        EmptyString)))) :: [])))) :: []))) :: (((String ((Ascii (true, true,
+    false, false, true, true, true, false)), (String ((Ascii (false, false,
+    true, false, true, true, true, false)), (String ((Ascii (true, false,
+    false, false, false, true, true, false)), (String ((Ascii (false, false,
+    true, false, true, true, true, false)), (String ((Ascii (true, false,
+    true, false, false, true, true, false)), (String ((Ascii (false, false,
+    true, false, false, false, true, false)), (String ((Ascii (true, false,
+    true, false, false, true, true, false)), (String ((Ascii (true, true,
+    false, false, true, true, true, false)), (String ((Ascii (true, true,
+    false, false, false, true, true, false)), (String ((Ascii (false, true,
+    false, false, true, true, true, false)), (String ((Ascii (true, false,
+    false, true, false, true, true, false)), (String ((Ascii (false, false,
+    false, false, true, true, true, false)), (String ((Ascii (false, false,
+    true, false, true, true, true, false)),
+    EmptyString)))))))))))))))))))))))))),
+    (block ((SIf ((CByte (Npos (XI (XO (XO (XI (XO (XI XH)))))))),
+      (block ((SSetStep st_stateDescripti) :: (SRetNil :: []))),
+      (block ((SRetErr ((String ((Ascii (true, false, false, true, false,
+        true, true, false)), (String ((Ascii (false, true, true, true, false,
+        true, true, false)), (String ((Ascii (false, false, false, false,
+        false, true, false, false)), (String ((Ascii (true, true, false,
+        true, false, true, true, false)), (String ((Ascii (true, false, true,
+        false, false, true, true, false)), (String ((Ascii (true, false,
+        false, true, true, true, true, false)), (String ((Ascii (true, true,
+        true, false, true, true, true, false)), (String ((Ascii (true, true,
+        true, true, false, true, true, false)), (String ((Ascii (false, true,
+        false, false, true, true, true, false)), (String ((Ascii (false,
+        false, true, false, false, true, true, false)), (String ((Ascii
+        (false, false, false, false, false, true, false, false)), (String
+        ((Ascii (false, false, true, false, false, false, true, false)),
+        (String ((Ascii (true, false, true, false, false, true, true,
+        false)), (String ((Ascii (true, true, false, false, true, true, true,
+        false)), (String ((Ascii (true, true, false, false, false, true,
+        true, false)), (String ((Ascii (false, true, false, false, true,
+        true, true, false)), (String ((Ascii (true, false, false, true,
+        false, true, true, false)), (String ((Ascii (false, false, false,
+        false, true, true, true, false)), (String ((Ascii (false, false,
+        true, false, true, true, true, false)), (String ((Ascii (true, false,
+        false, true, false, true, true, false)), (String ((Ascii (true, true,
+        true, true, false, true, true, false)), (String ((Ascii (false, true,
+        true, true, false, true, true, false)),
+        EmptyString)))))))))))))))))))))))))))))))))))))))))))), (String
+        ((Ascii (true, false, false, true, false, true, true, false)),
+        EmptyString)))) :: [])))) :: []))) :: (((String ((Ascii (true, true,
+    false, false, true, true, true, false)), (String ((Ascii (false, false,
+    true, false, true, true, true, false)), (String ((Ascii (true, false,
+    false, false, false, true, true, false)), (String ((Ascii (false, false,
+    true, false, true, true, true, false)), (String ((Ascii (true, false,
+    true, false, false, true, true, false)), (String ((Ascii (false, false,
+    true, false, false, false, true, false)), (String ((Ascii (true, false,
+    true, false, false, true, true, false)), (String ((Ascii (true, true,
+    false, false, true, true, true, false)), (String ((Ascii (true, true,
+    false, false, false, true, true, false)), (String ((Ascii (false, true,
+    false, false, true, true, true, false)), (String ((Ascii (true, false,
+    false, true, false, true, true, false)), (String ((Ascii (false, false,
+    false, false, true, true, true, false)), (String ((Ascii (false, false,
+    true, false, true, true, true, false)), (String ((Ascii (true, false,
+    false, true, false, true, true, false)),
+    EmptyString)))))))))))))))))))))))))))),
+    (block ((SIf ((CByte (Npos (XI (XI (XI (XI (XO (XI XH)))))))),
+      (block ((SSetStep st_stateDescriptio) :: (SRetNil :: []))),
+      (block ((SRetErr ((String ((Ascii (true, false, false, true, false,
+        true, true, false)), (String ((Ascii (false, true, true, true, false,
+        true, true, false)), (String ((Ascii (false, false, false, false,
+        false, true, false, false)), (String ((Ascii (true, true, false,
+        true, false, true, true, false)), (String ((Ascii (true, false, true,
+        false, false, true, true, false)), (String ((Ascii (true, false,
+        false, true, true, true, true, false)), (String ((Ascii (true, true,
+        true, false, true, true, true, false)), (String ((Ascii (true, true,
+        true, true, false, true, true, false)), (String ((Ascii (false, true,
+        false, false, true, true, true, false)), (String ((Ascii (false,
+        false, true, false, false, true, true, false)), (String ((Ascii
+        (false, false, false, false, false, true, false, false)), (String
+        ((Ascii (false, false, true, false, false, false, true, false)),
+        (String ((Ascii (true, false, true, false, false, true, true,
+        false)), (String ((Ascii (true, true, false, false, true, true, true,
+        false)), (String ((Ascii (true, true, false, false, false, true,
+        true, false)), (String ((Ascii (false, true, false, false, true,
+        true, true, false)), (String ((Ascii (true, false, false, true,
+        false, true, true, false)), (String ((Ascii (false, false, false,
+        false, true, true, true, false)), (String ((Ascii (false, false,
+        true, false, true, true, true, false)), (String ((Ascii (true, false,
+        false, true, false, true, true, false)), (String ((Ascii (true, true,
+        true, true, false, true, true, false)), (String ((Ascii (false, true,
+        true, true, false, true, true, false)),
+        EmptyString)))))))))))))))))))))))))))))))))))))))))))), (String
+        ((Ascii (true, true, true, true, false, true, true, false)),
+        EmptyString)))) :: [])))) :: []))) :: (((String ((Ascii (true, true,
+    false, false, true, true, true, false)), (String ((Ascii (false, false,
+    true, false, true, true, true, false)), (String ((Ascii (true, false,
+    false, false, false, true, true, false)), (String ((Ascii (false, false,
+    true, false, true, true, true, false)), (String ((Ascii (true, false,
+    true, false, false, true, true, false)), (String ((Ascii (false, false,
+    true, false, false, false, true, false)), (String ((Ascii (true, false,
+    true, false, false, true, true, false)), (String ((Ascii (true, true,
+    false, false, true, true, true, false)), (String ((Ascii (true, true,
+    false, false, false, true, true, false)), (String ((Ascii (false, true,
+    false, false, true, true, true, false)), (String ((Ascii (true, false,
+    false, true, false, true, true, false)), (String ((Ascii (false, false,
+    false, false, true, true, true, false)), (String ((Ascii (false, false,
+    true, false, true, true, true, false)), (String ((Ascii (true, false,
+    false, true, false, true, true, false)), (String ((Ascii (true, true,
+    true, true, false, true, true, false)),
+    EmptyString)))))))))))))))))))))))))))))),
+    (block ((SIf ((CByte (Npos (XO (XI (XI (XI (XO (XI XH)))))))),
+      (block ((SFound (KeywordEnd, Z0)) :: ((SPush
+        st_stateDescriptionTextBeginStarter) :: ((SSetStep
+        st_stateParameterOrAnnotation) :: (SRetNil :: []))))),
+      (block ((SRetErr ((String ((Ascii (true, false, false, true, false,
+        true, true, false)), (String ((Ascii (false, true, true, true, false,
+        true, true, false)), (String ((Ascii (false, false, false, false,
+        false, true, false, false)), (String ((Ascii (true, true, false,
+        true, false, true, true, false)), (String ((Ascii (true, false, true,
+        false, false, true, true, false)), (String ((Ascii (true, false,
+        false, true, true, true, true, false)), (String ((Ascii (true, true,
+        true, false, true, true, true, false)), (String ((Ascii (true, true,
+        true, true, false, true, true, false)), (String ((Ascii (false, true,
+        false, false, true, true, true, false)), (String ((Ascii (false,
+        false, true, false, false, true, true, false)), (String ((Ascii
+        (false, false, false, false, false, true, false, false)), (String
+        ((Ascii (false, false, true, false, false, false, true, false)),
+        (String ((Ascii (true, false, true, false, false, true, true,
+        false)), (String ((Ascii (true, true, false, false, true, true, true,
+        false)), (String ((Ascii (true, true, false, false, false, true,
+        true, false)), (String ((Ascii (false, true, false, false, true,
+        true, true, false)), (String ((Ascii (true, false, false, true,
+        false, true, true, false)), (String ((Ascii (false, false, false,
+        false, true, true, true, false)), (String ((Ascii (false, false,
+        true, false, true, true, true, false)), (String ((Ascii (true, false,
+        false, true, false, true, true, false)), (String ((Ascii (true, true,
+        true, true, false, true, true, false)), (String ((Ascii (false, true,
+        true, true, false, true, true, false)),
+        EmptyString)))))))))))))))))))))))))))))))))))))))))))), (String
+        ((Ascii (false, true, true, true, false, true, true, false)),
+        EmptyString)))) :: [])))) :: []))) :: (((String ((Ascii (true, true,
     false, false, true, true, true, false)), (String ((Ascii (false, false,
     true, false, true, true, true, false)), (String ((Ascii (true, false,
     false, false, false, true, true, false)), (String ((Ascii (false, false,
@@ -4062,19 +4137,47 @@ let prog_table =
     true, false, true, false, true, false)), (String ((Ascii (true, false,
     true, false, false, true, true, false)), (String ((Ascii (false, false,
     false, true, true, true, true, false)), (String ((Ascii (false, false,
-    true, false, true, true, true, false)), (String ((Ascii (false, true,
-    false, false, false, false, true, false)), (String ((Ascii (true, false,
-    true, false, false, true, true, false)), (String ((Ascii (true, true,
-    true, false, false, true, true, false)), (String ((Ascii (true, false,
-    false, true, false, true, true, false)), (String ((Ascii (false, true,
-    true, true, false, true, true, false)),
-    EmptyString)))))))))))))))))))))))))))))))))))))))))))))))))), ((SIf
-    ((COr (CNewLine, CWhitespace)), (SRetNil :: []), ((SIf ((CByte N0),
-    ((SFound (TextEnd, (Zneg XH))) :: (SRetNil :: [])), ((SIf ((CByte (Npos
-    (XO (XO (XO (XI (XO XH))))))), ((SSetStep
-    st_stateDescriptionTextBracketsInner) :: (SRetNil :: [])), ((SSetStep
-    st_stateDescriptionTextNewline) :: ((SRetCall
-    st_stateDescriptionTextNewline) :: [])))) :: []))) :: []))) :: [])) :: (((String
+    true, false, true, true, true, false)),
+    EmptyString)))))))))))))))))))))))))))))))))))))))),
+    (block ((SIf (CNewLine,
+      (block ((SSetStep st_stateDescriptionTextNewline) :: (SRetNil :: []))),
+      (block ((SIf ((CByte N0),
+        (block ((SFound (TextEnd, (Zneg XH))) :: (SRetNil :: []))),
+        (block (SRetNil :: [])))) :: [])))) :: []))) :: (((String ((Ascii
+    (true, true, false, false, true, true, true, false)), (String ((Ascii
+    (false, false, true, false, true, true, true, false)), (String ((Ascii
+    (true, false, false, false, false, true, true, false)), (String ((Ascii
+    (false, false, true, false, true, true, true, false)), (String ((Ascii
+    (true, false, true, false, false, true, true, false)), (String ((Ascii
+    (false, false, true, false, false, false, true, false)), (String ((Ascii
+    (true, false, true, false, false, true, true, false)), (String ((Ascii
+    (true, true, false, false, true, true, true, false)), (String ((Ascii
+    (true, true, false, false, false, true, true, false)), (String ((Ascii
+    (false, true, false, false, true, true, true, false)), (String ((Ascii
+    (true, false, false, true, false, true, true, false)), (String ((Ascii
+    (false, false, false, false, true, true, true, false)), (String ((Ascii
+    (false, false, true, false, true, true, true, false)), (String ((Ascii
+    (true, false, false, true, false, true, true, false)), (String ((Ascii
+    (true, true, true, true, false, true, true, false)), (String ((Ascii
+    (false, true, true, true, false, true, true, false)), (String ((Ascii
+    (false, false, true, false, true, false, true, false)), (String ((Ascii
+    (true, false, true, false, false, true, true, false)), (String ((Ascii
+    (false, false, false, true, true, true, true, false)), (String ((Ascii
+    (false, false, true, false, true, true, true, false)), (String ((Ascii
+    (false, true, false, false, false, false, true, false)), (String ((Ascii
+    (true, false, true, false, false, true, true, false)), (String ((Ascii
+    (true, true, true, false, false, true, true, false)), (String ((Ascii
+    (true, false, false, true, false, true, true, false)), (String ((Ascii
+    (false, true, true, true, false, true, true, false)),
+    EmptyString)))))))))))))))))))))))))))))))))))))))))))))))))),
+    (block ((SIf ((COr (CNewLine, CWhitespace)), (block (SRetNil :: [])),
+      (block ((SIf ((CByte N0),
+        (block ((SFound (TextEnd, (Zneg XH))) :: (SRetNil :: []))),
+        (block ((SIf ((CByte (Npos (XO (XO (XO (XI (XO XH))))))),
+          (block ((SSetStep
+            st_stateDescriptionTextBracketsInner) :: (SRetNil :: []))),
+          (block ((SSetStep st_stateDescriptionTextNewline) :: ((SRetCall
+            st_stateDescriptionTextNewline) :: []))))) :: [])))) :: [])))) :: []))) :: (((String
     ((Ascii (true, true, false, false, true, true, true, false)), (String
     ((Ascii (false, false, true, false, true, true, true, false)), (String
     ((Ascii (true, false, false, false, false, true, true, false)), (String
@@ -4108,92 +4211,93 @@ let prog_table =
     ((Ascii (true, false, true, false, false, true, true, false)), (String
     ((Ascii (false, true, false, false, true, true, true, false)),
     EmptyString)))))))))))))))))))))))))))))))))))))))))))))))))))))))))))))))),
-    ((SFound (TextBegin, Z0)) :: ((SSetStep
-    st_stateDescriptionTextBegin) :: ((SRetCall
-    st_stateDescriptionTextBegin) :: [])))) :: (((String ((Ascii (true, true,
-    false, false, true, true, true, false)), (String ((Ascii (false, false,
-    true, false, true, true, true, false)), (String ((Ascii (true, false,
-    false, false, false, true, true, false)), (String ((Ascii (false, false,
-    true, false, true, true, true, false)), (String ((Ascii (true, false,
-    true, false, false, true, true, false)), (String ((Ascii (false, false,
-    true, false, false, false, true, false)), (String ((Ascii (true, false,
-    true, false, false, true, true, false)), (String ((Ascii (true, true,
-    false, false, true, true, true, false)), (String ((Ascii (true, true,
-    false, false, false, true, true, false)), (String ((Ascii (false, true,
-    false, false, true, true, true, false)), (String ((Ascii (true, false,
-    false, true, false, true, true, false)), (String ((Ascii (false, false,
-    false, false, true, true, true, false)), (String ((Ascii (false, false,
-    true, false, true, true, true, false)), (String ((Ascii (true, false,
-    false, true, false, true, true, false)), (String ((Ascii (true, true,
-    true, true, false, true, true, false)), (String ((Ascii (false, true,
-    true, true, false, true, true, false)), (String ((Ascii (false, false,
-    true, false, true, false, true, false)), (String ((Ascii (true, false,
-    true, false, false, true, true, false)), (String ((Ascii (false, false,
-    false, true, true, true, true, false)), (String ((Ascii (false, false,
-    true, false, true, true, true, false)), (String ((Ascii (false, true,
-    false, false, false, false, true, false)), (String ((Ascii (false, true,
-    false, false, true, true, true, false)), (String ((Ascii (true, false,
-    false, false, false, true, true, false)), (String ((Ascii (true, true,
-    false, false, false, true, true, false)), (String ((Ascii (true, true,
-    false, true, false, true, true, false)), (String ((Ascii (true, false,
-    true, false, false, true, true, false)), (String ((Ascii (false, false,
-    true, false, true, true, true, false)), (String ((Ascii (true, true,
-    false, false, true, true, true, false)), (String ((Ascii (true, false,
-    false, true, false, false, true, false)), (String ((Ascii (false, true,
-    true, true, false, true, true, false)), (String ((Ascii (false, true,
-    true, true, false, true, true, false)), (String ((Ascii (true, false,
-    true, false, false, true, true, false)), (String ((Ascii (false, true,
-    false, false, true, true, true, false)),
+    (block ((SFound (TextBegin, Z0)) :: ((SSetStep
+      st_stateDescriptionTextBegin) :: ((SRetCall
+      st_stateDescriptionTextBegin) :: []))))) :: (((String ((Ascii (true,
+    true, false, false, true, true, true, false)), (String ((Ascii (false,
+    false, true, false, true, true, true, false)), (String ((Ascii (true,
+    false, false, false, false, true, true, false)), (String ((Ascii (false,
+    false, true, false, true, true, true, false)), (String ((Ascii (true,
+    false, true, false, false, true, true, false)), (String ((Ascii (false,
+    false, true, false, false, false, true, false)), (String ((Ascii (true,
+    false, true, false, false, true, true, false)), (String ((Ascii (true,
+    true, false, false, true, true, true, false)), (String ((Ascii (true,
+    true, false, false, false, true, true, false)), (String ((Ascii (false,
+    true, false, false, true, true, true, false)), (String ((Ascii (true,
+    false, false, true, false, true, true, false)), (String ((Ascii (false,
+    false, false, false, true, true, true, false)), (String ((Ascii (false,
+    false, true, false, true, true, true, false)), (String ((Ascii (true,
+    false, false, true, false, true, true, false)), (String ((Ascii (true,
+    true, true, true, false, true, true, false)), (String ((Ascii (false,
+    true, true, true, false, true, true, false)), (String ((Ascii (false,
+    false, true, false, true, false, true, false)), (String ((Ascii (true,
+    false, true, false, false, true, true, false)), (String ((Ascii (false,
+    false, false, true, true, true, true, false)), (String ((Ascii (false,
+    false, true, false, true, true, true, false)), (String ((Ascii (false,
+    true, false, false, false, false, true, false)), (String ((Ascii (false,
+    true, false, false, true, true, true, false)), (String ((Ascii (true,
+    false, false, false, false, true, true, false)), (String ((Ascii (true,
+    true, false, false, false, true, true, false)), (String ((Ascii (true,
+    true, false, true, false, true, true, false)), (String ((Ascii (true,
+    false, true, false, false, true, true, false)), (String ((Ascii (false,
+    false, true, false, true, true, true, false)), (String ((Ascii (true,
+    true, false, false, true, true, true, false)), (String ((Ascii (true,
+    false, false, true, false, false, true, false)), (String ((Ascii (false,
+    true, true, true, false, true, true, false)), (String ((Ascii (false,
+    true, true, true, false, true, true, false)), (String ((Ascii (true,
+    false, true, false, false, true, true, false)), (String ((Ascii (false,
+    true, false, false, true, true, true, false)),
     EmptyString)))))))))))))))))))))))))))))))))))))))))))))))))))))))))))))))))),
-    ((SIf (CNewLine, ((SSetStep
-    st_stateDescriptionTextBracketsInnerNewLine) :: []),
-    [])) :: (SRetNil :: []))) :: (((String ((Ascii (true, true, false, false,
-    true, true, true, false)), (String ((Ascii (false, false, true, false,
-    true, true, true, false)), (String ((Ascii (true, false, false, false,
-    false, true, true, false)), (String ((Ascii (false, false, true, false,
-    true, true, true, false)), (String ((Ascii (true, false, true, false,
-    false, true, true, false)), (String ((Ascii (false, false, true, false,
-    false, false, true, false)), (String ((Ascii (true, false, true, false,
-    false, true, true, false)), (String ((Ascii (true, true, false, false,
-    true, true, true, false)), (String ((Ascii (true, true, false, false,
-    false, true, true, false)), (String ((Ascii (false, true, false, false,
-    true, true, true, false)), (String ((Ascii (true, false, false, true,
-    false, true, true, false)), (String ((Ascii (false, false, false, false,
-    true, true, true, false)), (String ((Ascii (false, false, true, false,
-    true, true, true, false)), (String ((Ascii (true, false, false, true,
-    false, true, true, false)), (String ((Ascii (true, true, true, true,
-    false, true, true, false)), (String ((Ascii (false, true, true, true,
-    false, true, true, false)), (String ((Ascii (false, false, true, false,
-    true, false, true, false)), (String ((Ascii (true, false, true, false,
-    false, true, true, false)), (String ((Ascii (false, false, false, true,
-    true, true, true, false)), (String ((Ascii (false, false, true, false,
-    true, true, true, false)), (String ((Ascii (false, true, false, false,
-    false, false, true, false)), (String ((Ascii (false, true, false, false,
-    true, true, true, false)), (String ((Ascii (true, false, false, false,
-    false, true, true, false)), (String ((Ascii (true, true, false, false,
-    false, true, true, false)), (String ((Ascii (true, true, false, true,
-    false, true, true, false)), (String ((Ascii (true, false, true, false,
-    false, true, true, false)), (String ((Ascii (false, false, true, false,
-    true, true, true, false)), (String ((Ascii (true, true, false, false,
-    true, true, true, false)), (String ((Ascii (true, false, false, true,
-    false, false, true, false)), (String ((Ascii (false, true, true, true,
-    false, true, true, false)), (String ((Ascii (false, true, true, true,
-    false, true, true, false)), (String ((Ascii (true, false, true, false,
-    false, true, true, false)), (String ((Ascii (false, true, false, false,
-    true, true, true, false)), (String ((Ascii (false, true, true, true,
-    false, false, true, false)), (String ((Ascii (true, false, true, false,
-    false, true, true, false)), (String ((Ascii (true, true, true, false,
-    true, true, true, false)), (String ((Ascii (false, false, true, true,
-    false, false, true, false)), (String ((Ascii (true, false, false, true,
-    false, true, true, false)), (String ((Ascii (false, true, true, true,
-    false, true, true, false)), (String ((Ascii (true, false, true, false,
-    false, true, true, false)),
+    (block ((SIf (CNewLine,
+      (block ((SSetStep st_stateDescriptionTextBracketsInnerNewLine) :: [])),
+      SSkip)) :: (SRetNil :: [])))) :: (((String ((Ascii (true, true, false,
+    false, true, true, true, false)), (String ((Ascii (false, false, true,
+    false, true, true, true, false)), (String ((Ascii (true, false, false,
+    false, false, true, true, false)), (String ((Ascii (false, false, true,
+    false, true, true, true, false)), (String ((Ascii (true, false, true,
+    false, false, true, true, false)), (String ((Ascii (false, false, true,
+    false, false, false, true, false)), (String ((Ascii (true, false, true,
+    false, false, true, true, false)), (String ((Ascii (true, true, false,
+    false, true, true, true, false)), (String ((Ascii (true, true, false,
+    false, false, true, true, false)), (String ((Ascii (false, true, false,
+    false, true, true, true, false)), (String ((Ascii (true, false, false,
+    true, false, true, true, false)), (String ((Ascii (false, false, false,
+    false, true, true, true, false)), (String ((Ascii (false, false, true,
+    false, true, true, true, false)), (String ((Ascii (true, false, false,
+    true, false, true, true, false)), (String ((Ascii (true, true, true,
+    true, false, true, true, false)), (String ((Ascii (false, true, true,
+    true, false, true, true, false)), (String ((Ascii (false, false, true,
+    false, true, false, true, false)), (String ((Ascii (true, false, true,
+    false, false, true, true, false)), (String ((Ascii (false, false, false,
+    true, true, true, true, false)), (String ((Ascii (false, false, true,
+    false, true, true, true, false)), (String ((Ascii (false, true, false,
+    false, false, false, true, false)), (String ((Ascii (false, true, false,
+    false, true, true, true, false)), (String ((Ascii (true, false, false,
+    false, false, true, true, false)), (String ((Ascii (true, true, false,
+    false, false, true, true, false)), (String ((Ascii (true, true, false,
+    true, false, true, true, false)), (String ((Ascii (true, false, true,
+    false, false, true, true, false)), (String ((Ascii (false, false, true,
+    false, true, true, true, false)), (String ((Ascii (true, true, false,
+    false, true, true, true, false)), (String ((Ascii (true, false, false,
+    true, false, false, true, false)), (String ((Ascii (false, true, true,
+    true, false, true, true, false)), (String ((Ascii (false, true, true,
+    true, false, true, true, false)), (String ((Ascii (true, false, true,
+    false, false, true, true, false)), (String ((Ascii (false, true, false,
+    false, true, true, true, false)), (String ((Ascii (false, true, true,
+    true, false, false, true, false)), (String ((Ascii (true, false, true,
+    false, false, true, true, false)), (String ((Ascii (true, true, true,
+    false, true, true, true, false)), (String ((Ascii (false, false, true,
+    true, false, false, true, false)), (String ((Ascii (true, false, false,
+    true, false, true, true, false)), (String ((Ascii (false, true, true,
+    true, false, true, true, false)), (String ((Ascii (true, false, true,
+    false, false, true, true, false)),
     EmptyString)))))))))))))))))))))))))))))))))))))))))))))))))))))))))))))))))))))))))))))))),
-    ((SIf ((COr (CWhitespace, CNewLine)), (SRetNil :: []), ((SIf ((CByte
-    (Npos (XI (XO (XO (XI (XO XH))))))), ((SFound (TextEnd,
-    Z0)) :: ((SSetStep st_stateExpectKeyword) :: (SRetNil :: []))),
-    ((SSetStep
-    st_stateDescriptionTextBracketsInner) :: (SRetNil :: [])))) :: []))) :: [])) :: (((String
+    (block ((SIf ((COr (CWhitespace, CNewLine)), (block (SRetNil :: [])),
+      (block ((SIf ((CByte (Npos (XI (XO (XO (XI (XO XH))))))),
+        (block ((SFound (TextEnd, Z0)) :: ((SSetStep
+          st_stateExpectKeyword) :: (SRetNil :: [])))),
+        (block ((SSetStep
+          st_stateDescriptionTextBracketsInner) :: (SRetNil :: []))))) :: [])))) :: []))) :: (((String
     ((Ascii (true, true, false, false, true, true, true, false)), (String
     ((Ascii (false, false, true, false, true, true, true, false)), (String
     ((Ascii (true, false, false, false, false, true, true, false)), (String
@@ -4221,139 +4325,158 @@ let prog_table =
     ((Ascii (true, false, false, true, false, true, true, false)), (String
     ((Ascii (false, true, true, true, false, true, true, false)), (String
     ((Ascii (true, false, true, false, false, true, true, false)),
-    EmptyString)))))))))))))))))))))))))))))))))))))))))))))))))))))), ((SIf
-    ((COr (CWhitespace, CNewLine)), (SRetNil :: []), ((SIf ((CByte N0),
-    ((SFound (TextEnd, (Zneg XH))) :: (SRetNil :: [])), ((SIf ((CCtx
-    QIsDirective), ((SFound (TextEnd, (Zneg XH))) :: ((SSetStep
-    st_stateExpectKeyword) :: ((SAddCur (Zneg XH)) :: (SRetNil :: [])))),
-    ((SIf ((CByte (Npos (XI (XO (XO (XI (XO XH))))))), ((SFound (TextEnd,
-    (Zneg XH))) :: ((SFound (ContextClose, Z0)) :: ((SSetStep
-    st_stateExpectKeyword) :: (SRetNil :: [])))), ((SSetStep
-    st_stateDescriptionText) :: (SRetNil :: [])))) :: []))) :: []))) :: []))) :: [])) :: (((String
+    EmptyString)))))))))))))))))))))))))))))))))))))))))))))))))))))),
+    (block ((SIf ((COr (CWhitespace, CNewLine)), (block (SRetNil :: [])),
+      (block ((SIf ((CByte N0),
+        (block ((SFound (TextEnd, (Zneg XH))) :: (SRetNil :: []))),
+        (block ((SIf ((CCtx QIsDirective),
+          (block ((SFound (TextEnd, (Zneg XH))) :: ((SSetStep
+            st_stateExpectKeyword) :: ((SAddCur (Zneg
+            XH)) :: (SRetNil :: []))))),
+          (block ((SIf ((CByte (Npos (XI (XO (XO (XI (XO XH))))))),
+            (block ((SFound (TextEnd, (Zneg XH))) :: ((SFound (ContextClose,
+              Z0)) :: ((SSetStep
+              st_stateExpectKeyword) :: (SRetNil :: []))))),
+            (block ((SSetStep st_stateDescriptionText) :: (SRetNil :: []))))) :: [])))) :: [])))) :: [])))) :: []))) :: (((String
     ((Ascii (true, true, false, false, true, true, true, false)), (String
     ((Ascii (false, false, true, false, true, true, true, false)), (String
     ((Ascii (true, false, false, false, false, true, true, false)), (String
     ((Ascii (false, false, true, false, true, true, true, false)), (String
     ((Ascii (true, false, true, false, false, true, true, false)), (String
     ((Ascii (true, false, true, false, false, false, true, false)),
-    EmptyString)))))))))))), ((SIf ((CByte (Npos (XO (XI (XI (XI (XO (XO
-    XH)))))))), ((SSetStep st_stateEN) :: (SRetNil :: [])), ((SRetErr
-    ((String ((Ascii (true, false, false, true, false, true, true, false)),
-    (String ((Ascii (false, true, true, true, false, true, true, false)),
-    (String ((Ascii (false, false, false, false, false, true, false, false)),
-    (String ((Ascii (true, true, false, true, false, true, true, false)),
-    (String ((Ascii (true, false, true, false, false, true, true, false)),
-    (String ((Ascii (true, false, false, true, true, true, true, false)),
-    (String ((Ascii (true, true, true, false, true, true, true, false)),
-    (String ((Ascii (true, true, true, true, false, true, true, false)),
-    (String ((Ascii (false, true, false, false, true, true, true, false)),
-    (String ((Ascii (false, false, true, false, false, true, true, false)),
-    (String ((Ascii (false, false, false, false, false, true, false, false)),
-    (String ((Ascii (true, false, true, false, false, false, true, false)),
-    (String ((Ascii (false, true, true, true, false, false, true, false)),
-    (String ((Ascii (true, false, true, false, true, false, true, false)),
-    (String ((Ascii (true, false, true, true, false, false, true, false)),
-    EmptyString)))))))))))))))))))))))))))))), (String ((Ascii (false, true,
-    true, true, false, false, true, false)),
-    EmptyString)))) :: []))) :: [])) :: (((String ((Ascii (true, true, false,
-    false, true, true, true, false)), (String ((Ascii (false, false, true,
-    false, true, true, true, false)), (String ((Ascii (true, false, false,
-    false, false, true, true, false)), (String ((Ascii (false, false, true,
-    false, true, true, true, false)), (String ((Ascii (true, false, true,
-    false, false, true, true, false)), (String ((Ascii (true, false, true,
-    false, false, false, true, false)), (String ((Ascii (false, true, true,
-    true, false, false, true, false)), EmptyString)))))))))))))), ((SIf
-    ((CByte (Npos (XI (XO (XI (XO (XI (XO XH)))))))), ((SSetStep
-    st_stateENU) :: (SRetNil :: [])), ((SRetErr ((String ((Ascii (true,
-    false, false, true, false, true, true, false)), (String ((Ascii (false,
-    true, true, true, false, true, true, false)), (String ((Ascii (false,
-    false, false, false, false, true, false, false)), (String ((Ascii (true,
-    true, false, true, false, true, true, false)), (String ((Ascii (true,
-    false, true, false, false, true, true, false)), (String ((Ascii (true,
-    false, false, true, true, true, true, false)), (String ((Ascii (true,
-    true, true, false, true, true, true, false)), (String ((Ascii (true,
-    true, true, true, false, true, true, false)), (String ((Ascii (false,
-    true, false, false, true, true, true, false)), (String ((Ascii (false,
-    false, true, false, false, true, true, false)), (String ((Ascii (false,
-    false, false, false, false, true, false, false)), (String ((Ascii (true,
-    false, true, false, false, false, true, false)), (String ((Ascii (false,
-    true, true, true, false, false, true, false)), (String ((Ascii (true,
-    false, true, false, true, false, true, false)), (String ((Ascii (true,
-    false, true, true, false, false, true, false)),
-    EmptyString)))))))))))))))))))))))))))))), (String ((Ascii (true, false,
-    true, false, true, false, true, false)),
-    EmptyString)))) :: []))) :: [])) :: (((String ((Ascii (true, true, false,
-    false, true, true, true, false)), (String ((Ascii (false, false, true,
-    false, true, true, true, false)), (String ((Ascii (true, false, false,
-    false, false, true, true, false)), (String ((Ascii (false, false, true,
-    false, true, true, true, false)), (String ((Ascii (true, false, true,
-    false, false, true, true, false)), (String ((Ascii (true, false, true,
-    false, false, false, true, false)), (String ((Ascii (false, true, true,
-    true, false, false, true, false)), (String ((Ascii (true, false, true,
-    false, true, false, true, false)), EmptyString)))))))))))))))), ((SIf
-    ((CByte (Npos (XI (XO (XI (XI (XO (XO XH)))))))), ((SFound (KeywordEnd,
-    Z0)) :: ((SPush st_stateEnumBody) :: ((SSetStep
-    st_stateParameterOrAnnotation) :: (SRetNil :: [])))), ((SRetErr ((String
-    ((Ascii (true, false, false, true, false, true, true, false)), (String
-    ((Ascii (false, true, true, true, false, true, true, false)), (String
-    ((Ascii (false, false, false, false, false, true, false, false)), (String
-    ((Ascii (true, true, false, true, false, true, true, false)), (String
-    ((Ascii (true, false, true, false, false, true, true, false)), (String
-    ((Ascii (true, false, false, true, true, true, true, false)), (String
-    ((Ascii (true, true, true, false, true, true, true, false)), (String
-    ((Ascii (true, true, true, true, false, true, true, false)), (String
-    ((Ascii (false, true, false, false, true, true, true, false)), (String
-    ((Ascii (false, false, true, false, false, true, true, false)), (String
-    ((Ascii (false, false, false, false, false, true, false, false)), (String
-    ((Ascii (true, false, true, false, false, false, true, false)), (String
-    ((Ascii (false, true, true, true, false, false, true, false)), (String
-    ((Ascii (true, false, true, false, true, false, true, false)), (String
-    ((Ascii (true, false, true, true, false, false, true, false)),
-    EmptyString)))))))))))))))))))))))))))))), (String ((Ascii (true, false,
-    true, true, false, false, true, false)),
-    EmptyString)))) :: []))) :: [])) :: (((String ((Ascii (true, true, false,
-    false, true, true, true, false)), (String ((Ascii (false, false, true,
-    false, true, true, true, false)), (String ((Ascii (true, false, false,
-    false, false, true, true, false)), (String ((Ascii (false, false, true,
-    false, true, true, true, false)), (String ((Ascii (true, false, true,
-    false, false, true, true, false)), (String ((Ascii (true, false, true,
-    false, false, false, true, false)), (String ((Ascii (false, true, true,
-    true, false, true, true, false)), (String ((Ascii (true, false, true,
-    false, true, true, true, false)), (String ((Ascii (true, false, true,
-    true, false, true, true, false)), (String ((Ascii (false, true, false,
-    false, false, false, true, false)), (String ((Ascii (true, true, true,
-    true, false, true, true, false)), (String ((Ascii (false, false, true,
-    false, false, true, true, false)), (String ((Ascii (true, false, false,
-    true, true, true, true, false)), EmptyString)))))))))))))))))))))))))),
-    ((SIf ((CByte (Npos (XO (XO (XO (XI (XO XH))))))), ((SFound (ContextOpen,
-    Z0)) :: (SRetNil :: [])), ((SIf ((COr (CWhitespace, CNewLine)),
-    (SRetNil :: []), ((SIf ((CByte (Npos (XI (XI (XO (XO (XO XH))))))),
-    (SPushCur :: ((SSetStep st_stateCommentStarted) :: (SRetNil :: []))),
-    ((SIf ((CByte (Npos (XI (XI (XO (XI (XI (XO XH)))))))), ((SFound
-    (EnumBegin, Z0)) :: ((SOracle OEnum) :: ((SSetStep
-    st_stateEnumBodyClose) :: (SRetNil :: [])))), ((SRetErr ((String ((Ascii
+    EmptyString)))))))))))),
+    (block ((SIf ((CByte (Npos (XO (XI (XI (XI (XO (XO XH)))))))),
+      (block ((SSetStep st_stateEN) :: (SRetNil :: []))),
+      (block ((SRetErr ((String ((Ascii (true, false, false, true, false,
+        true, true, false)), (String ((Ascii (false, true, true, true, false,
+        true, true, false)), (String ((Ascii (false, false, false, false,
+        false, true, false, false)), (String ((Ascii (true, true, false,
+        true, false, true, true, false)), (String ((Ascii (true, false, true,
+        false, false, true, true, false)), (String ((Ascii (true, false,
+        false, true, true, true, true, false)), (String ((Ascii (true, true,
+        true, false, true, true, true, false)), (String ((Ascii (true, true,
+        true, true, false, true, true, false)), (String ((Ascii (false, true,
+        false, false, true, true, true, false)), (String ((Ascii (false,
+        false, true, false, false, true, true, false)), (String ((Ascii
+        (false, false, false, false, false, true, false, false)), (String
+        ((Ascii (true, false, true, false, false, false, true, false)),
+        (String ((Ascii (false, true, true, true, false, false, true,
+        false)), (String ((Ascii (true, false, true, false, true, false,
+        true, false)), (String ((Ascii (true, false, true, true, false,
+        false, true, false)), EmptyString)))))))))))))))))))))))))))))),
+        (String ((Ascii (false, true, true, true, false, false, true,
+        false)), EmptyString)))) :: [])))) :: []))) :: (((String ((Ascii
+    (true, true, false, false, true, true, true, false)), (String ((Ascii
+    (false, false, true, false, true, true, true, false)), (String ((Ascii
     (true, false, false, false, false, true, true, false)), (String ((Ascii
-    (false, true, true, false, false, true, true, false)), (String ((Ascii
     (false, false, true, false, true, true, true, false)), (String ((Ascii
     (true, false, true, false, false, true, true, false)), (String ((Ascii
-    (false, true, false, false, true, true, true, false)), (String ((Ascii
-    (false, false, false, false, false, true, false, false)), (String ((Ascii
+    (true, false, true, false, false, false, true, false)), (String ((Ascii
+    (false, true, true, true, false, false, true, false)),
+    EmptyString)))))))))))))),
+    (block ((SIf ((CByte (Npos (XI (XO (XI (XO (XI (XO XH)))))))),
+      (block ((SSetStep st_stateENU) :: (SRetNil :: []))),
+      (block ((SRetErr ((String ((Ascii (true, false, false, true, false,
+        true, true, false)), (String ((Ascii (false, true, true, true, false,
+        true, true, false)), (String ((Ascii (false, false, false, false,
+        false, true, false, false)), (String ((Ascii (true, true, false,
+        true, false, true, true, false)), (String ((Ascii (true, false, true,
+        false, false, true, true, false)), (String ((Ascii (true, false,
+        false, true, true, true, true, false)), (String ((Ascii (true, true,
+        true, false, true, true, true, false)), (String ((Ascii (true, true,
+        true, true, false, true, true, false)), (String ((Ascii (false, true,
+        false, false, true, true, true, false)), (String ((Ascii (false,
+        false, true, false, false, true, true, false)), (String ((Ascii
+        (false, false, false, false, false, true, false, false)), (String
+        ((Ascii (true, false, true, false, false, false, true, false)),
+        (String ((Ascii (false, true, true, true, false, false, true,
+        false)), (String ((Ascii (true, false, true, false, true, false,
+        true, false)), (String ((Ascii (true, false, true, true, false,
+        false, true, false)), EmptyString)))))))))))))))))))))))))))))),
+        (String ((Ascii (true, false, true, false, true, false, true,
+        false)), EmptyString)))) :: [])))) :: []))) :: (((String ((Ascii
+    (true, true, false, false, true, true, true, false)), (String ((Ascii
+    (false, false, true, false, true, true, true, false)), (String ((Ascii
+    (true, false, false, false, false, true, true, false)), (String ((Ascii
+    (false, false, true, false, true, true, true, false)), (String ((Ascii
+    (true, false, true, false, false, true, true, false)), (String ((Ascii
+    (true, false, true, false, false, false, true, false)), (String ((Ascii
+    (false, true, true, true, false, false, true, false)), (String ((Ascii
+    (true, false, true, false, true, false, true, false)),
+    EmptyString)))))))))))))))),
+    (block ((SIf ((CByte (Npos (XI (XO (XI (XI (XO (XO XH)))))))),
+      (block ((SFound (KeywordEnd, Z0)) :: ((SPush
+        st_stateEnumBody) :: ((SSetStep
+        st_stateParameterOrAnnotation) :: (SRetNil :: []))))),
+      (block ((SRetErr ((String ((Ascii (true, false, false, true, false,
+        true, true, false)), (String ((Ascii (false, true, true, true, false,
+        true, true, false)), (String ((Ascii (false, false, false, false,
+        false, true, false, false)), (String ((Ascii (true, true, false,
+        true, false, true, true, false)), (String ((Ascii (true, false, true,
+        false, false, true, true, false)), (String ((Ascii (true, false,
+        false, true, true, true, true, false)), (String ((Ascii (true, true,
+        true, false, true, true, true, false)), (String ((Ascii (true, true,
+        true, true, false, true, true, false)), (String ((Ascii (false, true,
+        false, false, true, true, true, false)), (String ((Ascii (false,
+        false, true, false, false, true, true, false)), (String ((Ascii
+        (false, false, false, false, false, true, false, false)), (String
+        ((Ascii (true, false, true, false, false, false, true, false)),
+        (String ((Ascii (false, true, true, true, false, false, true,
+        false)), (String ((Ascii (true, false, true, false, true, false,
+        true, false)), (String ((Ascii (true, false, true, true, false,
+        false, true, false)), EmptyString)))))))))))))))))))))))))))))),
+        (String ((Ascii (true, false, true, true, false, false, true,
+        false)), EmptyString)))) :: [])))) :: []))) :: (((String ((Ascii
+    (true, true, false, false, true, true, true, false)), (String ((Ascii
+    (false, false, true, false, true, true, true, false)), (String ((Ascii
+    (true, false, false, false, false, true, true, false)), (String ((Ascii
+    (false, false, true, false, true, true, true, false)), (String ((Ascii
+    (true, false, true, false, false, true, true, false)), (String ((Ascii
     (true, false, true, false, false, false, true, false)), (String ((Ascii
     (false, true, true, true, false, true, true, false)), (String ((Ascii
     (true, false, true, false, true, true, true, false)), (String ((Ascii
     (true, false, true, true, false, true, true, false)), (String ((Ascii
-    (false, false, false, false, false, true, false, false)), (String ((Ascii
+    (false, true, false, false, false, false, true, false)), (String ((Ascii
+    (true, true, true, true, false, true, true, false)), (String ((Ascii
     (false, false, true, false, false, true, true, false)), (String ((Ascii
-    (true, false, false, true, false, true, true, false)), (String ((Ascii
-    (false, true, false, false, true, true, true, false)), (String ((Ascii
-    (true, false, true, false, false, true, true, false)), (String ((Ascii
-    (true, true, false, false, false, true, true, false)), (String ((Ascii
-    (false, false, true, false, true, true, true, false)), (String ((Ascii
-    (true, false, false, true, false, true, true, false)), (String ((Ascii
-    (false, true, true, false, true, true, true, false)), (String ((Ascii
-    (true, false, true, false, false, true, true, false)),
-    EmptyString)))))))))))))))))))))))))))))))))))))))),
-    EmptyString)) :: []))) :: []))) :: []))) :: []))) :: [])) :: (((String
+    (true, false, false, true, true, true, true, false)),
+    EmptyString)))))))))))))))))))))))))),
+    (block ((SIf ((CByte (Npos (XO (XO (XO (XI (XO XH))))))),
+      (block ((SFound (ContextOpen, Z0)) :: (SRetNil :: []))),
+      (block ((SIf ((COr (CWhitespace, CNewLine)), (block (SRetNil :: [])),
+        (block ((SIf ((CByte (Npos (XI (XI (XO (XO (XO XH))))))),
+          (block (SPushCur :: ((SSetStep
+            st_stateCommentStarted) :: (SRetNil :: [])))),
+          (block ((SIf ((CByte (Npos (XI (XI (XO (XI (XI (XO XH)))))))),
+            (block ((SFound (EnumBegin, Z0)) :: ((SOracle
+              OEnum) :: ((SSetStep
+              st_stateEnumBodyClose) :: (SRetNil :: []))))),
+            (block ((SRetErr ((String ((Ascii (true, false, false, false,
+              false, true, true, false)), (String ((Ascii (false, true, true,
+              false, false, true, true, false)), (String ((Ascii (false,
+              false, true, false, true, true, true, false)), (String ((Ascii
+              (true, false, true, false, false, true, true, false)), (String
+              ((Ascii (false, true, false, false, true, true, true, false)),
+              (String ((Ascii (false, false, false, false, false, true,
+              false, false)), (String ((Ascii (true, false, true, false,
+              false, false, true, false)), (String ((Ascii (false, true,
+              true, true, false, true, true, false)), (String ((Ascii (true,
+              false, true, false, true, true, true, false)), (String ((Ascii
+              (true, false, true, true, false, true, true, false)), (String
+              ((Ascii (false, false, false, false, false, true, false,
+              false)), (String ((Ascii (false, false, true, false, false,
+              true, true, false)), (String ((Ascii (true, false, false, true,
+              false, true, true, false)), (String ((Ascii (false, true,
+              false, false, true, true, true, false)), (String ((Ascii (true,
+              false, true, false, false, true, true, false)), (String ((Ascii
+              (true, true, false, false, false, true, true, false)), (String
+              ((Ascii (false, false, true, false, true, true, true, false)),
+              (String ((Ascii (true, false, false, true, false, true, true,
+              false)), (String ((Ascii (false, true, true, false, true, true,
+              true, false)), (String ((Ascii (true, false, true, false,
+              false, true, true, false)),
+              EmptyString)))))))))))))))))))))))))))))))))))))))),
+              EmptyString)) :: [])))) :: [])))) :: [])))) :: [])))) :: []))) :: (((String
     ((Ascii (true, true, false, false, true, true, true, false)), (String
     ((Ascii (false, false, true, false, true, true, true, false)), (String
     ((Ascii (true, false, false, false, false, true, true, false)), (String
@@ -4372,502 +4495,586 @@ let prog_table =
     ((Ascii (true, true, true, true, false, true, true, false)), (String
     ((Ascii (true, true, false, false, true, true, true, false)), (String
     ((Ascii (true, false, true, false, false, true, true, false)),
-    EmptyString)))))))))))))))))))))))))))))))))))), ((SIf (CWhitespace,
-    ((SFound (EnumEnd, (Zneg XH))) :: ((SSetStep
-    st_stateEnumBodyEnded) :: (SRetNil :: []))), ((SIf ((COr (CNewLine,
-    (CByte N0))), ((SFound (EnumEnd, (Zneg XH))) :: ((SSetStep
-    st_stateExpectKeyword) :: (SRetNil :: []))), ((SRetErr ((String ((Ascii
-    (true, false, false, false, false, true, true, false)), (String ((Ascii
-    (false, true, true, false, false, true, true, false)), (String ((Ascii
-    (false, false, true, false, true, true, true, false)), (String ((Ascii
-    (true, false, true, false, false, true, true, false)), (String ((Ascii
-    (false, true, false, false, true, true, true, false)), (String ((Ascii
-    (false, false, false, false, false, true, false, false)), (String ((Ascii
-    (true, false, true, false, false, true, true, false)), (String ((Ascii
-    (false, true, true, true, false, true, true, false)), (String ((Ascii
-    (true, false, true, false, true, true, true, false)), (String ((Ascii
-    (true, false, true, true, false, true, true, false)),
-    EmptyString)))))))))))))))))))),
-    EmptyString)) :: []))) :: []))) :: [])) :: (((String ((Ascii (true, true,
-    false, false, true, true, true, false)), (String ((Ascii (false, false,
-    true, false, true, true, true, false)), (String ((Ascii (true, false,
-    false, false, false, true, true, false)), (String ((Ascii (false, false,
-    true, false, true, true, true, false)), (String ((Ascii (true, false,
-    true, false, false, true, true, false)), (String ((Ascii (true, false,
-    true, false, false, false, true, false)), (String ((Ascii (false, true,
-    true, true, false, true, true, false)), (String ((Ascii (true, false,
-    true, false, true, true, true, false)), (String ((Ascii (true, false,
-    true, true, false, true, true, false)), (String ((Ascii (false, true,
-    false, false, false, false, true, false)), (String ((Ascii (true, true,
-    true, true, false, true, true, false)), (String ((Ascii (false, false,
-    true, false, false, true, true, false)), (String ((Ascii (true, false,
-    false, true, true, true, true, false)), (String ((Ascii (true, false,
-    true, false, false, false, true, false)), (String ((Ascii (false, true,
-    true, true, false, true, true, false)), (String ((Ascii (false, false,
-    true, false, false, true, true, false)), (String ((Ascii (true, false,
-    true, false, false, true, true, false)), (String ((Ascii (false, false,
-    true, false, false, true, true, false)),
-    EmptyString)))))))))))))))))))))))))))))))))))), ((SIf (CWhitespace,
-    (SRetNil :: []), ((SIf ((COr (CNewLine, (CByte N0))), ((SSetStep
-    st_stateExpectKeyword) :: (SRetNil :: [])), ((SIf ((CByte (Npos (XI (XI
-    (XO (XO (XO XH))))))), (SPushCur :: ((SSetStep
-    st_stateCommentStarted) :: (SRetNil :: []))), ((SRetErr ((String ((Ascii
-    (true, false, false, false, false, true, true, false)), (String ((Ascii
-    (false, true, true, false, false, true, true, false)), (String ((Ascii
-    (false, false, true, false, true, true, true, false)), (String ((Ascii
-    (true, false, true, false, false, true, true, false)), (String ((Ascii
-    (false, true, false, false, true, true, true, false)), (String ((Ascii
-    (false, false, false, false, false, true, false, false)), (String ((Ascii
-    (true, false, true, false, false, true, true, false)), (String ((Ascii
-    (false, true, true, true, false, true, true, false)), (String ((Ascii
-    (true, false, true, false, true, true, true, false)), (String ((Ascii
-    (true, false, true, true, false, true, true, false)), (String ((Ascii
-    (false, false, false, false, false, true, false, false)), (String ((Ascii
-    (false, true, false, false, false, true, true, false)), (String ((Ascii
-    (true, true, true, true, false, true, true, false)), (String ((Ascii
-    (false, false, true, false, false, true, true, false)), (String ((Ascii
-    (true, false, false, true, true, true, true, false)),
-    EmptyString)))))))))))))))))))))))))))))),
-    EmptyString)) :: []))) :: []))) :: []))) :: [])) :: (((String ((Ascii
+    EmptyString)))))))))))))))))))))))))))))))))))),
+    (block ((SIf (CWhitespace,
+      (block ((SFound (EnumEnd, (Zneg XH))) :: ((SSetStep
+        st_stateEnumBodyEnded) :: (SRetNil :: [])))),
+      (block ((SIf ((COr (CNewLine, (CByte N0))),
+        (block ((SFound (EnumEnd, (Zneg XH))) :: ((SSetStep
+          st_stateExpectKeyword) :: (SRetNil :: [])))),
+        (block ((SRetErr ((String ((Ascii (true, false, false, false, false,
+          true, true, false)), (String ((Ascii (false, true, true, false,
+          false, true, true, false)), (String ((Ascii (false, false, true,
+          false, true, true, true, false)), (String ((Ascii (true, false,
+          true, false, false, true, true, false)), (String ((Ascii (false,
+          true, false, false, true, true, true, false)), (String ((Ascii
+          (false, false, false, false, false, true, false, false)), (String
+          ((Ascii (true, false, true, false, false, true, true, false)),
+          (String ((Ascii (false, true, true, true, false, true, true,
+          false)), (String ((Ascii (true, false, true, false, true, true,
+          true, false)), (String ((Ascii (true, false, true, true, false,
+          true, true, false)), EmptyString)))))))))))))))))))),
+          EmptyString)) :: [])))) :: [])))) :: []))) :: (((String ((Ascii
     (true, true, false, false, true, true, true, false)), (String ((Ascii
     (false, false, true, false, true, true, true, false)), (String ((Ascii
     (true, false, false, false, false, true, true, false)), (String ((Ascii
     (false, false, true, false, true, true, true, false)), (String ((Ascii
     (true, false, true, false, false, true, true, false)), (String ((Ascii
     (true, false, true, false, false, false, true, false)), (String ((Ascii
-    (false, false, false, true, true, true, true, false)), (String ((Ascii
-    (false, false, false, false, true, true, true, false)), (String ((Ascii
-    (true, false, true, false, false, true, true, false)), (String ((Ascii
-    (true, true, false, false, false, true, true, false)), (String ((Ascii
-    (false, false, true, false, true, true, true, false)), (String ((Ascii
-    (true, true, false, true, false, false, true, false)), (String ((Ascii
-    (true, false, true, false, false, true, true, false)), (String ((Ascii
-    (true, false, false, true, true, true, true, false)), (String ((Ascii
-    (true, true, true, false, true, true, true, false)), (String ((Ascii
+    (false, true, true, true, false, true, true, false)), (String ((Ascii
+    (true, false, true, false, true, true, true, false)), (String ((Ascii
+    (true, false, true, true, false, true, true, false)), (String ((Ascii
+    (false, true, false, false, false, false, true, false)), (String ((Ascii
     (true, true, true, true, false, true, true, false)), (String ((Ascii
-    (false, true, false, false, true, true, true, false)), (String ((Ascii
+    (false, false, true, false, false, true, true, false)), (String ((Ascii
+    (true, false, false, true, true, true, true, false)), (String ((Ascii
+    (true, false, true, false, false, false, true, false)), (String ((Ascii
+    (false, true, true, true, false, true, true, false)), (String ((Ascii
+    (false, false, true, false, false, true, true, false)), (String ((Ascii
+    (true, false, true, false, false, true, true, false)), (String ((Ascii
     (false, false, true, false, false, true, true, false)),
-    EmptyString)))))))))))))))))))))))))))))))))))), ((SIf ((COr (CNewLine,
-    (COr (CWhitespace, (CByte N0))))), (SRetNil :: []), ((SIf ((CByte (Npos
-    (XI (XI (XO (XO (XO XH))))))), (SPushCur :: ((SSetStep
-    st_stateCommentStarted) :: (SRetNil :: []))), ((SIf ((CByte (Npos (XO (XO
-    (XO (XI (XO XH))))))), ((SFound (ContextOpen, Z0)) :: ((SSetStep
-    st_stateContextOpenedOnNewline) :: (SRetNil :: []))), ((SIf ((CByte (Npos
-    (XI (XO (XO (XI (XO XH))))))), ((SFound (ContextClose, Z0)) :: ((SSetStep
-    st_stateContextClosed) :: (SRetNil :: []))), ((SIf ((CByte (Npos (XO (XI
-    (XO (XO (XO (XO XH)))))))), ((SFound (KeywordBegin, Z0)) :: ((SSetStep
-    st_stateB) :: (SRetNil :: []))), ((SIf ((CByte (Npos (XO (XO (XI (XO (XO
-    (XO XH)))))))), ((SFound (KeywordBegin, Z0)) :: ((SSetStep
-    st_stateD) :: (SRetNil :: []))), ((SIf ((CByte (Npos (XI (XO (XI (XO (XO
-    (XO XH)))))))), ((SFound (KeywordBegin, Z0)) :: ((SSetStep
-    st_stateE) :: (SRetNil :: []))), ((SIf ((CByte (Npos (XI (XI (XI (XO (XO
-    (XO XH)))))))), ((SFound (KeywordBegin, Z0)) :: ((SSetStep
-    st_stateG) :: (SRetNil :: []))), ((SIf ((CByte (Npos (XO (XO (XO (XI (XO
-    (XO XH)))))))), ((SFound (KeywordBegin, Z0)) :: ((SSetStep
-    st_stateH) :: (SRetNil :: []))), ((SIf ((CByte (Npos (XI (XO (XO (XI (XO
-    (XO XH)))))))), ((SFound (KeywordBegin, Z0)) :: ((SSetStep
-    st_stateI) :: (SRetNil :: []))), ((SIf ((CByte (Npos (XO (XI (XO (XI (XO
-    (XO XH)))))))), ((SFound (KeywordBegin, Z0)) :: ((SSetStep
-    st_stateJ) :: (SRetNil :: []))), ((SIf ((CByte (Npos (XI (XO (XI (XI (XO
-    (XO XH)))))))), ((SFound (KeywordBegin, Z0)) :: ((SSetStep
-    st_stateM) :: (SRetNil :: []))), ((SIf ((CByte (Npos (XI (XI (XI (XI (XO
-    (XO XH)))))))), ((SFound (KeywordBegin, Z0)) :: ((SSetStep
-    st_stateO) :: (SRetNil :: []))), ((SIf ((CByte (Npos (XO (XO (XO (XO (XI
-    (XO XH)))))))), ((SFound (KeywordBegin, Z0)) :: ((SSetStep
-    st_stateP) :: (SRetNil :: []))), ((SIf ((CByte (Npos (XI (XO (XO (XO (XI
-    (XO XH)))))))), ((SFound (KeywordBegin, Z0)) :: ((SSetStep
-    st_stateQ) :: (SRetNil :: []))), ((SIf ((CByte (Npos (XO (XI (XO (XO (XI
-    (XO XH)))))))), ((SFound (KeywordBegin, Z0)) :: ((SSetStep
-    st_stateR) :: (SRetNil :: []))), ((SIf ((CByte (Npos (XI (XI (XO (XO (XI
-    (XO XH)))))))), ((SFound (KeywordBegin, Z0)) :: ((SSetStep
-    st_stateS) :: (SRetNil :: []))), ((SIf ((CByte (Npos (XO (XO (XI (XO (XI
-    (XO XH)))))))), ((SFound (KeywordBegin, Z0)) :: ((SSetStep
-    st_stateT) :: (SRetNil :: []))), ((SIf ((CByte (Npos (XI (XO (XI (XO (XI
-    (XO XH)))))))), ((SFound (KeywordBegin, Z0)) :: ((SSetStep
-    st_stateU) :: (SRetNil :: []))), ((SIf ((CByte (Npos (XO (XI (XI (XO (XI
-    (XO XH)))))))), ((SFound (KeywordBegin, Z0)) :: ((SSetStep
-    st_stateV) :: (SRetNil :: []))), ((SIf ((COr ((CByte (Npos (XI (XO (XO
-    (XO (XI XH))))))), (COr ((CByte (Npos (XO (XI (XO (XO (XI XH))))))), (COr
-    ((CByte (Npos (XI (XI (XO (XO (XI XH))))))), (COr ((CByte (Npos (XO (XO
-    (XI (XO (XI XH))))))), (CByte (Npos (XI (XO (XI (XO (XI
-    XH))))))))))))))), ((SFound (KeywordBegin, Z0)) :: ((SSetStep
-    st_stateResponseKeywordStarted) :: (SRetNil :: []))),
-    [])) :: []))) :: []))) :: []))) :: []))) :: []))) :: []))) :: []))) :: []))) :: []))) :: []))) :: []))) :: []))) :: []))) :: []))) :: []))) :: []))) :: []))) :: []))) :: []))) :: []))) :: ((SRetErr
-    ((String ((Ascii (true, false, false, false, false, true, true, false)),
-    (String ((Ascii (false, false, true, false, true, true, true, false)),
-    (String ((Ascii (false, false, false, false, false, true, false, false)),
-    (String ((Ascii (false, false, true, false, true, true, true, false)),
-    (String ((Ascii (false, false, false, true, false, true, true, false)),
-    (String ((Ascii (true, false, true, false, false, true, true, false)),
-    (String ((Ascii (false, false, false, false, false, true, false, false)),
-    (String ((Ascii (false, false, true, false, false, true, true, false)),
-    (String ((Ascii (true, false, false, true, false, true, true, false)),
-    (String ((Ascii (false, true, false, false, true, true, true, false)),
-    (String ((Ascii (true, false, true, false, false, true, true, false)),
-    (String ((Ascii (true, true, false, false, false, true, true, false)),
-    (String ((Ascii (false, false, true, false, true, true, true, false)),
-    (String ((Ascii (true, false, false, true, false, true, true, false)),
-    (String ((Ascii (false, true, true, false, true, true, true, false)),
-    (String ((Ascii (true, false, true, false, false, true, true, false)),
-    (String ((Ascii (false, false, false, false, false, true, false, false)),
-    (String ((Ascii (false, true, false, false, false, true, true, false)),
-    (String ((Ascii (true, false, true, false, false, true, true, false)),
-    (String ((Ascii (true, true, true, false, false, true, true, false)),
-    (String ((Ascii (true, false, false, true, false, true, true, false)),
-    (String ((Ascii (false, true, true, true, false, true, true, false)),
-    (String ((Ascii (false, true, true, true, false, true, true, false)),
-    (String ((Ascii (true, false, false, true, false, true, true, false)),
-    (String ((Ascii (false, true, true, true, false, true, true, false)),
-    (String ((Ascii (true, true, true, false, false, true, true, false)),
-    EmptyString)))))))))))))))))))))))))))))))))))))))))))))))))))),
-    EmptyString)) :: []))) :: (((String ((Ascii (true, true, false, false,
-    true, true, true, false)), (String ((Ascii (false, false, true, false,
-    true, true, true, false)), (String ((Ascii (true, false, false, false,
-    false, true, true, false)), (String ((Ascii (false, false, true, false,
-    true, true, true, false)), (String ((Ascii (true, false, true, false,
-    false, true, true, false)), (String ((Ascii (true, true, true, false,
-    false, false, true, false)), EmptyString)))))))))))), ((SIf ((CByte (Npos
-    (XI (XO (XI (XO (XO (XO XH)))))))), ((SSetStep
-    st_stateGE) :: (SRetNil :: [])), ((SRetErr ((String ((Ascii (true, false,
-    false, true, false, true, true, false)), (String ((Ascii (false, true,
-    true, true, false, true, true, false)), (String ((Ascii (false, false,
-    false, false, false, true, false, false)), (String ((Ascii (true, true,
-    false, true, false, true, true, false)), (String ((Ascii (true, false,
-    true, false, false, true, true, false)), (String ((Ascii (true, false,
-    false, true, true, true, true, false)), (String ((Ascii (true, true,
-    true, false, true, true, true, false)), (String ((Ascii (true, true,
-    true, true, false, true, true, false)), (String ((Ascii (false, true,
-    false, false, true, true, true, false)), (String ((Ascii (false, false,
-    true, false, false, true, true, false)), (String ((Ascii (false, false,
-    false, false, false, true, false, false)), (String ((Ascii (true, true,
-    true, false, false, false, true, false)), (String ((Ascii (true, false,
-    true, false, false, false, true, false)), (String ((Ascii (false, false,
-    true, false, true, false, true, false)),
-    EmptyString)))))))))))))))))))))))))))), (String ((Ascii (true, false,
-    true, false, false, false, true, false)),
-    EmptyString)))) :: []))) :: [])) :: (((String ((Ascii (true, true, false,
-    false, true, true, true, false)), (String ((Ascii (false, false, true,
-    false, true, true, true, false)), (String ((Ascii (true, false, false,
-    false, false, true, true, false)), (String ((Ascii (false, false, true,
-    false, true, true, true, false)), (String ((Ascii (true, false, true,
-    false, false, true, true, false)), (String ((Ascii (true, true, true,
-    false, false, false, true, false)), (String ((Ascii (true, false, true,
-    false, false, false, true, false)), EmptyString)))))))))))))), ((SIf
-    ((CByte (Npos (XO (XO (XI (XO (XI (XO XH)))))))), ((SFound (KeywordEnd,
-    Z0)) :: ((SPush st_stateExpectKeyword) :: ((SSetStep
-    st_stateParameterOrAnnotation) :: (SRetNil :: [])))), ((SRetErr ((String
-    ((Ascii (true, false, false, true, false, true, true, false)), (String
-    ((Ascii (false, true, true, true, false, true, true, false)), (String
-    ((Ascii (false, false, false, false, false, true, false, false)), (String
-    ((Ascii (true, true, false, true, false, true, true, false)), (String
+    EmptyString)))))))))))))))))))))))))))))))))))),
+    (block ((SIf (CWhitespace, (block (SRetNil :: [])),
+      (block ((SIf ((COr (CNewLine, (CByte N0))),
+        (block ((SSetStep st_stateExpectKeyword) :: (SRetNil :: []))),
+        (block ((SIf ((CByte (Npos (XI (XI (XO (XO (XO XH))))))),
+          (block (SPushCur :: ((SSetStep
+            st_stateCommentStarted) :: (SRetNil :: [])))),
+          (block ((SRetErr ((String ((Ascii (true, false, false, false,
+            false, true, true, false)), (String ((Ascii (false, true, true,
+            false, false, true, true, false)), (String ((Ascii (false, false,
+            true, false, true, true, true, false)), (String ((Ascii (true,
+            false, true, false, false, true, true, false)), (String ((Ascii
+            (false, true, false, false, true, true, true, false)), (String
+            ((Ascii (false, false, false, false, false, true, false, false)),
+            (String ((Ascii (true, false, true, false, false, true, true,
+            false)), (String ((Ascii (false, true, true, true, false, true,
+            true, false)), (String ((Ascii (true, false, true, false, true,
+            true, true, false)), (String ((Ascii (true, false, true, true,
+            false, true, true, false)), (String ((Ascii (false, false, false,
+            false, false, true, false, false)), (String ((Ascii (false, true,
+            false, false, false, true, true, false)), (String ((Ascii (true,
+            true, true, true, false, true, true, false)), (String ((Ascii
+            (false, false, true, false, false, true, true, false)), (String
+            ((Ascii (true, false, false, true, true, true, true, false)),
+            EmptyString)))))))))))))))))))))))))))))), EmptyString)) :: [])))) :: [])))) :: [])))) :: []))) :: (((String
+    ((Ascii (true, true, false, false, true, true, true, false)), (String
+    ((Ascii (false, false, true, false, true, true, true, false)), (String
+    ((Ascii (true, false, false, false, false, true, true, false)), (String
+    ((Ascii (false, false, true, false, true, true, true, false)), (String
+    ((Ascii (true, false, true, false, false, true, true, false)), (String
+    ((Ascii (true, false, true, false, false, false, true, false)), (String
+    ((Ascii (false, false, false, true, true, true, true, false)), (String
+    ((Ascii (false, false, false, false, true, true, true, false)), (String
+    ((Ascii (true, false, true, false, false, true, true, false)), (String
+    ((Ascii (true, true, false, false, false, true, true, false)), (String
+    ((Ascii (false, false, true, false, true, true, true, false)), (String
+    ((Ascii (true, true, false, true, false, false, true, false)), (String
     ((Ascii (true, false, true, false, false, true, true, false)), (String
     ((Ascii (true, false, false, true, true, true, true, false)), (String
     ((Ascii (true, true, true, false, true, true, true, false)), (String
     ((Ascii (true, true, true, true, false, true, true, false)), (String
     ((Ascii (false, true, false, false, true, true, true, false)), (String
-    ((Ascii (false, false, true, false, false, true, true, false)), (String
-    ((Ascii (false, false, false, false, false, true, false, false)), (String
-    ((Ascii (true, true, true, false, false, false, true, false)), (String
-    ((Ascii (true, false, true, false, false, false, true, false)), (String
-    ((Ascii (false, false, true, false, true, false, true, false)),
-    EmptyString)))))))))))))))))))))))))))), (String ((Ascii (false, false,
-    true, false, true, false, true, false)),
-    EmptyString)))) :: []))) :: [])) :: (((String ((Ascii (true, true, false,
-    false, true, true, true, false)), (String ((Ascii (false, false, true,
-    false, true, true, true, false)), (String ((Ascii (true, false, false,
-    false, false, true, true, false)), (String ((Ascii (false, false, true,
-    false, true, true, true, false)), (String ((Ascii (true, false, true,
-    false, false, true, true, false)), (String ((Ascii (false, false, false,
-    true, false, false, true, false)), EmptyString)))))))))))), ((SIf ((CByte
-    (Npos (XI (XO (XI (XO (XO (XI XH)))))))), ((SSetStep
-    st_stateHe) :: (SRetNil :: [])), ((SRetErr ((String ((Ascii (true, false,
-    false, true, false, true, true, false)), (String ((Ascii (false, true,
-    true, true, false, true, true, false)), (String ((Ascii (false, false,
-    false, false, false, true, false, false)), (String ((Ascii (false, false,
-    true, false, false, true, true, false)), (String ((Ascii (true, false,
-    false, true, false, true, true, false)), (String ((Ascii (false, true,
-    false, false, true, true, true, false)), (String ((Ascii (true, false,
-    true, false, false, true, true, false)), (String ((Ascii (true, true,
+    ((Ascii (false, false, true, false, false, true, true, false)),
+    EmptyString)))))))))))))))))))))))))))))))))))),
+    (block ((SIf ((COr (CNewLine, (COr (CWhitespace, (CByte N0))))),
+      (block (SRetNil :: [])),
+      (block ((SIf ((CByte (Npos (XI (XI (XO (XO (XO XH))))))),
+        (block (SPushCur :: ((SSetStep
+          st_stateCommentStarted) :: (SRetNil :: [])))),
+        (block ((SIf ((CByte (Npos (XO (XO (XO (XI (XO XH))))))),
+          (block ((SFound (ContextOpen, Z0)) :: ((SSetStep
+            st_stateContextOpenedOnNewline) :: (SRetNil :: [])))),
+          (block ((SIf ((CByte (Npos (XI (XO (XO (XI (XO XH))))))),
+            (block ((SFound (ContextClose, Z0)) :: ((SSetStep
+              st_stateContextClosed) :: (SRetNil :: [])))),
+            (block ((SIf ((CByte (Npos (XO (XI (XO (XO (XO (XO XH)))))))),
+              (block ((SFound (KeywordBegin, Z0)) :: ((SSetStep
+                st_stateB) :: (SRetNil :: [])))),
+              (block ((SIf ((CByte (Npos (XO (XO (XI (XO (XO (XO XH)))))))),
+                (block ((SFound (KeywordBegin, Z0)) :: ((SSetStep
+                  st_stateD) :: (SRetNil :: [])))),
+                (block ((SIf ((CByte (Npos (XI (XO (XI (XO (XO (XO
+                  XH)))))))),
+                  (block ((SFound (KeywordBegin, Z0)) :: ((SSetStep
+                    st_stateE) :: (SRetNil :: [])))),
+                  (block ((SIf ((CByte (Npos (XI (XI (XI (XO (XO (XO
+                    XH)))))))),
+                    (block ((SFound (KeywordBegin, Z0)) :: ((SSetStep
+                      st_stateG) :: (SRetNil :: [])))),
+                    (block ((SIf ((CByte (Npos (XO (XO (XO (XI (XO (XO
+                      XH)))))))),
+                      (block ((SFound (KeywordBegin, Z0)) :: ((SSetStep
+                        st_stateH) :: (SRetNil :: [])))),
+                      (block ((SIf ((CByte (Npos (XI (XO (XO (XI (XO (XO
+                        XH)))))))),
+                        (block ((SFound (KeywordBegin, Z0)) :: ((SSetStep
+                          st_stateI) :: (SRetNil :: [])))),
+                        (block ((SIf ((CByte (Npos (XO (XI (XO (XI (XO (XO
+                          XH)))))))),
+                          (block ((SFound (KeywordBegin, Z0)) :: ((SSetStep
+                            st_stateJ) :: (SRetNil :: [])))),
+                          (block ((SIf ((CByte (Npos (XI (XO (XI (XI (XO (XO
+                            XH)))))))),
+                            (block ((SFound (KeywordBegin, Z0)) :: ((SSetStep
+                              st_stateM) :: (SRetNil :: [])))),
+                            (block ((SIf ((CByte (Npos (XI (XI (XI (XI (XO
+                              (XO XH)))))))),
+                              (block ((SFound (KeywordBegin,
+                                Z0)) :: ((SSetStep
+                                st_stateO) :: (SRetNil :: [])))),
+                              (block ((SIf ((CByte (Npos (XO (XO (XO (XO (XI
+                                (XO XH)))))))),
+                                (block ((SFound (KeywordBegin,
+                                  Z0)) :: ((SSetStep
+                                  st_stateP) :: (SRetNil :: [])))),
+                                (block ((SIf ((CByte (Npos (XI (XO (XO (XO
+                                  (XI (XO XH)))))))),
+                                  (block ((SFound (KeywordBegin,
+                                    Z0)) :: ((SSetStep
+                                    st_stateQ) :: (SRetNil :: [])))),
+                                  (block ((SIf ((CByte (Npos (XO (XI (XO (XO
+                                    (XI (XO XH)))))))),
+                                    (block ((SFound (KeywordBegin,
+                                      Z0)) :: ((SSetStep
+                                      st_stateR) :: (SRetNil :: [])))),
+                                    (block ((SIf ((CByte (Npos (XI (XI (XO
+                                      (XO (XI (XO XH)))))))),
+                                      (block ((SFound (KeywordBegin,
+                                        Z0)) :: ((SSetStep
+                                        st_stateS) :: (SRetNil :: [])))),
+                                      (block ((SIf ((CByte (Npos (XO (XO (XI
+                                        (XO (XI (XO XH)))))))),
+                                        (block ((SFound (KeywordBegin,
+                                          Z0)) :: ((SSetStep
+                                          st_stateT) :: (SRetNil :: [])))),
+                                        (block ((SIf ((CByte (Npos (XI (XO
+                                          (XI (XO (XI (XO XH)))))))),
+                                          (block ((SFound (KeywordBegin,
+                                            Z0)) :: ((SSetStep
+                                            st_stateU) :: (SRetNil :: [])))),
+                                          (block ((SIf ((CByte (Npos (XO (XI
+                                            (XI (XO (XI (XO XH)))))))),
+                                            (block ((SFound (KeywordBegin,
+                                              Z0)) :: ((SSetStep
+                                              st_stateV) :: (SRetNil :: [])))),
+                                            (block ((SIf ((COr ((CByte (Npos
+                                              (XI (XO (XO (XO (XI XH))))))),
+                                              (COr ((CByte (Npos (XO (XI (XO
+                                              (XO (XI XH))))))), (COr ((CByte
+                                              (Npos (XI (XI (XO (XO (XI
+                                              XH))))))), (COr ((CByte (Npos
+                                              (XO (XO (XI (XO (XI XH))))))),
+                                              (CByte (Npos (XI (XO (XI (XO
+                                              (XI XH))))))))))))))),
+                                              (block ((SFound (KeywordBegin,
+                                                Z0)) :: ((SSetStep
+                                                st_stateResponseKeywordStarted) :: (SRetNil :: [])))),
+                                              SSkip)) :: [])))) :: [])))) :: [])))) :: [])))) :: [])))) :: [])))) :: [])))) :: [])))) :: [])))) :: [])))) :: [])))) :: [])))) :: [])))) :: [])))) :: [])))) :: [])))) :: [])))) :: [])))) :: [])))) :: [])))) :: ((SRetErr
+      ((String ((Ascii (true, false, false, false, false, true, true,
+      false)), (String ((Ascii (false, false, true, false, true, true, true,
+      false)), (String ((Ascii (false, false, false, false, false, true,
+      false, false)), (String ((Ascii (false, false, true, false, true, true,
+      true, false)), (String ((Ascii (false, false, false, true, false, true,
+      true, false)), (String ((Ascii (true, false, true, false, false, true,
+      true, false)), (String ((Ascii (false, false, false, false, false,
+      true, false, false)), (String ((Ascii (false, false, true, false,
+      false, true, true, false)), (String ((Ascii (true, false, false, true,
+      false, true, true, false)), (String ((Ascii (false, true, false, false,
+      true, true, true, false)), (String ((Ascii (true, false, true, false,
+      false, true, true, false)), (String ((Ascii (true, true, false, false,
+      false, true, true, false)), (String ((Ascii (false, false, true, false,
+      true, true, true, false)), (String ((Ascii (true, false, false, true,
+      false, true, true, false)), (String ((Ascii (false, true, true, false,
+      true, true, true, false)), (String ((Ascii (true, false, true, false,
+      false, true, true, false)), (String ((Ascii (false, false, false,
+      false, false, true, false, false)), (String ((Ascii (false, true,
+      false, false, false, true, true, false)), (String ((Ascii (true, false,
+      true, false, false, true, true, false)), (String ((Ascii (true, true,
+      true, false, false, true, true, false)), (String ((Ascii (true, false,
+      false, true, false, true, true, false)), (String ((Ascii (false, true,
+      true, true, false, true, true, false)), (String ((Ascii (false, true,
+      true, true, false, true, true, false)), (String ((Ascii (true, false,
+      false, true, false, true, true, false)), (String ((Ascii (false, true,
+      true, true, false, true, true, false)), (String ((Ascii (true, true,
+      true, false, false, true, true, false)),
+      EmptyString)))))))))))))))))))))))))))))))))))))))))))))))))))),
+      EmptyString)) :: [])))) :: (((String ((Ascii (true, true, false, false,
+    true, true, true, false)), (String ((Ascii (false, false, true, false,
+    true, true, true, false)), (String ((Ascii (true, false, false, false,
+    false, true, true, false)), (String ((Ascii (false, false, true, false,
+    true, true, true, false)), (String ((Ascii (true, false, true, false,
+    false, true, true, false)), (String ((Ascii (true, true, true, false,
+    false, false, true, false)), EmptyString)))))))))))),
+    (block ((SIf ((CByte (Npos (XI (XO (XI (XO (XO (XO XH)))))))),
+      (block ((SSetStep st_stateGE) :: (SRetNil :: []))),
+      (block ((SRetErr ((String ((Ascii (true, false, false, true, false,
+        true, true, false)), (String ((Ascii (false, true, true, true, false,
+        true, true, false)), (String ((Ascii (false, false, false, false,
+        false, true, false, false)), (String ((Ascii (true, true, false,
+        true, false, true, true, false)), (String ((Ascii (true, false, true,
+        false, false, true, true, false)), (String ((Ascii (true, false,
+        false, true, true, true, true, false)), (String ((Ascii (true, true,
+        true, false, true, true, true, false)), (String ((Ascii (true, true,
+        true, true, false, true, true, false)), (String ((Ascii (false, true,
+        false, false, true, true, true, false)), (String ((Ascii (false,
+        false, true, false, false, true, true, false)), (String ((Ascii
+        (false, false, false, false, false, true, false, false)), (String
+        ((Ascii (true, true, true, false, false, false, true, false)),
+        (String ((Ascii (true, false, true, false, false, false, true,
+        false)), (String ((Ascii (false, false, true, false, true, false,
+        true, false)), EmptyString)))))))))))))))))))))))))))), (String
+        ((Ascii (true, false, true, false, false, false, true, false)),
+        EmptyString)))) :: [])))) :: []))) :: (((String ((Ascii (true, true,
+    false, false, true, true, true, false)), (String ((Ascii (false, false,
+    true, false, true, true, true, false)), (String ((Ascii (true, false,
     false, false, false, true, true, false)), (String ((Ascii (false, false,
     true, false, true, true, true, false)), (String ((Ascii (true, false,
-    false, true, false, true, true, false)), (String ((Ascii (false, true,
+    true, false, false, true, true, false)), (String ((Ascii (true, true,
+    true, false, false, false, true, false)), (String ((Ascii (true, false,
+    true, false, false, false, true, false)), EmptyString)))))))))))))),
+    (block ((SIf ((CByte (Npos (XO (XO (XI (XO (XI (XO XH)))))))),
+      (block ((SFound (KeywordEnd, Z0)) :: ((SPush
+        st_stateExpectKeyword) :: ((SSetStep
+        st_stateParameterOrAnnotation) :: (SRetNil :: []))))),
+      (block ((SRetErr ((String ((Ascii (true, false, false, true, false,
+        true, true, false)), (String ((Ascii (false, true, true, true, false,
+        true, true, false)), (String ((Ascii (false, false, false, false,
+        false, true, false, false)), (String ((Ascii (true, true, false,
+        true, false, true, true, false)), (String ((Ascii (true, false, true,
+        false, false, true, true, false)), (String ((Ascii (true, false,
+        false, true, true, true, true, false)), (String ((Ascii (true, true,
+        true, false, true, true, true, false)), (String ((Ascii (true, true,
+        true, true, false, true, true, false)), (String ((Ascii (false, true,
+        false, false, true, true, true, false)), (String ((Ascii (false,
+        false, true, false, false, true, true, false)), (String ((Ascii
+        (false, false, false, false, false, true, false, false)), (String
+        ((Ascii (true, true, true, false, false, false, true, false)),
+        (String ((Ascii (true, false, true, false, false, false, true,
+        false)), (String ((Ascii (false, false, true, false, true, false,
+        true, false)), EmptyString)))))))))))))))))))))))))))), (String
+        ((Ascii (false, false, true, false, true, false, true, false)),
+        EmptyString)))) :: [])))) :: []))) :: (((String ((Ascii (true, true,
+    false, false, true, true, true, false)), (String ((Ascii (false, false,
+    true, false, true, true, true, false)), (String ((Ascii (true, false,
+    false, false, false, true, true, false)), (String ((Ascii (false, false,
     true, false, true, true, true, false)), (String ((Ascii (true, false,
     true, false, false, true, true, false)), (String ((Ascii (false, false,
-    false, false, false, true, false, false)), (String ((Ascii (false, false,
+    false, true, false, false, true, false)), EmptyString)))))))))))),
+    (block ((SIf ((CByte (Npos (XI (XO (XI (XO (XO (XI XH)))))))),
+      (block ((SSetStep st_stateHe) :: (SRetNil :: []))),
+      (block ((SRetErr ((String ((Ascii (true, false, false, true, false,
+        true, true, false)), (String ((Ascii (false, true, true, true, false,
+        true, true, false)), (String ((Ascii (false, false, false, false,
+        false, true, false, false)), (String ((Ascii (false, false, true,
+        false, false, true, true, false)), (String ((Ascii (true, false,
+        false, true, false, true, true, false)), (String ((Ascii (false,
+        true, false, false, true, true, true, false)), (String ((Ascii (true,
+        false, true, false, false, true, true, false)), (String ((Ascii
+        (true, true, false, false, false, true, true, false)), (String
+        ((Ascii (false, false, true, false, true, true, true, false)),
+        (String ((Ascii (true, false, false, true, false, true, true,
+        false)), (String ((Ascii (false, true, true, false, true, true, true,
+        false)), (String ((Ascii (true, false, true, false, false, true,
+        true, false)), (String ((Ascii (false, false, false, false, false,
+        true, false, false)), (String ((Ascii (false, false, false, true,
+        false, false, true, false)), (String ((Ascii (true, false, true,
+        false, false, true, true, false)), (String ((Ascii (true, false,
+        false, false, false, true, true, false)), (String ((Ascii (false,
+        false, true, false, false, true, true, false)), (String ((Ascii
+        (true, false, true, false, false, true, true, false)), (String
+        ((Ascii (false, true, false, false, true, true, true, false)),
+        (String ((Ascii (true, true, false, false, true, true, true, false)),
+        EmptyString)))))))))))))))))))))))))))))))))))))))), (String ((Ascii
+        (true, false, true, false, false, true, true, false)),
+        EmptyString)))) :: [])))) :: []))) :: (((String ((Ascii (true, true,
+    false, false, true, true, true, false)), (String ((Ascii (false, false,
+    true, false, true, true, true, false)), (String ((Ascii (true, false,
+    false, false, false, true, true, false)), (String ((Ascii (false, false,
+    true, false, true, true, true, false)), (String ((Ascii (true, false,
+    true, false, false, true, true, false)), (String ((Ascii (false, false,
+    false, true, false, false, true, false)), (String ((Ascii (true, false,
+    true, false, false, true, true, false)), EmptyString)))))))))))))),
+    (block ((SIf ((CByte (Npos (XI (XO (XO (XO (XO (XI XH)))))))),
+      (block ((SSetStep st_stateHea) :: (SRetNil :: []))),
+      (block ((SRetErr ((String ((Ascii (true, false, false, true, false,
+        true, true, false)), (String ((Ascii (false, true, true, true, false,
+        true, true, false)), (String ((Ascii (false, false, false, false,
+        false, true, false, false)), (String ((Ascii (false, false, true,
+        false, false, true, true, false)), (String ((Ascii (true, false,
+        false, true, false, true, true, false)), (String ((Ascii (false,
+        true, false, false, true, true, true, false)), (String ((Ascii (true,
+        false, true, false, false, true, true, false)), (String ((Ascii
+        (true, true, false, false, false, true, true, false)), (String
+        ((Ascii (false, false, true, false, true, true, true, false)),
+        (String ((Ascii (true, false, false, true, false, true, true,
+        false)), (String ((Ascii (false, true, true, false, true, true, true,
+        false)), (String ((Ascii (true, false, true, false, false, true,
+        true, false)), (String ((Ascii (false, false, false, false, false,
+        true, false, false)), (String ((Ascii (false, false, false, true,
+        false, false, true, false)), (String ((Ascii (true, false, true,
+        false, false, true, true, false)), (String ((Ascii (true, false,
+        false, false, false, true, true, false)), (String ((Ascii (false,
+        false, true, false, false, true, true, false)), (String ((Ascii
+        (true, false, true, false, false, true, true, false)), (String
+        ((Ascii (false, true, false, false, true, true, true, false)),
+        (String ((Ascii (true, true, false, false, true, true, true, false)),
+        EmptyString)))))))))))))))))))))))))))))))))))))))), (String ((Ascii
+        (true, false, false, false, false, true, true, false)),
+        EmptyString)))) :: [])))) :: []))) :: (((String ((Ascii (true, true,
+    false, false, true, true, true, false)), (String ((Ascii (false, false,
+    true, false, true, true, true, false)), (String ((Ascii (true, false,
+    false, false, false, true, true, false)), (String ((Ascii (false, false,
+    true, false, true, true, true, false)), (String ((Ascii (true, false,
+    true, false, false, true, true, false)), (String ((Ascii (false, false,
+    false, true, false, false, true, false)), (String ((Ascii (true, false,
+    true, false, false, true, true, false)), (String ((Ascii (true, false,
+    false, false, false, true, true, false)), EmptyString)))))))))))))))),
+    (block ((SIf ((CByte (Npos (XO (XO (XI (XO (XO (XI XH)))))))),
+      (block ((SSetStep st_stateHead) :: (SRetNil :: []))),
+      (block ((SRetErr ((String ((Ascii (true, false, false, true, false,
+        true, true, false)), (String ((Ascii (false, true, true, true, false,
+        true, true, false)), (String ((Ascii (false, false, false, false,
+        false, true, false, false)), (String ((Ascii (false, false, true,
+        false, false, true, true, false)), (String ((Ascii (true, false,
+        false, true, false, true, true, false)), (String ((Ascii (false,
+        true, false, false, true, true, true, false)), (String ((Ascii (true,
+        false, true, false, false, true, true, false)), (String ((Ascii
+        (true, true, false, false, false, true, true, false)), (String
+        ((Ascii (false, false, true, false, true, true, true, false)),
+        (String ((Ascii (true, false, false, true, false, true, true,
+        false)), (String ((Ascii (false, true, true, false, true, true, true,
+        false)), (String ((Ascii (true, false, true, false, false, true,
+        true, false)), (String ((Ascii (false, false, false, false, false,
+        true, false, false)), (String ((Ascii (false, false, false, true,
+        false, false, true, false)), (String ((Ascii (true, false, true,
+        false, false, true, true, false)), (String ((Ascii (true, false,
+        false, false, false, true, true, false)), (String ((Ascii (false,
+        false, true, false, false, true, true, false)), (String ((Ascii
+        (true, false, true, false, false, true, true, false)), (String
+        ((Ascii (false, true, false, false, true, true, true, false)),
+        (String ((Ascii (true, true, false, false, true, true, true, false)),
+        EmptyString)))))))))))))))))))))))))))))))))))))))), (String ((Ascii
+        (false, false, true, false, false, true, true, false)),
+        EmptyString)))) :: [])))) :: []))) :: (((String ((Ascii (true, true,
+    false, false, true, true, true, false)), (String ((Ascii (false, false,
+    true, false, true, true, true, false)), (String ((Ascii (true, false,
+    false, false, false, true, true, false)), (String ((Ascii (false, false,
+    true, false, true, true, true, false)), (String ((Ascii (true, false,
+    true, false, false, true, true, false)), (String ((Ascii (false, false,
+    false, true, false, false, true, false)), (String ((Ascii (true, false,
+    true, false, false, true, true, false)), (String ((Ascii (true, false,
+    false, false, false, true, true, false)), (String ((Ascii (false, false,
+    true, false, false, true, true, false)), EmptyString)))))))))))))))))),
+    (block ((SIf ((CByte (Npos (XI (XO (XI (XO (XO (XI XH)))))))),
+      (block ((SSetStep st_stateHeade) :: (SRetNil :: []))),
+      (block ((SRetErr ((String ((Ascii (true, false, false, true, false,
+        true, true, false)), (String ((Ascii (false, true, true, true, false,
+        true, true, false)), (String ((Ascii (false, false, false, false,
+        false, true, false, false)), (String ((Ascii (false, false, true,
+        false, false, true, true, false)), (String ((Ascii (true, false,
+        false, true, false, true, true, false)), (String ((Ascii (false,
+        true, false, false, true, true, true, false)), (String ((Ascii (true,
+        false, true, false, false, true, true, false)), (String ((Ascii
+        (true, true, false, false, false, true, true, false)), (String
+        ((Ascii (false, false, true, false, true, true, true, false)),
+        (String ((Ascii (true, false, false, true, false, true, true,
+        false)), (String ((Ascii (false, true, true, false, true, true, true,
+        false)), (String ((Ascii (true, false, true, false, false, true,
+        true, false)), (String ((Ascii (false, false, false, false, false,
+        true, false, false)), (String ((Ascii (false, false, false, true,
+        false, false, true, false)), (String ((Ascii (true, false, true,
+        false, false, true, true, false)), (String ((Ascii (true, false,
+        false, false, false, true, true, false)), (String ((Ascii (false,
+        false, true, false, false, true, true, false)), (String ((Ascii
+        (true, false, true, false, false, true, true, false)), (String
+        ((Ascii (false, true, false, false, true, true, true, false)),
+        (String ((Ascii (true, true, false, false, true, true, true, false)),
+        EmptyString)))))))))))))))))))))))))))))))))))))))), (String ((Ascii
+        (true, false, true, false, false, true, true, false)),
+        EmptyString)))) :: [])))) :: []))) :: (((String ((Ascii (true, true,
+    false, false, true, true, true, false)), (String ((Ascii (false, false,
+    true, false, true, true, true, false)), (String ((Ascii (true, false,
+    false, false, false, true, true, false)), (String ((Ascii (false, false,
+    true, false, true, true, true, false)), (String ((Ascii (true, false,
+    true, false, false, true, true, false)), (String ((Ascii (false, false,
+    false, true, false, false, true, false)), (String ((Ascii (true, false,
+    true, false, false, true, true, false)), (String ((Ascii (true, false,
+    false, false, false, true, true, false)), (String ((Ascii (false, false,
+    true, false, false, true, true, false)), (String ((Ascii (true, false,
+    true, false, false, true, true, false)), EmptyString)))))))))))))))))))),
+    (block ((SIf ((CByte (Npos (XO (XI (XO (XO (XI (XI XH)))))))),
+      (block ((SSetStep st_stateHeader) :: (SRetNil :: []))),
+      (block ((SRetErr ((String ((Ascii (true, false, false, true, false,
+        true, true, false)), (String ((Ascii (false, true, true, true, false,
+        true, true, false)), (String ((Ascii (false, false, false, false,
+        false, true, false, false)), (String ((Ascii (false, false, true,
+        false, false, true, true, false)), (String ((Ascii (true, false,
+        false, true, false, true, true, false)), (String ((Ascii (false,
+        true, false, false, true, true, true, false)), (String ((Ascii (true,
+        false, true, false, false, true, true, false)), (String ((Ascii
+        (true, true, false, false, false, true, true, false)), (String
+        ((Ascii (false, false, true, false, true, true, true, false)),
+        (String ((Ascii (true, false, false, true, false, true, true,
+        false)), (String ((Ascii (false, true, true, false, true, true, true,
+        false)), (String ((Ascii (true, false, true, false, false, true,
+        true, false)), (String ((Ascii (false, false, false, false, false,
+        true, false, false)), (String ((Ascii (false, false, false, true,
+        false, false, true, false)), (String ((Ascii (true, false, true,
+        false, false, true, true, false)), (String ((Ascii (true, false,
+        false, false, false, true, true, false)), (String ((Ascii (false,
+        false, true, false, false, true, true, false)), (String ((Ascii
+        (true, false, true, false, false, true, true, false)), (String
+        ((Ascii (false, true, false, false, true, true, true, false)),
+        (String ((Ascii (true, true, false, false, true, true, true, false)),
+        EmptyString)))))))))))))))))))))))))))))))))))))))), (String ((Ascii
+        (false, true, false, false, true, true, true, false)),
+        EmptyString)))) :: [])))) :: []))) :: (((String ((Ascii (true, true,
+    false, false, true, true, true, false)), (String ((Ascii (false, false,
+    true, false, true, true, true, false)), (String ((Ascii (true, false,
+    false, false, false, true, true, false)), (String ((Ascii (false, false,
+    true, false, true, true, true, false)), (String ((Ascii (true, false,
+    true, false, false, true, true, false)), (String ((Ascii (false, false,
     false, true, false, false, true, false)), (String ((Ascii (true, false,
     true, false, false, true, true, false)), (String ((Ascii (true, false,
     false, false, false, true, true, false)), (String ((Ascii (false, false,
     true, false, false, true, true, false)), (String ((Ascii (true, false,
     true, false, false, true, true, false)), (String ((Ascii (false, true,
-    false, false, true, true, true, false)), (String ((Ascii (true, true,
     false, false, true, true, true, false)),
-    EmptyString)))))))))))))))))))))))))))))))))))))))), (String ((Ascii
-    (true, false, true, false, false, true, true, false)),
-    EmptyString)))) :: []))) :: [])) :: (((String ((Ascii (true, true, false,
-    false, true, true, true, false)), (String ((Ascii (false, false, true,
-    false, true, true, true, false)), (String ((Ascii (true, false, false,
-    false, false, true, true, false)), (String ((Ascii (false, false, true,
-    false, true, true, true, false)), (String ((Ascii (true, false, true,
-    false, false, true, true, false)), (String ((Ascii (false, false, false,
-    true, false, false, true, false)), (String ((Ascii (true, false, true,
-    false, false, true, true, false)), EmptyString)))))))))))))), ((SIf
-    ((CByte (Npos (XI (XO (XO (XO (XO (XI XH)))))))), ((SSetStep
-    st_stateHea) :: (SRetNil :: [])), ((SRetErr ((String ((Ascii (true,
-    false, false, true, false, true, true, false)), (String ((Ascii (false,
-    true, true, true, false, true, true, false)), (String ((Ascii (false,
-    false, false, false, false, true, false, false)), (String ((Ascii (false,
-    false, true, false, false, true, true, false)), (String ((Ascii (true,
-    false, false, true, false, true, true, false)), (String ((Ascii (false,
-    true, false, false, true, true, true, false)), (String ((Ascii (true,
-    false, true, false, false, true, true, false)), (String ((Ascii (true,
-    true, false, false, false, true, true, false)), (String ((Ascii (false,
-    false, true, false, true, true, true, false)), (String ((Ascii (true,
-    false, false, true, false, true, true, false)), (String ((Ascii (false,
-    true, true, false, true, true, true, false)), (String ((Ascii (true,
-    false, true, false, false, true, true, false)), (String ((Ascii (false,
-    false, false, false, false, true, false, false)), (String ((Ascii (false,
-    false, false, true, false, false, true, false)), (String ((Ascii (true,
-    false, true, false, false, true, true, false)), (String ((Ascii (true,
-    false, false, false, false, true, true, false)), (String ((Ascii (false,
-    false, true, false, false, true, true, false)), (String ((Ascii (true,
-    false, true, false, false, true, true, false)), (String ((Ascii (false,
-    true, false, false, true, true, true, false)), (String ((Ascii (true,
-    true, false, false, true, true, true, false)),
-    EmptyString)))))))))))))))))))))))))))))))))))))))), (String ((Ascii
-    (true, false, false, false, false, true, true, false)),
-    EmptyString)))) :: []))) :: [])) :: (((String ((Ascii (true, true, false,
-    false, true, true, true, false)), (String ((Ascii (false, false, true,
-    false, true, true, true, false)), (String ((Ascii (true, false, false,
-    false, false, true, true, false)), (String ((Ascii (false, false, true,
-    false, true, true, true, false)), (String ((Ascii (true, false, true,
-    false, false, true, true, false)), (String ((Ascii (false, false, false,
-    true, false, false, true, false)), (String ((Ascii (true, false, true,
-    false, false, true, true, false)), (String ((Ascii (true, false, false,
-    false, false, true, true, false)), EmptyString)))))))))))))))), ((SIf
-    ((CByte (Npos (XO (XO (XI (XO (XO (XI XH)))))))), ((SSetStep
-    st_stateHead) :: (SRetNil :: [])), ((SRetErr ((String ((Ascii (true,
-    false, false, true, false, true, true, false)), (String ((Ascii (false,
-    true, true, true, false, true, true, false)), (String ((Ascii (false,
-    false, false, false, false, true, false, false)), (String ((Ascii (false,
-    false, true, false, false, true, true, false)), (String ((Ascii (true,
-    false, false, true, false, true, true, false)), (String ((Ascii (false,
-    true, false, false, true, true, true, false)), (String ((Ascii (true,
-    false, true, false, false, true, true, false)), (String ((Ascii (true,
-    true, false, false, false, true, true, false)), (String ((Ascii (false,
-    false, true, false, true, true, true, false)), (String ((Ascii (true,
-    false, false, true, false, true, true, false)), (String ((Ascii (false,
-    true, true, false, true, true, true, false)), (String ((Ascii (true,
-    false, true, false, false, true, true, false)), (String ((Ascii (false,
-    false, false, false, false, true, false, false)), (String ((Ascii (false,
-    false, false, true, false, false, true, false)), (String ((Ascii (true,
-    false, true, false, false, true, true, false)), (String ((Ascii (true,
-    false, false, false, false, true, true, false)), (String ((Ascii (false,
-    false, true, false, false, true, true, false)), (String ((Ascii (true,
-    false, true, false, false, true, true, false)), (String ((Ascii (false,
-    true, false, false, true, true, true, false)), (String ((Ascii (true,
-    true, false, false, true, true, true, false)),
-    EmptyString)))))))))))))))))))))))))))))))))))))))), (String ((Ascii
-    (false, false, true, false, false, true, true, false)),
-    EmptyString)))) :: []))) :: [])) :: (((String ((Ascii (true, true, false,
-    false, true, true, true, false)), (String ((Ascii (false, false, true,
-    false, true, true, true, false)), (String ((Ascii (true, false, false,
-    false, false, true, true, false)), (String ((Ascii (false, false, true,
-    false, true, true, true, false)), (String ((Ascii (true, false, true,
-    false, false, true, true, false)), (String ((Ascii (false, false, false,
-    true, false, false, true, false)), (String ((Ascii (true, false, true,
-    false, false, true, true, false)), (String ((Ascii (true, false, false,
-    false, false, true, true, false)), (String ((Ascii (false, false, true,
-    false, false, true, true, false)), EmptyString)))))))))))))))))), ((SIf
-    ((CByte (Npos (XI (XO (XI (XO (XO (XI XH)))))))), ((SSetStep
-    st_stateHeade) :: (SRetNil :: [])), ((SRetErr ((String ((Ascii (true,
-    false, false, true, false, true, true, false)), (String ((Ascii (false,
-    true, true, true, false, true, true, false)), (String ((Ascii (false,
-    false, false, false, false, true, false, false)), (String ((Ascii (false,
-    false, true, false, false, true, true, false)), (String ((Ascii (true,
-    false, false, true, false, true, true, false)), (String ((Ascii (false,
-    true, false, false, true, true, true, false)), (String ((Ascii (true,
-    false, true, false, false, true, true, false)), (String ((Ascii (true,
-    true, false, false, false, true, true, false)), (String ((Ascii (false,
-    false, true, false, true, true, true, false)), (String ((Ascii (true,
-    false, false, true, false, true, true, false)), (String ((Ascii (false,
-    true, true, false, true, true, true, false)), (String ((Ascii (true,
-    false, true, false, false, true, true, false)), (String ((Ascii (false,
-    false, false, false, false, true, false, false)), (String ((Ascii (false,
-    false, false, true, false, false, true, false)), (String ((Ascii (true,
-    false, true, false, false, true, true, false)), (String ((Ascii (true,
-    false, false, false, false, true, true, false)), (String ((Ascii (false,
-    false, true, false, false, true, true, false)), (String ((Ascii (true,
-    false, true, false, false, true, true, false)), (String ((Ascii (false,
-    true, false, false, true, true, true, false)), (String ((Ascii (true,
-    true, false, false, true, true, true, false)),
-    EmptyString)))))))))))))))))))))))))))))))))))))))), (String ((Ascii
-    (true, false, true, false, false, true, true, false)),
-    EmptyString)))) :: []))) :: [])) :: (((String ((Ascii (true, true, false,
-    false, true, true, true, false)), (String ((Ascii (false, false, true,
-    false, true, true, true, false)), (String ((Ascii (true, false, false,
-    false, false, true, true, false)), (String ((Ascii (false, false, true,
-    false, true, true, true, false)), (String ((Ascii (true, false, true,
-    false, false, true, true, false)), (String ((Ascii (false, false, false,
-    true, false, false, true, false)), (String ((Ascii (true, false, true,
-    false, false, true, true, false)), (String ((Ascii (true, false, false,
-    false, false, true, true, false)), (String ((Ascii (false, false, true,
-    false, false, true, true, false)), (String ((Ascii (true, false, true,
-    false, false, true, true, false)), EmptyString)))))))))))))))))))), ((SIf
-    ((CByte (Npos (XO (XI (XO (XO (XI (XI XH)))))))), ((SSetStep
-    st_stateHeader) :: (SRetNil :: [])), ((SRetErr ((String ((Ascii (true,
-    false, false, true, false, true, true, false)), (String ((Ascii (false,
-    true, true, true, false, true, true, false)), (String ((Ascii (false,
-    false, false, false, false, true, false, false)), (String ((Ascii (false,
-    false, true, false, false, true, true, false)), (String ((Ascii (true,
-    false, false, true, false, true, true, false)), (String ((Ascii (false,
-    true, false, false, true, true, true, false)), (String ((Ascii (true,
-    false, true, false, false, true, true, false)), (String ((Ascii (true,
-    true, false, false, false, true, true, false)), (String ((Ascii (false,
-    false, true, false, true, true, true, false)), (String ((Ascii (true,
-    false, false, true, false, true, true, false)), (String ((Ascii (false,
-    true, true, false, true, true, true, false)), (String ((Ascii (true,
-    false, true, false, false, true, true, false)), (String ((Ascii (false,
-    false, false, false, false, true, false, false)), (String ((Ascii (false,
-    false, false, true, false, false, true, false)), (String ((Ascii (true,
-    false, true, false, false, true, true, false)), (String ((Ascii (true,
-    false, false, false, false, true, true, false)), (String ((Ascii (false,
-    false, true, false, false, true, true, false)), (String ((Ascii (true,
-    false, true, false, false, true, true, false)), (String ((Ascii (false,
-    true, false, false, true, true, true, false)), (String ((Ascii (true,
-    true, false, false, true, true, true, false)),
-    EmptyString)))))))))))))))))))))))))))))))))))))))), (String ((Ascii
-    (false, true, false, false, true, true, true, false)),
-    EmptyString)))) :: []))) :: [])) :: (((String ((Ascii (true, true, false,
-    false, true, true, true, false)), (String ((Ascii (false, false, true,
-    false, true, true, true, false)), (String ((Ascii (true, false, false,
-    false, false, true, true, false)), (String ((Ascii (false, false, true,
-    false, true, true, true, false)), (String ((Ascii (true, false, true,
-    false, false, true, true, false)), (String ((Ascii (false, false, false,
-    true, false, false, true, false)), (String ((Ascii (true, false, true,
-    false, false, true, true, false)), (String ((Ascii (true, false, false,
-    false, false, true, true, false)), (String ((Ascii (false, false, true,
-    false, false, true, true, false)), (String ((Ascii (true, false, true,
-    false, false, true, true, false)), (String ((Ascii (false, true, false,
-    false, true, true, true, false)), EmptyString)))))))))))))))))))))),
-    ((SIf ((CByte (Npos (XI (XI (XO (XO (XI (XI XH)))))))), ((SFound
-    (KeywordEnd, Z0)) :: ((SPush st_stateHeaderBody) :: ((SSetStep
-    st_stateParameterOrAnnotation) :: (SRetNil :: [])))), ((SRetErr ((String
-    ((Ascii (true, false, false, true, false, true, true, false)), (String
-    ((Ascii (false, true, true, true, false, true, true, false)), (String
-    ((Ascii (false, false, false, false, false, true, false, false)), (String
-    ((Ascii (false, false, true, false, false, true, true, false)), (String
-    ((Ascii (true, false, false, true, false, true, true, false)), (String
-    ((Ascii (false, true, false, false, true, true, true, false)), (String
-    ((Ascii (true, false, true, false, false, true, true, false)), (String
-    ((Ascii (true, true, false, false, false, true, true, false)), (String
-    ((Ascii (false, false, true, false, true, true, true, false)), (String
-    ((Ascii (true, false, false, true, false, true, true, false)), (String
-    ((Ascii (false, true, true, false, true, true, true, false)), (String
-    ((Ascii (true, false, true, false, false, true, true, false)), (String
-    ((Ascii (false, false, false, false, false, true, false, false)), (String
-    ((Ascii (false, false, false, true, false, false, true, false)), (String
-    ((Ascii (true, false, true, false, false, true, true, false)), (String
-    ((Ascii (true, false, false, false, false, true, true, false)), (String
-    ((Ascii (false, false, true, false, false, true, true, false)), (String
-    ((Ascii (true, false, true, false, false, true, true, false)), (String
-    ((Ascii (false, true, false, false, true, true, true, false)), (String
-    ((Ascii (true, true, false, false, true, true, true, false)),
-    EmptyString)))))))))))))))))))))))))))))))))))))))), (String ((Ascii
-    (true, true, false, false, true, true, true, false)),
-    EmptyString)))) :: []))) :: [])) :: (((String ((Ascii (true, true, false,
-    false, true, true, true, false)), (String ((Ascii (false, false, true,
-    false, true, true, true, false)), (String ((Ascii (true, false, false,
-    false, false, true, true, false)), (String ((Ascii (false, false, true,
-    false, true, true, true, false)), (String ((Ascii (true, false, true,
-    false, false, true, true, false)), (String ((Ascii (false, false, false,
-    true, false, false, true, false)), (String ((Ascii (true, false, true,
-    false, false, true, true, false)), (String ((Ascii (true, false, false,
-    false, false, true, true, false)), (String ((Ascii (false, false, true,
-    false, false, true, true, false)), (String ((Ascii (true, false, true,
-    false, false, true, true, false)), (String ((Ascii (false, true, false,
-    false, true, true, true, false)), (String ((Ascii (false, true, false,
-    false, false, false, true, false)), (String ((Ascii (true, true, true,
-    true, false, true, true, false)), (String ((Ascii (false, false, true,
-    false, false, true, true, false)), (String ((Ascii (true, false, false,
-    true, true, true, true, false)),
-    EmptyString)))))))))))))))))))))))))))))), ((SIf ((CByte (Npos (XO (XO
-    (XO (XI (XO XH))))))), ((SFound (ContextOpen, Z0)) :: (SRetNil :: [])),
-    ((SIf ((COr (CWhitespace, CNewLine)), (SRetNil :: []), ((SIf ((CByte
-    (Npos (XI (XI (XO (XO (XO XH))))))), (SPushCur :: ((SSetStep
-    st_stateCommentStarted) :: (SRetNil :: []))), ((SIf ((COr ((CByte (Npos
-    (XI (XI (XO (XI (XI (XI XH)))))))), (CByte (Npos (XO (XO (XO (XO (XO (XO
-    XH)))))))))), ((SRetCall st_stateJSchema) :: []), ((SRetErr ((String
-    ((Ascii (true, false, false, true, false, true, true, false)), (String
-    ((Ascii (false, true, true, true, false, true, true, false)), (String
-    ((Ascii (false, false, false, false, false, true, false, false)), (String
-    ((Ascii (false, false, false, true, false, false, true, false)), (String
-    ((Ascii (true, false, true, false, false, true, true, false)), (String
-    ((Ascii (true, false, false, false, false, true, true, false)), (String
-    ((Ascii (false, false, true, false, false, true, true, false)), (String
-    ((Ascii (true, false, true, false, false, true, true, false)), (String
-    ((Ascii (false, true, false, false, true, true, true, false)), (String
-    ((Ascii (true, true, false, false, true, true, true, false)), (String
-    ((Ascii (false, false, false, false, false, true, false, false)), (String
-    ((Ascii (false, true, false, false, false, true, true, false)), (String
-    ((Ascii (true, true, true, true, false, true, true, false)), (String
-    ((Ascii (false, false, true, false, false, true, true, false)), (String
-    ((Ascii (true, false, false, true, true, true, true, false)),
+    EmptyString)))))))))))))))))))))),
+    (block ((SIf ((CByte (Npos (XI (XI (XO (XO (XI (XI XH)))))))),
+      (block ((SFound (KeywordEnd, Z0)) :: ((SPush
+        st_stateHeaderBody) :: ((SSetStep
+        st_stateParameterOrAnnotation) :: (SRetNil :: []))))),
+      (block ((SRetErr ((String ((Ascii (true, false, false, true, false,
+        true, true, false)), (String ((Ascii (false, true, true, true, false,
+        true, true, false)), (String ((Ascii (false, false, false, false,
+        false, true, false, false)), (String ((Ascii (false, false, true,
+        false, false, true, true, false)), (String ((Ascii (true, false,
+        false, true, false, true, true, false)), (String ((Ascii (false,
+        true, false, false, true, true, true, false)), (String ((Ascii (true,
+        false, true, false, false, true, true, false)), (String ((Ascii
+        (true, true, false, false, false, true, true, false)), (String
+        ((Ascii (false, false, true, false, true, true, true, false)),
+        (String ((Ascii (true, false, false, true, false, true, true,
+        false)), (String ((Ascii (false, true, true, false, true, true, true,
+        false)), (String ((Ascii (true, false, true, false, false, true,
+        true, false)), (String ((Ascii (false, false, false, false, false,
+        true, false, false)), (String ((Ascii (false, false, false, true,
+        false, false, true, false)), (String ((Ascii (true, false, true,
+        false, false, true, true, false)), (String ((Ascii (true, false,
+        false, false, false, true, true, false)), (String ((Ascii (false,
+        false, true, false, false, true, true, false)), (String ((Ascii
+        (true, false, true, false, false, true, true, false)), (String
+        ((Ascii (false, true, false, false, true, true, true, false)),
+        (String ((Ascii (true, true, false, false, true, true, true, false)),
+        EmptyString)))))))))))))))))))))))))))))))))))))))), (String ((Ascii
+        (true, true, false, false, true, true, true, false)),
+        EmptyString)))) :: [])))) :: []))) :: (((String ((Ascii (true, true,
+    false, false, true, true, true, false)), (String ((Ascii (false, false,
+    true, false, true, true, true, false)), (String ((Ascii (true, false,
+    false, false, false, true, true, false)), (String ((Ascii (false, false,
+    true, false, true, true, true, false)), (String ((Ascii (true, false,
+    true, false, false, true, true, false)), (String ((Ascii (false, false,
+    false, true, false, false, true, false)), (String ((Ascii (true, false,
+    true, false, false, true, true, false)), (String ((Ascii (true, false,
+    false, false, false, true, true, false)), (String ((Ascii (false, false,
+    true, false, false, true, true, false)), (String ((Ascii (true, false,
+    true, false, false, true, true, false)), (String ((Ascii (false, true,
+    false, false, true, true, true, false)), (String ((Ascii (false, true,
+    false, false, false, false, true, false)), (String ((Ascii (true, true,
+    true, true, false, true, true, false)), (String ((Ascii (false, false,
+    true, false, false, true, true, false)), (String ((Ascii (true, false,
+    false, true, true, true, true, false)),
     EmptyString)))))))))))))))))))))))))))))),
-    EmptyString)) :: []))) :: []))) :: []))) :: []))) :: [])) :: (((String
+    (block ((SIf ((CByte (Npos (XO (XO (XO (XI (XO XH))))))),
+      (block ((SFound (ContextOpen, Z0)) :: (SRetNil :: []))),
+      (block ((SIf ((COr (CWhitespace, CNewLine)), (block (SRetNil :: [])),
+        (block ((SIf ((CByte (Npos (XI (XI (XO (XO (XO XH))))))),
+          (block (SPushCur :: ((SSetStep
+            st_stateCommentStarted) :: (SRetNil :: [])))),
+          (block ((SIf ((COr ((CByte (Npos (XI (XI (XO (XI (XI (XI
+            XH)))))))), (CByte (Npos (XO (XO (XO (XO (XO (XO XH)))))))))),
+            (block ((SRetCall st_stateJSchema) :: [])),
+            (block ((SRetErr ((String ((Ascii (true, false, false, true,
+              false, true, true, false)), (String ((Ascii (false, true, true,
+              true, false, true, true, false)), (String ((Ascii (false,
+              false, false, false, false, true, false, false)), (String
+              ((Ascii (false, false, false, true, false, false, true,
+              false)), (String ((Ascii (true, false, true, false, false,
+              true, true, false)), (String ((Ascii (true, false, false,
+              false, false, true, true, false)), (String ((Ascii (false,
+              false, true, false, false, true, true, false)), (String ((Ascii
+              (true, false, true, false, false, true, true, false)), (String
+              ((Ascii (false, true, false, false, true, true, true, false)),
+              (String ((Ascii (true, true, false, false, true, true, true,
+              false)), (String ((Ascii (false, false, false, false, false,
+              true, false, false)), (String ((Ascii (false, true, false,
+              false, false, true, true, false)), (String ((Ascii (true, true,
+              true, true, false, true, true, false)), (String ((Ascii (false,
+              false, true, false, false, true, true, false)), (String ((Ascii
+              (true, false, false, true, true, true, true, false)),
+              EmptyString)))))))))))))))))))))))))))))),
+              EmptyString)) :: [])))) :: [])))) :: [])))) :: [])))) :: []))) :: (((String
     ((Ascii (true, true, false, false, true, true, true, false)), (String
     ((Ascii (false, false, true, false, true, true, true, false)), (String
     ((Ascii (true, false, false, false, false, true, true, false)), (String
     ((Ascii (false, false, true, false, true, true, true, false)), (String
     ((Ascii (true, false, true, false, false, true, true, false)), (String
     ((Ascii (true, false, false, true, false, false, true, false)),
-    EmptyString)))))))))))), ((SIf ((CNot (CByte (Npos (XO (XI (XI (XI (XO
-    (XO XH))))))))), ((SRetErr ((String ((Ascii (true, false, false, true,
-    false, true, true, false)), (String ((Ascii (false, true, true, true,
-    false, true, true, false)), (String ((Ascii (false, false, false, false,
-    false, true, false, false)), (String ((Ascii (true, true, false, true,
-    false, true, true, false)), (String ((Ascii (true, false, true, false,
-    false, true, true, false)), (String ((Ascii (true, false, false, true,
-    true, true, true, false)), (String ((Ascii (true, true, true, false,
-    true, true, true, false)), (String ((Ascii (true, true, true, true,
-    false, true, true, false)), (String ((Ascii (false, true, false, false,
-    true, true, true, false)), (String ((Ascii (false, false, true, false,
-    false, true, true, false)), (String ((Ascii (false, false, false, false,
-    false, true, false, false)), (String ((Ascii (true, false, false, true,
-    false, false, true, false)), (String ((Ascii (false, true, true, true,
-    false, false, true, false)), (String ((Ascii (false, true, true, false,
-    false, false, true, false)), (String ((Ascii (true, true, true, true,
-    false, false, true, false)), EmptyString)))))))))))))))))))))))))))))),
-    (String ((Ascii (false, true, true, true, false, false, true, false)),
-    EmptyString)))) :: []), [])) :: ((SSetStep
-    st_stateIN) :: (SRetNil :: [])))) :: (((String ((Ascii (true, true,
+    EmptyString)))))))))))),
+    (block ((SIf ((CNot (CByte (Npos (XO (XI (XI (XI (XO (XO XH))))))))),
+      (block ((SRetErr ((String ((Ascii (true, false, false, true, false,
+        true, true, false)), (String ((Ascii (false, true, true, true, false,
+        true, true, false)), (String ((Ascii (false, false, false, false,
+        false, true, false, false)), (String ((Ascii (true, true, false,
+        true, false, true, true, false)), (String ((Ascii (true, false, true,
+        false, false, true, true, false)), (String ((Ascii (true, false,
+        false, true, true, true, true, false)), (String ((Ascii (true, true,
+        true, false, true, true, true, false)), (String ((Ascii (true, true,
+        true, true, false, true, true, false)), (String ((Ascii (false, true,
+        false, false, true, true, true, false)), (String ((Ascii (false,
+        false, true, false, false, true, true, false)), (String ((Ascii
+        (false, false, false, false, false, true, false, false)), (String
+        ((Ascii (true, false, false, true, false, false, true, false)),
+        (String ((Ascii (false, true, true, true, false, false, true,
+        false)), (String ((Ascii (false, true, true, false, false, false,
+        true, false)), (String ((Ascii (true, true, true, true, false, false,
+        true, false)), EmptyString)))))))))))))))))))))))))))))), (String
+        ((Ascii (false, true, true, true, false, false, true, false)),
+        EmptyString)))) :: [])), SSkip)) :: ((SSetStep
+      st_stateIN) :: (SRetNil :: []))))) :: (((String ((Ascii (true, true,
     false, false, true, true, true, false)), (String ((Ascii (false, false,
     true, false, true, true, true, false)), (String ((Ascii (true, false,
     false, false, false, true, true, false)), (String ((Ascii (false, false,
     true, false, true, true, true, false)), (String ((Ascii (true, false,
     true, false, false, true, true, false)), (String ((Ascii (true, false,
     false, true, false, false, true, false)), (String ((Ascii (false, true,
-    true, true, false, false, true, false)), EmptyString)))))))))))))), ((SIf
-    ((CByte (Npos (XO (XI (XI (XO (XO (XO XH)))))))), ((SSetStep
-    st_stateINF) :: []), ((SIf ((CByte (Npos (XI (XI (XO (XO (XO (XO
-    XH)))))))), ((SSetStep st_stateINC) :: []), ((SRetErr ((String ((Ascii
-    (true, false, false, true, false, true, true, false)), (String ((Ascii
-    (false, true, true, true, false, true, true, false)), (String ((Ascii
-    (false, false, false, false, false, true, false, false)), (String ((Ascii
-    (true, true, false, true, false, true, true, false)), (String ((Ascii
-    (true, false, true, false, false, true, true, false)), (String ((Ascii
-    (true, false, false, true, true, true, true, false)), (String ((Ascii
-    (true, true, true, false, true, true, true, false)), (String ((Ascii
-    (true, true, true, true, false, true, true, false)), (String ((Ascii
-    (false, true, false, false, true, true, true, false)), (String ((Ascii
-    (false, false, true, false, false, true, true, false)), (String ((Ascii
-    (false, false, false, false, false, true, false, false)), (String ((Ascii
-    (true, false, false, true, false, false, true, false)), (String ((Ascii
-    (false, true, true, true, false, false, true, false)), (String ((Ascii
-    (false, true, true, false, false, false, true, false)), (String ((Ascii
-    (true, true, true, true, false, false, true, false)),
-    EmptyString)))))))))))))))))))))))))))))), (String ((Ascii (false, true,
-    true, false, false, false, true, false)),
-    EmptyString)))) :: []))) :: []))) :: (SRetNil :: []))) :: (((String
+    true, true, false, false, true, false)), EmptyString)))))))))))))),
+    (block ((SIf ((CByte (Npos (XO (XI (XI (XO (XO (XO XH)))))))),
+      (block ((SSetStep st_stateINF) :: [])),
+      (block ((SIf ((CByte (Npos (XI (XI (XO (XO (XO (XO XH)))))))),
+        (block ((SSetStep st_stateINC) :: [])),
+        (block ((SRetErr ((String ((Ascii (true, false, false, true, false,
+          true, true, false)), (String ((Ascii (false, true, true, true,
+          false, true, true, false)), (String ((Ascii (false, false, false,
+          false, false, true, false, false)), (String ((Ascii (true, true,
+          false, true, false, true, true, false)), (String ((Ascii (true,
+          false, true, false, false, true, true, false)), (String ((Ascii
+          (true, false, false, true, true, true, true, false)), (String
+          ((Ascii (true, true, true, false, true, true, true, false)),
+          (String ((Ascii (true, true, true, true, false, true, true,
+          false)), (String ((Ascii (false, true, false, false, true, true,
+          true, false)), (String ((Ascii (false, false, true, false, false,
+          true, true, false)), (String ((Ascii (false, false, false, false,
+          false, true, false, false)), (String ((Ascii (true, false, false,
+          true, false, false, true, false)), (String ((Ascii (false, true,
+          true, true, false, false, true, false)), (String ((Ascii (false,
+          true, true, false, false, false, true, false)), (String ((Ascii
+          (true, true, true, true, false, false, true, false)),
+          EmptyString)))))))))))))))))))))))))))))), (String ((Ascii (false,
+          true, true, false, false, false, true, false)),
+          EmptyString)))) :: [])))) :: [])))) :: (SRetNil :: [])))) :: (((String
     ((Ascii (true, true, false, false, true, true, true, false)), (String
     ((Ascii (false, false, true, false, true, true, true, false)), (String
     ((Ascii (true, false, false, false, false, true, true, false)), (String
@@ -4876,130 +5083,139 @@ let prog_table =
     ((Ascii (true, false, false, true, false, false, true, false)), (String
     ((Ascii (false, true, true, true, false, false, true, false)), (String
     ((Ascii (true, true, false, false, false, false, true, false)),
-    EmptyString)))))))))))))))), ((SIf ((CNot (CByte (Npos (XO (XO (XI (XI
-    (XO (XO XH))))))))), ((SRetErr ((String ((Ascii (true, false, false,
-    true, false, true, true, false)), (String ((Ascii (false, true, true,
-    true, false, true, true, false)), (String ((Ascii (false, false, false,
-    false, false, true, false, false)), (String ((Ascii (true, true, false,
-    true, false, true, true, false)), (String ((Ascii (true, false, true,
-    false, false, true, true, false)), (String ((Ascii (true, false, false,
-    true, true, true, true, false)), (String ((Ascii (true, true, true,
-    false, true, true, true, false)), (String ((Ascii (true, true, true,
-    true, false, true, true, false)), (String ((Ascii (false, true, false,
-    false, true, true, true, false)), (String ((Ascii (false, false, true,
-    false, false, true, true, false)), (String ((Ascii (false, false, false,
-    false, false, true, false, false)), (String ((Ascii (true, false, false,
-    true, false, false, true, false)), (String ((Ascii (false, true, true,
-    true, false, false, true, false)), (String ((Ascii (true, true, false,
-    false, false, false, true, false)), (String ((Ascii (false, false, true,
-    true, false, false, true, false)), (String ((Ascii (true, false, true,
-    false, true, false, true, false)), (String ((Ascii (false, false, true,
-    false, false, false, true, false)), (String ((Ascii (true, false, true,
-    false, false, false, true, false)),
-    EmptyString)))))))))))))))))))))))))))))))))))), (String ((Ascii (false,
-    false, true, true, false, false, true, false)), EmptyString)))) :: []),
-    [])) :: ((SSetStep st_stateINCL) :: (SRetNil :: [])))) :: (((String
-    ((Ascii (true, true, false, false, true, true, true, false)), (String
-    ((Ascii (false, false, true, false, true, true, true, false)), (String
-    ((Ascii (true, false, false, false, false, true, true, false)), (String
-    ((Ascii (false, false, true, false, true, true, true, false)), (String
-    ((Ascii (true, false, true, false, false, true, true, false)), (String
-    ((Ascii (true, false, false, true, false, false, true, false)), (String
-    ((Ascii (false, true, true, true, false, false, true, false)), (String
-    ((Ascii (true, true, false, false, false, false, true, false)), (String
-    ((Ascii (false, false, true, true, false, false, true, false)),
-    EmptyString)))))))))))))))))), ((SIf ((CNot (CByte (Npos (XI (XO (XI (XO
-    (XI (XO XH))))))))), ((SRetErr ((String ((Ascii (true, false, false,
-    true, false, true, true, false)), (String ((Ascii (false, true, true,
-    true, false, true, true, false)), (String ((Ascii (false, false, false,
-    false, false, true, false, false)), (String ((Ascii (true, true, false,
-    true, false, true, true, false)), (String ((Ascii (true, false, true,
-    false, false, true, true, false)), (String ((Ascii (true, false, false,
-    true, true, true, true, false)), (String ((Ascii (true, true, true,
-    false, true, true, true, false)), (String ((Ascii (true, true, true,
-    true, false, true, true, false)), (String ((Ascii (false, true, false,
-    false, true, true, true, false)), (String ((Ascii (false, false, true,
-    false, false, true, true, false)), (String ((Ascii (false, false, false,
-    false, false, true, false, false)), (String ((Ascii (true, false, false,
-    true, false, false, true, false)), (String ((Ascii (false, true, true,
-    true, false, false, true, false)), (String ((Ascii (true, true, false,
-    false, false, false, true, false)), (String ((Ascii (false, false, true,
-    true, false, false, true, false)), (String ((Ascii (true, false, true,
-    false, true, false, true, false)), (String ((Ascii (false, false, true,
-    false, false, false, true, false)), (String ((Ascii (true, false, true,
-    false, false, false, true, false)),
-    EmptyString)))))))))))))))))))))))))))))))))))), (String ((Ascii (true,
-    false, true, false, true, false, true, false)), EmptyString)))) :: []),
-    [])) :: ((SSetStep st_stateINCLU) :: (SRetNil :: [])))) :: (((String
-    ((Ascii (true, true, false, false, true, true, true, false)), (String
-    ((Ascii (false, false, true, false, true, true, true, false)), (String
-    ((Ascii (true, false, false, false, false, true, true, false)), (String
-    ((Ascii (false, false, true, false, true, true, true, false)), (String
-    ((Ascii (true, false, true, false, false, true, true, false)), (String
-    ((Ascii (true, false, false, true, false, false, true, false)), (String
-    ((Ascii (false, true, true, true, false, false, true, false)), (String
-    ((Ascii (true, true, false, false, false, false, true, false)), (String
-    ((Ascii (false, false, true, true, false, false, true, false)), (String
-    ((Ascii (true, false, true, false, true, false, true, false)),
-    EmptyString)))))))))))))))))))), ((SIf ((CNot (CByte (Npos (XO (XO (XI
-    (XO (XO (XO XH))))))))), ((SRetErr ((String ((Ascii (true, false, false,
-    true, false, true, true, false)), (String ((Ascii (false, true, true,
-    true, false, true, true, false)), (String ((Ascii (false, false, false,
-    false, false, true, false, false)), (String ((Ascii (true, true, false,
-    true, false, true, true, false)), (String ((Ascii (true, false, true,
-    false, false, true, true, false)), (String ((Ascii (true, false, false,
-    true, true, true, true, false)), (String ((Ascii (true, true, true,
-    false, true, true, true, false)), (String ((Ascii (true, true, true,
-    true, false, true, true, false)), (String ((Ascii (false, true, false,
-    false, true, true, true, false)), (String ((Ascii (false, false, true,
-    false, false, true, true, false)), (String ((Ascii (false, false, false,
-    false, false, true, false, false)), (String ((Ascii (true, false, false,
-    true, false, false, true, false)), (String ((Ascii (false, true, true,
-    true, false, false, true, false)), (String ((Ascii (true, true, false,
-    false, false, false, true, false)), (String ((Ascii (false, false, true,
-    true, false, false, true, false)), (String ((Ascii (true, false, true,
-    false, true, false, true, false)), (String ((Ascii (false, false, true,
-    false, false, false, true, false)), (String ((Ascii (true, false, true,
-    false, false, false, true, false)),
-    EmptyString)))))))))))))))))))))))))))))))))))), (String ((Ascii (false,
-    false, true, false, false, false, true, false)), EmptyString)))) :: []),
-    [])) :: ((SSetStep st_stateINCLUD) :: (SRetNil :: [])))) :: (((String
-    ((Ascii (true, true, false, false, true, true, true, false)), (String
-    ((Ascii (false, false, true, false, true, true, true, false)), (String
-    ((Ascii (true, false, false, false, false, true, true, false)), (String
-    ((Ascii (false, false, true, false, true, true, true, false)), (String
-    ((Ascii (true, false, true, false, false, true, true, false)), (String
-    ((Ascii (true, false, false, true, false, false, true, false)), (String
-    ((Ascii (false, true, true, true, false, false, true, false)), (String
-    ((Ascii (true, true, false, false, false, false, true, false)), (String
-    ((Ascii (false, false, true, true, false, false, true, false)), (String
-    ((Ascii (true, false, true, false, true, false, true, false)), (String
-    ((Ascii (false, false, true, false, false, false, true, false)),
-    EmptyString)))))))))))))))))))))), ((SIf ((CNot (CByte (Npos (XI (XO (XI
-    (XO (XO (XO XH))))))))), ((SRetErr ((String ((Ascii (true, false, false,
-    true, false, true, true, false)), (String ((Ascii (false, true, true,
-    true, false, true, true, false)), (String ((Ascii (false, false, false,
-    false, false, true, false, false)), (String ((Ascii (true, true, false,
-    true, false, true, true, false)), (String ((Ascii (true, false, true,
-    false, false, true, true, false)), (String ((Ascii (true, false, false,
-    true, true, true, true, false)), (String ((Ascii (true, true, true,
-    false, true, true, true, false)), (String ((Ascii (true, true, true,
-    true, false, true, true, false)), (String ((Ascii (false, true, false,
-    false, true, true, true, false)), (String ((Ascii (false, false, true,
-    false, false, true, true, false)), (String ((Ascii (false, false, false,
-    false, false, true, false, false)), (String ((Ascii (true, false, false,
-    true, false, false, true, false)), (String ((Ascii (false, true, true,
-    true, false, false, true, false)), (String ((Ascii (true, true, false,
-    false, false, false, true, false)), (String ((Ascii (false, false, true,
-    true, false, false, true, false)), (String ((Ascii (true, false, true,
-    false, true, false, true, false)), (String ((Ascii (false, false, true,
-    false, false, false, true, false)), (String ((Ascii (true, false, true,
-    false, false, false, true, false)),
-    EmptyString)))))))))))))))))))))))))))))))))))), (String ((Ascii (true,
-    false, true, false, false, false, true, false)), EmptyString)))) :: []),
-    [])) :: ((SFound (KeywordEnd, Z0)) :: ((SPush
-    st_stateExpectKeyword) :: ((SSetStep
-    st_stateParameterOrAnnotation) :: (SRetNil :: [])))))) :: (((String
+    EmptyString)))))))))))))))),
+    (block ((SIf ((CNot (CByte (Npos (XO (XO (XI (XI (XO (XO XH))))))))),
+      (block ((SRetErr ((String ((Ascii (true, false, false, true, false,
+        true, true, false)), (String ((Ascii (false, true, true, true, false,
+        true, true, false)), (String ((Ascii (false, false, false, false,
+        false, true, false, false)), (String ((Ascii (true, true, false,
+        true, false, true, true, false)), (String ((Ascii (true, false, true,
+        false, false, true, true, false)), (String ((Ascii (true, false,
+        false, true, true, true, true, false)), (String ((Ascii (true, true,
+        true, false, true, true, true, false)), (String ((Ascii (true, true,
+        true, true, false, true, true, false)), (String ((Ascii (false, true,
+        false, false, true, true, true, false)), (String ((Ascii (false,
+        false, true, false, false, true, true, false)), (String ((Ascii
+        (false, false, false, false, false, true, false, false)), (String
+        ((Ascii (true, false, false, true, false, false, true, false)),
+        (String ((Ascii (false, true, true, true, false, false, true,
+        false)), (String ((Ascii (true, true, false, false, false, false,
+        true, false)), (String ((Ascii (false, false, true, true, false,
+        false, true, false)), (String ((Ascii (true, false, true, false,
+        true, false, true, false)), (String ((Ascii (false, false, true,
+        false, false, false, true, false)), (String ((Ascii (true, false,
+        true, false, false, false, true, false)),
+        EmptyString)))))))))))))))))))))))))))))))))))), (String ((Ascii
+        (false, false, true, true, false, false, true, false)),
+        EmptyString)))) :: [])), SSkip)) :: ((SSetStep
+      st_stateINCL) :: (SRetNil :: []))))) :: (((String ((Ascii (true, true,
+    false, false, true, true, true, false)), (String ((Ascii (false, false,
+    true, false, true, true, true, false)), (String ((Ascii (true, false,
+    false, false, false, true, true, false)), (String ((Ascii (false, false,
+    true, false, true, true, true, false)), (String ((Ascii (true, false,
+    true, false, false, true, true, false)), (String ((Ascii (true, false,
+    false, true, false, false, true, false)), (String ((Ascii (false, true,
+    true, true, false, false, true, false)), (String ((Ascii (true, true,
+    false, false, false, false, true, false)), (String ((Ascii (false, false,
+    true, true, false, false, true, false)), EmptyString)))))))))))))))))),
+    (block ((SIf ((CNot (CByte (Npos (XI (XO (XI (XO (XI (XO XH))))))))),
+      (block ((SRetErr ((String ((Ascii (true, false, false, true, false,
+        true, true, false)), (String ((Ascii (false, true, true, true, false,
+        true, true, false)), (String ((Ascii (false, false, false, false,
+        false, true, false, false)), (String ((Ascii (true, true, false,
+        true, false, true, true, false)), (String ((Ascii (true, false, true,
+        false, false, true, true, false)), (String ((Ascii (true, false,
+        false, true, true, true, true, false)), (String ((Ascii (true, true,
+        true, false, true, true, true, false)), (String ((Ascii (true, true,
+        true, true, false, true, true, false)), (String ((Ascii (false, true,
+        false, false, true, true, true, false)), (String ((Ascii (false,
+        false, true, false, false, true, true, false)), (String ((Ascii
+        (false, false, false, false, false, true, false, false)), (String
+        ((Ascii (true, false, false, true, false, false, true, false)),
+        (String ((Ascii (false, true, true, true, false, false, true,
+        false)), (String ((Ascii (true, true, false, false, false, false,
+        true, false)), (String ((Ascii (false, false, true, true, false,
+        false, true, false)), (String ((Ascii (true, false, true, false,
+        true, false, true, false)), (String ((Ascii (false, false, true,
+        false, false, false, true, false)), (String ((Ascii (true, false,
+        true, false, false, false, true, false)),
+        EmptyString)))))))))))))))))))))))))))))))))))), (String ((Ascii
+        (true, false, true, false, true, false, true, false)),
+        EmptyString)))) :: [])), SSkip)) :: ((SSetStep
+      st_stateINCLU) :: (SRetNil :: []))))) :: (((String ((Ascii (true, true,
+    false, false, true, true, true, false)), (String ((Ascii (false, false,
+    true, false, true, true, true, false)), (String ((Ascii (true, false,
+    false, false, false, true, true, false)), (String ((Ascii (false, false,
+    true, false, true, true, true, false)), (String ((Ascii (true, false,
+    true, false, false, true, true, false)), (String ((Ascii (true, false,
+    false, true, false, false, true, false)), (String ((Ascii (false, true,
+    true, true, false, false, true, false)), (String ((Ascii (true, true,
+    false, false, false, false, true, false)), (String ((Ascii (false, false,
+    true, true, false, false, true, false)), (String ((Ascii (true, false,
+    true, false, true, false, true, false)), EmptyString)))))))))))))))))))),
+    (block ((SIf ((CNot (CByte (Npos (XO (XO (XI (XO (XO (XO XH))))))))),
+      (block ((SRetErr ((String ((Ascii (true, false, false, true, false,
+        true, true, false)), (String ((Ascii (false, true, true, true, false,
+        true, true, false)), (String ((Ascii (false, false, false, false,
+        false, true, false, false)), (String ((Ascii (true, true, false,
+        true, false, true, true, false)), (String ((Ascii (true, false, true,
+        false, false, true, true, false)), (String ((Ascii (true, false,
+        false, true, true, true, true, false)), (String ((Ascii (true, true,
+        true, false, true, true, true, false)), (String ((Ascii (true, true,
+        true, true, false, true, true, false)), (String ((Ascii (false, true,
+        false, false, true, true, true, false)), (String ((Ascii (false,
+        false, true, false, false, true, true, false)), (String ((Ascii
+        (false, false, false, false, false, true, false, false)), (String
+        ((Ascii (true, false, false, true, false, false, true, false)),
+        (String ((Ascii (false, true, true, true, false, false, true,
+        false)), (String ((Ascii (true, true, false, false, false, false,
+        true, false)), (String ((Ascii (false, false, true, true, false,
+        false, true, false)), (String ((Ascii (true, false, true, false,
+        true, false, true, false)), (String ((Ascii (false, false, true,
+        false, false, false, true, false)), (String ((Ascii (true, false,
+        true, false, false, false, true, false)),
+        EmptyString)))))))))))))))))))))))))))))))))))), (String ((Ascii
+        (false, false, true, false, false, false, true, false)),
+        EmptyString)))) :: [])), SSkip)) :: ((SSetStep
+      st_stateINCLUD) :: (SRetNil :: []))))) :: (((String ((Ascii (true,
+    true, false, false, true, true, true, false)), (String ((Ascii (false,
+    false, true, false, true, true, true, false)), (String ((Ascii (true,
+    false, false, false, false, true, true, false)), (String ((Ascii (false,
+    false, true, false, true, true, true, false)), (String ((Ascii (true,
+    false, true, false, false, true, true, false)), (String ((Ascii (true,
+    false, false, true, false, false, true, false)), (String ((Ascii (false,
+    true, true, true, false, false, true, false)), (String ((Ascii (true,
+    true, false, false, false, false, true, false)), (String ((Ascii (false,
+    false, true, true, false, false, true, false)), (String ((Ascii (true,
+    false, true, false, true, false, true, false)), (String ((Ascii (false,
+    false, true, false, false, false, true, false)),
+    EmptyString)))))))))))))))))))))),
+    (block ((SIf ((CNot (CByte (Npos (XI (XO (XI (XO (XO (XO XH))))))))),
+      (block ((SRetErr ((String ((Ascii (true, false, false, true, false,
+        true, true, false)), (String ((Ascii (false, true, true, true, false,
+        true, true, false)), (String ((Ascii (false, false, false, false,
+        false, true, false, false)), (String ((Ascii (true, true, false,
+        true, false, true, true, false)), (String ((Ascii (true, false, true,
+        false, false, true, true, false)), (String ((Ascii (true, false,
+        false, true, true, true, true, false)), (String ((Ascii (true, true,
+        true, false, true, true, true, false)), (String ((Ascii (true, true,
+        true, true, false, true, true, false)), (String ((Ascii (false, true,
+        false, false, true, true, true, false)), (String ((Ascii (false,
+        false, true, false, false, true, true, false)), (String ((Ascii
+        (false, false, false, false, false, true, false, false)), (String
+        ((Ascii (true, false, false, true, false, false, true, false)),
+        (String ((Ascii (false, true, true, true, false, false, true,
+        false)), (String ((Ascii (true, true, false, false, false, false,
+        true, false)), (String ((Ascii (false, false, true, true, false,
+        false, true, false)), (String ((Ascii (true, false, true, false,
+        true, false, true, false)), (String ((Ascii (false, false, true,
+        false, false, false, true, false)), (String ((Ascii (true, false,
+        true, false, false, false, true, false)),
+        EmptyString)))))))))))))))))))))))))))))))))))), (String ((Ascii
+        (true, false, true, false, false, false, true, false)),
+        EmptyString)))) :: [])), SSkip)) :: ((SFound (KeywordEnd,
+      Z0)) :: ((SPush st_stateExpectKeyword) :: ((SSetStep
+      st_stateParameterOrAnnotation) :: (SRetNil :: []))))))) :: (((String
     ((Ascii (true, true, false, false, true, true, true, false)), (String
     ((Ascii (false, false, true, false, true, true, true, false)), (String
     ((Ascii (true, false, false, false, false, true, true, false)), (String
@@ -5008,484 +5224,523 @@ let prog_table =
     ((Ascii (true, false, false, true, false, false, true, false)), (String
     ((Ascii (false, true, true, true, false, false, true, false)), (String
     ((Ascii (false, true, true, false, false, false, true, false)),
-    EmptyString)))))))))))))))), ((SIf ((CNot (CByte (Npos (XI (XI (XI (XI
-    (XO (XO XH))))))))), ((SRetErr ((String ((Ascii (true, false, false,
-    true, false, true, true, false)), (String ((Ascii (false, true, true,
-    true, false, true, true, false)), (String ((Ascii (false, false, false,
-    false, false, true, false, false)), (String ((Ascii (true, true, false,
-    true, false, true, true, false)), (String ((Ascii (true, false, true,
-    false, false, true, true, false)), (String ((Ascii (true, false, false,
-    true, true, true, true, false)), (String ((Ascii (true, true, true,
-    false, true, true, true, false)), (String ((Ascii (true, true, true,
-    true, false, true, true, false)), (String ((Ascii (false, true, false,
-    false, true, true, true, false)), (String ((Ascii (false, false, true,
-    false, false, true, true, false)), (String ((Ascii (false, false, false,
-    false, false, true, false, false)), (String ((Ascii (true, false, false,
-    true, false, false, true, false)), (String ((Ascii (false, true, true,
-    true, false, false, true, false)), (String ((Ascii (false, true, true,
-    false, false, false, true, false)), (String ((Ascii (true, true, true,
-    true, false, false, true, false)),
-    EmptyString)))))))))))))))))))))))))))))), (String ((Ascii (true, true,
-    true, true, false, false, true, false)), EmptyString)))) :: []),
-    [])) :: ((SFound (KeywordEnd, Z0)) :: ((SPush
-    st_stateExpectKeyword) :: ((SSetStep
-    st_stateParameterOrAnnotation) :: (SRetNil :: [])))))) :: (((String
+    EmptyString)))))))))))))))),
+    (block ((SIf ((CNot (CByte (Npos (XI (XI (XI (XI (XO (XO XH))))))))),
+      (block ((SRetErr ((String ((Ascii (true, false, false, true, false,
+        true, true, false)), (String ((Ascii (false, true, true, true, false,
+        true, true, false)), (String ((Ascii (false, false, false, false,
+        false, true, false, false)), (String ((Ascii (true, true, false,
+        true, false, true, true, false)), (String ((Ascii (true, false, true,
+        false, false, true, true, false)), (String ((Ascii (true, false,
+        false, true, true, true, true, false)), (String ((Ascii (true, true,
+        true, false, true, true, true, false)), (String ((Ascii (true, true,
+        true, true, false, true, true, false)), (String ((Ascii (false, true,
+        false, false, true, true, true, false)), (String ((Ascii (false,
+        false, true, false, false, true, true, false)), (String ((Ascii
+        (false, false, false, false, false, true, false, false)), (String
+        ((Ascii (true, false, false, true, false, false, true, false)),
+        (String ((Ascii (false, true, true, true, false, false, true,
+        false)), (String ((Ascii (false, true, true, false, false, false,
+        true, false)), (String ((Ascii (true, true, true, true, false, false,
+        true, false)), EmptyString)))))))))))))))))))))))))))))), (String
+        ((Ascii (true, true, true, true, false, false, true, false)),
+        EmptyString)))) :: [])), SSkip)) :: ((SFound (KeywordEnd,
+      Z0)) :: ((SPush st_stateExpectKeyword) :: ((SSetStep
+      st_stateParameterOrAnnotation) :: (SRetNil :: []))))))) :: (((String
     ((Ascii (true, true, false, false, true, true, true, false)), (String
     ((Ascii (false, false, true, false, true, true, true, false)), (String
     ((Ascii (true, false, false, false, false, true, true, false)), (String
     ((Ascii (false, false, true, false, true, true, true, false)), (String
     ((Ascii (true, false, true, false, false, true, true, false)), (String
     ((Ascii (false, true, false, true, false, false, true, false)),
-    EmptyString)))))))))))), ((SIf ((CByte (Npos (XI (XI (XO (XO (XI (XO
-    XH)))))))), ((SSetStep st_stateJS) :: (SRetNil :: [])), ((SRetErr
-    ((String ((Ascii (true, false, false, true, false, true, true, false)),
-    (String ((Ascii (false, true, true, true, false, true, true, false)),
-    (String ((Ascii (false, false, false, false, false, true, false, false)),
-    (String ((Ascii (true, true, false, true, false, true, true, false)),
-    (String ((Ascii (true, false, true, false, false, true, true, false)),
-    (String ((Ascii (true, false, false, true, true, true, true, false)),
-    (String ((Ascii (true, true, true, false, true, true, true, false)),
-    (String ((Ascii (true, true, true, true, false, true, true, false)),
-    (String ((Ascii (false, true, false, false, true, true, true, false)),
-    (String ((Ascii (false, false, true, false, false, true, true, false)),
-    (String ((Ascii (false, false, false, false, false, true, false, false)),
-    (String ((Ascii (false, true, false, true, false, false, true, false)),
-    (String ((Ascii (true, true, false, false, true, false, true, false)),
-    (String ((Ascii (true, false, false, true, false, false, true, false)),
-    (String ((Ascii (true, true, true, false, false, false, true, false)),
-    (String ((Ascii (false, false, false, true, false, false, true, false)),
-    (String ((Ascii (false, false, true, false, true, false, true, false)),
-    EmptyString)))))))))))))))))))))))))))))))))), (String ((Ascii (true,
-    true, false, false, true, false, true, false)),
-    EmptyString)))) :: []))) :: [])) :: (((String ((Ascii (true, true, false,
-    false, true, true, true, false)), (String ((Ascii (false, false, true,
-    false, true, true, true, false)), (String ((Ascii (true, false, false,
-    false, false, true, true, false)), (String ((Ascii (false, false, true,
-    false, true, true, true, false)), (String ((Ascii (true, false, true,
-    false, false, true, true, false)), (String ((Ascii (false, true, false,
-    true, false, false, true, false)), (String ((Ascii (true, true, false,
-    false, true, false, true, false)), EmptyString)))))))))))))), ((SIf
-    ((CByte (Npos (XI (XO (XO (XI (XO (XO XH)))))))), ((SSetStep
-    st_stateJSI) :: (SRetNil :: [])), ((SRetErr ((String ((Ascii (true,
-    false, false, true, false, true, true, false)), (String ((Ascii (false,
-    true, true, true, false, true, true, false)), (String ((Ascii (false,
-    false, false, false, false, true, false, false)), (String ((Ascii (true,
-    true, false, true, false, true, true, false)), (String ((Ascii (true,
-    false, true, false, false, true, true, false)), (String ((Ascii (true,
-    false, false, true, true, true, true, false)), (String ((Ascii (true,
-    true, true, false, true, true, true, false)), (String ((Ascii (true,
-    true, true, true, false, true, true, false)), (String ((Ascii (false,
-    true, false, false, true, true, true, false)), (String ((Ascii (false,
-    false, true, false, false, true, true, false)), (String ((Ascii (false,
-    false, false, false, false, true, false, false)), (String ((Ascii (false,
-    true, false, true, false, false, true, false)), (String ((Ascii (true,
-    true, false, false, true, false, true, false)), (String ((Ascii (true,
-    false, false, true, false, false, true, false)), (String ((Ascii (true,
-    true, true, false, false, false, true, false)), (String ((Ascii (false,
-    false, false, true, false, false, true, false)), (String ((Ascii (false,
-    false, true, false, true, false, true, false)),
-    EmptyString)))))))))))))))))))))))))))))))))), (String ((Ascii (true,
-    true, true, true, false, false, true, false)),
-    EmptyString)))) :: []))) :: [])) :: (((String ((Ascii (true, true, false,
-    false, true, true, true, false)), (String ((Ascii (false, false, true,
-    false, true, true, true, false)), (String ((Ascii (true, false, false,
-    false, false, true, true, false)), (String ((Ascii (false, false, true,
-    false, true, true, true, false)), (String ((Ascii (true, false, true,
-    false, false, true, true, false)), (String ((Ascii (false, true, false,
-    true, false, false, true, false)), (String ((Ascii (true, true, false,
-    false, true, false, true, false)), (String ((Ascii (true, false, false,
-    true, false, false, true, false)), EmptyString)))))))))))))))), ((SIf
-    ((CByte (Npos (XI (XI (XI (XO (XO (XO XH)))))))), ((SSetStep
-    st_stateJSIG) :: (SRetNil :: [])), ((SRetErr ((String ((Ascii (true,
-    false, false, true, false, true, true, false)), (String ((Ascii (false,
-    true, true, true, false, true, true, false)), (String ((Ascii (false,
-    false, false, false, false, true, false, false)), (String ((Ascii (true,
-    true, false, true, false, true, true, false)), (String ((Ascii (true,
-    false, true, false, false, true, true, false)), (String ((Ascii (true,
-    false, false, true, true, true, true, false)), (String ((Ascii (true,
-    true, true, false, true, true, true, false)), (String ((Ascii (true,
-    true, true, true, false, true, true, false)), (String ((Ascii (false,
-    true, false, false, true, true, true, false)), (String ((Ascii (false,
-    false, true, false, false, true, true, false)), (String ((Ascii (false,
-    false, false, false, false, true, false, false)), (String ((Ascii (false,
-    true, false, true, false, false, true, false)), (String ((Ascii (true,
-    true, false, false, true, false, true, false)), (String ((Ascii (true,
-    false, false, true, false, false, true, false)), (String ((Ascii (true,
-    true, true, false, false, false, true, false)), (String ((Ascii (false,
-    false, false, true, false, false, true, false)), (String ((Ascii (false,
-    false, true, false, true, false, true, false)),
-    EmptyString)))))))))))))))))))))))))))))))))), (String ((Ascii (true,
-    true, true, false, false, false, true, false)),
-    EmptyString)))) :: []))) :: [])) :: (((String ((Ascii (true, true, false,
-    false, true, true, true, false)), (String ((Ascii (false, false, true,
-    false, true, true, true, false)), (String ((Ascii (true, false, false,
-    false, false, true, true, false)), (String ((Ascii (false, false, true,
-    false, true, true, true, false)), (String ((Ascii (true, false, true,
-    false, false, true, true, false)), (String ((Ascii (false, true, false,
-    true, false, false, true, false)), (String ((Ascii (true, true, false,
-    false, true, false, true, false)), (String ((Ascii (true, false, false,
-    true, false, false, true, false)), (String ((Ascii (true, true, true,
-    false, false, false, true, false)), EmptyString)))))))))))))))))), ((SIf
-    ((CByte (Npos (XO (XO (XO (XI (XO (XO XH)))))))), ((SSetStep
-    st_stateJSIGH) :: (SRetNil :: [])), ((SRetErr ((String ((Ascii (true,
-    false, false, true, false, true, true, false)), (String ((Ascii (false,
-    true, true, true, false, true, true, false)), (String ((Ascii (false,
-    false, false, false, false, true, false, false)), (String ((Ascii (true,
-    true, false, true, false, true, true, false)), (String ((Ascii (true,
-    false, true, false, false, true, true, false)), (String ((Ascii (true,
-    false, false, true, true, true, true, false)), (String ((Ascii (true,
-    true, true, false, true, true, true, false)), (String ((Ascii (true,
-    true, true, true, false, true, true, false)), (String ((Ascii (false,
-    true, false, false, true, true, true, false)), (String ((Ascii (false,
-    false, true, false, false, true, true, false)), (String ((Ascii (false,
-    false, false, false, false, true, false, false)), (String ((Ascii (false,
-    true, false, true, false, false, true, false)), (String ((Ascii (true,
-    true, false, false, true, false, true, false)), (String ((Ascii (true,
-    false, false, true, false, false, true, false)), (String ((Ascii (true,
-    true, true, false, false, false, true, false)), (String ((Ascii (false,
-    false, false, true, false, false, true, false)), (String ((Ascii (false,
-    false, true, false, true, false, true, false)),
-    EmptyString)))))))))))))))))))))))))))))))))), (String ((Ascii (false,
-    false, false, true, false, false, true, false)),
-    EmptyString)))) :: []))) :: [])) :: (((String ((Ascii (true, true, false,
-    false, true, true, true, false)), (String ((Ascii (false, false, true,
-    false, true, true, true, false)), (String ((Ascii (true, false, false,
-    false, false, true, true, false)), (String ((Ascii (false, false, true,
-    false, true, true, true, false)), (String ((Ascii (true, false, true,
-    false, false, true, true, false)), (String ((Ascii (false, true, false,
-    true, false, false, true, false)), (String ((Ascii (true, true, false,
-    false, true, false, true, false)), (String ((Ascii (true, false, false,
-    true, false, false, true, false)), (String ((Ascii (true, true, true,
-    false, false, false, true, false)), (String ((Ascii (false, false, false,
-    true, false, false, true, false)), EmptyString)))))))))))))))))))), ((SIf
-    ((CByte (Npos (XO (XO (XI (XO (XI (XO XH)))))))), ((SFound (KeywordEnd,
-    Z0)) :: ((SPush st_stateExpectKeyword) :: ((SSetStep
-    st_stateParameterOrAnnotation) :: (SRetNil :: [])))), ((SRetErr ((String
-    ((Ascii (true, false, false, true, false, true, true, false)), (String
-    ((Ascii (false, true, true, true, false, true, true, false)), (String
-    ((Ascii (false, false, false, false, false, true, false, false)), (String
-    ((Ascii (true, true, false, true, false, true, true, false)), (String
-    ((Ascii (true, false, true, false, false, true, true, false)), (String
-    ((Ascii (true, false, false, true, true, true, true, false)), (String
-    ((Ascii (true, true, true, false, true, true, true, false)), (String
-    ((Ascii (true, true, true, true, false, true, true, false)), (String
-    ((Ascii (false, true, false, false, true, true, true, false)), (String
-    ((Ascii (false, false, true, false, false, true, true, false)), (String
-    ((Ascii (false, false, false, false, false, true, false, false)), (String
-    ((Ascii (false, true, false, true, false, false, true, false)), (String
-    ((Ascii (true, true, false, false, true, false, true, false)), (String
-    ((Ascii (true, false, false, true, false, false, true, false)), (String
-    ((Ascii (true, true, true, false, false, false, true, false)), (String
-    ((Ascii (false, false, false, true, false, false, true, false)), (String
-    ((Ascii (false, false, true, false, true, false, true, false)),
-    EmptyString)))))))))))))))))))))))))))))))))), (String ((Ascii (false,
-    false, true, false, true, false, true, false)),
-    EmptyString)))) :: []))) :: [])) :: (((String ((Ascii (true, true, false,
-    false, true, true, true, false)), (String ((Ascii (false, false, true,
-    false, true, true, true, false)), (String ((Ascii (true, false, false,
-    false, false, true, true, false)), (String ((Ascii (false, false, true,
-    false, true, true, true, false)), (String ((Ascii (true, false, true,
-    false, false, true, true, false)), (String ((Ascii (false, true, false,
-    true, false, false, true, false)), (String ((Ascii (true, true, false,
-    false, true, false, true, false)), (String ((Ascii (true, true, false,
-    false, false, true, true, false)), (String ((Ascii (false, false, false,
-    true, false, true, true, false)), (String ((Ascii (true, false, true,
-    false, false, true, true, false)), (String ((Ascii (true, false, true,
-    true, false, true, true, false)), (String ((Ascii (true, false, false,
-    false, false, true, true, false)), EmptyString)))))))))))))))))))))))),
-    ((SFound (SchemaBegin, Z0)) :: ((SOracle OJSchema) :: ((SSetStep
-    st_stateSchemaClosed) :: (SRetNil :: []))))) :: (((String ((Ascii (true,
-    true, false, false, true, true, true, false)), (String ((Ascii (false,
-    false, true, false, true, true, true, false)), (String ((Ascii (true,
-    false, false, false, false, true, true, false)), (String ((Ascii (false,
-    false, true, false, true, true, true, false)), (String ((Ascii (true,
-    false, true, false, false, true, true, false)), (String ((Ascii (true,
-    false, true, true, false, false, true, false)), EmptyString)))))))))))),
-    ((SIf ((CByte (Npos (XI (XO (XO (XO (XO (XO XH)))))))), ((SSetStep
-    st_stateMA) :: (SRetNil :: [])), ((SIf ((CByte (Npos (XI (XO (XI (XO (XO
-    (XI XH)))))))), ((SSetStep st_stateMe) :: (SRetNil :: [])), ((SRetErr
-    ((String ((Ascii (true, false, false, true, false, true, true, false)),
-    (String ((Ascii (false, true, true, true, false, true, true, false)),
-    (String ((Ascii (false, false, false, false, false, true, false, false)),
-    (String ((Ascii (false, false, true, false, false, true, true, false)),
-    (String ((Ascii (true, false, false, true, false, true, true, false)),
-    (String ((Ascii (false, true, false, false, true, true, true, false)),
-    (String ((Ascii (true, false, true, false, false, true, true, false)),
-    (String ((Ascii (true, true, false, false, false, true, true, false)),
-    (String ((Ascii (false, false, true, false, true, true, true, false)),
-    (String ((Ascii (true, false, false, true, false, true, true, false)),
-    (String ((Ascii (false, true, true, false, true, true, true, false)),
-    (String ((Ascii (true, false, true, false, false, true, true, false)),
-    (String ((Ascii (false, false, false, false, false, true, false, false)),
-    (String ((Ascii (false, true, true, true, false, true, true, false)),
-    (String ((Ascii (true, false, false, false, false, true, true, false)),
-    (String ((Ascii (true, false, true, true, false, true, true, false)),
-    (String ((Ascii (true, false, true, false, false, true, true, false)),
-    EmptyString)))))))))))))))))))))))))))))))))),
-    EmptyString)) :: []))) :: []))) :: [])) :: (((String ((Ascii (true, true,
+    EmptyString)))))))))))),
+    (block ((SIf ((CByte (Npos (XI (XI (XO (XO (XI (XO XH)))))))),
+      (block ((SSetStep st_stateJS) :: (SRetNil :: []))),
+      (block ((SRetErr ((String ((Ascii (true, false, false, true, false,
+        true, true, false)), (String ((Ascii (false, true, true, true, false,
+        true, true, false)), (String ((Ascii (false, false, false, false,
+        false, true, false, false)), (String ((Ascii (true, true, false,
+        true, false, true, true, false)), (String ((Ascii (true, false, true,
+        false, false, true, true, false)), (String ((Ascii (true, false,
+        false, true, true, true, true, false)), (String ((Ascii (true, true,
+        true, false, true, true, true, false)), (String ((Ascii (true, true,
+        true, true, false, true, true, false)), (String ((Ascii (false, true,
+        false, false, true, true, true, false)), (String ((Ascii (false,
+        false, true, false, false, true, true, false)), (String ((Ascii
+        (false, false, false, false, false, true, false, false)), (String
+        ((Ascii (false, true, false, true, false, false, true, false)),
+        (String ((Ascii (true, true, false, false, true, false, true,
+        false)), (String ((Ascii (true, false, false, true, false, false,
+        true, false)), (String ((Ascii (true, true, true, false, false,
+        false, true, false)), (String ((Ascii (false, false, false, true,
+        false, false, true, false)), (String ((Ascii (false, false, true,
+        false, true, false, true, false)),
+        EmptyString)))))))))))))))))))))))))))))))))), (String ((Ascii (true,
+        true, false, false, true, false, true, false)),
+        EmptyString)))) :: [])))) :: []))) :: (((String ((Ascii (true, true,
+    false, false, true, true, true, false)), (String ((Ascii (false, false,
+    true, false, true, true, true, false)), (String ((Ascii (true, false,
+    false, false, false, true, true, false)), (String ((Ascii (false, false,
+    true, false, true, true, true, false)), (String ((Ascii (true, false,
+    true, false, false, true, true, false)), (String ((Ascii (false, true,
+    false, true, false, false, true, false)), (String ((Ascii (true, true,
+    false, false, true, false, true, false)), EmptyString)))))))))))))),
+    (block ((SIf ((CByte (Npos (XI (XO (XO (XI (XO (XO XH)))))))),
+      (block ((SSetStep st_stateJSI) :: (SRetNil :: []))),
+      (block ((SRetErr ((String ((Ascii (true, false, false, true, false,
+        true, true, false)), (String ((Ascii (false, true, true, true, false,
+        true, true, false)), (String ((Ascii (false, false, false, false,
+        false, true, false, false)), (String ((Ascii (true, true, false,
+        true, false, true, true, false)), (String ((Ascii (true, false, true,
+        false, false, true, true, false)), (String ((Ascii (true, false,
+        false, true, true, true, true, false)), (String ((Ascii (true, true,
+        true, false, true, true, true, false)), (String ((Ascii (true, true,
+        true, true, false, true, true, false)), (String ((Ascii (false, true,
+        false, false, true, true, true, false)), (String ((Ascii (false,
+        false, true, false, false, true, true, false)), (String ((Ascii
+        (false, false, false, false, false, true, false, false)), (String
+        ((Ascii (false, true, false, true, false, false, true, false)),
+        (String ((Ascii (true, true, false, false, true, false, true,
+        false)), (String ((Ascii (true, false, false, true, false, false,
+        true, false)), (String ((Ascii (true, true, true, false, false,
+        false, true, false)), (String ((Ascii (false, false, false, true,
+        false, false, true, false)), (String ((Ascii (false, false, true,
+        false, true, false, true, false)),
+        EmptyString)))))))))))))))))))))))))))))))))), (String ((Ascii (true,
+        true, true, true, false, false, true, false)),
+        EmptyString)))) :: [])))) :: []))) :: (((String ((Ascii (true, true,
+    false, false, true, true, true, false)), (String ((Ascii (false, false,
+    true, false, true, true, true, false)), (String ((Ascii (true, false,
+    false, false, false, true, true, false)), (String ((Ascii (false, false,
+    true, false, true, true, true, false)), (String ((Ascii (true, false,
+    true, false, false, true, true, false)), (String ((Ascii (false, true,
+    false, true, false, false, true, false)), (String ((Ascii (true, true,
+    false, false, true, false, true, false)), (String ((Ascii (true, false,
+    false, true, false, false, true, false)), EmptyString)))))))))))))))),
+    (block ((SIf ((CByte (Npos (XI (XI (XI (XO (XO (XO XH)))))))),
+      (block ((SSetStep st_stateJSIG) :: (SRetNil :: []))),
+      (block ((SRetErr ((String ((Ascii (true, false, false, true, false,
+        true, true, false)), (String ((Ascii (false, true, true, true, false,
+        true, true, false)), (String ((Ascii (false, false, false, false,
+        false, true, false, false)), (String ((Ascii (true, true, false,
+        true, false, true, true, false)), (String ((Ascii (true, false, true,
+        false, false, true, true, false)), (String ((Ascii (true, false,
+        false, true, true, true, true, false)), (String ((Ascii (true, true,
+        true, false, true, true, true, false)), (String ((Ascii (true, true,
+        true, true, false, true, true, false)), (String ((Ascii (false, true,
+        false, false, true, true, true, false)), (String ((Ascii (false,
+        false, true, false, false, true, true, false)), (String ((Ascii
+        (false, false, false, false, false, true, false, false)), (String
+        ((Ascii (false, true, false, true, false, false, true, false)),
+        (String ((Ascii (true, true, false, false, true, false, true,
+        false)), (String ((Ascii (true, false, false, true, false, false,
+        true, false)), (String ((Ascii (true, true, true, false, false,
+        false, true, false)), (String ((Ascii (false, false, false, true,
+        false, false, true, false)), (String ((Ascii (false, false, true,
+        false, true, false, true, false)),
+        EmptyString)))))))))))))))))))))))))))))))))), (String ((Ascii (true,
+        true, true, false, false, false, true, false)),
+        EmptyString)))) :: [])))) :: []))) :: (((String ((Ascii (true, true,
+    false, false, true, true, true, false)), (String ((Ascii (false, false,
+    true, false, true, true, true, false)), (String ((Ascii (true, false,
+    false, false, false, true, true, false)), (String ((Ascii (false, false,
+    true, false, true, true, true, false)), (String ((Ascii (true, false,
+    true, false, false, true, true, false)), (String ((Ascii (false, true,
+    false, true, false, false, true, false)), (String ((Ascii (true, true,
+    false, false, true, false, true, false)), (String ((Ascii (true, false,
+    false, true, false, false, true, false)), (String ((Ascii (true, true,
+    true, false, false, false, true, false)), EmptyString)))))))))))))))))),
+    (block ((SIf ((CByte (Npos (XO (XO (XO (XI (XO (XO XH)))))))),
+      (block ((SSetStep st_stateJSIGH) :: (SRetNil :: []))),
+      (block ((SRetErr ((String ((Ascii (true, false, false, true, false,
+        true, true, false)), (String ((Ascii (false, true, true, true, false,
+        true, true, false)), (String ((Ascii (false, false, false, false,
+        false, true, false, false)), (String ((Ascii (true, true, false,
+        true, false, true, true, false)), (String ((Ascii (true, false, true,
+        false, false, true, true, false)), (String ((Ascii (true, false,
+        false, true, true, true, true, false)), (String ((Ascii (true, true,
+        true, false, true, true, true, false)), (String ((Ascii (true, true,
+        true, true, false, true, true, false)), (String ((Ascii (false, true,
+        false, false, true, true, true, false)), (String ((Ascii (false,
+        false, true, false, false, true, true, false)), (String ((Ascii
+        (false, false, false, false, false, true, false, false)), (String
+        ((Ascii (false, true, false, true, false, false, true, false)),
+        (String ((Ascii (true, true, false, false, true, false, true,
+        false)), (String ((Ascii (true, false, false, true, false, false,
+        true, false)), (String ((Ascii (true, true, true, false, false,
+        false, true, false)), (String ((Ascii (false, false, false, true,
+        false, false, true, false)), (String ((Ascii (false, false, true,
+        false, true, false, true, false)),
+        EmptyString)))))))))))))))))))))))))))))))))), (String ((Ascii
+        (false, false, false, true, false, false, true, false)),
+        EmptyString)))) :: [])))) :: []))) :: (((String ((Ascii (true, true,
+    false, false, true, true, true, false)), (String ((Ascii (false, false,
+    true, false, true, true, true, false)), (String ((Ascii (true, false,
+    false, false, false, true, true, false)), (String ((Ascii (false, false,
+    true, false, true, true, true, false)), (String ((Ascii (true, false,
+    true, false, false, true, true, false)), (String ((Ascii (false, true,
+    false, true, false, false, true, false)), (String ((Ascii (true, true,
+    false, false, true, false, true, false)), (String ((Ascii (true, false,
+    false, true, false, false, true, false)), (String ((Ascii (true, true,
+    true, false, false, false, true, false)), (String ((Ascii (false, false,
+    false, true, false, false, true, false)),
+    EmptyString)))))))))))))))))))),
+    (block ((SIf ((CByte (Npos (XO (XO (XI (XO (XI (XO XH)))))))),
+      (block ((SFound (KeywordEnd, Z0)) :: ((SPush
+        st_stateExpectKeyword) :: ((SSetStep
+        st_stateParameterOrAnnotation) :: (SRetNil :: []))))),
+      (block ((SRetErr ((String ((Ascii (true, false, false, true, false,
+        true, true, false)), (String ((Ascii (false, true, true, true, false,
+        true, true, false)), (String ((Ascii (false, false, false, false,
+        false, true, false, false)), (String ((Ascii (true, true, false,
+        true, false, true, true, false)), (String ((Ascii (true, false, true,
+        false, false, true, true, false)), (String ((Ascii (true, false,
+        false, true, true, true, true, false)), (String ((Ascii (true, true,
+        true, false, true, true, true, false)), (String ((Ascii (true, true,
+        true, true, false, true, true, false)), (String ((Ascii (false, true,
+        false, false, true, true, true, false)), (String ((Ascii (false,
+        false, true, false, false, true, true, false)), (String ((Ascii
+        (false, false, false, false, false, true, false, false)), (String
+        ((Ascii (false, true, false, true, false, false, true, false)),
+        (String ((Ascii (true, true, false, false, true, false, true,
+        false)), (String ((Ascii (true, false, false, true, false, false,
+        true, false)), (String ((Ascii (true, true, true, false, false,
+        false, true, false)), (String ((Ascii (false, false, false, true,
+        false, false, true, false)), (String ((Ascii (false, false, true,
+        false, true, false, true, false)),
+        EmptyString)))))))))))))))))))))))))))))))))), (String ((Ascii
+        (false, false, true, false, true, false, true, false)),
+        EmptyString)))) :: [])))) :: []))) :: (((String ((Ascii (true, true,
+    false, false, true, true, true, false)), (String ((Ascii (false, false,
+    true, false, true, true, true, false)), (String ((Ascii (true, false,
+    false, false, false, true, true, false)), (String ((Ascii (false, false,
+    true, false, true, true, true, false)), (String ((Ascii (true, false,
+    true, false, false, true, true, false)), (String ((Ascii (false, true,
+    false, true, false, false, true, false)), (String ((Ascii (true, true,
+    false, false, true, false, true, false)), (String ((Ascii (true, true,
+    false, false, false, true, true, false)), (String ((Ascii (false, false,
+    false, true, false, true, true, false)), (String ((Ascii (true, false,
+    true, false, false, true, true, false)), (String ((Ascii (true, false,
+    true, true, false, true, true, false)), (String ((Ascii (true, false,
+    false, false, false, true, true, false)),
+    EmptyString)))))))))))))))))))))))),
+    (block ((SFound (SchemaBegin, Z0)) :: ((SOracle OJSchema) :: ((SSetStep
+      st_stateSchemaClosed) :: (SRetNil :: [])))))) :: (((String ((Ascii
+    (true, true, false, false, true, true, true, false)), (String ((Ascii
+    (false, false, true, false, true, true, true, false)), (String ((Ascii
+    (true, false, false, false, false, true, true, false)), (String ((Ascii
+    (false, false, true, false, true, true, true, false)), (String ((Ascii
+    (true, false, true, false, false, true, true, false)), (String ((Ascii
+    (true, false, true, true, false, false, true, false)),
+    EmptyString)))))))))))),
+    (block ((SIf ((CByte (Npos (XI (XO (XO (XO (XO (XO XH)))))))),
+      (block ((SSetStep st_stateMA) :: (SRetNil :: []))),
+      (block ((SIf ((CByte (Npos (XI (XO (XI (XO (XO (XI XH)))))))),
+        (block ((SSetStep st_stateMe) :: (SRetNil :: []))),
+        (block ((SRetErr ((String ((Ascii (true, false, false, true, false,
+          true, true, false)), (String ((Ascii (false, true, true, true,
+          false, true, true, false)), (String ((Ascii (false, false, false,
+          false, false, true, false, false)), (String ((Ascii (false, false,
+          true, false, false, true, true, false)), (String ((Ascii (true,
+          false, false, true, false, true, true, false)), (String ((Ascii
+          (false, true, false, false, true, true, true, false)), (String
+          ((Ascii (true, false, true, false, false, true, true, false)),
+          (String ((Ascii (true, true, false, false, false, true, true,
+          false)), (String ((Ascii (false, false, true, false, true, true,
+          true, false)), (String ((Ascii (true, false, false, true, false,
+          true, true, false)), (String ((Ascii (false, true, true, false,
+          true, true, true, false)), (String ((Ascii (true, false, true,
+          false, false, true, true, false)), (String ((Ascii (false, false,
+          false, false, false, true, false, false)), (String ((Ascii (false,
+          true, true, true, false, true, true, false)), (String ((Ascii
+          (true, false, false, false, false, true, true, false)), (String
+          ((Ascii (true, false, true, true, false, true, true, false)),
+          (String ((Ascii (true, false, true, false, false, true, true,
+          false)), EmptyString)))))))))))))))))))))))))))))))))),
+          EmptyString)) :: [])))) :: [])))) :: []))) :: (((String ((Ascii
+    (true, true, false, false, true, true, true, false)), (String ((Ascii
+    (false, false, true, false, true, true, true, false)), (String ((Ascii
+    (true, false, false, false, false, true, true, false)), (String ((Ascii
+    (false, false, true, false, true, true, true, false)), (String ((Ascii
+    (true, false, true, false, false, true, true, false)), (String ((Ascii
+    (true, false, true, true, false, false, true, false)), (String ((Ascii
+    (true, false, false, false, false, false, true, false)),
+    EmptyString)))))))))))))),
+    (block ((SIf ((CByte (Npos (XI (XI (XO (XO (XO (XO XH)))))))),
+      (block ((SSetStep st_stateMAC) :: (SRetNil :: []))),
+      (block ((SRetErr ((String ((Ascii (true, false, false, true, false,
+        true, true, false)), (String ((Ascii (false, true, true, true, false,
+        true, true, false)), (String ((Ascii (false, false, false, false,
+        false, true, false, false)), (String ((Ascii (true, true, false,
+        true, false, true, true, false)), (String ((Ascii (true, false, true,
+        false, false, true, true, false)), (String ((Ascii (true, false,
+        false, true, true, true, true, false)), (String ((Ascii (true, true,
+        true, false, true, true, true, false)), (String ((Ascii (true, true,
+        true, true, false, true, true, false)), (String ((Ascii (false, true,
+        false, false, true, true, true, false)), (String ((Ascii (false,
+        false, true, false, false, true, true, false)), (String ((Ascii
+        (false, false, false, false, false, true, false, false)), (String
+        ((Ascii (true, false, true, true, false, false, true, false)),
+        (String ((Ascii (true, false, false, false, false, false, true,
+        false)), (String ((Ascii (true, true, false, false, false, false,
+        true, false)), (String ((Ascii (false, true, false, false, true,
+        false, true, false)), (String ((Ascii (true, true, true, true, false,
+        false, true, false)), EmptyString)))))))))))))))))))))))))))))))),
+        (String ((Ascii (true, false, true, false, false, true, true,
+        false)), EmptyString)))) :: [])))) :: []))) :: (((String ((Ascii
+    (true, true, false, false, true, true, true, false)), (String ((Ascii
+    (false, false, true, false, true, true, true, false)), (String ((Ascii
+    (true, false, false, false, false, true, true, false)), (String ((Ascii
+    (false, false, true, false, true, true, true, false)), (String ((Ascii
+    (true, false, true, false, false, true, true, false)), (String ((Ascii
+    (true, false, true, true, false, false, true, false)), (String ((Ascii
+    (true, false, false, false, false, false, true, false)), (String ((Ascii
+    (true, true, false, false, false, false, true, false)),
+    EmptyString)))))))))))))))),
+    (block ((SIf ((CByte (Npos (XO (XI (XO (XO (XI (XO XH)))))))),
+      (block ((SSetStep st_stateMACR) :: (SRetNil :: []))),
+      (block ((SRetErr ((String ((Ascii (true, false, false, true, false,
+        true, true, false)), (String ((Ascii (false, true, true, true, false,
+        true, true, false)), (String ((Ascii (false, false, false, false,
+        false, true, false, false)), (String ((Ascii (true, true, false,
+        true, false, true, true, false)), (String ((Ascii (true, false, true,
+        false, false, true, true, false)), (String ((Ascii (true, false,
+        false, true, true, true, true, false)), (String ((Ascii (true, true,
+        true, false, true, true, true, false)), (String ((Ascii (true, true,
+        true, true, false, true, true, false)), (String ((Ascii (false, true,
+        false, false, true, true, true, false)), (String ((Ascii (false,
+        false, true, false, false, true, true, false)), (String ((Ascii
+        (false, false, false, false, false, true, false, false)), (String
+        ((Ascii (true, false, true, true, false, false, true, false)),
+        (String ((Ascii (true, false, false, false, false, false, true,
+        false)), (String ((Ascii (true, true, false, false, false, false,
+        true, false)), (String ((Ascii (false, true, false, false, true,
+        false, true, false)), (String ((Ascii (true, true, true, true, false,
+        false, true, false)), EmptyString)))))))))))))))))))))))))))))))),
+        (String ((Ascii (false, true, false, false, true, true, true,
+        false)), EmptyString)))) :: [])))) :: []))) :: (((String ((Ascii
+    (true, true, false, false, true, true, true, false)), (String ((Ascii
+    (false, false, true, false, true, true, true, false)), (String ((Ascii
+    (true, false, false, false, false, true, true, false)), (String ((Ascii
+    (false, false, true, false, true, true, true, false)), (String ((Ascii
+    (true, false, true, false, false, true, true, false)), (String ((Ascii
+    (true, false, true, true, false, false, true, false)), (String ((Ascii
+    (true, false, false, false, false, false, true, false)), (String ((Ascii
+    (true, true, false, false, false, false, true, false)), (String ((Ascii
+    (false, true, false, false, true, false, true, false)),
+    EmptyString)))))))))))))))))),
+    (block ((SIf ((CByte (Npos (XI (XI (XI (XI (XO (XO XH)))))))),
+      (block ((SFound (KeywordEnd, Z0)) :: ((SPush
+        st_stateExpectKeyword) :: ((SSetStep
+        st_stateParameterOrAnnotation) :: (SRetNil :: []))))),
+      (block ((SRetErr ((String ((Ascii (true, false, false, true, false,
+        true, true, false)), (String ((Ascii (false, true, true, true, false,
+        true, true, false)), (String ((Ascii (false, false, false, false,
+        false, true, false, false)), (String ((Ascii (true, true, false,
+        true, false, true, true, false)), (String ((Ascii (true, false, true,
+        false, false, true, true, false)), (String ((Ascii (true, false,
+        false, true, true, true, true, false)), (String ((Ascii (true, true,
+        true, false, true, true, true, false)), (String ((Ascii (true, true,
+        true, true, false, true, true, false)), (String ((Ascii (false, true,
+        false, false, true, true, true, false)), (String ((Ascii (false,
+        false, true, false, false, true, true, false)), (String ((Ascii
+        (false, false, false, false, false, true, false, false)), (String
+        ((Ascii (true, false, true, true, false, false, true, false)),
+        (String ((Ascii (true, false, false, false, false, false, true,
+        false)), (String ((Ascii (true, true, false, false, false, false,
+        true, false)), (String ((Ascii (false, true, false, false, true,
+        false, true, false)), (String ((Ascii (true, true, true, true, false,
+        false, true, false)), EmptyString)))))))))))))))))))))))))))))))),
+        (String ((Ascii (true, false, false, true, true, true, true, false)),
+        EmptyString)))) :: [])))) :: []))) :: (((String ((Ascii (true, true,
     false, false, true, true, true, false)), (String ((Ascii (false, false,
     true, false, true, true, true, false)), (String ((Ascii (true, false,
     false, false, false, true, true, false)), (String ((Ascii (false, false,
     true, false, true, true, true, false)), (String ((Ascii (true, false,
     true, false, false, true, true, false)), (String ((Ascii (true, false,
     true, true, false, false, true, false)), (String ((Ascii (true, false,
-    false, false, false, false, true, false)), EmptyString)))))))))))))),
-    ((SIf ((CByte (Npos (XI (XI (XO (XO (XO (XO XH)))))))), ((SSetStep
-    st_stateMAC) :: (SRetNil :: [])), ((SRetErr ((String ((Ascii (true,
-    false, false, true, false, true, true, false)), (String ((Ascii (false,
-    true, true, true, false, true, true, false)), (String ((Ascii (false,
-    false, false, false, false, true, false, false)), (String ((Ascii (true,
-    true, false, true, false, true, true, false)), (String ((Ascii (true,
-    false, true, false, false, true, true, false)), (String ((Ascii (true,
-    false, false, true, true, true, true, false)), (String ((Ascii (true,
-    true, true, false, true, true, true, false)), (String ((Ascii (true,
-    true, true, true, false, true, true, false)), (String ((Ascii (false,
-    true, false, false, true, true, true, false)), (String ((Ascii (false,
-    false, true, false, false, true, true, false)), (String ((Ascii (false,
-    false, false, false, false, true, false, false)), (String ((Ascii (true,
-    false, true, true, false, false, true, false)), (String ((Ascii (true,
-    false, false, false, false, false, true, false)), (String ((Ascii (true,
-    true, false, false, false, false, true, false)), (String ((Ascii (false,
-    true, false, false, true, false, true, false)), (String ((Ascii (true,
-    true, true, true, false, false, true, false)),
-    EmptyString)))))))))))))))))))))))))))))))), (String ((Ascii (true,
-    false, true, false, false, true, true, false)),
-    EmptyString)))) :: []))) :: [])) :: (((String ((Ascii (true, true, false,
-    false, true, true, true, false)), (String ((Ascii (false, false, true,
-    false, true, true, true, false)), (String ((Ascii (true, false, false,
-    false, false, true, true, false)), (String ((Ascii (false, false, true,
-    false, true, true, true, false)), (String ((Ascii (true, false, true,
-    false, false, true, true, false)), (String ((Ascii (true, false, true,
-    true, false, false, true, false)), (String ((Ascii (true, false, false,
-    false, false, false, true, false)), (String ((Ascii (true, true, false,
-    false, false, false, true, false)), EmptyString)))))))))))))))), ((SIf
-    ((CByte (Npos (XO (XI (XO (XO (XI (XO XH)))))))), ((SSetStep
-    st_stateMACR) :: (SRetNil :: [])), ((SRetErr ((String ((Ascii (true,
-    false, false, true, false, true, true, false)), (String ((Ascii (false,
-    true, true, true, false, true, true, false)), (String ((Ascii (false,
-    false, false, false, false, true, false, false)), (String ((Ascii (true,
-    true, false, true, false, true, true, false)), (String ((Ascii (true,
-    false, true, false, false, true, true, false)), (String ((Ascii (true,
-    false, false, true, true, true, true, false)), (String ((Ascii (true,
-    true, true, false, true, true, true, false)), (String ((Ascii (true,
-    true, true, true, false, true, true, false)), (String ((Ascii (false,
-    true, false, false, true, true, true, false)), (String ((Ascii (false,
-    false, true, false, false, true, true, false)), (String ((Ascii (false,
-    false, false, false, false, true, false, false)), (String ((Ascii (true,
-    false, true, true, false, false, true, false)), (String ((Ascii (true,
-    false, false, false, false, false, true, false)), (String ((Ascii (true,
-    true, false, false, false, false, true, false)), (String ((Ascii (false,
-    true, false, false, true, false, true, false)), (String ((Ascii (true,
-    true, true, true, false, false, true, false)),
-    EmptyString)))))))))))))))))))))))))))))))), (String ((Ascii (false,
-    true, false, false, true, true, true, false)),
-    EmptyString)))) :: []))) :: [])) :: (((String ((Ascii (true, true, false,
-    false, true, true, true, false)), (String ((Ascii (false, false, true,
-    false, true, true, true, false)), (String ((Ascii (true, false, false,
-    false, false, true, true, false)), (String ((Ascii (false, false, true,
-    false, true, true, true, false)), (String ((Ascii (true, false, true,
-    false, false, true, true, false)), (String ((Ascii (true, false, true,
-    true, false, false, true, false)), (String ((Ascii (true, false, false,
-    false, false, false, true, false)), (String ((Ascii (true, true, false,
-    false, false, false, true, false)), (String ((Ascii (false, true, false,
-    false, true, false, true, false)), EmptyString)))))))))))))))))), ((SIf
-    ((CByte (Npos (XI (XI (XI (XI (XO (XO XH)))))))), ((SFound (KeywordEnd,
-    Z0)) :: ((SPush st_stateExpectKeyword) :: ((SSetStep
-    st_stateParameterOrAnnotation) :: (SRetNil :: [])))), ((SRetErr ((String
-    ((Ascii (true, false, false, true, false, true, true, false)), (String
-    ((Ascii (false, true, true, true, false, true, true, false)), (String
-    ((Ascii (false, false, false, false, false, true, false, false)), (String
-    ((Ascii (true, true, false, true, false, true, true, false)), (String
+    true, false, false, true, true, false)), EmptyString)))))))))))))),
+    (block ((SIf ((CByte (Npos (XO (XO (XI (XO (XI (XI XH)))))))),
+      (block ((SSetStep st_stateMet) :: (SRetNil :: []))),
+      (block ((SRetErr ((String ((Ascii (true, false, false, true, false,
+        true, true, false)), (String ((Ascii (false, true, true, true, false,
+        true, true, false)), (String ((Ascii (false, false, false, false,
+        false, true, false, false)), (String ((Ascii (true, true, false,
+        true, false, true, true, false)), (String ((Ascii (true, false, true,
+        false, false, true, true, false)), (String ((Ascii (true, false,
+        false, true, true, true, true, false)), (String ((Ascii (true, true,
+        true, false, true, true, true, false)), (String ((Ascii (true, true,
+        true, true, false, true, true, false)), (String ((Ascii (false, true,
+        false, false, true, true, true, false)), (String ((Ascii (false,
+        false, true, false, false, true, true, false)), (String ((Ascii
+        (false, false, false, false, false, true, false, false)), (String
+        ((Ascii (true, false, true, true, false, false, true, false)),
+        (String ((Ascii (true, false, true, false, false, true, true,
+        false)), (String ((Ascii (false, false, true, false, true, true,
+        true, false)), (String ((Ascii (false, false, false, true, false,
+        true, true, false)), (String ((Ascii (true, true, true, true, false,
+        true, true, false)), (String ((Ascii (false, false, true, false,
+        false, true, true, false)),
+        EmptyString)))))))))))))))))))))))))))))))))), (String ((Ascii
+        (false, false, true, false, true, true, true, false)),
+        EmptyString)))) :: [])))) :: []))) :: (((String ((Ascii (true, true,
+    false, false, true, true, true, false)), (String ((Ascii (false, false,
+    true, false, true, true, true, false)), (String ((Ascii (true, false,
+    false, false, false, true, true, false)), (String ((Ascii (false, false,
+    true, false, true, true, true, false)), (String ((Ascii (true, false,
+    true, false, false, true, true, false)), (String ((Ascii (true, false,
+    true, true, false, false, true, false)), (String ((Ascii (true, false,
+    true, false, false, true, true, false)), (String ((Ascii (false, false,
+    true, false, true, true, true, false)), EmptyString)))))))))))))))),
+    (block ((SIf ((CByte (Npos (XO (XO (XO (XI (XO (XI XH)))))))),
+      (block ((SSetStep st_stateMeth) :: (SRetNil :: []))),
+      (block ((SRetErr ((String ((Ascii (true, false, false, true, false,
+        true, true, false)), (String ((Ascii (false, true, true, true, false,
+        true, true, false)), (String ((Ascii (false, false, false, false,
+        false, true, false, false)), (String ((Ascii (true, true, false,
+        true, false, true, true, false)), (String ((Ascii (true, false, true,
+        false, false, true, true, false)), (String ((Ascii (true, false,
+        false, true, true, true, true, false)), (String ((Ascii (true, true,
+        true, false, true, true, true, false)), (String ((Ascii (true, true,
+        true, true, false, true, true, false)), (String ((Ascii (false, true,
+        false, false, true, true, true, false)), (String ((Ascii (false,
+        false, true, false, false, true, true, false)), (String ((Ascii
+        (false, false, false, false, false, true, false, false)), (String
+        ((Ascii (true, false, true, true, false, false, true, false)),
+        (String ((Ascii (true, false, true, false, false, true, true,
+        false)), (String ((Ascii (false, false, true, false, true, true,
+        true, false)), (String ((Ascii (false, false, false, true, false,
+        true, true, false)), (String ((Ascii (true, true, true, true, false,
+        true, true, false)), (String ((Ascii (false, false, true, false,
+        false, true, true, false)),
+        EmptyString)))))))))))))))))))))))))))))))))), (String ((Ascii
+        (false, false, false, true, false, true, true, false)),
+        EmptyString)))) :: [])))) :: []))) :: (((String ((Ascii (true, true,
+    false, false, true, true, true, false)), (String ((Ascii (false, false,
+    true, false, true, true, true, false)), (String ((Ascii (true, false,
+    false, false, false, true, true, false)), (String ((Ascii (false, false,
+    true, false, true, true, true, false)), (String ((Ascii (true, false,
+    true, false, false, true, true, false)), (String ((Ascii (true, false,
+    true, true, false, false, true, false)), (String ((Ascii (true, false,
+    true, false, false, true, true, false)), (String ((Ascii (false, false,
+    true, false, true, true, true, false)), (String ((Ascii (false, false,
+    false, true, false, true, true, false)), EmptyString)))))))))))))))))),
+    (block ((SIf ((CByte (Npos (XI (XI (XI (XI (XO (XI XH)))))))),
+      (block ((SSetStep st_stateMetho) :: (SRetNil :: []))),
+      (block ((SRetErr ((String ((Ascii (true, false, false, true, false,
+        true, true, false)), (String ((Ascii (false, true, true, true, false,
+        true, true, false)), (String ((Ascii (false, false, false, false,
+        false, true, false, false)), (String ((Ascii (true, true, false,
+        true, false, true, true, false)), (String ((Ascii (true, false, true,
+        false, false, true, true, false)), (String ((Ascii (true, false,
+        false, true, true, true, true, false)), (String ((Ascii (true, true,
+        true, false, true, true, true, false)), (String ((Ascii (true, true,
+        true, true, false, true, true, false)), (String ((Ascii (false, true,
+        false, false, true, true, true, false)), (String ((Ascii (false,
+        false, true, false, false, true, true, false)), (String ((Ascii
+        (false, false, false, false, false, true, false, false)), (String
+        ((Ascii (true, false, true, true, false, false, true, false)),
+        (String ((Ascii (true, false, true, false, false, true, true,
+        false)), (String ((Ascii (false, false, true, false, true, true,
+        true, false)), (String ((Ascii (false, false, false, true, false,
+        true, true, false)), (String ((Ascii (true, true, true, true, false,
+        true, true, false)), (String ((Ascii (false, false, true, false,
+        false, true, true, false)),
+        EmptyString)))))))))))))))))))))))))))))))))), (String ((Ascii (true,
+        true, true, true, false, true, true, false)), EmptyString)))) :: [])))) :: []))) :: (((String
+    ((Ascii (true, true, false, false, true, true, true, false)), (String
+    ((Ascii (false, false, true, false, true, true, true, false)), (String
+    ((Ascii (true, false, false, false, false, true, true, false)), (String
+    ((Ascii (false, false, true, false, true, true, true, false)), (String
     ((Ascii (true, false, true, false, false, true, true, false)), (String
-    ((Ascii (true, false, false, true, true, true, true, false)), (String
-    ((Ascii (true, true, true, false, true, true, true, false)), (String
-    ((Ascii (true, true, true, true, false, true, true, false)), (String
-    ((Ascii (false, true, false, false, true, true, true, false)), (String
-    ((Ascii (false, false, true, false, false, true, true, false)), (String
-    ((Ascii (false, false, false, false, false, true, false, false)), (String
-    ((Ascii (true, false, true, true, false, false, true, false)), (String
-    ((Ascii (true, false, false, false, false, false, true, false)), (String
-    ((Ascii (true, true, false, false, false, false, true, false)), (String
-    ((Ascii (false, true, false, false, true, false, true, false)), (String
-    ((Ascii (true, true, true, true, false, false, true, false)),
-    EmptyString)))))))))))))))))))))))))))))))), (String ((Ascii (true,
-    false, false, true, true, true, true, false)),
-    EmptyString)))) :: []))) :: [])) :: (((String ((Ascii (true, true, false,
-    false, true, true, true, false)), (String ((Ascii (false, false, true,
-    false, true, true, true, false)), (String ((Ascii (true, false, false,
-    false, false, true, true, false)), (String ((Ascii (false, false, true,
-    false, true, true, true, false)), (String ((Ascii (true, false, true,
-    false, false, true, true, false)), (String ((Ascii (true, false, true,
-    true, false, false, true, false)), (String ((Ascii (true, false, true,
-    false, false, true, true, false)), EmptyString)))))))))))))), ((SIf
-    ((CByte (Npos (XO (XO (XI (XO (XI (XI XH)))))))), ((SSetStep
-    st_stateMet) :: (SRetNil :: [])), ((SRetErr ((String ((Ascii (true,
-    false, false, true, false, true, true, false)), (String ((Ascii (false,
-    true, true, true, false, true, true, false)), (String ((Ascii (false,
-    false, false, false, false, true, false, false)), (String ((Ascii (true,
-    true, false, true, false, true, true, false)), (String ((Ascii (true,
-    false, true, false, false, true, true, false)), (String ((Ascii (true,
-    false, false, true, true, true, true, false)), (String ((Ascii (true,
-    true, true, false, true, true, true, false)), (String ((Ascii (true,
-    true, true, true, false, true, true, false)), (String ((Ascii (false,
-    true, false, false, true, true, true, false)), (String ((Ascii (false,
-    false, true, false, false, true, true, false)), (String ((Ascii (false,
-    false, false, false, false, true, false, false)), (String ((Ascii (true,
-    false, true, true, false, false, true, false)), (String ((Ascii (true,
-    false, true, false, false, true, true, false)), (String ((Ascii (false,
-    false, true, false, true, true, true, false)), (String ((Ascii (false,
-    false, false, true, false, true, true, false)), (String ((Ascii (true,
-    true, true, true, false, true, true, false)), (String ((Ascii (false,
-    false, true, false, false, true, true, false)),
-    EmptyString)))))))))))))))))))))))))))))))))), (String ((Ascii (false,
-    false, true, false, true, true, true, false)),
-    EmptyString)))) :: []))) :: [])) :: (((String ((Ascii (true, true, false,
-    false, true, true, true, false)), (String ((Ascii (false, false, true,
-    false, true, true, true, false)), (String ((Ascii (true, false, false,
-    false, false, true, true, false)), (String ((Ascii (false, false, true,
-    false, true, true, true, false)), (String ((Ascii (true, false, true,
-    false, false, true, true, false)), (String ((Ascii (true, false, true,
-    true, false, false, true, false)), (String ((Ascii (true, false, true,
-    false, false, true, true, false)), (String ((Ascii (false, false, true,
-    false, true, true, true, false)), EmptyString)))))))))))))))), ((SIf
-    ((CByte (Npos (XO (XO (XO (XI (XO (XI XH)))))))), ((SSetStep
-    st_stateMeth) :: (SRetNil :: [])), ((SRetErr ((String ((Ascii (true,
-    false, false, true, false, true, true, false)), (String ((Ascii (false,
-    true, true, true, false, true, true, false)), (String ((Ascii (false,
-    false, false, false, false, true, false, false)), (String ((Ascii (true,
-    true, false, true, false, true, true, false)), (String ((Ascii (true,
-    false, true, false, false, true, true, false)), (String ((Ascii (true,
-    false, false, true, true, true, true, false)), (String ((Ascii (true,
-    true, true, false, true, true, true, false)), (String ((Ascii (true,
-    true, true, true, false, true, true, false)), (String ((Ascii (false,
-    true, false, false, true, true, true, false)), (String ((Ascii (false,
-    false, true, false, false, true, true, false)), (String ((Ascii (false,
-    false, false, false, false, true, false, false)), (String ((Ascii (true,
-    false, true, true, false, false, true, false)), (String ((Ascii (true,
-    false, true, false, false, true, true, false)), (String ((Ascii (false,
-    false, true, false, true, true, true, false)), (String ((Ascii (false,
-    false, false, true, false, true, true, false)), (String ((Ascii (true,
-    true, true, true, false, true, true, false)), (String ((Ascii (false,
-    false, true, false, false, true, true, false)),
-    EmptyString)))))))))))))))))))))))))))))))))), (String ((Ascii (false,
-    false, false, true, false, true, true, false)),
-    EmptyString)))) :: []))) :: [])) :: (((String ((Ascii (true, true, false,
-    false, true, true, true, false)), (String ((Ascii (false, false, true,
-    false, true, true, true, false)), (String ((Ascii (true, false, false,
-    false, false, true, true, false)), (String ((Ascii (false, false, true,
-    false, true, true, true, false)), (String ((Ascii (true, false, true,
-    false, false, true, true, false)), (String ((Ascii (true, false, true,
-    true, false, false, true, false)), (String ((Ascii (true, false, true,
-    false, false, true, true, false)), (String ((Ascii (false, false, true,
-    false, true, true, true, false)), (String ((Ascii (false, false, false,
-    true, false, true, true, false)), EmptyString)))))))))))))))))), ((SIf
-    ((CByte (Npos (XI (XI (XI (XI (XO (XI XH)))))))), ((SSetStep
-    st_stateMetho) :: (SRetNil :: [])), ((SRetErr ((String ((Ascii (true,
-    false, false, true, false, true, true, false)), (String ((Ascii (false,
-    true, true, true, false, true, true, false)), (String ((Ascii (false,
-    false, false, false, false, true, false, false)), (String ((Ascii (true,
-    true, false, true, false, true, true, false)), (String ((Ascii (true,
-    false, true, false, false, true, true, false)), (String ((Ascii (true,
-    false, false, true, true, true, true, false)), (String ((Ascii (true,
-    true, true, false, true, true, true, false)), (String ((Ascii (true,
-    true, true, true, false, true, true, false)), (String ((Ascii (false,
-    true, false, false, true, true, true, false)), (String ((Ascii (false,
-    false, true, false, false, true, true, false)), (String ((Ascii (false,
-    false, false, false, false, true, false, false)), (String ((Ascii (true,
-    false, true, true, false, false, true, false)), (String ((Ascii (true,
-    false, true, false, false, true, true, false)), (String ((Ascii (false,
-    false, true, false, true, true, true, false)), (String ((Ascii (false,
-    false, false, true, false, true, true, false)), (String ((Ascii (true,
-    true, true, true, false, true, true, false)), (String ((Ascii (false,
-    false, true, false, false, true, true, false)),
-    EmptyString)))))))))))))))))))))))))))))))))), (String ((Ascii (true,
-    true, true, true, false, true, true, false)),
-    EmptyString)))) :: []))) :: [])) :: (((String ((Ascii (true, true, false,
-    false, true, true, true, false)), (String ((Ascii (false, false, true,
-    false, true, true, true, false)), (String ((Ascii (true, false, false,
-    false, false, true, true, false)), (String ((Ascii (false, false, true,
-    false, true, true, true, false)), (String ((Ascii (true, false, true,
-    false, false, true, true, false)), (String ((Ascii (true, false, true,
-    true, false, false, true, false)), (String ((Ascii (true, false, true,
-    false, false, true, true, false)), (String ((Ascii (false, false, true,
-    false, true, true, true, false)), (String ((Ascii (false, false, false,
-    true, false, true, true, false)), (String ((Ascii (true, true, true,
-    true, false, true, true, false)), EmptyString)))))))))))))))))))), ((SIf
-    ((CByte (Npos (XO (XO (XI (XO (XO (XI XH)))))))), ((SFound (KeywordEnd,
-    Z0)) :: ((SPush st_stateExpectKeyword) :: ((SSetStep
-    st_stateParameterOrAnnotation) :: (SRetNil :: [])))), ((SRetErr ((String
-    ((Ascii (true, false, false, true, false, true, true, false)), (String
-    ((Ascii (false, true, true, true, false, true, true, false)), (String
-    ((Ascii (false, false, false, false, false, true, false, false)), (String
-    ((Ascii (true, true, false, true, false, true, true, false)), (String
-    ((Ascii (true, false, true, false, false, true, true, false)), (String
-    ((Ascii (true, false, false, true, true, true, true, false)), (String
-    ((Ascii (true, true, true, false, true, true, true, false)), (String
-    ((Ascii (true, true, true, true, false, true, true, false)), (String
-    ((Ascii (false, true, false, false, true, true, true, false)), (String
-    ((Ascii (false, false, true, false, false, true, true, false)), (String
-    ((Ascii (false, false, false, false, false, true, false, false)), (String
     ((Ascii (true, false, true, true, false, false, true, false)), (String
     ((Ascii (true, false, true, false, false, true, true, false)), (String
     ((Ascii (false, false, true, false, true, true, true, false)), (String
     ((Ascii (false, false, false, true, false, true, true, false)), (String
-    ((Ascii (true, true, true, true, false, true, true, false)), (String
-    ((Ascii (false, false, true, false, false, true, true, false)),
-    EmptyString)))))))))))))))))))))))))))))))))), (String ((Ascii (false,
-    false, true, false, false, true, true, false)),
-    EmptyString)))) :: []))) :: [])) :: (((String ((Ascii (true, true, false,
-    false, true, true, true, false)), (String ((Ascii (false, false, true,
-    false, true, true, true, false)), (String ((Ascii (true, false, false,
-    false, false, true, true, false)), (String ((Ascii (false, false, true,
-    false, true, true, true, false)), (String ((Ascii (true, false, true,
-    false, false, true, true, false)), (String ((Ascii (true, false, true,
-    true, false, false, true, false)), (String ((Ascii (true, false, true,
-    false, true, true, true, false)), (String ((Ascii (false, false, true,
-    true, false, true, true, false)), (String ((Ascii (false, false, true,
-    false, true, true, true, false)), (String ((Ascii (true, false, false,
-    true, false, true, true, false)), (String ((Ascii (false, false, true,
-    true, false, true, true, false)), (String ((Ascii (true, false, false,
-    true, false, true, true, false)), (String ((Ascii (false, true, true,
-    true, false, true, true, false)), (String ((Ascii (true, false, true,
-    false, false, true, true, false)), (String ((Ascii (true, false, false,
-    false, false, false, true, false)), (String ((Ascii (false, true, true,
-    true, false, true, true, false)), (String ((Ascii (false, true, true,
-    true, false, true, true, false)), (String ((Ascii (true, true, true,
-    true, false, true, true, false)), (String ((Ascii (false, false, true,
-    false, true, true, true, false)), (String ((Ascii (true, false, false,
-    false, false, true, true, false)), (String ((Ascii (false, false, true,
-    false, true, true, true, false)), (String ((Ascii (true, false, false,
-    true, false, true, true, false)), (String ((Ascii (true, true, true,
-    true, false, true, true, false)), (String ((Ascii (false, true, true,
-    true, false, true, true, false)),
-    EmptyString)))))))))))))))))))))))))))))))))))))))))))))))), ((SIf ((CAnd
-    ((CByte (Npos (XI (XI (XI (XI (XO XH))))))), (CPrevByte ((Zpos XH), (Npos
-    (XO (XI (XO (XI (XO XH)))))))))), ((SFound (AnnotationEnd, (Zneg (XO
-    XH)))) :: (SPop :: [])), ((SIf ((CByte N0), ((SRetErr ((String ((Ascii
-    (true, false, true, true, false, true, true, false)), (String ((Ascii
-    (true, false, true, false, true, true, true, false)), (String ((Ascii
-    (false, false, true, true, false, true, true, false)), (String ((Ascii
-    (false, false, true, false, true, true, true, false)), (String ((Ascii
-    (true, false, false, true, false, true, true, false)), (String ((Ascii
-    (false, false, true, true, false, true, true, false)), (String ((Ascii
-    (true, false, false, true, false, true, true, false)), (String ((Ascii
-    (false, true, true, true, false, true, true, false)), (String ((Ascii
-    (true, false, true, false, false, true, true, false)), (String ((Ascii
-    (false, false, false, false, false, true, false, false)), (String ((Ascii
-    (true, false, false, false, false, true, true, false)), (String ((Ascii
-    (false, true, true, true, false, true, true, false)), (String ((Ascii
-    (false, true, true, true, false, true, true, false)), (String ((Ascii
-    (true, true, true, true, false, true, true, false)), (String ((Ascii
-    (false, false, true, false, true, true, true, false)), (String ((Ascii
-    (true, false, false, false, false, true, true, false)), (String ((Ascii
-    (false, false, true, false, true, true, true, false)), (String ((Ascii
-    (true, false, false, true, false, true, true, false)), (String ((Ascii
-    (true, true, true, true, false, true, true, false)), (String ((Ascii
-    (false, true, true, true, false, true, true, false)),
-    EmptyString)))))))))))))))))))))))))))))))))))))))), (String ((Ascii
-    (false, true, false, true, false, true, false, false)), (String ((Ascii
-    (true, true, true, true, false, true, false, false)),
-    EmptyString)))))) :: []), [])) :: []))) :: (SRetNil :: []))) :: (((String
+    ((Ascii (true, true, true, true, false, true, true, false)),
+    EmptyString)))))))))))))))))))),
+    (block ((SIf ((CByte (Npos (XO (XO (XI (XO (XO (XI XH)))))))),
+      (block ((SFound (KeywordEnd, Z0)) :: ((SPush
+        st_stateExpectKeyword) :: ((SSetStep
+        st_stateParameterOrAnnotation) :: (SRetNil :: []))))),
+      (block ((SRetErr ((String ((Ascii (true, false, false, true, false,
+        true, true, false)), (String ((Ascii (false, true, true, true, false,
+        true, true, false)), (String ((Ascii (false, false, false, false,
+        false, true, false, false)), (String ((Ascii (true, true, false,
+        true, false, true, true, false)), (String ((Ascii (true, false, true,
+        false, false, true, true, false)), (String ((Ascii (true, false,
+        false, true, true, true, true, false)), (String ((Ascii (true, true,
+        true, false, true, true, true, false)), (String ((Ascii (true, true,
+        true, true, false, true, true, false)), (String ((Ascii (false, true,
+        false, false, true, true, true, false)), (String ((Ascii (false,
+        false, true, false, false, true, true, false)), (String ((Ascii
+        (false, false, false, false, false, true, false, false)), (String
+        ((Ascii (true, false, true, true, false, false, true, false)),
+        (String ((Ascii (true, false, true, false, false, true, true,
+        false)), (String ((Ascii (false, false, true, false, true, true,
+        true, false)), (String ((Ascii (false, false, false, true, false,
+        true, true, false)), (String ((Ascii (true, true, true, true, false,
+        true, true, false)), (String ((Ascii (false, false, true, false,
+        false, true, true, false)),
+        EmptyString)))))))))))))))))))))))))))))))))), (String ((Ascii
+        (false, false, true, false, false, true, true, false)),
+        EmptyString)))) :: [])))) :: []))) :: (((String ((Ascii (true, true,
+    false, false, true, true, true, false)), (String ((Ascii (false, false,
+    true, false, true, true, true, false)), (String ((Ascii (true, false,
+    false, false, false, true, true, false)), (String ((Ascii (false, false,
+    true, false, true, true, true, false)), (String ((Ascii (true, false,
+    true, false, false, true, true, false)), (String ((Ascii (true, false,
+    true, true, false, false, true, false)), (String ((Ascii (true, false,
+    true, false, true, true, true, false)), (String ((Ascii (false, false,
+    true, true, false, true, true, false)), (String ((Ascii (false, false,
+    true, false, true, true, true, false)), (String ((Ascii (true, false,
+    false, true, false, true, true, false)), (String ((Ascii (false, false,
+    true, true, false, true, true, false)), (String ((Ascii (true, false,
+    false, true, false, true, true, false)), (String ((Ascii (false, true,
+    true, true, false, true, true, false)), (String ((Ascii (true, false,
+    true, false, false, true, true, false)), (String ((Ascii (true, false,
+    false, false, false, false, true, false)), (String ((Ascii (false, true,
+    true, true, false, true, true, false)), (String ((Ascii (false, true,
+    true, true, false, true, true, false)), (String ((Ascii (true, true,
+    true, true, false, true, true, false)), (String ((Ascii (false, false,
+    true, false, true, true, true, false)), (String ((Ascii (true, false,
+    false, false, false, true, true, false)), (String ((Ascii (false, false,
+    true, false, true, true, true, false)), (String ((Ascii (true, false,
+    false, true, false, true, true, false)), (String ((Ascii (true, true,
+    true, true, false, true, true, false)), (String ((Ascii (false, true,
+    true, true, false, true, true, false)),
+    EmptyString)))))))))))))))))))))))))))))))))))))))))))))))),
+    (block ((SIf ((CAnd ((CByte (Npos (XI (XI (XI (XI (XO XH))))))),
+      (CPrevByte ((Zpos XH), (Npos (XO (XI (XO (XI (XO XH)))))))))),
+      (block ((SFound (AnnotationEnd, (Zneg (XO XH)))) :: (SPop :: []))),
+      (block ((SIf ((CByte N0),
+        (block ((SRetErr ((String ((Ascii (true, false, true, true, false,
+          true, true, false)), (String ((Ascii (true, false, true, false,
+          true, true, true, false)), (String ((Ascii (false, false, true,
+          true, false, true, true, false)), (String ((Ascii (false, false,
+          true, false, true, true, true, false)), (String ((Ascii (true,
+          false, false, true, false, true, true, false)), (String ((Ascii
+          (false, false, true, true, false, true, true, false)), (String
+          ((Ascii (true, false, false, true, false, true, true, false)),
+          (String ((Ascii (false, true, true, true, false, true, true,
+          false)), (String ((Ascii (true, false, true, false, false, true,
+          true, false)), (String ((Ascii (false, false, false, false, false,
+          true, false, false)), (String ((Ascii (true, false, false, false,
+          false, true, true, false)), (String ((Ascii (false, true, true,
+          true, false, true, true, false)), (String ((Ascii (false, true,
+          true, true, false, true, true, false)), (String ((Ascii (true,
+          true, true, true, false, true, true, false)), (String ((Ascii
+          (false, false, true, false, true, true, true, false)), (String
+          ((Ascii (true, false, false, false, false, true, true, false)),
+          (String ((Ascii (false, false, true, false, true, true, true,
+          false)), (String ((Ascii (true, false, false, true, false, true,
+          true, false)), (String ((Ascii (true, true, true, true, false,
+          true, true, false)), (String ((Ascii (false, true, true, true,
+          false, true, true, false)),
+          EmptyString)))))))))))))))))))))))))))))))))))))))), (String
+          ((Ascii (false, true, false, true, false, true, false, false)),
+          (String ((Ascii (true, true, true, true, false, true, false,
+          false)), EmptyString)))))) :: [])), SSkip)) :: [])))) :: (SRetNil :: [])))) :: (((String
     ((Ascii (true, true, false, false, true, true, true, false)), (String
     ((Ascii (false, false, true, false, true, true, true, false)), (String
     ((Ascii (true, false, false, false, false, true, true, false)), (String
@@ -5520,28 +5775,370 @@ let prog_table =
     ((Ascii (false, true, false, false, true, true, true, false)), (String
     ((Ascii (false, false, true, false, true, true, true, false)),
     EmptyString)))))))))))))))))))))))))))))))))))))))))))))))))))))))))))))))))),
-    ((SFound (AnnotationBegin, Z0)) :: ((SSetStep
-    st_stateMultilineAnnotation) :: ((SRetCall
-    st_stateMultilineAnnotation) :: [])))) :: (((String ((Ascii (true, true,
+    (block ((SFound (AnnotationBegin, Z0)) :: ((SSetStep
+      st_stateMultilineAnnotation) :: ((SRetCall
+      st_stateMultilineAnnotation) :: []))))) :: (((String ((Ascii (true,
+    true, false, false, true, true, true, false)), (String ((Ascii (false,
+    false, true, false, true, true, true, false)), (String ((Ascii (true,
+    false, false, false, false, true, true, false)), (String ((Ascii (false,
+    false, true, false, true, true, true, false)), (String ((Ascii (true,
+    false, true, false, false, true, true, false)), (String ((Ascii (true,
+    true, true, true, false, false, true, false)), EmptyString)))))))))))),
+    (block ((SIf ((CByte (Npos (XO (XO (XO (XO (XI (XI XH)))))))),
+      (block ((SSetStep st_stateOp) :: (SRetNil :: []))),
+      (block ((SRetErr ((String ((Ascii (true, false, false, true, false,
+        true, true, false)), (String ((Ascii (false, true, true, true, false,
+        true, true, false)), (String ((Ascii (false, false, false, false,
+        false, true, false, false)), (String ((Ascii (true, true, false,
+        true, false, true, true, false)), (String ((Ascii (true, false, true,
+        false, false, true, true, false)), (String ((Ascii (true, false,
+        false, true, true, true, true, false)), (String ((Ascii (true, true,
+        true, false, true, true, true, false)), (String ((Ascii (true, true,
+        true, true, false, true, true, false)), (String ((Ascii (false, true,
+        false, false, true, true, true, false)), (String ((Ascii (false,
+        false, true, false, false, true, true, false)), (String ((Ascii
+        (false, false, false, false, false, true, false, false)), (String
+        ((Ascii (true, true, true, true, false, false, true, false)), (String
+        ((Ascii (false, false, false, false, true, true, true, false)),
+        (String ((Ascii (true, false, true, false, false, true, true,
+        false)), (String ((Ascii (false, true, false, false, true, true,
+        true, false)), (String ((Ascii (true, false, false, false, false,
+        true, true, false)), (String ((Ascii (false, false, true, false,
+        true, true, true, false)), (String ((Ascii (true, false, false, true,
+        false, true, true, false)), (String ((Ascii (true, true, true, true,
+        false, true, true, false)), (String ((Ascii (false, true, true, true,
+        false, true, true, false)), (String ((Ascii (true, false, false,
+        true, false, false, true, false)), (String ((Ascii (false, false,
+        true, false, false, true, true, false)),
+        EmptyString)))))))))))))))))))))))))))))))))))))))))))), (String
+        ((Ascii (false, false, false, false, true, true, true, false)),
+        EmptyString)))) :: [])))) :: []))) :: (((String ((Ascii (true, true,
     false, false, true, true, true, false)), (String ((Ascii (false, false,
     true, false, true, true, true, false)), (String ((Ascii (true, false,
     false, false, false, true, true, false)), (String ((Ascii (false, false,
     true, false, true, true, true, false)), (String ((Ascii (true, false,
     true, false, false, true, true, false)), (String ((Ascii (true, true,
-    true, true, false, false, true, false)), EmptyString)))))))))))), ((SIf
-    ((CByte (Npos (XO (XO (XO (XO (XI (XI XH)))))))), ((SSetStep
-    st_stateOp) :: (SRetNil :: [])), ((SRetErr ((String ((Ascii (true, false,
-    false, true, false, true, true, false)), (String ((Ascii (false, true,
-    true, true, false, true, true, false)), (String ((Ascii (false, false,
-    false, false, false, true, false, false)), (String ((Ascii (true, true,
-    false, true, false, true, true, false)), (String ((Ascii (true, false,
-    true, false, false, true, true, false)), (String ((Ascii (true, false,
-    false, true, true, true, true, false)), (String ((Ascii (true, true,
-    true, false, true, true, true, false)), (String ((Ascii (true, true,
-    true, true, false, true, true, false)), (String ((Ascii (false, true,
+    true, true, false, false, true, false)), (String ((Ascii (false, false,
+    false, false, true, true, true, false)), EmptyString)))))))))))))),
+    (block ((SIf ((CByte (Npos (XI (XO (XI (XO (XO (XI XH)))))))),
+      (block ((SSetStep st_stateOpe) :: (SRetNil :: []))),
+      (block ((SRetErr ((String ((Ascii (true, false, false, true, false,
+        true, true, false)), (String ((Ascii (false, true, true, true, false,
+        true, true, false)), (String ((Ascii (false, false, false, false,
+        false, true, false, false)), (String ((Ascii (true, true, false,
+        true, false, true, true, false)), (String ((Ascii (true, false, true,
+        false, false, true, true, false)), (String ((Ascii (true, false,
+        false, true, true, true, true, false)), (String ((Ascii (true, true,
+        true, false, true, true, true, false)), (String ((Ascii (true, true,
+        true, true, false, true, true, false)), (String ((Ascii (false, true,
+        false, false, true, true, true, false)), (String ((Ascii (false,
+        false, true, false, false, true, true, false)), (String ((Ascii
+        (false, false, false, false, false, true, false, false)), (String
+        ((Ascii (true, true, true, true, false, false, true, false)), (String
+        ((Ascii (false, false, false, false, true, true, true, false)),
+        (String ((Ascii (true, false, true, false, false, true, true,
+        false)), (String ((Ascii (false, true, false, false, true, true,
+        true, false)), (String ((Ascii (true, false, false, false, false,
+        true, true, false)), (String ((Ascii (false, false, true, false,
+        true, true, true, false)), (String ((Ascii (true, false, false, true,
+        false, true, true, false)), (String ((Ascii (true, true, true, true,
+        false, true, true, false)), (String ((Ascii (false, true, true, true,
+        false, true, true, false)), (String ((Ascii (true, false, false,
+        true, false, false, true, false)), (String ((Ascii (false, false,
+        true, false, false, true, true, false)),
+        EmptyString)))))))))))))))))))))))))))))))))))))))))))), (String
+        ((Ascii (true, false, true, false, false, true, true, false)),
+        EmptyString)))) :: [])))) :: []))) :: (((String ((Ascii (true, true,
     false, false, true, true, true, false)), (String ((Ascii (false, false,
-    true, false, false, true, true, false)), (String ((Ascii (false, false,
-    false, false, false, true, false, false)), (String ((Ascii (true, true,
+    true, false, true, true, true, false)), (String ((Ascii (true, false,
+    false, false, false, true, true, false)), (String ((Ascii (false, false,
+    true, false, true, true, true, false)), (String ((Ascii (true, false,
+    true, false, false, true, true, false)), (String ((Ascii (true, true,
+    true, true, false, false, true, false)), (String ((Ascii (false, false,
+    false, false, true, true, true, false)), (String ((Ascii (true, false,
+    true, false, false, true, true, false)), EmptyString)))))))))))))))),
+    (block ((SIf ((CByte (Npos (XO (XI (XO (XO (XI (XI XH)))))))),
+      (block ((SSetStep st_stateOper) :: (SRetNil :: []))),
+      (block ((SRetErr ((String ((Ascii (true, false, false, true, false,
+        true, true, false)), (String ((Ascii (false, true, true, true, false,
+        true, true, false)), (String ((Ascii (false, false, false, false,
+        false, true, false, false)), (String ((Ascii (true, true, false,
+        true, false, true, true, false)), (String ((Ascii (true, false, true,
+        false, false, true, true, false)), (String ((Ascii (true, false,
+        false, true, true, true, true, false)), (String ((Ascii (true, true,
+        true, false, true, true, true, false)), (String ((Ascii (true, true,
+        true, true, false, true, true, false)), (String ((Ascii (false, true,
+        false, false, true, true, true, false)), (String ((Ascii (false,
+        false, true, false, false, true, true, false)), (String ((Ascii
+        (false, false, false, false, false, true, false, false)), (String
+        ((Ascii (true, true, true, true, false, false, true, false)), (String
+        ((Ascii (false, false, false, false, true, true, true, false)),
+        (String ((Ascii (true, false, true, false, false, true, true,
+        false)), (String ((Ascii (false, true, false, false, true, true,
+        true, false)), (String ((Ascii (true, false, false, false, false,
+        true, true, false)), (String ((Ascii (false, false, true, false,
+        true, true, true, false)), (String ((Ascii (true, false, false, true,
+        false, true, true, false)), (String ((Ascii (true, true, true, true,
+        false, true, true, false)), (String ((Ascii (false, true, true, true,
+        false, true, true, false)), (String ((Ascii (true, false, false,
+        true, false, false, true, false)), (String ((Ascii (false, false,
+        true, false, false, true, true, false)),
+        EmptyString)))))))))))))))))))))))))))))))))))))))))))), (String
+        ((Ascii (false, true, false, false, true, true, true, false)),
+        EmptyString)))) :: [])))) :: []))) :: (((String ((Ascii (true, true,
+    false, false, true, true, true, false)), (String ((Ascii (false, false,
+    true, false, true, true, true, false)), (String ((Ascii (true, false,
+    false, false, false, true, true, false)), (String ((Ascii (false, false,
+    true, false, true, true, true, false)), (String ((Ascii (true, false,
+    true, false, false, true, true, false)), (String ((Ascii (true, true,
+    true, true, false, false, true, false)), (String ((Ascii (false, false,
+    false, false, true, true, true, false)), (String ((Ascii (true, false,
+    true, false, false, true, true, false)), (String ((Ascii (false, true,
+    false, false, true, true, true, false)), EmptyString)))))))))))))))))),
+    (block ((SIf ((CByte (Npos (XI (XO (XO (XO (XO (XI XH)))))))),
+      (block ((SSetStep st_stateOpera) :: (SRetNil :: []))),
+      (block ((SRetErr ((String ((Ascii (true, false, false, true, false,
+        true, true, false)), (String ((Ascii (false, true, true, true, false,
+        true, true, false)), (String ((Ascii (false, false, false, false,
+        false, true, false, false)), (String ((Ascii (true, true, false,
+        true, false, true, true, false)), (String ((Ascii (true, false, true,
+        false, false, true, true, false)), (String ((Ascii (true, false,
+        false, true, true, true, true, false)), (String ((Ascii (true, true,
+        true, false, true, true, true, false)), (String ((Ascii (true, true,
+        true, true, false, true, true, false)), (String ((Ascii (false, true,
+        false, false, true, true, true, false)), (String ((Ascii (false,
+        false, true, false, false, true, true, false)), (String ((Ascii
+        (false, false, false, false, false, true, false, false)), (String
+        ((Ascii (true, true, true, true, false, false, true, false)), (String
+        ((Ascii (false, false, false, false, true, true, true, false)),
+        (String ((Ascii (true, false, true, false, false, true, true,
+        false)), (String ((Ascii (false, true, false, false, true, true,
+        true, false)), (String ((Ascii (true, false, false, false, false,
+        true, true, false)), (String ((Ascii (false, false, true, false,
+        true, true, true, false)), (String ((Ascii (true, false, false, true,
+        false, true, true, false)), (String ((Ascii (true, true, true, true,
+        false, true, true, false)), (String ((Ascii (false, true, true, true,
+        false, true, true, false)), (String ((Ascii (true, false, false,
+        true, false, false, true, false)), (String ((Ascii (false, false,
+        true, false, false, true, true, false)),
+        EmptyString)))))))))))))))))))))))))))))))))))))))))))), (String
+        ((Ascii (true, false, false, false, false, true, true, false)),
+        EmptyString)))) :: [])))) :: []))) :: (((String ((Ascii (true, true,
+    false, false, true, true, true, false)), (String ((Ascii (false, false,
+    true, false, true, true, true, false)), (String ((Ascii (true, false,
+    false, false, false, true, true, false)), (String ((Ascii (false, false,
+    true, false, true, true, true, false)), (String ((Ascii (true, false,
+    true, false, false, true, true, false)), (String ((Ascii (true, true,
+    true, true, false, false, true, false)), (String ((Ascii (false, false,
+    false, false, true, true, true, false)), (String ((Ascii (true, false,
+    true, false, false, true, true, false)), (String ((Ascii (false, true,
+    false, false, true, true, true, false)), (String ((Ascii (true, false,
+    false, false, false, true, true, false)),
+    EmptyString)))))))))))))))))))),
+    (block ((SIf ((CByte (Npos (XO (XO (XI (XO (XI (XI XH)))))))),
+      (block ((SSetStep st_stateOperat) :: (SRetNil :: []))),
+      (block ((SRetErr ((String ((Ascii (true, false, false, true, false,
+        true, true, false)), (String ((Ascii (false, true, true, true, false,
+        true, true, false)), (String ((Ascii (false, false, false, false,
+        false, true, false, false)), (String ((Ascii (true, true, false,
+        true, false, true, true, false)), (String ((Ascii (true, false, true,
+        false, false, true, true, false)), (String ((Ascii (true, false,
+        false, true, true, true, true, false)), (String ((Ascii (true, true,
+        true, false, true, true, true, false)), (String ((Ascii (true, true,
+        true, true, false, true, true, false)), (String ((Ascii (false, true,
+        false, false, true, true, true, false)), (String ((Ascii (false,
+        false, true, false, false, true, true, false)), (String ((Ascii
+        (false, false, false, false, false, true, false, false)), (String
+        ((Ascii (true, true, true, true, false, false, true, false)), (String
+        ((Ascii (false, false, false, false, true, true, true, false)),
+        (String ((Ascii (true, false, true, false, false, true, true,
+        false)), (String ((Ascii (false, true, false, false, true, true,
+        true, false)), (String ((Ascii (true, false, false, false, false,
+        true, true, false)), (String ((Ascii (false, false, true, false,
+        true, true, true, false)), (String ((Ascii (true, false, false, true,
+        false, true, true, false)), (String ((Ascii (true, true, true, true,
+        false, true, true, false)), (String ((Ascii (false, true, true, true,
+        false, true, true, false)), (String ((Ascii (true, false, false,
+        true, false, false, true, false)), (String ((Ascii (false, false,
+        true, false, false, true, true, false)),
+        EmptyString)))))))))))))))))))))))))))))))))))))))))))), (String
+        ((Ascii (false, false, true, false, true, true, true, false)),
+        EmptyString)))) :: [])))) :: []))) :: (((String ((Ascii (true, true,
+    false, false, true, true, true, false)), (String ((Ascii (false, false,
+    true, false, true, true, true, false)), (String ((Ascii (true, false,
+    false, false, false, true, true, false)), (String ((Ascii (false, false,
+    true, false, true, true, true, false)), (String ((Ascii (true, false,
+    true, false, false, true, true, false)), (String ((Ascii (true, true,
+    true, true, false, false, true, false)), (String ((Ascii (false, false,
+    false, false, true, true, true, false)), (String ((Ascii (true, false,
+    true, false, false, true, true, false)), (String ((Ascii (false, true,
+    false, false, true, true, true, false)), (String ((Ascii (true, false,
+    false, false, false, true, true, false)), (String ((Ascii (false, false,
+    true, false, true, true, true, false)),
+    EmptyString)))))))))))))))))))))),
+    (block ((SIf ((CByte (Npos (XI (XO (XO (XI (XO (XI XH)))))))),
+      (block ((SSetStep st_stateOperati) :: (SRetNil :: []))),
+      (block ((SRetErr ((String ((Ascii (true, false, false, true, false,
+        true, true, false)), (String ((Ascii (false, true, true, true, false,
+        true, true, false)), (String ((Ascii (false, false, false, false,
+        false, true, false, false)), (String ((Ascii (true, true, false,
+        true, false, true, true, false)), (String ((Ascii (true, false, true,
+        false, false, true, true, false)), (String ((Ascii (true, false,
+        false, true, true, true, true, false)), (String ((Ascii (true, true,
+        true, false, true, true, true, false)), (String ((Ascii (true, true,
+        true, true, false, true, true, false)), (String ((Ascii (false, true,
+        false, false, true, true, true, false)), (String ((Ascii (false,
+        false, true, false, false, true, true, false)), (String ((Ascii
+        (false, false, false, false, false, true, false, false)), (String
+        ((Ascii (true, true, true, true, false, false, true, false)), (String
+        ((Ascii (false, false, false, false, true, true, true, false)),
+        (String ((Ascii (true, false, true, false, false, true, true,
+        false)), (String ((Ascii (false, true, false, false, true, true,
+        true, false)), (String ((Ascii (true, false, false, false, false,
+        true, true, false)), (String ((Ascii (false, false, true, false,
+        true, true, true, false)), (String ((Ascii (true, false, false, true,
+        false, true, true, false)), (String ((Ascii (true, true, true, true,
+        false, true, true, false)), (String ((Ascii (false, true, true, true,
+        false, true, true, false)), (String ((Ascii (true, false, false,
+        true, false, false, true, false)), (String ((Ascii (false, false,
+        true, false, false, true, true, false)),
+        EmptyString)))))))))))))))))))))))))))))))))))))))))))), (String
+        ((Ascii (true, false, false, true, false, true, true, false)),
+        EmptyString)))) :: [])))) :: []))) :: (((String ((Ascii (true, true,
+    false, false, true, true, true, false)), (String ((Ascii (false, false,
+    true, false, true, true, true, false)), (String ((Ascii (true, false,
+    false, false, false, true, true, false)), (String ((Ascii (false, false,
+    true, false, true, true, true, false)), (String ((Ascii (true, false,
+    true, false, false, true, true, false)), (String ((Ascii (true, true,
+    true, true, false, false, true, false)), (String ((Ascii (false, false,
+    false, false, true, true, true, false)), (String ((Ascii (true, false,
+    true, false, false, true, true, false)), (String ((Ascii (false, true,
+    false, false, true, true, true, false)), (String ((Ascii (true, false,
+    false, false, false, true, true, false)), (String ((Ascii (false, false,
+    true, false, true, true, true, false)), (String ((Ascii (true, false,
+    false, true, false, true, true, false)),
+    EmptyString)))))))))))))))))))))))),
+    (block ((SIf ((CByte (Npos (XI (XI (XI (XI (XO (XI XH)))))))),
+      (block ((SSetStep st_stateOperatio) :: (SRetNil :: []))),
+      (block ((SRetErr ((String ((Ascii (true, false, false, true, false,
+        true, true, false)), (String ((Ascii (false, true, true, true, false,
+        true, true, false)), (String ((Ascii (false, false, false, false,
+        false, true, false, false)), (String ((Ascii (true, true, false,
+        true, false, true, true, false)), (String ((Ascii (true, false, true,
+        false, false, true, true, false)), (String ((Ascii (true, false,
+        false, true, true, true, true, false)), (String ((Ascii (true, true,
+        true, false, true, true, true, false)), (String ((Ascii (true, true,
+        true, true, false, true, true, false)), (String ((Ascii (false, true,
+        false, false, true, true, true, false)), (String ((Ascii (false,
+        false, true, false, false, true, true, false)), (String ((Ascii
+        (false, false, false, false, false, true, false, false)), (String
+        ((Ascii (true, true, true, true, false, false, true, false)), (String
+        ((Ascii (false, false, false, false, true, true, true, false)),
+        (String ((Ascii (true, false, true, false, false, true, true,
+        false)), (String ((Ascii (false, true, false, false, true, true,
+        true, false)), (String ((Ascii (true, false, false, false, false,
+        true, true, false)), (String ((Ascii (false, false, true, false,
+        true, true, true, false)), (String ((Ascii (true, false, false, true,
+        false, true, true, false)), (String ((Ascii (true, true, true, true,
+        false, true, true, false)), (String ((Ascii (false, true, true, true,
+        false, true, true, false)), (String ((Ascii (true, false, false,
+        true, false, false, true, false)), (String ((Ascii (false, false,
+        true, false, false, true, true, false)),
+        EmptyString)))))))))))))))))))))))))))))))))))))))))))), (String
+        ((Ascii (true, true, true, true, false, true, true, false)),
+        EmptyString)))) :: [])))) :: []))) :: (((String ((Ascii (true, true,
+    false, false, true, true, true, false)), (String ((Ascii (false, false,
+    true, false, true, true, true, false)), (String ((Ascii (true, false,
+    false, false, false, true, true, false)), (String ((Ascii (false, false,
+    true, false, true, true, true, false)), (String ((Ascii (true, false,
+    true, false, false, true, true, false)), (String ((Ascii (true, true,
+    true, true, false, false, true, false)), (String ((Ascii (false, false,
+    false, false, true, true, true, false)), (String ((Ascii (true, false,
+    true, false, false, true, true, false)), (String ((Ascii (false, true,
+    false, false, true, true, true, false)), (String ((Ascii (true, false,
+    false, false, false, true, true, false)), (String ((Ascii (false, false,
+    true, false, true, true, true, false)), (String ((Ascii (true, false,
+    false, true, false, true, true, false)), (String ((Ascii (true, true,
+    true, true, false, true, true, false)),
+    EmptyString)))))))))))))))))))))))))),
+    (block ((SIf ((CByte (Npos (XO (XI (XI (XI (XO (XI XH)))))))),
+      (block ((SSetStep st_stateOperation) :: (SRetNil :: []))),
+      (block ((SRetErr ((String ((Ascii (true, false, false, true, false,
+        true, true, false)), (String ((Ascii (false, true, true, true, false,
+        true, true, false)), (String ((Ascii (false, false, false, false,
+        false, true, false, false)), (String ((Ascii (true, true, false,
+        true, false, true, true, false)), (String ((Ascii (true, false, true,
+        false, false, true, true, false)), (String ((Ascii (true, false,
+        false, true, true, true, true, false)), (String ((Ascii (true, true,
+        true, false, true, true, true, false)), (String ((Ascii (true, true,
+        true, true, false, true, true, false)), (String ((Ascii (false, true,
+        false, false, true, true, true, false)), (String ((Ascii (false,
+        false, true, false, false, true, true, false)), (String ((Ascii
+        (false, false, false, false, false, true, false, false)), (String
+        ((Ascii (true, true, true, true, false, false, true, false)), (String
+        ((Ascii (false, false, false, false, true, true, true, false)),
+        (String ((Ascii (true, false, true, false, false, true, true,
+        false)), (String ((Ascii (false, true, false, false, true, true,
+        true, false)), (String ((Ascii (true, false, false, false, false,
+        true, true, false)), (String ((Ascii (false, false, true, false,
+        true, true, true, false)), (String ((Ascii (true, false, false, true,
+        false, true, true, false)), (String ((Ascii (true, true, true, true,
+        false, true, true, false)), (String ((Ascii (false, true, true, true,
+        false, true, true, false)), (String ((Ascii (true, false, false,
+        true, false, false, true, false)), (String ((Ascii (false, false,
+        true, false, false, true, true, false)),
+        EmptyString)))))))))))))))))))))))))))))))))))))))))))), (String
+        ((Ascii (false, true, true, true, false, true, true, false)),
+        EmptyString)))) :: [])))) :: []))) :: (((String ((Ascii (true, true,
+    false, false, true, true, true, false)), (String ((Ascii (false, false,
+    true, false, true, true, true, false)), (String ((Ascii (true, false,
+    false, false, false, true, true, false)), (String ((Ascii (false, false,
+    true, false, true, true, true, false)), (String ((Ascii (true, false,
+    true, false, false, true, true, false)), (String ((Ascii (true, true,
+    true, true, false, false, true, false)), (String ((Ascii (false, false,
+    false, false, true, true, true, false)), (String ((Ascii (true, false,
+    true, false, false, true, true, false)), (String ((Ascii (false, true,
+    false, false, true, true, true, false)), (String ((Ascii (true, false,
+    false, false, false, true, true, false)), (String ((Ascii (false, false,
+    true, false, true, true, true, false)), (String ((Ascii (true, false,
+    false, true, false, true, true, false)), (String ((Ascii (true, true,
+    true, true, false, true, true, false)), (String ((Ascii (false, true,
+    true, true, false, true, true, false)),
+    EmptyString)))))))))))))))))))))))))))),
+    (block ((SIf ((CByte (Npos (XI (XO (XO (XI (XO (XO XH)))))))),
+      (block ((SSetStep st_stateOperationI) :: (SRetNil :: []))),
+      (block ((SRetErr ((String ((Ascii (true, false, false, true, false,
+        true, true, false)), (String ((Ascii (false, true, true, true, false,
+        true, true, false)), (String ((Ascii (false, false, false, false,
+        false, true, false, false)), (String ((Ascii (true, true, false,
+        true, false, true, true, false)), (String ((Ascii (true, false, true,
+        false, false, true, true, false)), (String ((Ascii (true, false,
+        false, true, true, true, true, false)), (String ((Ascii (true, true,
+        true, false, true, true, true, false)), (String ((Ascii (true, true,
+        true, true, false, true, true, false)), (String ((Ascii (false, true,
+        false, false, true, true, true, false)), (String ((Ascii (false,
+        false, true, false, false, true, true, false)), (String ((Ascii
+        (false, false, false, false, false, true, false, false)), (String
+        ((Ascii (true, true, true, true, false, false, true, false)), (String
+        ((Ascii (false, false, false, false, true, true, true, false)),
+        (String ((Ascii (true, false, true, false, false, true, true,
+        false)), (String ((Ascii (false, true, false, false, true, true,
+        true, false)), (String ((Ascii (true, false, false, false, false,
+        true, true, false)), (String ((Ascii (false, false, true, false,
+        true, true, true, false)), (String ((Ascii (true, false, false, true,
+        false, true, true, false)), (String ((Ascii (true, true, true, true,
+        false, true, true, false)), (String ((Ascii (false, true, true, true,
+        false, true, true, false)), (String ((Ascii (true, false, false,
+        true, false, false, true, false)), (String ((Ascii (false, false,
+        true, false, false, true, true, false)),
+        EmptyString)))))))))))))))))))))))))))))))))))))))))))), (String
+        ((Ascii (true, false, false, true, false, false, true, false)),
+        EmptyString)))) :: [])))) :: []))) :: (((String ((Ascii (true, true,
+    false, false, true, true, true, false)), (String ((Ascii (false, false,
+    true, false, true, true, true, false)), (String ((Ascii (true, false,
+    false, false, false, true, true, false)), (String ((Ascii (false, false,
+    true, false, true, true, true, false)), (String ((Ascii (true, false,
+    true, false, false, true, true, false)), (String ((Ascii (true, true,
     true, true, false, false, true, false)), (String ((Ascii (false, false,
     false, false, true, true, true, false)), (String ((Ascii (true, false,
     true, false, false, true, true, false)), (String ((Ascii (false, true,
@@ -5551,389 +6148,78 @@ let prog_table =
     false, true, false, true, true, false)), (String ((Ascii (true, true,
     true, true, false, true, true, false)), (String ((Ascii (false, true,
     true, true, false, true, true, false)), (String ((Ascii (true, false,
-    false, true, false, false, true, false)), (String ((Ascii (false, false,
-    true, false, false, true, true, false)),
-    EmptyString)))))))))))))))))))))))))))))))))))))))))))), (String ((Ascii
-    (false, false, false, false, true, true, true, false)),
-    EmptyString)))) :: []))) :: [])) :: (((String ((Ascii (true, true, false,
-    false, true, true, true, false)), (String ((Ascii (false, false, true,
-    false, true, true, true, false)), (String ((Ascii (true, false, false,
-    false, false, true, true, false)), (String ((Ascii (false, false, true,
-    false, true, true, true, false)), (String ((Ascii (true, false, true,
-    false, false, true, true, false)), (String ((Ascii (true, true, true,
-    true, false, false, true, false)), (String ((Ascii (false, false, false,
-    false, true, true, true, false)), EmptyString)))))))))))))), ((SIf
-    ((CByte (Npos (XI (XO (XI (XO (XO (XI XH)))))))), ((SSetStep
-    st_stateOpe) :: (SRetNil :: [])), ((SRetErr ((String ((Ascii (true,
-    false, false, true, false, true, true, false)), (String ((Ascii (false,
-    true, true, true, false, true, true, false)), (String ((Ascii (false,
-    false, false, false, false, true, false, false)), (String ((Ascii (true,
-    true, false, true, false, true, true, false)), (String ((Ascii (true,
-    false, true, false, false, true, true, false)), (String ((Ascii (true,
-    false, false, true, true, true, true, false)), (String ((Ascii (true,
-    true, true, false, true, true, true, false)), (String ((Ascii (true,
-    true, true, true, false, true, true, false)), (String ((Ascii (false,
-    true, false, false, true, true, true, false)), (String ((Ascii (false,
-    false, true, false, false, true, true, false)), (String ((Ascii (false,
-    false, false, false, false, true, false, false)), (String ((Ascii (true,
-    true, true, true, false, false, true, false)), (String ((Ascii (false,
-    false, false, false, true, true, true, false)), (String ((Ascii (true,
-    false, true, false, false, true, true, false)), (String ((Ascii (false,
-    true, false, false, true, true, true, false)), (String ((Ascii (true,
-    false, false, false, false, true, true, false)), (String ((Ascii (false,
-    false, true, false, true, true, true, false)), (String ((Ascii (true,
-    false, false, true, false, true, true, false)), (String ((Ascii (true,
-    true, true, true, false, true, true, false)), (String ((Ascii (false,
-    true, true, true, false, true, true, false)), (String ((Ascii (true,
-    false, false, true, false, false, true, false)), (String ((Ascii (false,
-    false, true, false, false, true, true, false)),
-    EmptyString)))))))))))))))))))))))))))))))))))))))))))), (String ((Ascii
-    (true, false, true, false, false, true, true, false)),
-    EmptyString)))) :: []))) :: [])) :: (((String ((Ascii (true, true, false,
-    false, true, true, true, false)), (String ((Ascii (false, false, true,
-    false, true, true, true, false)), (String ((Ascii (true, false, false,
-    false, false, true, true, false)), (String ((Ascii (false, false, true,
-    false, true, true, true, false)), (String ((Ascii (true, false, true,
-    false, false, true, true, false)), (String ((Ascii (true, true, true,
-    true, false, false, true, false)), (String ((Ascii (false, false, false,
-    false, true, true, true, false)), (String ((Ascii (true, false, true,
-    false, false, true, true, false)), EmptyString)))))))))))))))), ((SIf
-    ((CByte (Npos (XO (XI (XO (XO (XI (XI XH)))))))), ((SSetStep
-    st_stateOper) :: (SRetNil :: [])), ((SRetErr ((String ((Ascii (true,
-    false, false, true, false, true, true, false)), (String ((Ascii (false,
-    true, true, true, false, true, true, false)), (String ((Ascii (false,
-    false, false, false, false, true, false, false)), (String ((Ascii (true,
-    true, false, true, false, true, true, false)), (String ((Ascii (true,
-    false, true, false, false, true, true, false)), (String ((Ascii (true,
-    false, false, true, true, true, true, false)), (String ((Ascii (true,
-    true, true, false, true, true, true, false)), (String ((Ascii (true,
-    true, true, true, false, true, true, false)), (String ((Ascii (false,
-    true, false, false, true, true, true, false)), (String ((Ascii (false,
-    false, true, false, false, true, true, false)), (String ((Ascii (false,
-    false, false, false, false, true, false, false)), (String ((Ascii (true,
-    true, true, true, false, false, true, false)), (String ((Ascii (false,
-    false, false, false, true, true, true, false)), (String ((Ascii (true,
-    false, true, false, false, true, true, false)), (String ((Ascii (false,
-    true, false, false, true, true, true, false)), (String ((Ascii (true,
-    false, false, false, false, true, true, false)), (String ((Ascii (false,
-    false, true, false, true, true, true, false)), (String ((Ascii (true,
-    false, false, true, false, true, true, false)), (String ((Ascii (true,
-    true, true, true, false, true, true, false)), (String ((Ascii (false,
-    true, true, true, false, true, true, false)), (String ((Ascii (true,
-    false, false, true, false, false, true, false)), (String ((Ascii (false,
-    false, true, false, false, true, true, false)),
-    EmptyString)))))))))))))))))))))))))))))))))))))))))))), (String ((Ascii
-    (false, true, false, false, true, true, true, false)),
-    EmptyString)))) :: []))) :: [])) :: (((String ((Ascii (true, true, false,
-    false, true, true, true, false)), (String ((Ascii (false, false, true,
-    false, true, true, true, false)), (String ((Ascii (true, false, false,
-    false, false, true, true, false)), (String ((Ascii (false, false, true,
-    false, true, true, true, false)), (String ((Ascii (true, false, true,
-    false, false, true, true, false)), (String ((Ascii (true, true, true,
-    true, false, false, true, false)), (String ((Ascii (false, false, false,
-    false, true, true, true, false)), (String ((Ascii (true, false, true,
-    false, false, true, true, false)), (String ((Ascii (false, true, false,
-    false, true, true, true, false)), EmptyString)))))))))))))))))), ((SIf
-    ((CByte (Npos (XI (XO (XO (XO (XO (XI XH)))))))), ((SSetStep
-    st_stateOpera) :: (SRetNil :: [])), ((SRetErr ((String ((Ascii (true,
-    false, false, true, false, true, true, false)), (String ((Ascii (false,
-    true, true, true, false, true, true, false)), (String ((Ascii (false,
-    false, false, false, false, true, false, false)), (String ((Ascii (true,
-    true, false, true, false, true, true, false)), (String ((Ascii (true,
-    false, true, false, false, true, true, false)), (String ((Ascii (true,
-    false, false, true, true, true, true, false)), (String ((Ascii (true,
-    true, true, false, true, true, true, false)), (String ((Ascii (true,
-    true, true, true, false, true, true, false)), (String ((Ascii (false,
-    true, false, false, true, true, true, false)), (String ((Ascii (false,
-    false, true, false, false, true, true, false)), (String ((Ascii (false,
-    false, false, false, false, true, false, false)), (String ((Ascii (true,
-    true, true, true, false, false, true, false)), (String ((Ascii (false,
-    false, false, false, true, true, true, false)), (String ((Ascii (true,
-    false, true, false, false, true, true, false)), (String ((Ascii (false,
-    true, false, false, true, true, true, false)), (String ((Ascii (true,
-    false, false, false, false, true, true, false)), (String ((Ascii (false,
-    false, true, false, true, true, true, false)), (String ((Ascii (true,
-    false, false, true, false, true, true, false)), (String ((Ascii (true,
-    true, true, true, false, true, true, false)), (String ((Ascii (false,
-    true, true, true, false, true, true, false)), (String ((Ascii (true,
-    false, false, true, false, false, true, false)), (String ((Ascii (false,
-    false, true, false, false, true, true, false)),
-    EmptyString)))))))))))))))))))))))))))))))))))))))))))), (String ((Ascii
-    (true, false, false, false, false, true, true, false)),
-    EmptyString)))) :: []))) :: [])) :: (((String ((Ascii (true, true, false,
-    false, true, true, true, false)), (String ((Ascii (false, false, true,
-    false, true, true, true, false)), (String ((Ascii (true, false, false,
-    false, false, true, true, false)), (String ((Ascii (false, false, true,
-    false, true, true, true, false)), (String ((Ascii (true, false, true,
-    false, false, true, true, false)), (String ((Ascii (true, true, true,
-    true, false, false, true, false)), (String ((Ascii (false, false, false,
-    false, true, true, true, false)), (String ((Ascii (true, false, true,
-    false, false, true, true, false)), (String ((Ascii (false, true, false,
-    false, true, true, true, false)), (String ((Ascii (true, false, false,
-    false, false, true, true, false)), EmptyString)))))))))))))))))))), ((SIf
-    ((CByte (Npos (XO (XO (XI (XO (XI (XI XH)))))))), ((SSetStep
-    st_stateOperat) :: (SRetNil :: [])), ((SRetErr ((String ((Ascii (true,
-    false, false, true, false, true, true, false)), (String ((Ascii (false,
-    true, true, true, false, true, true, false)), (String ((Ascii (false,
-    false, false, false, false, true, false, false)), (String ((Ascii (true,
-    true, false, true, false, true, true, false)), (String ((Ascii (true,
-    false, true, false, false, true, true, false)), (String ((Ascii (true,
-    false, false, true, true, true, true, false)), (String ((Ascii (true,
-    true, true, false, true, true, true, false)), (String ((Ascii (true,
-    true, true, true, false, true, true, false)), (String ((Ascii (false,
-    true, false, false, true, true, true, false)), (String ((Ascii (false,
-    false, true, false, false, true, true, false)), (String ((Ascii (false,
-    false, false, false, false, true, false, false)), (String ((Ascii (true,
-    true, true, true, false, false, true, false)), (String ((Ascii (false,
-    false, false, false, true, true, true, false)), (String ((Ascii (true,
-    false, true, false, false, true, true, false)), (String ((Ascii (false,
-    true, false, false, true, true, true, false)), (String ((Ascii (true,
-    false, false, false, false, true, true, false)), (String ((Ascii (false,
-    false, true, false, true, true, true, false)), (String ((Ascii (true,
-    false, false, true, false, true, true, false)), (String ((Ascii (true,
-    true, true, true, false, true, true, false)), (String ((Ascii (false,
-    true, true, true, false, true, true, false)), (String ((Ascii (true,
-    false, false, true, false, false, true, false)), (String ((Ascii (false,
-    false, true, false, false, true, true, false)),
-    EmptyString)))))))))))))))))))))))))))))))))))))))))))), (String ((Ascii
-    (false, false, true, false, true, true, true, false)),
-    EmptyString)))) :: []))) :: [])) :: (((String ((Ascii (true, true, false,
-    false, true, true, true, false)), (String ((Ascii (false, false, true,
-    false, true, true, true, false)), (String ((Ascii (true, false, false,
-    false, false, true, true, false)), (String ((Ascii (false, false, true,
-    false, true, true, true, false)), (String ((Ascii (true, false, true,
-    false, false, true, true, false)), (String ((Ascii (true, true, true,
-    true, false, false, true, false)), (String ((Ascii (false, false, false,
-    false, true, true, true, false)), (String ((Ascii (true, false, true,
-    false, false, true, true, false)), (String ((Ascii (false, true, false,
-    false, true, true, true, false)), (String ((Ascii (true, false, false,
-    false, false, true, true, false)), (String ((Ascii (false, false, true,
-    false, true, true, true, false)), EmptyString)))))))))))))))))))))),
-    ((SIf ((CByte (Npos (XI (XO (XO (XI (XO (XI XH)))))))), ((SSetStep
-    st_stateOperati) :: (SRetNil :: [])), ((SRetErr ((String ((Ascii (true,
-    false, false, true, false, true, true, false)), (String ((Ascii (false,
-    true, true, true, false, true, true, false)), (String ((Ascii (false,
-    false, false, false, false, true, false, false)), (String ((Ascii (true,
-    true, false, true, false, true, true, false)), (String ((Ascii (true,
-    false, true, false, false, true, true, false)), (String ((Ascii (true,
-    false, false, true, true, true, true, false)), (String ((Ascii (true,
-    true, true, false, true, true, true, false)), (String ((Ascii (true,
-    true, true, true, false, true, true, false)), (String ((Ascii (false,
-    true, false, false, true, true, true, false)), (String ((Ascii (false,
-    false, true, false, false, true, true, false)), (String ((Ascii (false,
-    false, false, false, false, true, false, false)), (String ((Ascii (true,
-    true, true, true, false, false, true, false)), (String ((Ascii (false,
-    false, false, false, true, true, true, false)), (String ((Ascii (true,
-    false, true, false, false, true, true, false)), (String ((Ascii (false,
-    true, false, false, true, true, true, false)), (String ((Ascii (true,
-    false, false, false, false, true, true, false)), (String ((Ascii (false,
-    false, true, false, true, true, true, false)), (String ((Ascii (true,
-    false, false, true, false, true, true, false)), (String ((Ascii (true,
-    true, true, true, false, true, true, false)), (String ((Ascii (false,
-    true, true, true, false, true, true, false)), (String ((Ascii (true,
-    false, false, true, false, false, true, false)), (String ((Ascii (false,
-    false, true, false, false, true, true, false)),
-    EmptyString)))))))))))))))))))))))))))))))))))))))))))), (String ((Ascii
-    (true, false, false, true, false, true, true, false)),
-    EmptyString)))) :: []))) :: [])) :: (((String ((Ascii (true, true, false,
-    false, true, true, true, false)), (String ((Ascii (false, false, true,
-    false, true, true, true, false)), (String ((Ascii (true, false, false,
-    false, false, true, true, false)), (String ((Ascii (false, false, true,
-    false, true, true, true, false)), (String ((Ascii (true, false, true,
-    false, false, true, true, false)), (String ((Ascii (true, true, true,
-    true, false, false, true, false)), (String ((Ascii (false, false, false,
-    false, true, true, true, false)), (String ((Ascii (true, false, true,
-    false, false, true, true, false)), (String ((Ascii (false, true, false,
-    false, true, true, true, false)), (String ((Ascii (true, false, false,
-    false, false, true, true, false)), (String ((Ascii (false, false, true,
-    false, true, true, true, false)), (String ((Ascii (true, false, false,
-    true, false, true, true, false)), EmptyString)))))))))))))))))))))))),
-    ((SIf ((CByte (Npos (XI (XI (XI (XI (XO (XI XH)))))))), ((SSetStep
-    st_stateOperatio) :: (SRetNil :: [])), ((SRetErr ((String ((Ascii (true,
-    false, false, true, false, true, true, false)), (String ((Ascii (false,
-    true, true, true, false, true, true, false)), (String ((Ascii (false,
-    false, false, false, false, true, false, false)), (String ((Ascii (true,
-    true, false, true, false, true, true, false)), (String ((Ascii (true,
-    false, true, false, false, true, true, false)), (String ((Ascii (true,
-    false, false, true, true, true, true, false)), (String ((Ascii (true,
-    true, true, false, true, true, true, false)), (String ((Ascii (true,
-    true, true, true, false, true, true, false)), (String ((Ascii (false,
-    true, false, false, true, true, true, false)), (String ((Ascii (false,
-    false, true, false, false, true, true, false)), (String ((Ascii (false,
-    false, false, false, false, true, false, false)), (String ((Ascii (true,
-    true, true, true, false, false, true, false)), (String ((Ascii (false,
-    false, false, false, true, true, true, false)), (String ((Ascii (true,
-    false, true, false, false, true, true, false)), (String ((Ascii (false,
-    true, false, false, true, true, true, false)), (String ((Ascii (true,
-    false, false, false, false, true, true, false)), (String ((Ascii (false,
-    false, true, false, true, true, true, false)), (String ((Ascii (true,
-    false, false, true, false, true, true, false)), (String ((Ascii (true,
-    true, true, true, false, true, true, false)), (String ((Ascii (false,
-    true, true, true, false, true, true, false)), (String ((Ascii (true,
-    false, false, true, false, false, true, false)), (String ((Ascii (false,
-    false, true, false, false, true, true, false)),
-    EmptyString)))))))))))))))))))))))))))))))))))))))))))), (String ((Ascii
-    (true, true, true, true, false, true, true, false)),
-    EmptyString)))) :: []))) :: [])) :: (((String ((Ascii (true, true, false,
-    false, true, true, true, false)), (String ((Ascii (false, false, true,
-    false, true, true, true, false)), (String ((Ascii (true, false, false,
-    false, false, true, true, false)), (String ((Ascii (false, false, true,
-    false, true, true, true, false)), (String ((Ascii (true, false, true,
-    false, false, true, true, false)), (String ((Ascii (true, true, true,
-    true, false, false, true, false)), (String ((Ascii (false, false, false,
-    false, true, true, true, false)), (String ((Ascii (true, false, true,
-    false, false, true, true, false)), (String ((Ascii (false, true, false,
-    false, true, true, true, false)), (String ((Ascii (true, false, false,
-    false, false, true, true, false)), (String ((Ascii (false, false, true,
-    false, true, true, true, false)), (String ((Ascii (true, false, false,
-    true, false, true, true, false)), (String ((Ascii (true, true, true,
-    true, false, true, true, false)), EmptyString)))))))))))))))))))))))))),
-    ((SIf ((CByte (Npos (XO (XI (XI (XI (XO (XI XH)))))))), ((SSetStep
-    st_stateOperation) :: (SRetNil :: [])), ((SRetErr ((String ((Ascii (true,
-    false, false, true, false, true, true, false)), (String ((Ascii (false,
-    true, true, true, false, true, true, false)), (String ((Ascii (false,
-    false, false, false, false, true, false, false)), (String ((Ascii (true,
-    true, false, true, false, true, true, false)), (String ((Ascii (true,
-    false, true, false, false, true, true, false)), (String ((Ascii (true,
-    false, false, true, true, true, true, false)), (String ((Ascii (true,
-    true, true, false, true, true, true, false)), (String ((Ascii (true,
-    true, true, true, false, true, true, false)), (String ((Ascii (false,
-    true, false, false, true, true, true, false)), (String ((Ascii (false,
-    false, true, false, false, true, true, false)), (String ((Ascii (false,
-    false, false, false, false, true, false, false)), (String ((Ascii (true,
-    true, true, true, false, false, true, false)), (String ((Ascii (false,
-    false, false, false, true, true, true, false)), (String ((Ascii (true,
-    false, true, false, false, true, true, false)), (String ((Ascii (false,
-    true, false, false, true, true, true, false)), (String ((Ascii (true,
-    false, false, false, false, true, true, false)), (String ((Ascii (false,
-    false, true, false, true, true, true, false)), (String ((Ascii (true,
-    false, false, true, false, true, true, false)), (String ((Ascii (true,
-    true, true, true, false, true, true, false)), (String ((Ascii (false,
-    true, true, true, false, true, true, false)), (String ((Ascii (true,
-    false, false, true, false, false, true, false)), (String ((Ascii (false,
-    false, true, false, false, true, true, false)),
-    EmptyString)))))))))))))))))))))))))))))))))))))))))))), (String ((Ascii
-    (false, true, true, true, false, true, true, false)),
-    EmptyString)))) :: []))) :: [])) :: (((String ((Ascii (true, true, false,
-    false, true, true, true, false)), (String ((Ascii (false, false, true,
-    false, true, true, true, false)), (String ((Ascii (true, false, false,
-    false, false, true, true, false)), (String ((Ascii (false, false, true,
-    false, true, true, true, false)), (String ((Ascii (true, false, true,
-    false, false, true, true, false)), (String ((Ascii (true, true, true,
-    true, false, false, true, false)), (String ((Ascii (false, false, false,
-    false, true, true, true, false)), (String ((Ascii (true, false, true,
-    false, false, true, true, false)), (String ((Ascii (false, true, false,
-    false, true, true, true, false)), (String ((Ascii (true, false, false,
-    false, false, true, true, false)), (String ((Ascii (false, false, true,
-    false, true, true, true, false)), (String ((Ascii (true, false, false,
-    true, false, true, true, false)), (String ((Ascii (true, true, true,
-    true, false, true, true, false)), (String ((Ascii (false, true, true,
-    true, false, true, true, false)),
-    EmptyString)))))))))))))))))))))))))))), ((SIf ((CByte (Npos (XI (XO (XO
-    (XI (XO (XO XH)))))))), ((SSetStep
-    st_stateOperationI) :: (SRetNil :: [])), ((SRetErr ((String ((Ascii
-    (true, false, false, true, false, true, true, false)), (String ((Ascii
-    (false, true, true, true, false, true, true, false)), (String ((Ascii
-    (false, false, false, false, false, true, false, false)), (String ((Ascii
-    (true, true, false, true, false, true, true, false)), (String ((Ascii
-    (true, false, true, false, false, true, true, false)), (String ((Ascii
-    (true, false, false, true, true, true, true, false)), (String ((Ascii
-    (true, true, true, false, true, true, true, false)), (String ((Ascii
-    (true, true, true, true, false, true, true, false)), (String ((Ascii
-    (false, true, false, false, true, true, true, false)), (String ((Ascii
-    (false, false, true, false, false, true, true, false)), (String ((Ascii
-    (false, false, false, false, false, true, false, false)), (String ((Ascii
-    (true, true, true, true, false, false, true, false)), (String ((Ascii
-    (false, false, false, false, true, true, true, false)), (String ((Ascii
-    (true, false, true, false, false, true, true, false)), (String ((Ascii
-    (false, true, false, false, true, true, true, false)), (String ((Ascii
-    (true, false, false, false, false, true, true, false)), (String ((Ascii
-    (false, false, true, false, true, true, true, false)), (String ((Ascii
-    (true, false, false, true, false, true, true, false)), (String ((Ascii
-    (true, true, true, true, false, true, true, false)), (String ((Ascii
-    (false, true, true, true, false, true, true, false)), (String ((Ascii
-    (true, false, false, true, false, false, true, false)), (String ((Ascii
-    (false, false, true, false, false, true, true, false)),
-    EmptyString)))))))))))))))))))))))))))))))))))))))))))), (String ((Ascii
-    (true, false, false, true, false, false, true, false)),
-    EmptyString)))) :: []))) :: [])) :: (((String ((Ascii (true, true, false,
-    false, true, true, true, false)), (String ((Ascii (false, false, true,
-    false, true, true, true, false)), (String ((Ascii (true, false, false,
-    false, false, true, true, false)), (String ((Ascii (false, false, true,
-    false, true, true, true, false)), (String ((Ascii (true, false, true,
-    false, false, true, true, false)), (String ((Ascii (true, true, true,
-    true, false, false, true, false)), (String ((Ascii (false, false, false,
-    false, true, true, true, false)), (String ((Ascii (true, false, true,
-    false, false, true, true, false)), (String ((Ascii (false, true, false,
-    false, true, true, true, false)), (String ((Ascii (true, false, false,
-    false, false, true, true, false)), (String ((Ascii (false, false, true,
-    false, true, true, true, false)), (String ((Ascii (true, false, false,
-    true, false, true, true, false)), (String ((Ascii (true, true, true,
-    true, false, true, true, false)), (String ((Ascii (false, true, true,
-    true, false, true, true, false)), (String ((Ascii (true, false, false,
-    true, false, false, true, false)),
-    EmptyString)))))))))))))))))))))))))))))), ((SIf ((CByte (Npos (XO (XO
-    (XI (XO (XO (XI XH)))))))), ((SFound (KeywordEnd, Z0)) :: ((SPush
-    st_stateExpectKeyword) :: ((SSetStep
-    st_stateParameterOrAnnotation) :: (SRetNil :: [])))), ((SRetErr ((String
-    ((Ascii (true, false, false, true, false, true, true, false)), (String
-    ((Ascii (false, true, true, true, false, true, true, false)), (String
-    ((Ascii (false, false, false, false, false, true, false, false)), (String
-    ((Ascii (true, true, false, true, false, true, true, false)), (String
-    ((Ascii (true, false, true, false, false, true, true, false)), (String
-    ((Ascii (true, false, false, true, true, true, true, false)), (String
-    ((Ascii (true, true, true, false, true, true, true, false)), (String
-    ((Ascii (true, true, true, true, false, true, true, false)), (String
-    ((Ascii (false, true, false, false, true, true, true, false)), (String
-    ((Ascii (false, false, true, false, false, true, true, false)), (String
-    ((Ascii (false, false, false, false, false, true, false, false)), (String
-    ((Ascii (true, true, true, true, false, false, true, false)), (String
-    ((Ascii (false, false, false, false, true, true, true, false)), (String
-    ((Ascii (true, false, true, false, false, true, true, false)), (String
-    ((Ascii (false, true, false, false, true, true, true, false)), (String
-    ((Ascii (true, false, false, false, false, true, true, false)), (String
-    ((Ascii (false, false, true, false, true, true, true, false)), (String
-    ((Ascii (true, false, false, true, false, true, true, false)), (String
-    ((Ascii (true, true, true, true, false, true, true, false)), (String
-    ((Ascii (false, true, true, true, false, true, true, false)), (String
-    ((Ascii (true, false, false, true, false, false, true, false)), (String
-    ((Ascii (false, false, true, false, false, true, true, false)),
-    EmptyString)))))))))))))))))))))))))))))))))))))))))))), (String ((Ascii
-    (false, false, true, false, false, true, true, false)),
-    EmptyString)))) :: []))) :: [])) :: (((String ((Ascii (true, true, false,
-    false, true, true, true, false)), (String ((Ascii (false, false, true,
-    false, true, true, true, false)), (String ((Ascii (true, false, false,
-    false, false, true, true, false)), (String ((Ascii (false, false, true,
-    false, true, true, true, false)), (String ((Ascii (true, false, true,
-    false, false, true, true, false)), (String ((Ascii (false, false, false,
-    false, true, false, true, false)), EmptyString)))))))))))), ((SIf ((CByte
-    (Npos (XI (XI (XI (XI (XO (XO XH)))))))), ((SSetStep
-    st_statePO) :: (SRetNil :: [])), ((SIf ((CByte (Npos (XI (XO (XI (XO (XI
-    (XO XH)))))))), ((SSetStep st_statePU) :: (SRetNil :: [])), ((SIf ((CByte
-    (Npos (XI (XO (XO (XO (XO (XO XH)))))))), ((SSetStep
-    st_statePA) :: (SRetNil :: [])), ((SIf ((CByte (Npos (XI (XO (XO (XO (XO
-    (XI XH)))))))), ((SSetStep st_statePa) :: (SRetNil :: [])), ((SIf ((CByte
-    (Npos (XO (XI (XO (XO (XI (XI XH)))))))), ((SSetStep
-    st_statePr) :: (SRetNil :: [])), ((SRetErr ((String ((Ascii (true, false,
-    false, true, false, true, true, false)), (String ((Ascii (false, true,
-    true, true, false, true, true, false)), (String ((Ascii (false, false,
-    false, false, false, true, false, false)), (String ((Ascii (false, false,
-    true, false, false, true, true, false)), (String ((Ascii (true, false,
-    false, true, false, true, true, false)), (String ((Ascii (false, true,
-    false, false, true, true, true, false)), (String ((Ascii (true, false,
-    true, false, false, true, true, false)), (String ((Ascii (true, true,
+    false, true, false, false, true, false)),
+    EmptyString)))))))))))))))))))))))))))))),
+    (block ((SIf ((CByte (Npos (XO (XO (XI (XO (XO (XI XH)))))))),
+      (block ((SFound (KeywordEnd, Z0)) :: ((SPush
+        st_stateExpectKeyword) :: ((SSetStep
+        st_stateParameterOrAnnotation) :: (SRetNil :: []))))),
+      (block ((SRetErr ((String ((Ascii (true, false, false, true, false,
+        true, true, false)), (String ((Ascii (false, true, true, true, false,
+        true, true, false)), (String ((Ascii (false, false, false, false,
+        false, true, false, false)), (String ((Ascii (true, true, false,
+        true, false, true, true, false)), (String ((Ascii (true, false, true,
+        false, false, true, true, false)), (String ((Ascii (true, false,
+        false, true, true, true, true, false)), (String ((Ascii (true, true,
+        true, false, true, true, true, false)), (String ((Ascii (true, true,
+        true, true, false, true, true, false)), (String ((Ascii (false, true,
+        false, false, true, true, true, false)), (String ((Ascii (false,
+        false, true, false, false, true, true, false)), (String ((Ascii
+        (false, false, false, false, false, true, false, false)), (String
+        ((Ascii (true, true, true, true, false, false, true, false)), (String
+        ((Ascii (false, false, false, false, true, true, true, false)),
+        (String ((Ascii (true, false, true, false, false, true, true,
+        false)), (String ((Ascii (false, true, false, false, true, true,
+        true, false)), (String ((Ascii (true, false, false, false, false,
+        true, true, false)), (String ((Ascii (false, false, true, false,
+        true, true, true, false)), (String ((Ascii (true, false, false, true,
+        false, true, true, false)), (String ((Ascii (true, true, true, true,
+        false, true, true, false)), (String ((Ascii (false, true, true, true,
+        false, true, true, false)), (String ((Ascii (true, false, false,
+        true, false, false, true, false)), (String ((Ascii (false, false,
+        true, false, false, true, true, false)),
+        EmptyString)))))))))))))))))))))))))))))))))))))))))))), (String
+        ((Ascii (false, false, true, false, false, true, true, false)),
+        EmptyString)))) :: [])))) :: []))) :: (((String ((Ascii (true, true,
+    false, false, true, true, true, false)), (String ((Ascii (false, false,
+    true, false, true, true, true, false)), (String ((Ascii (true, false,
     false, false, false, true, true, false)), (String ((Ascii (false, false,
     true, false, true, true, true, false)), (String ((Ascii (true, false,
-    false, true, false, true, true, false)), (String ((Ascii (false, true,
-    true, false, true, true, true, false)), (String ((Ascii (true, false,
     true, false, false, true, true, false)), (String ((Ascii (false, false,
-    false, false, false, true, false, false)), (String ((Ascii (false, true,
-    true, true, false, true, true, false)), (String ((Ascii (true, false,
-    false, false, false, true, true, false)), (String ((Ascii (true, false,
-    true, true, false, true, true, false)), (String ((Ascii (true, false,
-    true, false, false, true, true, false)),
-    EmptyString)))))))))))))))))))))))))))))))))),
-    EmptyString)) :: []))) :: []))) :: []))) :: []))) :: []))) :: [])) :: (((String
+    false, false, true, false, true, false)), EmptyString)))))))))))),
+    (block ((SIf ((CByte (Npos (XI (XI (XI (XI (XO (XO XH)))))))),
+      (block ((SSetStep st_statePO) :: (SRetNil :: []))),
+      (block ((SIf ((CByte (Npos (XI (XO (XI (XO (XI (XO XH)))))))),
+        (block ((SSetStep st_statePU) :: (SRetNil :: []))),
+        (block ((SIf ((CByte (Npos (XI (XO (XO (XO (XO (XO XH)))))))),
+          (block ((SSetStep st_statePA) :: (SRetNil :: []))),
+          (block ((SIf ((CByte (Npos (XI (XO (XO (XO (XO (XI XH)))))))),
+            (block ((SSetStep st_statePa) :: (SRetNil :: []))),
+            (block ((SIf ((CByte (Npos (XO (XI (XO (XO (XI (XI XH)))))))),
+              (block ((SSetStep st_statePr) :: (SRetNil :: []))),
+              (block ((SRetErr ((String ((Ascii (true, false, false, true,
+                false, true, true, false)), (String ((Ascii (false, true,
+                true, true, false, true, true, false)), (String ((Ascii
+                (false, false, false, false, false, true, false, false)),
+                (String ((Ascii (false, false, true, false, false, true,
+                true, false)), (String ((Ascii (true, false, false, true,
+                false, true, true, false)), (String ((Ascii (false, true,
+                false, false, true, true, true, false)), (String ((Ascii
+                (true, false, true, false, false, true, true, false)),
+                (String ((Ascii (true, true, false, false, false, true, true,
+                false)), (String ((Ascii (false, false, true, false, true,
+                true, true, false)), (String ((Ascii (true, false, false,
+                true, false, true, true, false)), (String ((Ascii (false,
+                true, true, false, true, true, true, false)), (String ((Ascii
+                (true, false, true, false, false, true, true, false)),
+                (String ((Ascii (false, false, false, false, false, true,
+                false, false)), (String ((Ascii (false, true, true, true,
+                false, true, true, false)), (String ((Ascii (true, false,
+                false, false, false, true, true, false)), (String ((Ascii
+                (true, false, true, true, false, true, true, false)), (String
+                ((Ascii (true, false, true, false, false, true, true,
+                false)), EmptyString)))))))))))))))))))))))))))))))))),
+                EmptyString)) :: [])))) :: [])))) :: [])))) :: [])))) :: [])))) :: []))) :: (((String
     ((Ascii (true, true, false, false, true, true, true, false)), (String
     ((Ascii (false, false, true, false, true, true, true, false)), (String
     ((Ascii (true, false, false, false, false, true, true, false)), (String
@@ -5941,29 +6227,63 @@ let prog_table =
     ((Ascii (true, false, true, false, false, true, true, false)), (String
     ((Ascii (false, false, false, false, true, false, true, false)), (String
     ((Ascii (true, false, false, false, false, false, true, false)),
-    EmptyString)))))))))))))), ((SIf ((CByte (Npos (XI (XI (XO (XO (XI (XO
-    XH)))))))), ((SSetStep st_statePAS) :: (SRetNil :: [])), ((SIf ((CByte
-    (Npos (XO (XO (XI (XO (XI (XO XH)))))))), ((SSetStep
-    st_statePAT) :: (SRetNil :: [])), ((SRetErr ((String ((Ascii (true,
-    false, false, true, false, true, true, false)), (String ((Ascii (false,
-    true, true, true, false, true, true, false)), (String ((Ascii (false,
-    false, false, false, false, true, false, false)), (String ((Ascii (false,
-    false, true, false, false, true, true, false)), (String ((Ascii (true,
-    false, false, true, false, true, true, false)), (String ((Ascii (false,
-    true, false, false, true, true, true, false)), (String ((Ascii (true,
-    false, true, false, false, true, true, false)), (String ((Ascii (true,
-    true, false, false, false, true, true, false)), (String ((Ascii (false,
-    false, true, false, true, true, true, false)), (String ((Ascii (true,
-    false, false, true, false, true, true, false)), (String ((Ascii (false,
-    true, true, false, true, true, true, false)), (String ((Ascii (true,
-    false, true, false, false, true, true, false)), (String ((Ascii (false,
-    false, false, false, false, true, false, false)), (String ((Ascii (false,
-    true, true, true, false, true, true, false)), (String ((Ascii (true,
-    false, false, false, false, true, true, false)), (String ((Ascii (true,
-    false, true, true, false, true, true, false)), (String ((Ascii (true,
-    false, true, false, false, true, true, false)),
-    EmptyString)))))))))))))))))))))))))))))))))),
-    EmptyString)) :: []))) :: []))) :: [])) :: (((String ((Ascii (true, true,
+    EmptyString)))))))))))))),
+    (block ((SIf ((CByte (Npos (XI (XI (XO (XO (XI (XO XH)))))))),
+      (block ((SSetStep st_statePAS) :: (SRetNil :: []))),
+      (block ((SIf ((CByte (Npos (XO (XO (XI (XO (XI (XO XH)))))))),
+        (block ((SSetStep st_statePAT) :: (SRetNil :: []))),
+        (block ((SRetErr ((String ((Ascii (true, false, false, true, false,
+          true, true, false)), (String ((Ascii (false, true, true, true,
+          false, true, true, false)), (String ((Ascii (false, false, false,
+          false, false, true, false, false)), (String ((Ascii (false, false,
+          true, false, false, true, true, false)), (String ((Ascii (true,
+          false, false, true, false, true, true, false)), (String ((Ascii
+          (false, true, false, false, true, true, true, false)), (String
+          ((Ascii (true, false, true, false, false, true, true, false)),
+          (String ((Ascii (true, true, false, false, false, true, true,
+          false)), (String ((Ascii (false, false, true, false, true, true,
+          true, false)), (String ((Ascii (true, false, false, true, false,
+          true, true, false)), (String ((Ascii (false, true, true, false,
+          true, true, true, false)), (String ((Ascii (true, false, true,
+          false, false, true, true, false)), (String ((Ascii (false, false,
+          false, false, false, true, false, false)), (String ((Ascii (false,
+          true, true, true, false, true, true, false)), (String ((Ascii
+          (true, false, false, false, false, true, true, false)), (String
+          ((Ascii (true, false, true, true, false, true, true, false)),
+          (String ((Ascii (true, false, true, false, false, true, true,
+          false)), EmptyString)))))))))))))))))))))))))))))))))),
+          EmptyString)) :: [])))) :: [])))) :: []))) :: (((String ((Ascii
+    (true, true, false, false, true, true, true, false)), (String ((Ascii
+    (false, false, true, false, true, true, true, false)), (String ((Ascii
+    (true, false, false, false, false, true, true, false)), (String ((Ascii
+    (false, false, true, false, true, true, true, false)), (String ((Ascii
+    (true, false, true, false, false, true, true, false)), (String ((Ascii
+    (false, false, false, false, true, false, true, false)), (String ((Ascii
+    (true, false, false, false, false, false, true, false)), (String ((Ascii
+    (true, true, false, false, true, false, true, false)),
+    EmptyString)))))))))))))))),
+    (block ((SIf ((CByte (Npos (XO (XO (XI (XO (XI (XO XH)))))))),
+      (block ((SSetStep st_statePAST) :: (SRetNil :: []))),
+      (block ((SRetErr ((String ((Ascii (true, false, false, true, false,
+        true, true, false)), (String ((Ascii (false, true, true, true, false,
+        true, true, false)), (String ((Ascii (false, false, false, false,
+        false, true, false, false)), (String ((Ascii (true, true, false,
+        true, false, true, true, false)), (String ((Ascii (true, false, true,
+        false, false, true, true, false)), (String ((Ascii (true, false,
+        false, true, true, true, true, false)), (String ((Ascii (true, true,
+        true, false, true, true, true, false)), (String ((Ascii (true, true,
+        true, true, false, true, true, false)), (String ((Ascii (false, true,
+        false, false, true, true, true, false)), (String ((Ascii (false,
+        false, true, false, false, true, true, false)), (String ((Ascii
+        (false, false, false, false, false, true, false, false)), (String
+        ((Ascii (true, false, true, true, false, false, true, false)),
+        (String ((Ascii (true, false, false, false, false, false, true,
+        false)), (String ((Ascii (true, true, false, false, false, false,
+        true, false)), (String ((Ascii (false, true, false, false, true,
+        false, true, false)), (String ((Ascii (true, true, true, true, false,
+        false, true, false)), EmptyString)))))))))))))))))))))))))))))))),
+        (String ((Ascii (true, false, true, false, true, true, true, false)),
+        EmptyString)))) :: [])))) :: []))) :: (((String ((Ascii (true, true,
     false, false, true, true, true, false)), (String ((Ascii (false, false,
     true, false, true, true, true, false)), (String ((Ascii (true, false,
     false, false, false, true, true, false)), (String ((Ascii (false, false,
@@ -5971,231 +6291,282 @@ let prog_table =
     true, false, false, true, true, false)), (String ((Ascii (false, false,
     false, false, true, false, true, false)), (String ((Ascii (true, false,
     false, false, false, false, true, false)), (String ((Ascii (true, true,
+    false, false, true, false, true, false)), (String ((Ascii (false, false,
+    true, false, true, false, true, false)), EmptyString)))))))))))))))))),
+    (block ((SIf ((CByte (Npos (XI (XO (XI (XO (XO (XO XH)))))))),
+      (block ((SFound (KeywordEnd, Z0)) :: ((SPush
+        st_stateExpectKeyword) :: ((SSetStep
+        st_stateParameterOrAnnotation) :: (SRetNil :: []))))),
+      (block ((SRetErr ((String ((Ascii (true, false, false, true, false,
+        true, true, false)), (String ((Ascii (false, true, true, true, false,
+        true, true, false)), (String ((Ascii (false, false, false, false,
+        false, true, false, false)), (String ((Ascii (true, true, false,
+        true, false, true, true, false)), (String ((Ascii (true, false, true,
+        false, false, true, true, false)), (String ((Ascii (true, false,
+        false, true, true, true, true, false)), (String ((Ascii (true, true,
+        true, false, true, true, true, false)), (String ((Ascii (true, true,
+        true, true, false, true, true, false)), (String ((Ascii (false, true,
+        false, false, true, true, true, false)), (String ((Ascii (false,
+        false, true, false, false, true, true, false)), (String ((Ascii
+        (false, false, false, false, false, true, false, false)), (String
+        ((Ascii (true, false, true, true, false, false, true, false)),
+        (String ((Ascii (true, false, false, false, false, false, true,
+        false)), (String ((Ascii (true, true, false, false, false, false,
+        true, false)), (String ((Ascii (false, true, false, false, true,
+        false, true, false)), (String ((Ascii (true, true, true, true, false,
+        false, true, false)), EmptyString)))))))))))))))))))))))))))))))),
+        (String ((Ascii (true, false, false, true, true, true, true, false)),
+        EmptyString)))) :: [])))) :: []))) :: (((String ((Ascii (true, true,
+    false, false, true, true, true, false)), (String ((Ascii (false, false,
+    true, false, true, true, true, false)), (String ((Ascii (true, false,
+    false, false, false, true, true, false)), (String ((Ascii (false, false,
+    true, false, true, true, true, false)), (String ((Ascii (true, false,
+    true, false, false, true, true, false)), (String ((Ascii (false, false,
+    false, false, true, false, true, false)), (String ((Ascii (true, false,
+    false, false, false, false, true, false)), (String ((Ascii (false, false,
+    true, false, true, false, true, false)), EmptyString)))))))))))))))),
+    (block ((SIf ((CByte (Npos (XI (XI (XO (XO (XO (XO XH)))))))),
+      (block ((SSetStep st_statePATC) :: (SRetNil :: []))),
+      (block ((SRetErr ((String ((Ascii (true, false, false, true, false,
+        true, true, false)), (String ((Ascii (false, true, true, true, false,
+        true, true, false)), (String ((Ascii (false, false, false, false,
+        false, true, false, false)), (String ((Ascii (true, true, false,
+        true, false, true, true, false)), (String ((Ascii (true, false, true,
+        false, false, true, true, false)), (String ((Ascii (true, false,
+        false, true, true, true, true, false)), (String ((Ascii (true, true,
+        true, false, true, true, true, false)), (String ((Ascii (true, true,
+        true, true, false, true, true, false)), (String ((Ascii (false, true,
+        false, false, true, true, true, false)), (String ((Ascii (false,
+        false, true, false, false, true, true, false)), (String ((Ascii
+        (false, false, false, false, false, true, false, false)), (String
+        ((Ascii (false, false, false, false, true, false, true, false)),
+        (String ((Ascii (true, false, false, false, false, false, true,
+        false)), (String ((Ascii (false, false, true, false, true, false,
+        true, false)), (String ((Ascii (true, true, false, false, false,
+        false, true, false)), (String ((Ascii (false, false, false, true,
+        false, false, true, false)),
+        EmptyString)))))))))))))))))))))))))))))))), (String ((Ascii (true,
+        true, false, false, false, false, true, false)),
+        EmptyString)))) :: [])))) :: []))) :: (((String ((Ascii (true, true,
+    false, false, true, true, true, false)), (String ((Ascii (false, false,
+    true, false, true, true, true, false)), (String ((Ascii (true, false,
+    false, false, false, true, true, false)), (String ((Ascii (false, false,
+    true, false, true, true, true, false)), (String ((Ascii (true, false,
+    true, false, false, true, true, false)), (String ((Ascii (false, false,
+    false, false, true, false, true, false)), (String ((Ascii (true, false,
+    false, false, false, false, true, false)), (String ((Ascii (false, false,
+    true, false, true, false, true, false)), (String ((Ascii (true, true,
+    false, false, false, false, true, false)), EmptyString)))))))))))))))))),
+    (block ((SIf ((CByte (Npos (XO (XO (XO (XI (XO (XO XH)))))))),
+      (block ((SFound (KeywordEnd, Z0)) :: ((SPush
+        st_stateExpectKeyword) :: ((SSetStep
+        st_stateParameterOrAnnotation) :: (SRetNil :: []))))),
+      (block ((SRetErr ((String ((Ascii (true, false, false, true, false,
+        true, true, false)), (String ((Ascii (false, true, true, true, false,
+        true, true, false)), (String ((Ascii (false, false, false, false,
+        false, true, false, false)), (String ((Ascii (true, true, false,
+        true, false, true, true, false)), (String ((Ascii (true, false, true,
+        false, false, true, true, false)), (String ((Ascii (true, false,
+        false, true, true, true, true, false)), (String ((Ascii (true, true,
+        true, false, true, true, true, false)), (String ((Ascii (true, true,
+        true, true, false, true, true, false)), (String ((Ascii (false, true,
+        false, false, true, true, true, false)), (String ((Ascii (false,
+        false, true, false, false, true, true, false)), (String ((Ascii
+        (false, false, false, false, false, true, false, false)), (String
+        ((Ascii (false, false, false, false, true, false, true, false)),
+        (String ((Ascii (true, false, false, false, false, false, true,
+        false)), (String ((Ascii (false, false, true, false, true, false,
+        true, false)), (String ((Ascii (true, true, false, false, false,
+        false, true, false)), (String ((Ascii (false, false, false, true,
+        false, false, true, false)),
+        EmptyString)))))))))))))))))))))))))))))))), (String ((Ascii (false,
+        false, false, true, false, false, true, false)),
+        EmptyString)))) :: [])))) :: []))) :: (((String ((Ascii (true, true,
+    false, false, true, true, true, false)), (String ((Ascii (false, false,
+    true, false, true, true, true, false)), (String ((Ascii (true, false,
+    false, false, false, true, true, false)), (String ((Ascii (false, false,
+    true, false, true, true, true, false)), (String ((Ascii (true, false,
+    true, false, false, true, true, false)), (String ((Ascii (false, false,
+    false, false, true, false, true, false)), (String ((Ascii (true, true,
+    true, true, false, false, true, false)), EmptyString)))))))))))))),
+    (block ((SIf ((CByte (Npos (XI (XI (XO (XO (XI (XO XH)))))))),
+      (block ((SSetStep st_statePOS) :: (SRetNil :: []))),
+      (block ((SRetErr ((String ((Ascii (true, false, false, true, false,
+        true, true, false)), (String ((Ascii (false, true, true, true, false,
+        true, true, false)), (String ((Ascii (false, false, false, false,
+        false, true, false, false)), (String ((Ascii (true, true, false,
+        true, false, true, true, false)), (String ((Ascii (true, false, true,
+        false, false, true, true, false)), (String ((Ascii (true, false,
+        false, true, true, true, true, false)), (String ((Ascii (true, true,
+        true, false, true, true, true, false)), (String ((Ascii (true, true,
+        true, true, false, true, true, false)), (String ((Ascii (false, true,
+        false, false, true, true, true, false)), (String ((Ascii (false,
+        false, true, false, false, true, true, false)), (String ((Ascii
+        (false, false, false, false, false, true, false, false)), (String
+        ((Ascii (false, false, false, false, true, false, true, false)),
+        (String ((Ascii (true, true, true, true, false, false, true, false)),
+        (String ((Ascii (true, true, false, false, true, false, true,
+        false)), (String ((Ascii (false, false, true, false, true, false,
+        true, false)), EmptyString)))))))))))))))))))))))))))))), (String
+        ((Ascii (true, true, false, false, true, false, true, false)),
+        EmptyString)))) :: [])))) :: []))) :: (((String ((Ascii (true, true,
+    false, false, true, true, true, false)), (String ((Ascii (false, false,
+    true, false, true, true, true, false)), (String ((Ascii (true, false,
+    false, false, false, true, true, false)), (String ((Ascii (false, false,
+    true, false, true, true, true, false)), (String ((Ascii (true, false,
+    true, false, false, true, true, false)), (String ((Ascii (false, false,
+    false, false, true, false, true, false)), (String ((Ascii (true, true,
+    true, true, false, false, true, false)), (String ((Ascii (true, true,
     false, false, true, false, true, false)), EmptyString)))))))))))))))),
-    ((SIf ((CByte (Npos (XO (XO (XI (XO (XI (XO XH)))))))), ((SSetStep
-    st_statePAST) :: (SRetNil :: [])), ((SRetErr ((String ((Ascii (true,
-    false, false, true, false, true, true, false)), (String ((Ascii (false,
-    true, true, true, false, true, true, false)), (String ((Ascii (false,
-    false, false, false, false, true, false, false)), (String ((Ascii (true,
-    true, false, true, false, true, true, false)), (String ((Ascii (true,
-    false, true, false, false, true, true, false)), (String ((Ascii (true,
-    false, false, true, true, true, true, false)), (String ((Ascii (true,
-    true, true, false, true, true, true, false)), (String ((Ascii (true,
-    true, true, true, false, true, true, false)), (String ((Ascii (false,
-    true, false, false, true, true, true, false)), (String ((Ascii (false,
-    false, true, false, false, true, true, false)), (String ((Ascii (false,
-    false, false, false, false, true, false, false)), (String ((Ascii (true,
-    false, true, true, false, false, true, false)), (String ((Ascii (true,
-    false, false, false, false, false, true, false)), (String ((Ascii (true,
-    true, false, false, false, false, true, false)), (String ((Ascii (false,
-    true, false, false, true, false, true, false)), (String ((Ascii (true,
-    true, true, true, false, false, true, false)),
-    EmptyString)))))))))))))))))))))))))))))))), (String ((Ascii (true,
-    false, true, false, true, true, true, false)),
-    EmptyString)))) :: []))) :: [])) :: (((String ((Ascii (true, true, false,
-    false, true, true, true, false)), (String ((Ascii (false, false, true,
-    false, true, true, true, false)), (String ((Ascii (true, false, false,
-    false, false, true, true, false)), (String ((Ascii (false, false, true,
-    false, true, true, true, false)), (String ((Ascii (true, false, true,
-    false, false, true, true, false)), (String ((Ascii (false, false, false,
-    false, true, false, true, false)), (String ((Ascii (true, false, false,
-    false, false, false, true, false)), (String ((Ascii (true, true, false,
-    false, true, false, true, false)), (String ((Ascii (false, false, true,
-    false, true, false, true, false)), EmptyString)))))))))))))))))), ((SIf
-    ((CByte (Npos (XI (XO (XI (XO (XO (XO XH)))))))), ((SFound (KeywordEnd,
-    Z0)) :: ((SPush st_stateExpectKeyword) :: ((SSetStep
-    st_stateParameterOrAnnotation) :: (SRetNil :: [])))), ((SRetErr ((String
-    ((Ascii (true, false, false, true, false, true, true, false)), (String
-    ((Ascii (false, true, true, true, false, true, true, false)), (String
-    ((Ascii (false, false, false, false, false, true, false, false)), (String
-    ((Ascii (true, true, false, true, false, true, true, false)), (String
-    ((Ascii (true, false, true, false, false, true, true, false)), (String
-    ((Ascii (true, false, false, true, true, true, true, false)), (String
-    ((Ascii (true, true, true, false, true, true, true, false)), (String
-    ((Ascii (true, true, true, true, false, true, true, false)), (String
-    ((Ascii (false, true, false, false, true, true, true, false)), (String
-    ((Ascii (false, false, true, false, false, true, true, false)), (String
-    ((Ascii (false, false, false, false, false, true, false, false)), (String
-    ((Ascii (true, false, true, true, false, false, true, false)), (String
-    ((Ascii (true, false, false, false, false, false, true, false)), (String
-    ((Ascii (true, true, false, false, false, false, true, false)), (String
-    ((Ascii (false, true, false, false, true, false, true, false)), (String
-    ((Ascii (true, true, true, true, false, false, true, false)),
-    EmptyString)))))))))))))))))))))))))))))))), (String ((Ascii (true,
-    false, false, true, true, true, true, false)),
-    EmptyString)))) :: []))) :: [])) :: (((String ((Ascii (true, true, false,
-    false, true, true, true, false)), (String ((Ascii (false, false, true,
-    false, true, true, true, false)), (String ((Ascii (true, false, false,
-    false, false, true, true, false)), (String ((Ascii (false, false, true,
-    false, true, true, true, false)), (String ((Ascii (true, false, true,
-    false, false, true, true, false)), (String ((Ascii (false, false, false,
-    false, true, false, true, false)), (String ((Ascii (true, false, false,
-    false, false, false, true, false)), (String ((Ascii (false, false, true,
-    false, true, false, true, false)), EmptyString)))))))))))))))), ((SIf
-    ((CByte (Npos (XI (XI (XO (XO (XO (XO XH)))))))), ((SSetStep
-    st_statePATC) :: (SRetNil :: [])), ((SRetErr ((String ((Ascii (true,
-    false, false, true, false, true, true, false)), (String ((Ascii (false,
-    true, true, true, false, true, true, false)), (String ((Ascii (false,
-    false, false, false, false, true, false, false)), (String ((Ascii (true,
-    true, false, true, false, true, true, false)), (String ((Ascii (true,
-    false, true, false, false, true, true, false)), (String ((Ascii (true,
-    false, false, true, true, true, true, false)), (String ((Ascii (true,
-    true, true, false, true, true, true, false)), (String ((Ascii (true,
-    true, true, true, false, true, true, false)), (String ((Ascii (false,
-    true, false, false, true, true, true, false)), (String ((Ascii (false,
-    false, true, false, false, true, true, false)), (String ((Ascii (false,
-    false, false, false, false, true, false, false)), (String ((Ascii (false,
-    false, false, false, true, false, true, false)), (String ((Ascii (true,
-    false, false, false, false, false, true, false)), (String ((Ascii (false,
-    false, true, false, true, false, true, false)), (String ((Ascii (true,
-    true, false, false, false, false, true, false)), (String ((Ascii (false,
-    false, false, true, false, false, true, false)),
-    EmptyString)))))))))))))))))))))))))))))))), (String ((Ascii (true, true,
-    false, false, false, false, true, false)),
-    EmptyString)))) :: []))) :: [])) :: (((String ((Ascii (true, true, false,
-    false, true, true, true, false)), (String ((Ascii (false, false, true,
-    false, true, true, true, false)), (String ((Ascii (true, false, false,
-    false, false, true, true, false)), (String ((Ascii (false, false, true,
-    false, true, true, true, false)), (String ((Ascii (true, false, true,
-    false, false, true, true, false)), (String ((Ascii (false, false, false,
-    false, true, false, true, false)), (String ((Ascii (true, false, false,
-    false, false, false, true, false)), (String ((Ascii (false, false, true,
-    false, true, false, true, false)), (String ((Ascii (true, true, false,
-    false, false, false, true, false)), EmptyString)))))))))))))))))), ((SIf
-    ((CByte (Npos (XO (XO (XO (XI (XO (XO XH)))))))), ((SFound (KeywordEnd,
-    Z0)) :: ((SPush st_stateExpectKeyword) :: ((SSetStep
-    st_stateParameterOrAnnotation) :: (SRetNil :: [])))), ((SRetErr ((String
-    ((Ascii (true, false, false, true, false, true, true, false)), (String
-    ((Ascii (false, true, true, true, false, true, true, false)), (String
-    ((Ascii (false, false, false, false, false, true, false, false)), (String
-    ((Ascii (true, true, false, true, false, true, true, false)), (String
-    ((Ascii (true, false, true, false, false, true, true, false)), (String
-    ((Ascii (true, false, false, true, true, true, true, false)), (String
-    ((Ascii (true, true, true, false, true, true, true, false)), (String
-    ((Ascii (true, true, true, true, false, true, true, false)), (String
-    ((Ascii (false, true, false, false, true, true, true, false)), (String
-    ((Ascii (false, false, true, false, false, true, true, false)), (String
-    ((Ascii (false, false, false, false, false, true, false, false)), (String
-    ((Ascii (false, false, false, false, true, false, true, false)), (String
-    ((Ascii (true, false, false, false, false, false, true, false)), (String
-    ((Ascii (false, false, true, false, true, false, true, false)), (String
-    ((Ascii (true, true, false, false, false, false, true, false)), (String
-    ((Ascii (false, false, false, true, false, false, true, false)),
-    EmptyString)))))))))))))))))))))))))))))))), (String ((Ascii (false,
-    false, false, true, false, false, true, false)),
-    EmptyString)))) :: []))) :: [])) :: (((String ((Ascii (true, true, false,
-    false, true, true, true, false)), (String ((Ascii (false, false, true,
-    false, true, true, true, false)), (String ((Ascii (true, false, false,
-    false, false, true, true, false)), (String ((Ascii (false, false, true,
-    false, true, true, true, false)), (String ((Ascii (true, false, true,
-    false, false, true, true, false)), (String ((Ascii (false, false, false,
-    false, true, false, true, false)), (String ((Ascii (true, true, true,
-    true, false, false, true, false)), EmptyString)))))))))))))), ((SIf
-    ((CByte (Npos (XI (XI (XO (XO (XI (XO XH)))))))), ((SSetStep
-    st_statePOS) :: (SRetNil :: [])), ((SRetErr ((String ((Ascii (true,
-    false, false, true, false, true, true, false)), (String ((Ascii (false,
-    true, true, true, false, true, true, false)), (String ((Ascii (false,
-    false, false, false, false, true, false, false)), (String ((Ascii (true,
-    true, false, true, false, true, true, false)), (String ((Ascii (true,
-    false, true, false, false, true, true, false)), (String ((Ascii (true,
-    false, false, true, true, true, true, false)), (String ((Ascii (true,
-    true, true, false, true, true, true, false)), (String ((Ascii (true,
-    true, true, true, false, true, true, false)), (String ((Ascii (false,
-    true, false, false, true, true, true, false)), (String ((Ascii (false,
-    false, true, false, false, true, true, false)), (String ((Ascii (false,
-    false, false, false, false, true, false, false)), (String ((Ascii (false,
-    false, false, false, true, false, true, false)), (String ((Ascii (true,
-    true, true, true, false, false, true, false)), (String ((Ascii (true,
-    true, false, false, true, false, true, false)), (String ((Ascii (false,
-    false, true, false, true, false, true, false)),
-    EmptyString)))))))))))))))))))))))))))))), (String ((Ascii (true, true,
-    false, false, true, false, true, false)),
-    EmptyString)))) :: []))) :: [])) :: (((String ((Ascii (true, true, false,
-    false, true, true, true, false)), (String ((Ascii (false, false, true,
-    false, true, true, true, false)), (String ((Ascii (true, false, false,
-    false, false, true, true, false)), (String ((Ascii (false, false, true,
-    false, true, true, true, false)), (String ((Ascii (true, false, true,
-    false, false, true, true, false)), (String ((Ascii (false, false, false,
-    false, true, false, true, false)), (String ((Ascii (true, true, true,
-    true, false, false, true, false)), (String ((Ascii (true, true, false,
-    false, true, false, true, false)), EmptyString)))))))))))))))), ((SIf
-    ((CByte (Npos (XO (XO (XI (XO (XI (XO XH)))))))), ((SFound (KeywordEnd,
-    Z0)) :: ((SPush st_stateExpectKeyword) :: ((SSetStep
-    st_stateParameterOrAnnotation) :: (SRetNil :: [])))), ((SRetErr ((String
-    ((Ascii (true, false, false, true, false, true, true, false)), (String
-    ((Ascii (false, true, true, true, false, true, true, false)), (String
-    ((Ascii (false, false, false, false, false, true, false, false)), (String
-    ((Ascii (true, true, false, true, false, true, true, false)), (String
-    ((Ascii (true, false, true, false, false, true, true, false)), (String
-    ((Ascii (true, false, false, true, true, true, true, false)), (String
-    ((Ascii (true, true, true, false, true, true, true, false)), (String
-    ((Ascii (true, true, true, true, false, true, true, false)), (String
-    ((Ascii (false, true, false, false, true, true, true, false)), (String
-    ((Ascii (false, false, true, false, false, true, true, false)), (String
-    ((Ascii (false, false, false, false, false, true, false, false)), (String
-    ((Ascii (false, false, false, false, true, false, true, false)), (String
-    ((Ascii (true, true, true, true, false, false, true, false)), (String
-    ((Ascii (true, true, false, false, true, false, true, false)), (String
-    ((Ascii (false, false, true, false, true, false, true, false)),
-    EmptyString)))))))))))))))))))))))))))))), (String ((Ascii (false, false,
-    true, false, true, false, true, false)),
-    EmptyString)))) :: []))) :: [])) :: (((String ((Ascii (true, true, false,
-    false, true, true, true, false)), (String ((Ascii (false, false, true,
-    false, true, true, true, false)), (String ((Ascii (true, false, false,
-    false, false, true, true, false)), (String ((Ascii (false, false, true,
-    false, true, true, true, false)), (String ((Ascii (true, false, true,
-    false, false, true, true, false)), (String ((Ascii (false, false, false,
-    false, true, false, true, false)), (String ((Ascii (true, false, true,
-    false, true, false, true, false)), EmptyString)))))))))))))), ((SIf
-    ((CByte (Npos (XO (XO (XI (XO (XI (XO XH)))))))), ((SFound (KeywordEnd,
-    Z0)) :: ((SPush st_stateExpectKeyword) :: ((SSetStep
-    st_stateParameterOrAnnotation) :: (SRetNil :: [])))), ((SRetErr ((String
-    ((Ascii (true, false, false, true, false, true, true, false)), (String
-    ((Ascii (false, true, true, true, false, true, true, false)), (String
-    ((Ascii (false, false, false, false, false, true, false, false)), (String
-    ((Ascii (true, true, false, true, false, true, true, false)), (String
-    ((Ascii (true, false, true, false, false, true, true, false)), (String
-    ((Ascii (true, false, false, true, true, true, true, false)), (String
-    ((Ascii (true, true, true, false, true, true, true, false)), (String
-    ((Ascii (true, true, true, true, false, true, true, false)), (String
-    ((Ascii (false, true, false, false, true, true, true, false)), (String
-    ((Ascii (false, false, true, false, false, true, true, false)), (String
-    ((Ascii (false, false, false, false, false, true, false, false)), (String
-    ((Ascii (false, false, false, false, true, false, true, false)), (String
-    ((Ascii (true, false, true, false, true, false, true, false)), (String
-    ((Ascii (false, false, true, false, true, false, true, false)),
-    EmptyString)))))))))))))))))))))))))))), (String ((Ascii (false, false,
-    true, false, true, false, true, false)),
-    EmptyString)))) :: []))) :: [])) :: (((String ((Ascii (true, true, false,
-    false, true, true, true, false)), (String ((Ascii (false, false, true,
-    false, true, true, true, false)), (String ((Ascii (true, false, false,
-    false, false, true, true, false)), (String ((Ascii (false, false, true,
-    false, true, true, true, false)), (String ((Ascii (true, false, true,
-    false, false, true, true, false)), (String ((Ascii (false, false, false,
-    false, true, false, true, false)), (String ((Ascii (true, false, false,
-    false, false, true, true, false)), EmptyString)))))))))))))), ((SIf
-    ((CByte (Npos (XO (XO (XI (XO (XI (XI XH)))))))), ((SSetStep
-    st_statePat) :: (SRetNil :: [])), ((SIf ((CByte (Npos (XO (XI (XO (XO (XI
-    (XI XH)))))))), ((SSetStep st_statePar) :: (SRetNil :: [])), ((SRetErr
-    ((String ((Ascii (true, false, false, true, false, true, true, false)),
-    (String ((Ascii (false, true, true, true, false, true, true, false)),
-    (String ((Ascii (false, false, false, false, false, true, false, false)),
-    (String ((Ascii (false, false, true, false, false, true, true, false)),
-    (String ((Ascii (true, false, false, true, false, true, true, false)),
-    (String ((Ascii (false, true, false, false, true, true, true, false)),
-    (String ((Ascii (true, false, true, false, false, true, true, false)),
-    (String ((Ascii (true, true, false, false, false, true, true, false)),
-    (String ((Ascii (false, false, true, false, true, true, true, false)),
-    (String ((Ascii (true, false, false, true, false, true, true, false)),
-    (String ((Ascii (false, true, true, false, true, true, true, false)),
-    (String ((Ascii (true, false, true, false, false, true, true, false)),
-    (String ((Ascii (false, false, false, false, false, true, false, false)),
-    (String ((Ascii (false, true, true, true, false, true, true, false)),
-    (String ((Ascii (true, false, false, false, false, true, true, false)),
-    (String ((Ascii (true, false, true, true, false, true, true, false)),
-    (String ((Ascii (true, false, true, false, false, true, true, false)),
-    EmptyString)))))))))))))))))))))))))))))))))),
-    EmptyString)) :: []))) :: []))) :: [])) :: (((String ((Ascii (true, true,
+    (block ((SIf ((CByte (Npos (XO (XO (XI (XO (XI (XO XH)))))))),
+      (block ((SFound (KeywordEnd, Z0)) :: ((SPush
+        st_stateExpectKeyword) :: ((SSetStep
+        st_stateParameterOrAnnotation) :: (SRetNil :: []))))),
+      (block ((SRetErr ((String ((Ascii (true, false, false, true, false,
+        true, true, false)), (String ((Ascii (false, true, true, true, false,
+        true, true, false)), (String ((Ascii (false, false, false, false,
+        false, true, false, false)), (String ((Ascii (true, true, false,
+        true, false, true, true, false)), (String ((Ascii (true, false, true,
+        false, false, true, true, false)), (String ((Ascii (true, false,
+        false, true, true, true, true, false)), (String ((Ascii (true, true,
+        true, false, true, true, true, false)), (String ((Ascii (true, true,
+        true, true, false, true, true, false)), (String ((Ascii (false, true,
+        false, false, true, true, true, false)), (String ((Ascii (false,
+        false, true, false, false, true, true, false)), (String ((Ascii
+        (false, false, false, false, false, true, false, false)), (String
+        ((Ascii (false, false, false, false, true, false, true, false)),
+        (String ((Ascii (true, true, true, true, false, false, true, false)),
+        (String ((Ascii (true, true, false, false, true, false, true,
+        false)), (String ((Ascii (false, false, true, false, true, false,
+        true, false)), EmptyString)))))))))))))))))))))))))))))), (String
+        ((Ascii (false, false, true, false, true, false, true, false)),
+        EmptyString)))) :: [])))) :: []))) :: (((String ((Ascii (true, true,
+    false, false, true, true, true, false)), (String ((Ascii (false, false,
+    true, false, true, true, true, false)), (String ((Ascii (true, false,
+    false, false, false, true, true, false)), (String ((Ascii (false, false,
+    true, false, true, true, true, false)), (String ((Ascii (true, false,
+    true, false, false, true, true, false)), (String ((Ascii (false, false,
+    false, false, true, false, true, false)), (String ((Ascii (true, false,
+    true, false, true, false, true, false)), EmptyString)))))))))))))),
+    (block ((SIf ((CByte (Npos (XO (XO (XI (XO (XI (XO XH)))))))),
+      (block ((SFound (KeywordEnd, Z0)) :: ((SPush
+        st_stateExpectKeyword) :: ((SSetStep
+        st_stateParameterOrAnnotation) :: (SRetNil :: []))))),
+      (block ((SRetErr ((String ((Ascii (true, false, false, true, false,
+        true, true, false)), (String ((Ascii (false, true, true, true, false,
+        true, true, false)), (String ((Ascii (false, false, false, false,
+        false, true, false, false)), (String ((Ascii (true, true, false,
+        true, false, true, true, false)), (String ((Ascii (true, false, true,
+        false, false, true, true, false)), (String ((Ascii (true, false,
+        false, true, true, true, true, false)), (String ((Ascii (true, true,
+        true, false, true, true, true, false)), (String ((Ascii (true, true,
+        true, true, false, true, true, false)), (String ((Ascii (false, true,
+        false, false, true, true, true, false)), (String ((Ascii (false,
+        false, true, false, false, true, true, false)), (String ((Ascii
+        (false, false, false, false, false, true, false, false)), (String
+        ((Ascii (false, false, false, false, true, false, true, false)),
+        (String ((Ascii (true, false, true, false, true, false, true,
+        false)), (String ((Ascii (false, false, true, false, true, false,
+        true, false)), EmptyString)))))))))))))))))))))))))))), (String
+        ((Ascii (false, false, true, false, true, false, true, false)),
+        EmptyString)))) :: [])))) :: []))) :: (((String ((Ascii (true, true,
+    false, false, true, true, true, false)), (String ((Ascii (false, false,
+    true, false, true, true, true, false)), (String ((Ascii (true, false,
+    false, false, false, true, true, false)), (String ((Ascii (false, false,
+    true, false, true, true, true, false)), (String ((Ascii (true, false,
+    true, false, false, true, true, false)), (String ((Ascii (false, false,
+    false, false, true, false, true, false)), (String ((Ascii (true, false,
+    false, false, false, true, true, false)), EmptyString)))))))))))))),
+    (block ((SIf ((CByte (Npos (XO (XO (XI (XO (XI (XI XH)))))))),
+      (block ((SSetStep st_statePat) :: (SRetNil :: []))),
+      (block ((SIf ((CByte (Npos (XO (XI (XO (XO (XI (XI XH)))))))),
+        (block ((SSetStep st_statePar) :: (SRetNil :: []))),
+        (block ((SRetErr ((String ((Ascii (true, false, false, true, false,
+          true, true, false)), (String ((Ascii (false, true, true, true,
+          false, true, true, false)), (String ((Ascii (false, false, false,
+          false, false, true, false, false)), (String ((Ascii (false, false,
+          true, false, false, true, true, false)), (String ((Ascii (true,
+          false, false, true, false, true, true, false)), (String ((Ascii
+          (false, true, false, false, true, true, true, false)), (String
+          ((Ascii (true, false, true, false, false, true, true, false)),
+          (String ((Ascii (true, true, false, false, false, true, true,
+          false)), (String ((Ascii (false, false, true, false, true, true,
+          true, false)), (String ((Ascii (true, false, false, true, false,
+          true, true, false)), (String ((Ascii (false, true, true, false,
+          true, true, true, false)), (String ((Ascii (true, false, true,
+          false, false, true, true, false)), (String ((Ascii (false, false,
+          false, false, false, true, false, false)), (String ((Ascii (false,
+          true, true, true, false, true, true, false)), (String ((Ascii
+          (true, false, false, false, false, true, true, false)), (String
+          ((Ascii (true, false, true, true, false, true, true, false)),
+          (String ((Ascii (true, false, true, false, false, true, true,
+          false)), EmptyString)))))))))))))))))))))))))))))))))),
+          EmptyString)) :: [])))) :: [])))) :: []))) :: (((String ((Ascii
+    (true, true, false, false, true, true, true, false)), (String ((Ascii
+    (false, false, true, false, true, true, true, false)), (String ((Ascii
+    (true, false, false, false, false, true, true, false)), (String ((Ascii
+    (false, false, true, false, true, true, true, false)), (String ((Ascii
+    (true, false, true, false, false, true, true, false)), (String ((Ascii
+    (false, false, false, false, true, false, true, false)), (String ((Ascii
+    (true, false, false, false, false, true, true, false)), (String ((Ascii
+    (false, true, false, false, true, true, true, false)),
+    EmptyString)))))))))))))))),
+    (block ((SIf ((CByte (Npos (XI (XO (XO (XO (XO (XI XH)))))))),
+      (block ((SSetStep st_statePara) :: (SRetNil :: []))),
+      (block ((SRetErr ((String ((Ascii (true, false, false, true, false,
+        true, true, false)), (String ((Ascii (false, true, true, true, false,
+        true, true, false)), (String ((Ascii (false, false, false, false,
+        false, true, false, false)), (String ((Ascii (true, true, false,
+        true, false, true, true, false)), (String ((Ascii (true, false, true,
+        false, false, true, true, false)), (String ((Ascii (true, false,
+        false, true, true, true, true, false)), (String ((Ascii (true, true,
+        true, false, true, true, true, false)), (String ((Ascii (true, true,
+        true, true, false, true, true, false)), (String ((Ascii (false, true,
+        false, false, true, true, true, false)), (String ((Ascii (false,
+        false, true, false, false, true, true, false)), (String ((Ascii
+        (false, false, false, false, false, true, false, false)), (String
+        ((Ascii (false, false, false, false, true, false, true, false)),
+        (String ((Ascii (true, false, false, false, false, true, true,
+        false)), (String ((Ascii (false, true, false, false, true, true,
+        true, false)), (String ((Ascii (true, false, false, false, false,
+        true, true, false)), (String ((Ascii (true, false, true, true, false,
+        true, true, false)), (String ((Ascii (true, true, false, false, true,
+        true, true, false)), EmptyString)))))))))))))))))))))))))))))))))),
+        (String ((Ascii (true, false, false, false, false, true, true,
+        false)), EmptyString)))) :: [])))) :: []))) :: (((String ((Ascii
+    (true, true, false, false, true, true, true, false)), (String ((Ascii
+    (false, false, true, false, true, true, true, false)), (String ((Ascii
+    (true, false, false, false, false, true, true, false)), (String ((Ascii
+    (false, false, true, false, true, true, true, false)), (String ((Ascii
+    (true, false, true, false, false, true, true, false)), (String ((Ascii
+    (false, false, false, false, true, false, true, false)), (String ((Ascii
+    (true, false, false, false, false, true, true, false)), (String ((Ascii
+    (false, true, false, false, true, true, true, false)), (String ((Ascii
+    (true, false, false, false, false, true, true, false)),
+    EmptyString)))))))))))))))))),
+    (block ((SIf ((CByte (Npos (XI (XO (XI (XI (XO (XI XH)))))))),
+      (block ((SSetStep st_stateParam) :: (SRetNil :: []))),
+      (block ((SRetErr ((String ((Ascii (true, false, false, true, false,
+        true, true, false)), (String ((Ascii (false, true, true, true, false,
+        true, true, false)), (String ((Ascii (false, false, false, false,
+        false, true, false, false)), (String ((Ascii (true, true, false,
+        true, false, true, true, false)), (String ((Ascii (true, false, true,
+        false, false, true, true, false)), (String ((Ascii (true, false,
+        false, true, true, true, true, false)), (String ((Ascii (true, true,
+        true, false, true, true, true, false)), (String ((Ascii (true, true,
+        true, true, false, true, true, false)), (String ((Ascii (false, true,
+        false, false, true, true, true, false)), (String ((Ascii (false,
+        false, true, false, false, true, true, false)), (String ((Ascii
+        (false, false, false, false, false, true, false, false)), (String
+        ((Ascii (false, false, false, false, true, false, true, false)),
+        (String ((Ascii (true, false, false, false, false, true, true,
+        false)), (String ((Ascii (false, true, false, false, true, true,
+        true, false)), (String ((Ascii (true, false, false, false, false,
+        true, true, false)), (String ((Ascii (true, false, true, true, false,
+        true, true, false)), (String ((Ascii (true, true, false, false, true,
+        true, true, false)), EmptyString)))))))))))))))))))))))))))))))))),
+        (String ((Ascii (true, false, true, true, false, true, true, false)),
+        EmptyString)))) :: [])))) :: []))) :: (((String ((Ascii (true, true,
     false, false, true, true, true, false)), (String ((Ascii (false, false,
     true, false, true, true, true, false)), (String ((Ascii (true, false,
     false, false, false, true, true, false)), (String ((Ascii (false, false,
@@ -6203,263 +6574,218 @@ let prog_table =
     true, false, false, true, true, false)), (String ((Ascii (false, false,
     false, false, true, false, true, false)), (String ((Ascii (true, false,
     false, false, false, true, true, false)), (String ((Ascii (false, true,
-    false, false, true, true, true, false)), EmptyString)))))))))))))))),
-    ((SIf ((CByte (Npos (XI (XO (XO (XO (XO (XI XH)))))))), ((SSetStep
-    st_statePara) :: (SRetNil :: [])), ((SRetErr ((String ((Ascii (true,
-    false, false, true, false, true, true, false)), (String ((Ascii (false,
-    true, true, true, false, true, true, false)), (String ((Ascii (false,
-    false, false, false, false, true, false, false)), (String ((Ascii (true,
-    true, false, true, false, true, true, false)), (String ((Ascii (true,
-    false, true, false, false, true, true, false)), (String ((Ascii (true,
-    false, false, true, true, true, true, false)), (String ((Ascii (true,
-    true, true, false, true, true, true, false)), (String ((Ascii (true,
-    true, true, true, false, true, true, false)), (String ((Ascii (false,
-    true, false, false, true, true, true, false)), (String ((Ascii (false,
-    false, true, false, false, true, true, false)), (String ((Ascii (false,
-    false, false, false, false, true, false, false)), (String ((Ascii (false,
-    false, false, false, true, false, true, false)), (String ((Ascii (true,
-    false, false, false, false, true, true, false)), (String ((Ascii (false,
-    true, false, false, true, true, true, false)), (String ((Ascii (true,
-    false, false, false, false, true, true, false)), (String ((Ascii (true,
-    false, true, true, false, true, true, false)), (String ((Ascii (true,
-    true, false, false, true, true, true, false)),
-    EmptyString)))))))))))))))))))))))))))))))))), (String ((Ascii (true,
-    false, false, false, false, true, true, false)),
-    EmptyString)))) :: []))) :: [])) :: (((String ((Ascii (true, true, false,
-    false, true, true, true, false)), (String ((Ascii (false, false, true,
-    false, true, true, true, false)), (String ((Ascii (true, false, false,
-    false, false, true, true, false)), (String ((Ascii (false, false, true,
-    false, true, true, true, false)), (String ((Ascii (true, false, true,
-    false, false, true, true, false)), (String ((Ascii (false, false, false,
-    false, true, false, true, false)), (String ((Ascii (true, false, false,
-    false, false, true, true, false)), (String ((Ascii (false, true, false,
-    false, true, true, true, false)), (String ((Ascii (true, false, false,
-    false, false, true, true, false)), EmptyString)))))))))))))))))), ((SIf
-    ((CByte (Npos (XI (XO (XI (XI (XO (XI XH)))))))), ((SSetStep
-    st_stateParam) :: (SRetNil :: [])), ((SRetErr ((String ((Ascii (true,
-    false, false, true, false, true, true, false)), (String ((Ascii (false,
-    true, true, true, false, true, true, false)), (String ((Ascii (false,
-    false, false, false, false, true, false, false)), (String ((Ascii (true,
-    true, false, true, false, true, true, false)), (String ((Ascii (true,
-    false, true, false, false, true, true, false)), (String ((Ascii (true,
-    false, false, true, true, true, true, false)), (String ((Ascii (true,
-    true, true, false, true, true, true, false)), (String ((Ascii (true,
-    true, true, true, false, true, true, false)), (String ((Ascii (false,
-    true, false, false, true, true, true, false)), (String ((Ascii (false,
-    false, true, false, false, true, true, false)), (String ((Ascii (false,
-    false, false, false, false, true, false, false)), (String ((Ascii (false,
-    false, false, false, true, false, true, false)), (String ((Ascii (true,
-    false, false, false, false, true, true, false)), (String ((Ascii (false,
-    true, false, false, true, true, true, false)), (String ((Ascii (true,
-    false, false, false, false, true, true, false)), (String ((Ascii (true,
-    false, true, true, false, true, true, false)), (String ((Ascii (true,
-    true, false, false, true, true, true, false)),
-    EmptyString)))))))))))))))))))))))))))))))))), (String ((Ascii (true,
-    false, true, true, false, true, true, false)),
-    EmptyString)))) :: []))) :: [])) :: (((String ((Ascii (true, true, false,
-    false, true, true, true, false)), (String ((Ascii (false, false, true,
-    false, true, true, true, false)), (String ((Ascii (true, false, false,
-    false, false, true, true, false)), (String ((Ascii (false, false, true,
-    false, true, true, true, false)), (String ((Ascii (true, false, true,
-    false, false, true, true, false)), (String ((Ascii (false, false, false,
-    false, true, false, true, false)), (String ((Ascii (true, false, false,
-    false, false, true, true, false)), (String ((Ascii (false, true, false,
-    false, true, true, true, false)), (String ((Ascii (true, false, false,
-    false, false, true, true, false)), (String ((Ascii (true, false, true,
-    true, false, true, true, false)), EmptyString)))))))))))))))))))), ((SIf
-    ((CByte (Npos (XI (XI (XO (XO (XI (XI XH)))))))), ((SFound (KeywordEnd,
-    Z0)) :: ((SPush st_stateParamsBody) :: ((SSetStep
-    st_stateParameterOrAnnotation) :: (SRetNil :: [])))), ((SRetErr ((String
-    ((Ascii (true, false, false, true, false, true, true, false)), (String
-    ((Ascii (false, true, true, true, false, true, true, false)), (String
-    ((Ascii (false, false, false, false, false, true, false, false)), (String
-    ((Ascii (true, true, false, true, false, true, true, false)), (String
+    false, false, true, true, true, false)), (String ((Ascii (true, false,
+    false, false, false, true, true, false)), (String ((Ascii (true, false,
+    true, true, false, true, true, false)), EmptyString)))))))))))))))))))),
+    (block ((SIf ((CByte (Npos (XI (XI (XO (XO (XI (XI XH)))))))),
+      (block ((SFound (KeywordEnd, Z0)) :: ((SPush
+        st_stateParamsBody) :: ((SSetStep
+        st_stateParameterOrAnnotation) :: (SRetNil :: []))))),
+      (block ((SRetErr ((String ((Ascii (true, false, false, true, false,
+        true, true, false)), (String ((Ascii (false, true, true, true, false,
+        true, true, false)), (String ((Ascii (false, false, false, false,
+        false, true, false, false)), (String ((Ascii (true, true, false,
+        true, false, true, true, false)), (String ((Ascii (true, false, true,
+        false, false, true, true, false)), (String ((Ascii (true, false,
+        false, true, true, true, true, false)), (String ((Ascii (true, true,
+        true, false, true, true, true, false)), (String ((Ascii (true, true,
+        true, true, false, true, true, false)), (String ((Ascii (false, true,
+        false, false, true, true, true, false)), (String ((Ascii (false,
+        false, true, false, false, true, true, false)), (String ((Ascii
+        (false, false, false, false, false, true, false, false)), (String
+        ((Ascii (false, false, false, false, true, false, true, false)),
+        (String ((Ascii (true, false, false, false, false, true, true,
+        false)), (String ((Ascii (false, true, false, false, true, true,
+        true, false)), (String ((Ascii (true, false, false, false, false,
+        true, true, false)), (String ((Ascii (true, false, true, true, false,
+        true, true, false)), (String ((Ascii (true, true, false, false, true,
+        true, true, false)), EmptyString)))))))))))))))))))))))))))))))))),
+        (String ((Ascii (true, true, false, false, true, true, true, false)),
+        EmptyString)))) :: [])))) :: []))) :: (((String ((Ascii (true, true,
+    false, false, true, true, true, false)), (String ((Ascii (false, false,
+    true, false, true, true, true, false)), (String ((Ascii (true, false,
+    false, false, false, true, true, false)), (String ((Ascii (false, false,
+    true, false, true, true, true, false)), (String ((Ascii (true, false,
+    true, false, false, true, true, false)), (String ((Ascii (false, false,
+    false, false, true, false, true, false)), (String ((Ascii (true, false,
+    false, false, false, true, true, false)), (String ((Ascii (false, true,
+    false, false, true, true, true, false)), (String ((Ascii (true, false,
+    false, false, false, true, true, false)), (String ((Ascii (true, false,
+    true, true, false, true, true, false)), (String ((Ascii (true, false,
+    true, false, false, true, true, false)), (String ((Ascii (false, false,
+    true, false, true, true, true, false)), (String ((Ascii (true, false,
+    true, false, false, true, true, false)), (String ((Ascii (false, true,
+    false, false, true, true, true, false)), (String ((Ascii (true, false,
+    false, true, false, false, true, false)), (String ((Ascii (false, true,
+    true, true, false, true, true, false)), (String ((Ascii (true, false,
+    false, false, true, false, true, false)), (String ((Ascii (true, false,
+    true, false, true, true, true, false)), (String ((Ascii (true, true,
+    true, true, false, true, true, false)), (String ((Ascii (false, false,
+    true, false, true, true, true, false)), (String ((Ascii (true, false,
+    true, false, false, true, true, false)), (String ((Ascii (false, false,
+    true, false, false, true, true, false)),
+    EmptyString)))))))))))))))))))))))))))))))))))))))))))),
+    (block ((SIf ((COr (CNewLine, (CByte N0))),
+      (block ((SRetErr ((String ((Ascii (true, false, false, true, false,
+        true, true, false)), (String ((Ascii (false, true, true, true, false,
+        true, true, false)), (String ((Ascii (false, false, false, false,
+        false, true, false, false)), (String ((Ascii (false, false, true,
+        false, false, true, true, false)), (String ((Ascii (true, false,
+        false, true, false, true, true, false)), (String ((Ascii (false,
+        true, false, false, true, true, true, false)), (String ((Ascii (true,
+        false, true, false, false, true, true, false)), (String ((Ascii
+        (true, true, false, false, false, true, true, false)), (String
+        ((Ascii (false, false, true, false, true, true, true, false)),
+        (String ((Ascii (true, false, false, true, false, true, true,
+        false)), (String ((Ascii (false, true, true, false, true, true, true,
+        false)), (String ((Ascii (true, false, true, false, false, true,
+        true, false)), (String ((Ascii (false, false, false, false, false,
+        true, false, false)), (String ((Ascii (false, false, false, false,
+        true, true, true, false)), (String ((Ascii (true, false, false,
+        false, false, true, true, false)), (String ((Ascii (false, true,
+        false, false, true, true, true, false)), (String ((Ascii (true,
+        false, false, false, false, true, true, false)), (String ((Ascii
+        (true, false, true, true, false, true, true, false)), (String ((Ascii
+        (true, false, true, false, false, true, true, false)), (String
+        ((Ascii (false, false, true, false, true, true, true, false)),
+        (String ((Ascii (true, false, true, false, false, true, true,
+        false)), (String ((Ascii (false, true, false, false, true, true,
+        true, false)),
+        EmptyString)))))))))))))))))))))))))))))))))))))))))))), (String
+        ((Ascii (true, true, false, false, false, true, true, false)),
+        (String ((Ascii (false, false, true, true, false, true, true,
+        false)), (String ((Ascii (true, true, true, true, false, true, true,
+        false)), (String ((Ascii (true, true, false, false, true, true, true,
+        false)), (String ((Ascii (true, false, false, true, false, true,
+        true, false)), (String ((Ascii (false, true, true, true, false, true,
+        true, false)), (String ((Ascii (true, true, true, false, false, true,
+        true, false)), (String ((Ascii (false, false, false, false, false,
+        true, false, false)), (String ((Ascii (true, false, false, false,
+        true, true, true, false)), (String ((Ascii (true, false, true, false,
+        true, true, true, false)), (String ((Ascii (true, true, true, true,
+        false, true, true, false)), (String ((Ascii (false, false, true,
+        false, true, true, true, false)), (String ((Ascii (true, false,
+        false, false, false, true, true, false)), (String ((Ascii (false,
+        false, true, false, true, true, true, false)), (String ((Ascii (true,
+        false, false, true, false, true, true, false)), (String ((Ascii
+        (true, true, true, true, false, true, true, false)), (String ((Ascii
+        (false, true, true, true, false, true, true, false)), (String ((Ascii
+        (false, false, false, false, false, true, false, false)), (String
+        ((Ascii (true, false, true, true, false, true, true, false)), (String
+        ((Ascii (true, false, false, false, false, true, true, false)),
+        (String ((Ascii (false, true, false, false, true, true, true,
+        false)), (String ((Ascii (true, true, false, true, false, true, true,
+        false)),
+        EmptyString)))))))))))))))))))))))))))))))))))))))))))))) :: [])),
+      (block ((SIf ((CByte (Npos (XO (XO (XI (XI (XI (XO XH)))))))),
+        (block ((SSetStep st_stateParameterInQuotedSlash) :: [])),
+        (block ((SIf ((CByte (Npos (XO (XI (XO (XO (XO XH))))))),
+          (block ((SFound (ParameterEnd, Z0)) :: ((SSetStep
+            st_stateParameterOrAnnotation) :: []))), SSkip)) :: [])))) :: [])))) :: (SRetNil :: [])))) :: (((String
+    ((Ascii (true, true, false, false, true, true, true, false)), (String
+    ((Ascii (false, false, true, false, true, true, true, false)), (String
+    ((Ascii (true, false, false, false, false, true, true, false)), (String
+    ((Ascii (false, false, true, false, true, true, true, false)), (String
     ((Ascii (true, false, true, false, false, true, true, false)), (String
-    ((Ascii (true, false, false, true, true, true, true, false)), (String
-    ((Ascii (true, true, true, false, true, true, true, false)), (String
-    ((Ascii (true, true, true, true, false, true, true, false)), (String
-    ((Ascii (false, true, false, false, true, true, true, false)), (String
-    ((Ascii (false, false, true, false, false, true, true, false)), (String
-    ((Ascii (false, false, false, false, false, true, false, false)), (String
     ((Ascii (false, false, false, false, true, false, true, false)), (String
     ((Ascii (true, false, false, false, false, true, true, false)), (String
     ((Ascii (false, true, false, false, true, true, true, false)), (String
     ((Ascii (true, false, false, false, false, true, true, false)), (String
     ((Ascii (true, false, true, true, false, true, true, false)), (String
-    ((Ascii (true, true, false, false, true, true, true, false)),
-    EmptyString)))))))))))))))))))))))))))))))))), (String ((Ascii (true,
-    true, false, false, true, true, true, false)),
-    EmptyString)))) :: []))) :: [])) :: (((String ((Ascii (true, true, false,
-    false, true, true, true, false)), (String ((Ascii (false, false, true,
-    false, true, true, true, false)), (String ((Ascii (true, false, false,
-    false, false, true, true, false)), (String ((Ascii (false, false, true,
-    false, true, true, true, false)), (String ((Ascii (true, false, true,
-    false, false, true, true, false)), (String ((Ascii (false, false, false,
-    false, true, false, true, false)), (String ((Ascii (true, false, false,
-    false, false, true, true, false)), (String ((Ascii (false, true, false,
-    false, true, true, true, false)), (String ((Ascii (true, false, false,
-    false, false, true, true, false)), (String ((Ascii (true, false, true,
-    true, false, true, true, false)), (String ((Ascii (true, false, true,
-    false, false, true, true, false)), (String ((Ascii (false, false, true,
-    false, true, true, true, false)), (String ((Ascii (true, false, true,
-    false, false, true, true, false)), (String ((Ascii (false, true, false,
-    false, true, true, true, false)), (String ((Ascii (true, false, false,
-    true, false, false, true, false)), (String ((Ascii (false, true, true,
-    true, false, true, true, false)), (String ((Ascii (true, false, false,
-    false, true, false, true, false)), (String ((Ascii (true, false, true,
-    false, true, true, true, false)), (String ((Ascii (true, true, true,
-    true, false, true, true, false)), (String ((Ascii (false, false, true,
-    false, true, true, true, false)), (String ((Ascii (true, false, true,
-    false, false, true, true, false)), (String ((Ascii (false, false, true,
-    false, false, true, true, false)),
-    EmptyString)))))))))))))))))))))))))))))))))))))))))))), ((SIf ((COr
-    (CNewLine, (CByte N0))), ((SRetErr ((String ((Ascii (true, false, false,
-    true, false, true, true, false)), (String ((Ascii (false, true, true,
-    true, false, true, true, false)), (String ((Ascii (false, false, false,
-    false, false, true, false, false)), (String ((Ascii (false, false, true,
-    false, false, true, true, false)), (String ((Ascii (true, false, false,
-    true, false, true, true, false)), (String ((Ascii (false, true, false,
-    false, true, true, true, false)), (String ((Ascii (true, false, true,
-    false, false, true, true, false)), (String ((Ascii (true, true, false,
-    false, false, true, true, false)), (String ((Ascii (false, false, true,
-    false, true, true, true, false)), (String ((Ascii (true, false, false,
-    true, false, true, true, false)), (String ((Ascii (false, true, true,
-    false, true, true, true, false)), (String ((Ascii (true, false, true,
-    false, false, true, true, false)), (String ((Ascii (false, false, false,
-    false, false, true, false, false)), (String ((Ascii (false, false, false,
-    false, true, true, true, false)), (String ((Ascii (true, false, false,
-    false, false, true, true, false)), (String ((Ascii (false, true, false,
-    false, true, true, true, false)), (String ((Ascii (true, false, false,
-    false, false, true, true, false)), (String ((Ascii (true, false, true,
-    true, false, true, true, false)), (String ((Ascii (true, false, true,
-    false, false, true, true, false)), (String ((Ascii (false, false, true,
-    false, true, true, true, false)), (String ((Ascii (true, false, true,
-    false, false, true, true, false)), (String ((Ascii (false, true, false,
-    false, true, true, true, false)),
-    EmptyString)))))))))))))))))))))))))))))))))))))))))))), (String ((Ascii
-    (true, true, false, false, false, true, true, false)), (String ((Ascii
-    (false, false, true, true, false, true, true, false)), (String ((Ascii
-    (true, true, true, true, false, true, true, false)), (String ((Ascii
-    (true, true, false, false, true, true, true, false)), (String ((Ascii
-    (true, false, false, true, false, true, true, false)), (String ((Ascii
-    (false, true, true, true, false, true, true, false)), (String ((Ascii
-    (true, true, true, false, false, true, true, false)), (String ((Ascii
-    (false, false, false, false, false, true, false, false)), (String ((Ascii
-    (true, false, false, false, true, true, true, false)), (String ((Ascii
-    (true, false, true, false, true, true, true, false)), (String ((Ascii
-    (true, true, true, true, false, true, true, false)), (String ((Ascii
-    (false, false, true, false, true, true, true, false)), (String ((Ascii
-    (true, false, false, false, false, true, true, false)), (String ((Ascii
-    (false, false, true, false, true, true, true, false)), (String ((Ascii
-    (true, false, false, true, false, true, true, false)), (String ((Ascii
-    (true, true, true, true, false, true, true, false)), (String ((Ascii
-    (false, true, true, true, false, true, true, false)), (String ((Ascii
-    (false, false, false, false, false, true, false, false)), (String ((Ascii
-    (true, false, true, true, false, true, true, false)), (String ((Ascii
-    (true, false, false, false, false, true, true, false)), (String ((Ascii
-    (false, true, false, false, true, true, true, false)), (String ((Ascii
-    (true, true, false, true, false, true, true, false)),
-    EmptyString)))))))))))))))))))))))))))))))))))))))))))))) :: []), ((SIf
-    ((CByte (Npos (XO (XO (XI (XI (XI (XO XH)))))))), ((SSetStep
-    st_stateParameterInQuotedSlash) :: []), ((SIf ((CByte (Npos (XO (XI (XO
-    (XO (XO XH))))))), ((SFound (ParameterEnd, Z0)) :: ((SSetStep
-    st_stateParameterOrAnnotation) :: [])),
-    [])) :: []))) :: []))) :: (SRetNil :: []))) :: (((String ((Ascii (true,
-    true, false, false, true, true, true, false)), (String ((Ascii (false,
-    false, true, false, true, true, true, false)), (String ((Ascii (true,
-    false, false, false, false, true, true, false)), (String ((Ascii (false,
-    false, true, false, true, true, true, false)), (String ((Ascii (true,
-    false, true, false, false, true, true, false)), (String ((Ascii (false,
-    false, false, false, true, false, true, false)), (String ((Ascii (true,
-    false, false, false, false, true, true, false)), (String ((Ascii (false,
-    true, false, false, true, true, true, false)), (String ((Ascii (true,
-    false, false, false, false, true, true, false)), (String ((Ascii (true,
-    false, true, true, false, true, true, false)), (String ((Ascii (true,
-    false, true, false, false, true, true, false)), (String ((Ascii (false,
-    false, true, false, true, true, true, false)), (String ((Ascii (true,
-    false, true, false, false, true, true, false)), (String ((Ascii (false,
-    true, false, false, true, true, true, false)), (String ((Ascii (true,
-    false, false, true, false, false, true, false)), (String ((Ascii (false,
-    true, true, true, false, true, true, false)), (String ((Ascii (true,
-    false, false, false, true, false, true, false)), (String ((Ascii (true,
-    false, true, false, true, true, true, false)), (String ((Ascii (true,
-    true, true, true, false, true, true, false)), (String ((Ascii (false,
-    false, true, false, true, true, true, false)), (String ((Ascii (true,
-    false, true, false, false, true, true, false)), (String ((Ascii (false,
-    false, true, false, false, true, true, false)), (String ((Ascii (true,
-    true, false, false, true, false, true, false)), (String ((Ascii (false,
-    false, true, true, false, true, true, false)), (String ((Ascii (true,
-    false, false, false, false, true, true, false)), (String ((Ascii (true,
-    true, false, false, true, true, true, false)), (String ((Ascii (false,
-    false, false, true, false, true, true, false)),
-    EmptyString)))))))))))))))))))))))))))))))))))))))))))))))))))))), ((SIf
-    ((CByte (Npos (XO (XO (XI (XI (XI (XO XH)))))))), ((SSetStep
-    st_stateParameterInQuoted) :: []), ((SIf ((CByte (Npos (XO (XI (XO (XO
-    (XO XH))))))), ((SSetStep st_stateParameterInQuoted) :: []), ((SRetErr
-    ((String ((Ascii (true, true, true, false, true, true, true, false)),
-    (String ((Ascii (false, false, false, true, false, true, true, false)),
-    (String ((Ascii (true, false, true, false, false, true, true, false)),
-    (String ((Ascii (false, true, true, true, false, true, true, false)),
-    (String ((Ascii (false, false, false, false, false, true, false, false)),
-    (String ((Ascii (true, false, true, false, false, true, true, false)),
-    (String ((Ascii (true, true, false, false, true, true, true, false)),
-    (String ((Ascii (true, true, false, false, false, true, true, false)),
-    (String ((Ascii (true, false, false, false, false, true, true, false)),
-    (String ((Ascii (false, false, false, false, true, true, true, false)),
-    (String ((Ascii (true, false, false, true, false, true, true, false)),
-    (String ((Ascii (false, true, true, true, false, true, true, false)),
-    (String ((Ascii (true, true, true, false, false, true, true, false)),
-    (String ((Ascii (false, false, false, false, false, true, false, false)),
-    (String ((Ascii (true, true, false, false, false, true, true, false)),
-    (String ((Ascii (false, false, false, true, false, true, true, false)),
-    (String ((Ascii (true, false, false, false, false, true, true, false)),
-    (String ((Ascii (false, true, false, false, true, true, true, false)),
-    (String ((Ascii (true, false, false, false, false, true, true, false)),
-    (String ((Ascii (true, true, false, false, false, true, true, false)),
-    (String ((Ascii (false, false, true, false, true, true, true, false)),
-    (String ((Ascii (true, false, true, false, false, true, true, false)),
-    (String ((Ascii (false, true, false, false, true, true, true, false)),
-    (String ((Ascii (true, true, false, false, true, true, true, false)),
-    (String ((Ascii (false, false, false, false, false, true, false, false)),
-    (String ((Ascii (true, false, false, true, false, true, true, false)),
-    (String ((Ascii (false, true, true, true, false, true, true, false)),
-    (String ((Ascii (false, false, false, false, false, true, false, false)),
-    (String ((Ascii (false, false, false, false, true, true, true, false)),
-    (String ((Ascii (true, false, false, false, false, true, true, false)),
-    (String ((Ascii (false, true, false, false, true, true, true, false)),
-    (String ((Ascii (true, false, false, false, false, true, true, false)),
-    (String ((Ascii (true, false, true, true, false, true, true, false)),
-    (String ((Ascii (true, false, true, false, false, true, true, false)),
-    (String ((Ascii (false, false, true, false, true, true, true, false)),
-    (String ((Ascii (true, false, true, false, false, true, true, false)),
-    (String ((Ascii (false, true, false, false, true, true, true, false)),
-    (String ((Ascii (true, true, false, false, true, true, true, false)),
-    EmptyString)))))))))))))))))))))))))))))))))))))))))))))))))))))))))))))))))))))))))))),
-    (String ((Ascii (true, false, false, false, true, true, true, false)),
-    (String ((Ascii (true, false, true, false, true, true, true, false)),
-    (String ((Ascii (true, true, true, true, false, true, true, false)),
-    (String ((Ascii (false, false, true, false, true, true, true, false)),
-    (String ((Ascii (true, false, false, false, false, true, true, false)),
-    (String ((Ascii (false, false, true, false, true, true, true, false)),
-    (String ((Ascii (true, false, false, true, false, true, true, false)),
-    (String ((Ascii (true, true, true, true, false, true, true, false)),
-    (String ((Ascii (false, true, true, true, false, true, true, false)),
-    (String ((Ascii (false, false, false, false, false, true, false, false)),
-    (String ((Ascii (true, false, true, true, false, true, true, false)),
-    (String ((Ascii (true, false, false, false, false, true, true, false)),
-    (String ((Ascii (false, true, false, false, true, true, true, false)),
-    (String ((Ascii (true, true, false, true, false, true, true, false)),
-    (String ((Ascii (true, true, false, false, true, true, true, false)),
-    (String ((Ascii (false, false, false, false, false, true, false, false)),
-    (String ((Ascii (true, true, true, true, false, true, true, false)),
-    (String ((Ascii (false, true, false, false, true, true, true, false)),
-    (String ((Ascii (false, false, false, false, false, true, false, false)),
-    (String ((Ascii (true, true, false, false, true, true, true, false)),
-    (String ((Ascii (false, false, true, true, false, true, true, false)),
-    (String ((Ascii (true, false, false, false, false, true, true, false)),
-    (String ((Ascii (true, true, false, false, true, true, true, false)),
-    (String ((Ascii (false, false, false, true, false, true, true, false)),
-    EmptyString)))))))))))))))))))))))))))))))))))))))))))))))))) :: []))) :: []))) :: (SRetNil :: []))) :: (((String
+    ((Ascii (true, false, true, false, false, true, true, false)), (String
+    ((Ascii (false, false, true, false, true, true, true, false)), (String
+    ((Ascii (true, false, true, false, false, true, true, false)), (String
+    ((Ascii (false, true, false, false, true, true, true, false)), (String
+    ((Ascii (true, false, false, true, false, false, true, false)), (String
+    ((Ascii (false, true, true, true, false, true, true, false)), (String
+    ((Ascii (true, false, false, false, true, false, true, false)), (String
+    ((Ascii (true, false, true, false, true, true, true, false)), (String
+    ((Ascii (true, true, true, true, false, true, true, false)), (String
+    ((Ascii (false, false, true, false, true, true, true, false)), (String
+    ((Ascii (true, false, true, false, false, true, true, false)), (String
+    ((Ascii (false, false, true, false, false, true, true, false)), (String
+    ((Ascii (true, true, false, false, true, false, true, false)), (String
+    ((Ascii (false, false, true, true, false, true, true, false)), (String
+    ((Ascii (true, false, false, false, false, true, true, false)), (String
+    ((Ascii (true, true, false, false, true, true, true, false)), (String
+    ((Ascii (false, false, false, true, false, true, true, false)),
+    EmptyString)))))))))))))))))))))))))))))))))))))))))))))))))))))),
+    (block ((SIf ((CByte (Npos (XO (XO (XI (XI (XI (XO XH)))))))),
+      (block ((SSetStep st_stateParameterInQuoted) :: [])),
+      (block ((SIf ((CByte (Npos (XO (XI (XO (XO (XO XH))))))),
+        (block ((SSetStep st_stateParameterInQuoted) :: [])),
+        (block ((SRetErr ((String ((Ascii (true, true, true, false, true,
+          true, true, false)), (String ((Ascii (false, false, false, true,
+          false, true, true, false)), (String ((Ascii (true, false, true,
+          false, false, true, true, false)), (String ((Ascii (false, true,
+          true, true, false, true, true, false)), (String ((Ascii (false,
+          false, false, false, false, true, false, false)), (String ((Ascii
+          (true, false, true, false, false, true, true, false)), (String
+          ((Ascii (true, true, false, false, true, true, true, false)),
+          (String ((Ascii (true, true, false, false, false, true, true,
+          false)), (String ((Ascii (true, false, false, false, false, true,
+          true, false)), (String ((Ascii (false, false, false, false, true,
+          true, true, false)), (String ((Ascii (true, false, false, true,
+          false, true, true, false)), (String ((Ascii (false, true, true,
+          true, false, true, true, false)), (String ((Ascii (true, true,
+          true, false, false, true, true, false)), (String ((Ascii (false,
+          false, false, false, false, true, false, false)), (String ((Ascii
+          (true, true, false, false, false, true, true, false)), (String
+          ((Ascii (false, false, false, true, false, true, true, false)),
+          (String ((Ascii (true, false, false, false, false, true, true,
+          false)), (String ((Ascii (false, true, false, false, true, true,
+          true, false)), (String ((Ascii (true, false, false, false, false,
+          true, true, false)), (String ((Ascii (true, true, false, false,
+          false, true, true, false)), (String ((Ascii (false, false, true,
+          false, true, true, true, false)), (String ((Ascii (true, false,
+          true, false, false, true, true, false)), (String ((Ascii (false,
+          true, false, false, true, true, true, false)), (String ((Ascii
+          (true, true, false, false, true, true, true, false)), (String
+          ((Ascii (false, false, false, false, false, true, false, false)),
+          (String ((Ascii (true, false, false, true, false, true, true,
+          false)), (String ((Ascii (false, true, true, true, false, true,
+          true, false)), (String ((Ascii (false, false, false, false, false,
+          true, false, false)), (String ((Ascii (false, false, false, false,
+          true, true, true, false)), (String ((Ascii (true, false, false,
+          false, false, true, true, false)), (String ((Ascii (false, true,
+          false, false, true, true, true, false)), (String ((Ascii (true,
+          false, false, false, false, true, true, false)), (String ((Ascii
+          (true, false, true, true, false, true, true, false)), (String
+          ((Ascii (true, false, true, false, false, true, true, false)),
+          (String ((Ascii (false, false, true, false, true, true, true,
+          false)), (String ((Ascii (true, false, true, false, false, true,
+          true, false)), (String ((Ascii (false, true, false, false, true,
+          true, true, false)), (String ((Ascii (true, true, false, false,
+          true, true, true, false)),
+          EmptyString)))))))))))))))))))))))))))))))))))))))))))))))))))))))))))))))))))))))))))),
+          (String ((Ascii (true, false, false, false, true, true, true,
+          false)), (String ((Ascii (true, false, true, false, true, true,
+          true, false)), (String ((Ascii (true, true, true, true, false,
+          true, true, false)), (String ((Ascii (false, false, true, false,
+          true, true, true, false)), (String ((Ascii (true, false, false,
+          false, false, true, true, false)), (String ((Ascii (false, false,
+          true, false, true, true, true, false)), (String ((Ascii (true,
+          false, false, true, false, true, true, false)), (String ((Ascii
+          (true, true, true, true, false, true, true, false)), (String
+          ((Ascii (false, true, true, true, false, true, true, false)),
+          (String ((Ascii (false, false, false, false, false, true, false,
+          false)), (String ((Ascii (true, false, true, true, false, true,
+          true, false)), (String ((Ascii (true, false, false, false, false,
+          true, true, false)), (String ((Ascii (false, true, false, false,
+          true, true, true, false)), (String ((Ascii (true, true, false,
+          true, false, true, true, false)), (String ((Ascii (true, true,
+          false, false, true, true, true, false)), (String ((Ascii (false,
+          false, false, false, false, true, false, false)), (String ((Ascii
+          (true, true, true, true, false, true, true, false)), (String
+          ((Ascii (false, true, false, false, true, true, true, false)),
+          (String ((Ascii (false, false, false, false, false, true, false,
+          false)), (String ((Ascii (true, true, false, false, true, true,
+          true, false)), (String ((Ascii (false, false, true, true, false,
+          true, true, false)), (String ((Ascii (true, false, false, false,
+          false, true, true, false)), (String ((Ascii (true, true, false,
+          false, true, true, true, false)), (String ((Ascii (false, false,
+          false, true, false, true, true, false)),
+          EmptyString)))))))))))))))))))))))))))))))))))))))))))))))))) :: [])))) :: [])))) :: (SRetNil :: [])))) :: (((String
     ((Ascii (true, true, false, false, true, true, true, false)), (String
     ((Ascii (false, false, true, false, true, true, true, false)), (String
     ((Ascii (true, false, false, false, false, true, true, false)), (String
@@ -6486,48 +6812,57 @@ let prog_table =
     ((Ascii (true, false, false, true, false, true, true, false)), (String
     ((Ascii (true, true, true, true, false, true, true, false)), (String
     ((Ascii (false, true, true, true, false, true, true, false)),
-    EmptyString)))))))))))))))))))))))))))))))))))))))))))))))))))), ((SIf
-    (CWhitespace, ((SSetStep
-    st_stateParameterOrAnnotationAfterFirstSpace) :: (SRetNil :: [])), ((SIf
-    ((CByte (Npos (XI (XI (XO (XO (XO XH))))))), (SPushCur :: ((SSetStep
-    st_stateCommentStarted) :: (SRetNil :: []))), ((SIf ((COr (CNewLine,
-    (CByte N0))), (SPop :: (SRetNil :: [])), ((SIf ((CByte (Npos (XI (XI (XI
-    (XI (XO XH))))))), ((SSetStep
-    st_stateAnnotationSign2) :: (SRetNil :: [])), ((SRetErr ((String ((Ascii
-    (true, false, false, false, false, true, true, false)), (String ((Ascii
-    (false, true, true, false, false, true, true, false)), (String ((Ascii
-    (false, false, true, false, true, true, true, false)), (String ((Ascii
-    (true, false, true, false, false, true, true, false)), (String ((Ascii
-    (false, true, false, false, true, true, true, false)), (String ((Ascii
-    (false, false, false, false, false, true, false, false)), (String ((Ascii
-    (false, false, true, false, false, true, true, false)), (String ((Ascii
-    (true, false, false, true, false, true, true, false)), (String ((Ascii
-    (false, true, false, false, true, true, true, false)), (String ((Ascii
-    (true, false, true, false, false, true, true, false)), (String ((Ascii
-    (true, true, false, false, false, true, true, false)), (String ((Ascii
-    (false, false, true, false, true, true, true, false)), (String ((Ascii
-    (true, false, false, true, false, true, true, false)), (String ((Ascii
-    (false, true, true, false, true, true, true, false)), (String ((Ascii
-    (true, false, true, false, false, true, true, false)), (String ((Ascii
-    (false, false, false, false, false, true, false, false)), (String ((Ascii
-    (true, true, false, true, false, true, true, false)), (String ((Ascii
-    (true, false, true, false, false, true, true, false)), (String ((Ascii
-    (true, false, false, true, true, true, true, false)), (String ((Ascii
-    (true, true, true, false, true, true, true, false)), (String ((Ascii
-    (true, true, true, true, false, true, true, false)), (String ((Ascii
-    (false, true, false, false, true, true, true, false)), (String ((Ascii
-    (false, false, true, false, false, true, true, false)),
-    EmptyString)))))))))))))))))))))))))))))))))))))))))))))), (String
-    ((Ascii (false, false, false, false, true, true, true, false)), (String
-    ((Ascii (true, false, false, false, false, true, true, false)), (String
-    ((Ascii (false, true, false, false, true, true, true, false)), (String
-    ((Ascii (true, false, false, false, false, true, true, false)), (String
-    ((Ascii (true, false, true, true, false, true, true, false)), (String
-    ((Ascii (true, false, true, false, false, true, true, false)), (String
-    ((Ascii (false, false, true, false, true, true, true, false)), (String
-    ((Ascii (true, false, true, false, false, true, true, false)), (String
-    ((Ascii (false, true, false, false, true, true, true, false)),
-    EmptyString)))))))))))))))))))) :: []))) :: []))) :: []))) :: []))) :: [])) :: (((String
+    EmptyString)))))))))))))))))))))))))))))))))))))))))))))))))))),
+    (block ((SIf (CWhitespace,
+      (block ((SSetStep
+        st_stateParameterOrAnnotationAfterFirstSpace) :: (SRetNil :: []))),
+      (block ((SIf ((CByte (Npos (XI (XI (XO (XO (XO XH))))))),
+        (block (SPushCur :: ((SSetStep
+          st_stateCommentStarted) :: (SRetNil :: [])))),
+        (block ((SIf ((COr (CNewLine, (CByte N0))),
+          (block (SPop :: (SRetNil :: []))),
+          (block ((SIf ((CByte (Npos (XI (XI (XI (XI (XO XH))))))),
+            (block ((SSetStep st_stateAnnotationSign2) :: (SRetNil :: []))),
+            (block ((SRetErr ((String ((Ascii (true, false, false, false,
+              false, true, true, false)), (String ((Ascii (false, true, true,
+              false, false, true, true, false)), (String ((Ascii (false,
+              false, true, false, true, true, true, false)), (String ((Ascii
+              (true, false, true, false, false, true, true, false)), (String
+              ((Ascii (false, true, false, false, true, true, true, false)),
+              (String ((Ascii (false, false, false, false, false, true,
+              false, false)), (String ((Ascii (false, false, true, false,
+              false, true, true, false)), (String ((Ascii (true, false,
+              false, true, false, true, true, false)), (String ((Ascii
+              (false, true, false, false, true, true, true, false)), (String
+              ((Ascii (true, false, true, false, false, true, true, false)),
+              (String ((Ascii (true, true, false, false, false, true, true,
+              false)), (String ((Ascii (false, false, true, false, true,
+              true, true, false)), (String ((Ascii (true, false, false, true,
+              false, true, true, false)), (String ((Ascii (false, true, true,
+              false, true, true, true, false)), (String ((Ascii (true, false,
+              true, false, false, true, true, false)), (String ((Ascii
+              (false, false, false, false, false, true, false, false)),
+              (String ((Ascii (true, true, false, true, false, true, true,
+              false)), (String ((Ascii (true, false, true, false, false,
+              true, true, false)), (String ((Ascii (true, false, false, true,
+              true, true, true, false)), (String ((Ascii (true, true, true,
+              false, true, true, true, false)), (String ((Ascii (true, true,
+              true, true, false, true, true, false)), (String ((Ascii (false,
+              true, false, false, true, true, true, false)), (String ((Ascii
+              (false, false, true, false, false, true, true, false)),
+              EmptyString)))))))))))))))))))))))))))))))))))))))))))))),
+              (String ((Ascii (false, false, false, false, true, true, true,
+              false)), (String ((Ascii (true, false, false, false, false,
+              true, true, false)), (String ((Ascii (false, true, false,
+              false, true, true, true, false)), (String ((Ascii (true, false,
+              false, false, false, true, true, false)), (String ((Ascii
+              (true, false, true, true, false, true, true, false)), (String
+              ((Ascii (true, false, true, false, false, true, true, false)),
+              (String ((Ascii (false, false, true, false, true, true, true,
+              false)), (String ((Ascii (true, false, true, false, false,
+              true, true, false)), (String ((Ascii (false, true, false,
+              false, true, true, true, false)),
+              EmptyString)))))))))))))))))))) :: [])))) :: [])))) :: [])))) :: [])))) :: []))) :: (((String
     ((Ascii (true, true, false, false, true, true, true, false)), (String
     ((Ascii (false, false, true, false, true, true, true, false)), (String
     ((Ascii (true, false, false, false, false, true, true, false)), (String
@@ -6570,14 +6905,16 @@ let prog_table =
     ((Ascii (true, true, false, false, false, true, true, false)), (String
     ((Ascii (true, false, true, false, false, true, true, false)),
     EmptyString)))))))))))))))))))))))))))))))))))))))))))))))))))))))))))))))))))))))))))))))))),
-    ((SIf (CWhitespace, (SRetNil :: []), ((SIf ((CByte (Npos (XI (XI (XO (XO
-    (XO XH))))))), (SPushCur :: ((SSetStep
-    st_stateCommentStarted) :: (SRetNil :: []))), ((SIf ((COr (CNewLine,
-    (CByte N0))), (SPop :: (SRetNil :: [])), ((SIf ((CByte (Npos (XI (XI (XI
-    (XI (XO XH))))))), ((SSetStep
-    st_stateAnnotationSign2) :: (SRetNil :: [])), ((SSetStep
-    st_stateParameterStart) :: ((SRetCall
-    st_stateParameterStart) :: [])))) :: []))) :: []))) :: []))) :: [])) :: (((String
+    (block ((SIf (CWhitespace, (block (SRetNil :: [])),
+      (block ((SIf ((CByte (Npos (XI (XI (XO (XO (XO XH))))))),
+        (block (SPushCur :: ((SSetStep
+          st_stateCommentStarted) :: (SRetNil :: [])))),
+        (block ((SIf ((COr (CNewLine, (CByte N0))),
+          (block (SPop :: (SRetNil :: []))),
+          (block ((SIf ((CByte (Npos (XI (XI (XI (XI (XO XH))))))),
+            (block ((SSetStep st_stateAnnotationSign2) :: (SRetNil :: []))),
+            (block ((SSetStep st_stateParameterStart) :: ((SRetCall
+              st_stateParameterStart) :: []))))) :: [])))) :: [])))) :: [])))) :: []))) :: (((String
     ((Ascii (true, true, false, false, true, true, true, false)), (String
     ((Ascii (false, false, true, false, true, true, true, false)), (String
     ((Ascii (true, false, false, false, false, true, true, false)), (String
@@ -6597,34 +6934,39 @@ let prog_table =
     ((Ascii (true, false, false, false, false, true, true, false)), (String
     ((Ascii (false, true, false, false, true, true, true, false)), (String
     ((Ascii (false, false, true, false, true, true, true, false)),
-    EmptyString)))))))))))))))))))))))))))))))))))))), ((SFound
-    (ParameterBegin, Z0)) :: ((SIf ((CByte (Npos (XO (XI (XO (XO (XO
-    XH))))))), ((SSetStep st_stateParameterInQuoted) :: []), ((SIf (CNewLine,
-    ((SRetErr ((String ((Ascii (true, false, false, true, false, true, true,
-    false)), (String ((Ascii (false, true, true, true, false, true, true,
-    false)), (String ((Ascii (false, false, false, false, false, true, false,
-    false)), (String ((Ascii (false, false, true, false, false, true, true,
-    false)), (String ((Ascii (true, false, false, true, false, true, true,
-    false)), (String ((Ascii (false, true, false, false, true, true, true,
-    false)), (String ((Ascii (true, false, true, false, false, true, true,
-    false)), (String ((Ascii (true, true, false, false, false, true, true,
-    false)), (String ((Ascii (false, false, true, false, true, true, true,
-    false)), (String ((Ascii (true, false, false, true, false, true, true,
-    false)), (String ((Ascii (false, true, true, false, true, true, true,
-    false)), (String ((Ascii (true, false, true, false, false, true, true,
-    false)), (String ((Ascii (false, false, false, false, false, true, false,
-    false)), (String ((Ascii (false, false, false, false, true, true, true,
-    false)), (String ((Ascii (true, false, false, false, false, true, true,
-    false)), (String ((Ascii (false, true, false, false, true, true, true,
-    false)), (String ((Ascii (true, false, false, false, false, true, true,
-    false)), (String ((Ascii (true, false, true, true, false, true, true,
-    false)), (String ((Ascii (true, false, true, false, false, true, true,
-    false)), (String ((Ascii (false, false, true, false, true, true, true,
-    false)), (String ((Ascii (true, false, true, false, false, true, true,
-    false)), (String ((Ascii (false, true, false, false, true, true, true,
-    false)), EmptyString)))))))))))))))))))))))))))))))))))))))))))),
-    EmptyString)) :: []), ((SSetStep
-    st_stateParameterWoQuoted) :: []))) :: []))) :: (SRetNil :: [])))) :: (((String
+    EmptyString)))))))))))))))))))))))))))))))))))))),
+    (block ((SFound (ParameterBegin, Z0)) :: ((SIf ((CByte (Npos (XO (XI (XO
+      (XO (XO XH))))))),
+      (block ((SSetStep st_stateParameterInQuoted) :: [])),
+      (block ((SIf (CNewLine,
+        (block ((SRetErr ((String ((Ascii (true, false, false, true, false,
+          true, true, false)), (String ((Ascii (false, true, true, true,
+          false, true, true, false)), (String ((Ascii (false, false, false,
+          false, false, true, false, false)), (String ((Ascii (false, false,
+          true, false, false, true, true, false)), (String ((Ascii (true,
+          false, false, true, false, true, true, false)), (String ((Ascii
+          (false, true, false, false, true, true, true, false)), (String
+          ((Ascii (true, false, true, false, false, true, true, false)),
+          (String ((Ascii (true, true, false, false, false, true, true,
+          false)), (String ((Ascii (false, false, true, false, true, true,
+          true, false)), (String ((Ascii (true, false, false, true, false,
+          true, true, false)), (String ((Ascii (false, true, true, false,
+          true, true, true, false)), (String ((Ascii (true, false, true,
+          false, false, true, true, false)), (String ((Ascii (false, false,
+          false, false, false, true, false, false)), (String ((Ascii (false,
+          false, false, false, true, true, true, false)), (String ((Ascii
+          (true, false, false, false, false, true, true, false)), (String
+          ((Ascii (false, true, false, false, true, true, true, false)),
+          (String ((Ascii (true, false, false, false, false, true, true,
+          false)), (String ((Ascii (true, false, true, true, false, true,
+          true, false)), (String ((Ascii (true, false, true, false, false,
+          true, true, false)), (String ((Ascii (false, false, true, false,
+          true, true, true, false)), (String ((Ascii (true, false, true,
+          false, false, true, true, false)), (String ((Ascii (false, true,
+          false, false, true, true, true, false)),
+          EmptyString)))))))))))))))))))))))))))))))))))))))))))),
+          EmptyString)) :: [])),
+        (block ((SSetStep st_stateParameterWoQuoted) :: [])))) :: [])))) :: (SRetNil :: []))))) :: (((String
     ((Ascii (true, true, false, false, true, true, true, false)), (String
     ((Ascii (false, false, true, false, true, true, true, false)), (String
     ((Ascii (true, false, false, false, false, true, true, false)), (String
@@ -6647,33 +6989,67 @@ let prog_table =
     ((Ascii (false, false, true, false, true, true, true, false)), (String
     ((Ascii (true, false, true, false, false, true, true, false)), (String
     ((Ascii (false, false, true, false, false, true, true, false)),
-    EmptyString)))))))))))))))))))))))))))))))))))))))))))), ((SIf ((COr
-    (CWhitespace, (COr (CNewLine, (COr ((CByte (Npos (XI (XI (XO (XO (XO
-    XH))))))), (CByte N0))))))), ((SFound (ParameterEnd, (Zneg
-    XH))) :: ((SSetStep
-    st_stateParameterOrAnnotation) :: (SRetRedispatch :: []))),
-    [])) :: (SRetNil :: []))) :: (((String ((Ascii (true, true, false, false,
-    true, true, true, false)), (String ((Ascii (false, false, true, false,
-    true, true, true, false)), (String ((Ascii (true, false, false, false,
-    false, true, true, false)), (String ((Ascii (false, false, true, false,
-    true, true, true, false)), (String ((Ascii (true, false, true, false,
-    false, true, true, false)), (String ((Ascii (false, false, false, false,
-    true, false, true, false)), (String ((Ascii (true, false, false, false,
-    false, true, true, false)), (String ((Ascii (false, true, false, false,
-    true, true, true, false)), (String ((Ascii (true, false, false, false,
-    false, true, true, false)), (String ((Ascii (true, false, true, true,
-    false, true, true, false)), (String ((Ascii (true, true, false, false,
-    true, true, true, false)), (String ((Ascii (false, true, false, false,
-    false, false, true, false)), (String ((Ascii (true, true, true, true,
-    false, true, true, false)), (String ((Ascii (false, false, true, false,
-    false, true, true, false)), (String ((Ascii (true, false, false, true,
-    true, true, true, false)), EmptyString)))))))))))))))))))))))))))))),
-    ((SIf ((CByte (Npos (XO (XO (XO (XI (XO XH))))))), ((SFound (ContextOpen,
-    Z0)) :: (SRetNil :: [])), ((SIf ((COr (CWhitespace, CNewLine)),
-    (SRetNil :: []), ((SIf ((CByte (Npos (XI (XI (XO (XO (XO XH))))))),
-    (SPushCur :: ((SSetStep st_stateCommentStarted) :: (SRetNil :: []))),
-    ((SRetCall
-    st_stateJSchema) :: []))) :: []))) :: []))) :: [])) :: (((String ((Ascii
+    EmptyString)))))))))))))))))))))))))))))))))))))))))))),
+    (block ((SIf ((COr (CWhitespace, (COr (CNewLine, (COr ((CByte (Npos (XI
+      (XI (XO (XO (XO XH))))))), (CByte N0))))))),
+      (block ((SFound (ParameterEnd, (Zneg XH))) :: ((SSetStep
+        st_stateParameterOrAnnotation) :: (SRetRedispatch :: [])))),
+      SSkip)) :: (SRetNil :: [])))) :: (((String ((Ascii (true, true, false,
+    false, true, true, true, false)), (String ((Ascii (false, false, true,
+    false, true, true, true, false)), (String ((Ascii (true, false, false,
+    false, false, true, true, false)), (String ((Ascii (false, false, true,
+    false, true, true, true, false)), (String ((Ascii (true, false, true,
+    false, false, true, true, false)), (String ((Ascii (false, false, false,
+    false, true, false, true, false)), (String ((Ascii (true, false, false,
+    false, false, true, true, false)), (String ((Ascii (false, true, false,
+    false, true, true, true, false)), (String ((Ascii (true, false, false,
+    false, false, true, true, false)), (String ((Ascii (true, false, true,
+    true, false, true, true, false)), (String ((Ascii (true, true, false,
+    false, true, true, true, false)), (String ((Ascii (false, true, false,
+    false, false, false, true, false)), (String ((Ascii (true, true, true,
+    true, false, true, true, false)), (String ((Ascii (false, false, true,
+    false, false, true, true, false)), (String ((Ascii (true, false, false,
+    true, true, true, true, false)),
+    EmptyString)))))))))))))))))))))))))))))),
+    (block ((SIf ((CByte (Npos (XO (XO (XO (XI (XO XH))))))),
+      (block ((SFound (ContextOpen, Z0)) :: (SRetNil :: []))),
+      (block ((SIf ((COr (CWhitespace, CNewLine)), (block (SRetNil :: [])),
+        (block ((SIf ((CByte (Npos (XI (XI (XO (XO (XO XH))))))),
+          (block (SPushCur :: ((SSetStep
+            st_stateCommentStarted) :: (SRetNil :: [])))),
+          (block ((SRetCall st_stateJSchema) :: [])))) :: [])))) :: [])))) :: []))) :: (((String
+    ((Ascii (true, true, false, false, true, true, true, false)), (String
+    ((Ascii (false, false, true, false, true, true, true, false)), (String
+    ((Ascii (true, false, false, false, false, true, true, false)), (String
+    ((Ascii (false, false, true, false, true, true, true, false)), (String
+    ((Ascii (true, false, true, false, false, true, true, false)), (String
+    ((Ascii (false, false, false, false, true, false, true, false)), (String
+    ((Ascii (true, false, false, false, false, true, true, false)), (String
+    ((Ascii (false, false, true, false, true, true, true, false)),
+    EmptyString)))))))))))))))),
+    (block ((SIf ((CByte (Npos (XO (XO (XO (XI (XO (XI XH)))))))),
+      (block ((SFound (KeywordEnd, Z0)) :: ((SPush
+        st_statePathBody) :: ((SSetStep
+        st_stateParameterOrAnnotation) :: (SRetNil :: []))))),
+      (block ((SRetErr ((String ((Ascii (true, false, false, true, false,
+        true, true, false)), (String ((Ascii (false, true, true, true, false,
+        true, true, false)), (String ((Ascii (false, false, false, false,
+        false, true, false, false)), (String ((Ascii (true, true, false,
+        true, false, true, true, false)), (String ((Ascii (true, false, true,
+        false, false, true, true, false)), (String ((Ascii (true, false,
+        false, true, true, true, true, false)), (String ((Ascii (true, true,
+        true, false, true, true, true, false)), (String ((Ascii (true, true,
+        true, true, false, true, true, false)), (String ((Ascii (false, true,
+        false, false, true, true, true, false)), (String ((Ascii (false,
+        false, true, false, false, true, true, false)), (String ((Ascii
+        (false, false, false, false, false, true, false, false)), (String
+        ((Ascii (false, false, false, false, true, false, true, false)),
+        (String ((Ascii (true, false, false, false, false, true, true,
+        false)), (String ((Ascii (false, false, true, false, true, true,
+        true, false)), (String ((Ascii (false, false, false, true, false,
+        true, true, false)), EmptyString)))))))))))))))))))))))))))))),
+        (String ((Ascii (false, false, false, true, false, true, true,
+        false)), EmptyString)))) :: [])))) :: []))) :: (((String ((Ascii
     (true, true, false, false, true, true, true, false)), (String ((Ascii
     (false, false, true, false, true, true, true, false)), (String ((Ascii
     (true, false, false, false, false, true, true, false)), (String ((Ascii
@@ -6681,67 +7057,43 @@ let prog_table =
     (true, false, true, false, false, true, true, false)), (String ((Ascii
     (false, false, false, false, true, false, true, false)), (String ((Ascii
     (true, false, false, false, false, true, true, false)), (String ((Ascii
-    (false, false, true, false, true, true, true, false)),
-    EmptyString)))))))))))))))), ((SIf ((CByte (Npos (XO (XO (XO (XI (XO (XI
-    XH)))))))), ((SFound (KeywordEnd, Z0)) :: ((SPush
-    st_statePathBody) :: ((SSetStep
-    st_stateParameterOrAnnotation) :: (SRetNil :: [])))), ((SRetErr ((String
-    ((Ascii (true, false, false, true, false, true, true, false)), (String
-    ((Ascii (false, true, true, true, false, true, true, false)), (String
-    ((Ascii (false, false, false, false, false, true, false, false)), (String
-    ((Ascii (true, true, false, true, false, true, true, false)), (String
-    ((Ascii (true, false, true, false, false, true, true, false)), (String
-    ((Ascii (true, false, false, true, true, true, true, false)), (String
-    ((Ascii (true, true, true, false, true, true, true, false)), (String
-    ((Ascii (true, true, true, true, false, true, true, false)), (String
-    ((Ascii (false, true, false, false, true, true, true, false)), (String
-    ((Ascii (false, false, true, false, false, true, true, false)), (String
-    ((Ascii (false, false, false, false, false, true, false, false)), (String
-    ((Ascii (false, false, false, false, true, false, true, false)), (String
-    ((Ascii (true, false, false, false, false, true, true, false)), (String
-    ((Ascii (false, false, true, false, true, true, true, false)), (String
-    ((Ascii (false, false, false, true, false, true, true, false)),
-    EmptyString)))))))))))))))))))))))))))))), (String ((Ascii (false, false,
-    false, true, false, true, true, false)),
-    EmptyString)))) :: []))) :: [])) :: (((String ((Ascii (true, true, false,
-    false, true, true, true, false)), (String ((Ascii (false, false, true,
-    false, true, true, true, false)), (String ((Ascii (true, false, false,
-    false, false, true, true, false)), (String ((Ascii (false, false, true,
-    false, true, true, true, false)), (String ((Ascii (true, false, true,
-    false, false, true, true, false)), (String ((Ascii (false, false, false,
-    false, true, false, true, false)), (String ((Ascii (true, false, false,
-    false, false, true, true, false)), (String ((Ascii (false, false, true,
-    false, true, true, true, false)), (String ((Ascii (false, false, false,
-    true, false, true, true, false)), (String ((Ascii (false, true, false,
-    false, false, false, true, false)), (String ((Ascii (true, true, true,
-    true, false, true, true, false)), (String ((Ascii (false, false, true,
-    false, false, true, true, false)), (String ((Ascii (true, false, false,
-    true, true, true, true, false)), EmptyString)))))))))))))))))))))))))),
-    ((SIf ((CByte (Npos (XO (XO (XO (XI (XO XH))))))), ((SFound (ContextOpen,
-    Z0)) :: (SRetNil :: [])), ((SIf ((COr (CWhitespace, CNewLine)),
-    (SRetNil :: []), ((SIf ((CByte (Npos (XI (XI (XO (XO (XO XH))))))),
-    (SPushCur :: ((SSetStep st_stateCommentStarted) :: (SRetNil :: []))),
-    ((SIf ((COr ((CByte (Npos (XI (XI (XO (XI (XI (XI XH)))))))), (CByte
-    (Npos (XO (XO (XO (XO (XO (XO XH)))))))))), ((SRetCall
-    st_stateJSchema) :: []), ((SRetErr ((String ((Ascii (true, false, false,
-    true, false, true, true, false)), (String ((Ascii (false, true, true,
-    true, false, true, true, false)), (String ((Ascii (false, false, false,
-    false, false, true, false, false)), (String ((Ascii (false, false, true,
-    false, true, true, true, false)), (String ((Ascii (false, false, false,
-    true, false, true, true, false)), (String ((Ascii (true, false, true,
-    false, false, true, true, false)), (String ((Ascii (false, false, false,
-    false, false, true, false, false)), (String ((Ascii (false, false, false,
-    false, true, false, true, false)), (String ((Ascii (true, false, false,
-    false, false, true, true, false)), (String ((Ascii (false, false, true,
-    false, true, true, true, false)), (String ((Ascii (false, false, false,
-    true, false, true, true, false)), (String ((Ascii (false, false, false,
-    false, false, true, false, false)), (String ((Ascii (false, true, false,
-    false, false, true, true, false)), (String ((Ascii (true, true, true,
-    true, false, true, true, false)), (String ((Ascii (false, false, true,
-    false, false, true, true, false)), (String ((Ascii (true, false, false,
-    true, true, true, true, false)),
-    EmptyString)))))))))))))))))))))))))))))))),
-    EmptyString)) :: []))) :: []))) :: []))) :: []))) :: [])) :: (((String
+    (false, false, true, false, true, true, true, false)), (String ((Ascii
+    (false, false, false, true, false, true, true, false)), (String ((Ascii
+    (false, true, false, false, false, false, true, false)), (String ((Ascii
+    (true, true, true, true, false, true, true, false)), (String ((Ascii
+    (false, false, true, false, false, true, true, false)), (String ((Ascii
+    (true, false, false, true, true, true, true, false)),
+    EmptyString)))))))))))))))))))))))))),
+    (block ((SIf ((CByte (Npos (XO (XO (XO (XI (XO XH))))))),
+      (block ((SFound (ContextOpen, Z0)) :: (SRetNil :: []))),
+      (block ((SIf ((COr (CWhitespace, CNewLine)), (block (SRetNil :: [])),
+        (block ((SIf ((CByte (Npos (XI (XI (XO (XO (XO XH))))))),
+          (block (SPushCur :: ((SSetStep
+            st_stateCommentStarted) :: (SRetNil :: [])))),
+          (block ((SIf ((COr ((CByte (Npos (XI (XI (XO (XI (XI (XI
+            XH)))))))), (CByte (Npos (XO (XO (XO (XO (XO (XO XH)))))))))),
+            (block ((SRetCall st_stateJSchema) :: [])),
+            (block ((SRetErr ((String ((Ascii (true, false, false, true,
+              false, true, true, false)), (String ((Ascii (false, true, true,
+              true, false, true, true, false)), (String ((Ascii (false,
+              false, false, false, false, true, false, false)), (String
+              ((Ascii (false, false, true, false, true, true, true, false)),
+              (String ((Ascii (false, false, false, true, false, true, true,
+              false)), (String ((Ascii (true, false, true, false, false,
+              true, true, false)), (String ((Ascii (false, false, false,
+              false, false, true, false, false)), (String ((Ascii (false,
+              false, false, false, true, false, true, false)), (String
+              ((Ascii (true, false, false, false, false, true, true, false)),
+              (String ((Ascii (false, false, true, false, true, true, true,
+              false)), (String ((Ascii (false, false, false, true, false,
+              true, true, false)), (String ((Ascii (false, false, false,
+              false, false, true, false, false)), (String ((Ascii (false,
+              true, false, false, false, true, true, false)), (String ((Ascii
+              (true, true, true, true, false, true, true, false)), (String
+              ((Ascii (false, false, true, false, false, true, true, false)),
+              (String ((Ascii (true, false, false, true, true, true, true,
+              false)), EmptyString)))))))))))))))))))))))))))))))),
+              EmptyString)) :: [])))) :: [])))) :: [])))) :: [])))) :: []))) :: (((String
     ((Ascii (true, true, false, false, true, true, true, false)), (String
     ((Ascii (false, false, true, false, true, true, true, false)), (String
     ((Ascii (true, false, false, false, false, true, true, false)), (String
@@ -6749,455 +7101,488 @@ let prog_table =
     ((Ascii (true, false, true, false, false, true, true, false)), (String
     ((Ascii (false, false, false, false, true, false, true, false)), (String
     ((Ascii (false, true, false, false, true, true, true, false)),
-    EmptyString)))))))))))))), ((SIf ((CByte (Npos (XI (XI (XI (XI (XO (XI
-    XH)))))))), ((SSetStep st_statePro) :: (SRetNil :: [])), ((SRetErr
-    ((String ((Ascii (true, false, false, true, false, true, true, false)),
-    (String ((Ascii (false, true, true, true, false, true, true, false)),
-    (String ((Ascii (false, false, false, false, false, true, false, false)),
-    (String ((Ascii (true, true, false, true, false, true, true, false)),
-    (String ((Ascii (true, false, true, false, false, true, true, false)),
-    (String ((Ascii (true, false, false, true, true, true, true, false)),
-    (String ((Ascii (true, true, true, false, true, true, true, false)),
-    (String ((Ascii (true, true, true, true, false, true, true, false)),
-    (String ((Ascii (false, true, false, false, true, true, true, false)),
-    (String ((Ascii (false, false, true, false, false, true, true, false)),
-    (String ((Ascii (false, false, false, false, false, true, false, false)),
-    (String ((Ascii (false, false, false, false, true, false, true, false)),
-    (String ((Ascii (false, true, false, false, true, true, true, false)),
-    (String ((Ascii (true, true, true, true, false, true, true, false)),
-    (String ((Ascii (false, false, true, false, true, true, true, false)),
-    (String ((Ascii (true, true, true, true, false, true, true, false)),
-    (String ((Ascii (true, true, false, false, false, true, true, false)),
-    (String ((Ascii (true, true, true, true, false, true, true, false)),
-    (String ((Ascii (false, false, true, true, false, true, true, false)),
-    EmptyString)))))))))))))))))))))))))))))))))))))), (String ((Ascii (true,
-    true, true, true, false, true, true, false)),
-    EmptyString)))) :: []))) :: [])) :: (((String ((Ascii (true, true, false,
-    false, true, true, true, false)), (String ((Ascii (false, false, true,
-    false, true, true, true, false)), (String ((Ascii (true, false, false,
-    false, false, true, true, false)), (String ((Ascii (false, false, true,
-    false, true, true, true, false)), (String ((Ascii (true, false, true,
-    false, false, true, true, false)), (String ((Ascii (false, false, false,
-    false, true, false, true, false)), (String ((Ascii (false, true, false,
-    false, true, true, true, false)), (String ((Ascii (true, true, true,
-    true, false, true, true, false)), EmptyString)))))))))))))))), ((SIf
-    ((CByte (Npos (XO (XO (XI (XO (XI (XI XH)))))))), ((SSetStep
-    st_stateProt) :: (SRetNil :: [])), ((SRetErr ((String ((Ascii (true,
-    false, false, true, false, true, true, false)), (String ((Ascii (false,
-    true, true, true, false, true, true, false)), (String ((Ascii (false,
-    false, false, false, false, true, false, false)), (String ((Ascii (true,
-    true, false, true, false, true, true, false)), (String ((Ascii (true,
-    false, true, false, false, true, true, false)), (String ((Ascii (true,
-    false, false, true, true, true, true, false)), (String ((Ascii (true,
-    true, true, false, true, true, true, false)), (String ((Ascii (true,
-    true, true, true, false, true, true, false)), (String ((Ascii (false,
-    true, false, false, true, true, true, false)), (String ((Ascii (false,
-    false, true, false, false, true, true, false)), (String ((Ascii (false,
-    false, false, false, false, true, false, false)), (String ((Ascii (false,
-    false, false, false, true, false, true, false)), (String ((Ascii (false,
-    true, false, false, true, true, true, false)), (String ((Ascii (true,
-    true, true, true, false, true, true, false)), (String ((Ascii (false,
-    false, true, false, true, true, true, false)), (String ((Ascii (true,
-    true, true, true, false, true, true, false)), (String ((Ascii (true,
-    true, false, false, false, true, true, false)), (String ((Ascii (true,
-    true, true, true, false, true, true, false)), (String ((Ascii (false,
-    false, true, true, false, true, true, false)),
-    EmptyString)))))))))))))))))))))))))))))))))))))), (String ((Ascii
-    (false, false, true, false, true, true, true, false)),
-    EmptyString)))) :: []))) :: [])) :: (((String ((Ascii (true, true, false,
-    false, true, true, true, false)), (String ((Ascii (false, false, true,
-    false, true, true, true, false)), (String ((Ascii (true, false, false,
-    false, false, true, true, false)), (String ((Ascii (false, false, true,
-    false, true, true, true, false)), (String ((Ascii (true, false, true,
-    false, false, true, true, false)), (String ((Ascii (false, false, false,
-    false, true, false, true, false)), (String ((Ascii (false, true, false,
-    false, true, true, true, false)), (String ((Ascii (true, true, true,
-    true, false, true, true, false)), (String ((Ascii (false, false, true,
-    false, true, true, true, false)), EmptyString)))))))))))))))))), ((SIf
-    ((CByte (Npos (XI (XI (XI (XI (XO (XI XH)))))))), ((SSetStep
-    st_stateProto) :: (SRetNil :: [])), ((SRetErr ((String ((Ascii (true,
-    false, false, true, false, true, true, false)), (String ((Ascii (false,
-    true, true, true, false, true, true, false)), (String ((Ascii (false,
-    false, false, false, false, true, false, false)), (String ((Ascii (true,
-    true, false, true, false, true, true, false)), (String ((Ascii (true,
-    false, true, false, false, true, true, false)), (String ((Ascii (true,
-    false, false, true, true, true, true, false)), (String ((Ascii (true,
-    true, true, false, true, true, true, false)), (String ((Ascii (true,
-    true, true, true, false, true, true, false)), (String ((Ascii (false,
-    true, false, false, true, true, true, false)), (String ((Ascii (false,
-    false, true, false, false, true, true, false)), (String ((Ascii (false,
-    false, false, false, false, true, false, false)), (String ((Ascii (false,
-    false, false, false, true, false, true, false)), (String ((Ascii (false,
-    true, false, false, true, true, true, false)), (String ((Ascii (true,
-    true, true, true, false, true, true, false)), (String ((Ascii (false,
-    false, true, false, true, true, true, false)), (String ((Ascii (true,
-    true, true, true, false, true, true, false)), (String ((Ascii (true,
-    true, false, false, false, true, true, false)), (String ((Ascii (true,
-    true, true, true, false, true, true, false)), (String ((Ascii (false,
-    false, true, true, false, true, true, false)),
-    EmptyString)))))))))))))))))))))))))))))))))))))), (String ((Ascii (true,
-    true, true, true, false, true, true, false)),
-    EmptyString)))) :: []))) :: [])) :: (((String ((Ascii (true, true, false,
-    false, true, true, true, false)), (String ((Ascii (false, false, true,
-    false, true, true, true, false)), (String ((Ascii (true, false, false,
-    false, false, true, true, false)), (String ((Ascii (false, false, true,
-    false, true, true, true, false)), (String ((Ascii (true, false, true,
-    false, false, true, true, false)), (String ((Ascii (false, false, false,
-    false, true, false, true, false)), (String ((Ascii (false, true, false,
-    false, true, true, true, false)), (String ((Ascii (true, true, true,
-    true, false, true, true, false)), (String ((Ascii (false, false, true,
-    false, true, true, true, false)), (String ((Ascii (true, true, true,
-    true, false, true, true, false)), EmptyString)))))))))))))))))))), ((SIf
-    ((CByte (Npos (XI (XI (XO (XO (XO (XI XH)))))))), ((SSetStep
-    st_stateProtoc) :: (SRetNil :: [])), ((SRetErr ((String ((Ascii (true,
-    false, false, true, false, true, true, false)), (String ((Ascii (false,
-    true, true, true, false, true, true, false)), (String ((Ascii (false,
-    false, false, false, false, true, false, false)), (String ((Ascii (true,
-    true, false, true, false, true, true, false)), (String ((Ascii (true,
-    false, true, false, false, true, true, false)), (String ((Ascii (true,
-    false, false, true, true, true, true, false)), (String ((Ascii (true,
-    true, true, false, true, true, true, false)), (String ((Ascii (true,
-    true, true, true, false, true, true, false)), (String ((Ascii (false,
-    true, false, false, true, true, true, false)), (String ((Ascii (false,
-    false, true, false, false, true, true, false)), (String ((Ascii (false,
-    false, false, false, false, true, false, false)), (String ((Ascii (false,
-    false, false, false, true, false, true, false)), (String ((Ascii (false,
-    true, false, false, true, true, true, false)), (String ((Ascii (true,
-    true, true, true, false, true, true, false)), (String ((Ascii (false,
-    false, true, false, true, true, true, false)), (String ((Ascii (true,
-    true, true, true, false, true, true, false)), (String ((Ascii (true,
-    true, false, false, false, true, true, false)), (String ((Ascii (true,
-    true, true, true, false, true, true, false)), (String ((Ascii (false,
-    false, true, true, false, true, true, false)),
-    EmptyString)))))))))))))))))))))))))))))))))))))), (String ((Ascii (true,
-    true, false, false, false, true, true, false)),
-    EmptyString)))) :: []))) :: [])) :: (((String ((Ascii (true, true, false,
-    false, true, true, true, false)), (String ((Ascii (false, false, true,
-    false, true, true, true, false)), (String ((Ascii (true, false, false,
-    false, false, true, true, false)), (String ((Ascii (false, false, true,
-    false, true, true, true, false)), (String ((Ascii (true, false, true,
-    false, false, true, true, false)), (String ((Ascii (false, false, false,
-    false, true, false, true, false)), (String ((Ascii (false, true, false,
-    false, true, true, true, false)), (String ((Ascii (true, true, true,
-    true, false, true, true, false)), (String ((Ascii (false, false, true,
-    false, true, true, true, false)), (String ((Ascii (true, true, true,
-    true, false, true, true, false)), (String ((Ascii (true, true, false,
-    false, false, true, true, false)), EmptyString)))))))))))))))))))))),
-    ((SIf ((CByte (Npos (XI (XI (XI (XI (XO (XI XH)))))))), ((SSetStep
-    st_stateProtoco) :: (SRetNil :: [])), ((SRetErr ((String ((Ascii (true,
-    false, false, true, false, true, true, false)), (String ((Ascii (false,
-    true, true, true, false, true, true, false)), (String ((Ascii (false,
-    false, false, false, false, true, false, false)), (String ((Ascii (true,
-    true, false, true, false, true, true, false)), (String ((Ascii (true,
-    false, true, false, false, true, true, false)), (String ((Ascii (true,
-    false, false, true, true, true, true, false)), (String ((Ascii (true,
-    true, true, false, true, true, true, false)), (String ((Ascii (true,
-    true, true, true, false, true, true, false)), (String ((Ascii (false,
-    true, false, false, true, true, true, false)), (String ((Ascii (false,
-    false, true, false, false, true, true, false)), (String ((Ascii (false,
-    false, false, false, false, true, false, false)), (String ((Ascii (false,
-    false, false, false, true, false, true, false)), (String ((Ascii (false,
-    true, false, false, true, true, true, false)), (String ((Ascii (true,
-    true, true, true, false, true, true, false)), (String ((Ascii (false,
-    false, true, false, true, true, true, false)), (String ((Ascii (true,
-    true, true, true, false, true, true, false)), (String ((Ascii (true,
-    true, false, false, false, true, true, false)), (String ((Ascii (true,
-    true, true, true, false, true, true, false)), (String ((Ascii (false,
-    false, true, true, false, true, true, false)),
-    EmptyString)))))))))))))))))))))))))))))))))))))), (String ((Ascii (true,
-    true, true, true, false, true, true, false)),
-    EmptyString)))) :: []))) :: [])) :: (((String ((Ascii (true, true, false,
-    false, true, true, true, false)), (String ((Ascii (false, false, true,
-    false, true, true, true, false)), (String ((Ascii (true, false, false,
-    false, false, true, true, false)), (String ((Ascii (false, false, true,
-    false, true, true, true, false)), (String ((Ascii (true, false, true,
-    false, false, true, true, false)), (String ((Ascii (false, false, false,
-    false, true, false, true, false)), (String ((Ascii (false, true, false,
-    false, true, true, true, false)), (String ((Ascii (true, true, true,
-    true, false, true, true, false)), (String ((Ascii (false, false, true,
-    false, true, true, true, false)), (String ((Ascii (true, true, true,
-    true, false, true, true, false)), (String ((Ascii (true, true, false,
-    false, false, true, true, false)), (String ((Ascii (true, true, true,
-    true, false, true, true, false)), EmptyString)))))))))))))))))))))))),
-    ((SIf ((CByte (Npos (XO (XO (XI (XI (XO (XI XH)))))))), ((SFound
-    (KeywordEnd, Z0)) :: ((SPush st_stateExpectKeyword) :: ((SSetStep
-    st_stateParameterOrAnnotation) :: (SRetNil :: [])))), ((SRetErr ((String
-    ((Ascii (true, false, false, true, false, true, true, false)), (String
-    ((Ascii (false, true, true, true, false, true, true, false)), (String
-    ((Ascii (false, false, false, false, false, true, false, false)), (String
-    ((Ascii (true, true, false, true, false, true, true, false)), (String
-    ((Ascii (true, false, true, false, false, true, true, false)), (String
-    ((Ascii (true, false, false, true, true, true, true, false)), (String
-    ((Ascii (true, true, true, false, true, true, true, false)), (String
-    ((Ascii (true, true, true, true, false, true, true, false)), (String
-    ((Ascii (false, true, false, false, true, true, true, false)), (String
-    ((Ascii (false, false, true, false, false, true, true, false)), (String
-    ((Ascii (false, false, false, false, false, true, false, false)), (String
-    ((Ascii (false, false, false, false, true, false, true, false)), (String
-    ((Ascii (false, true, false, false, true, true, true, false)), (String
-    ((Ascii (true, true, true, true, false, true, true, false)), (String
-    ((Ascii (false, false, true, false, true, true, true, false)), (String
-    ((Ascii (true, true, true, true, false, true, true, false)), (String
-    ((Ascii (true, true, false, false, false, true, true, false)), (String
-    ((Ascii (true, true, true, true, false, true, true, false)), (String
-    ((Ascii (false, false, true, true, false, true, true, false)),
-    EmptyString)))))))))))))))))))))))))))))))))))))), (String ((Ascii
-    (false, false, true, true, false, true, true, false)),
-    EmptyString)))) :: []))) :: [])) :: (((String ((Ascii (true, true, false,
-    false, true, true, true, false)), (String ((Ascii (false, false, true,
-    false, true, true, true, false)), (String ((Ascii (true, false, false,
-    false, false, true, true, false)), (String ((Ascii (false, false, true,
-    false, true, true, true, false)), (String ((Ascii (true, false, true,
-    false, false, true, true, false)), (String ((Ascii (true, false, false,
-    false, true, false, true, false)), EmptyString)))))))))))), ((SIf ((CByte
-    (Npos (XI (XO (XI (XO (XI (XI XH)))))))), ((SSetStep
-    st_stateQu) :: (SRetNil :: [])), ((SRetErr ((String ((Ascii (true, false,
-    false, true, false, true, true, false)), (String ((Ascii (false, true,
+    EmptyString)))))))))))))),
+    (block ((SIf ((CByte (Npos (XI (XI (XI (XI (XO (XI XH)))))))),
+      (block ((SSetStep st_statePro) :: (SRetNil :: []))),
+      (block ((SRetErr ((String ((Ascii (true, false, false, true, false,
+        true, true, false)), (String ((Ascii (false, true, true, true, false,
+        true, true, false)), (String ((Ascii (false, false, false, false,
+        false, true, false, false)), (String ((Ascii (true, true, false,
+        true, false, true, true, false)), (String ((Ascii (true, false, true,
+        false, false, true, true, false)), (String ((Ascii (true, false,
+        false, true, true, true, true, false)), (String ((Ascii (true, true,
+        true, false, true, true, true, false)), (String ((Ascii (true, true,
+        true, true, false, true, true, false)), (String ((Ascii (false, true,
+        false, false, true, true, true, false)), (String ((Ascii (false,
+        false, true, false, false, true, true, false)), (String ((Ascii
+        (false, false, false, false, false, true, false, false)), (String
+        ((Ascii (false, false, false, false, true, false, true, false)),
+        (String ((Ascii (false, true, false, false, true, true, true,
+        false)), (String ((Ascii (true, true, true, true, false, true, true,
+        false)), (String ((Ascii (false, false, true, false, true, true,
+        true, false)), (String ((Ascii (true, true, true, true, false, true,
+        true, false)), (String ((Ascii (true, true, false, false, false,
+        true, true, false)), (String ((Ascii (true, true, true, true, false,
+        true, true, false)), (String ((Ascii (false, false, true, true,
+        false, true, true, false)),
+        EmptyString)))))))))))))))))))))))))))))))))))))), (String ((Ascii
+        (true, true, true, true, false, true, true, false)),
+        EmptyString)))) :: [])))) :: []))) :: (((String ((Ascii (true, true,
+    false, false, true, true, true, false)), (String ((Ascii (false, false,
+    true, false, true, true, true, false)), (String ((Ascii (true, false,
+    false, false, false, true, true, false)), (String ((Ascii (false, false,
+    true, false, true, true, true, false)), (String ((Ascii (true, false,
+    true, false, false, true, true, false)), (String ((Ascii (false, false,
+    false, false, true, false, true, false)), (String ((Ascii (false, true,
+    false, false, true, true, true, false)), (String ((Ascii (true, true,
+    true, true, false, true, true, false)), EmptyString)))))))))))))))),
+    (block ((SIf ((CByte (Npos (XO (XO (XI (XO (XI (XI XH)))))))),
+      (block ((SSetStep st_stateProt) :: (SRetNil :: []))),
+      (block ((SRetErr ((String ((Ascii (true, false, false, true, false,
+        true, true, false)), (String ((Ascii (false, true, true, true, false,
+        true, true, false)), (String ((Ascii (false, false, false, false,
+        false, true, false, false)), (String ((Ascii (true, true, false,
+        true, false, true, true, false)), (String ((Ascii (true, false, true,
+        false, false, true, true, false)), (String ((Ascii (true, false,
+        false, true, true, true, true, false)), (String ((Ascii (true, true,
+        true, false, true, true, true, false)), (String ((Ascii (true, true,
+        true, true, false, true, true, false)), (String ((Ascii (false, true,
+        false, false, true, true, true, false)), (String ((Ascii (false,
+        false, true, false, false, true, true, false)), (String ((Ascii
+        (false, false, false, false, false, true, false, false)), (String
+        ((Ascii (false, false, false, false, true, false, true, false)),
+        (String ((Ascii (false, true, false, false, true, true, true,
+        false)), (String ((Ascii (true, true, true, true, false, true, true,
+        false)), (String ((Ascii (false, false, true, false, true, true,
+        true, false)), (String ((Ascii (true, true, true, true, false, true,
+        true, false)), (String ((Ascii (true, true, false, false, false,
+        true, true, false)), (String ((Ascii (true, true, true, true, false,
+        true, true, false)), (String ((Ascii (false, false, true, true,
+        false, true, true, false)),
+        EmptyString)))))))))))))))))))))))))))))))))))))), (String ((Ascii
+        (false, false, true, false, true, true, true, false)),
+        EmptyString)))) :: [])))) :: []))) :: (((String ((Ascii (true, true,
+    false, false, true, true, true, false)), (String ((Ascii (false, false,
+    true, false, true, true, true, false)), (String ((Ascii (true, false,
+    false, false, false, true, true, false)), (String ((Ascii (false, false,
+    true, false, true, true, true, false)), (String ((Ascii (true, false,
+    true, false, false, true, true, false)), (String ((Ascii (false, false,
+    false, false, true, false, true, false)), (String ((Ascii (false, true,
+    false, false, true, true, true, false)), (String ((Ascii (true, true,
     true, true, false, true, true, false)), (String ((Ascii (false, false,
-    false, false, false, true, false, false)), (String ((Ascii (true, true,
-    false, true, false, true, true, false)), (String ((Ascii (true, false,
+    true, false, true, true, true, false)), EmptyString)))))))))))))))))),
+    (block ((SIf ((CByte (Npos (XI (XI (XI (XI (XO (XI XH)))))))),
+      (block ((SSetStep st_stateProto) :: (SRetNil :: []))),
+      (block ((SRetErr ((String ((Ascii (true, false, false, true, false,
+        true, true, false)), (String ((Ascii (false, true, true, true, false,
+        true, true, false)), (String ((Ascii (false, false, false, false,
+        false, true, false, false)), (String ((Ascii (true, true, false,
+        true, false, true, true, false)), (String ((Ascii (true, false, true,
+        false, false, true, true, false)), (String ((Ascii (true, false,
+        false, true, true, true, true, false)), (String ((Ascii (true, true,
+        true, false, true, true, true, false)), (String ((Ascii (true, true,
+        true, true, false, true, true, false)), (String ((Ascii (false, true,
+        false, false, true, true, true, false)), (String ((Ascii (false,
+        false, true, false, false, true, true, false)), (String ((Ascii
+        (false, false, false, false, false, true, false, false)), (String
+        ((Ascii (false, false, false, false, true, false, true, false)),
+        (String ((Ascii (false, true, false, false, true, true, true,
+        false)), (String ((Ascii (true, true, true, true, false, true, true,
+        false)), (String ((Ascii (false, false, true, false, true, true,
+        true, false)), (String ((Ascii (true, true, true, true, false, true,
+        true, false)), (String ((Ascii (true, true, false, false, false,
+        true, true, false)), (String ((Ascii (true, true, true, true, false,
+        true, true, false)), (String ((Ascii (false, false, true, true,
+        false, true, true, false)),
+        EmptyString)))))))))))))))))))))))))))))))))))))), (String ((Ascii
+        (true, true, true, true, false, true, true, false)),
+        EmptyString)))) :: [])))) :: []))) :: (((String ((Ascii (true, true,
+    false, false, true, true, true, false)), (String ((Ascii (false, false,
+    true, false, true, true, true, false)), (String ((Ascii (true, false,
+    false, false, false, true, true, false)), (String ((Ascii (false, false,
+    true, false, true, true, true, false)), (String ((Ascii (true, false,
+    true, false, false, true, true, false)), (String ((Ascii (false, false,
+    false, false, true, false, true, false)), (String ((Ascii (false, true,
+    false, false, true, true, true, false)), (String ((Ascii (true, true,
+    true, true, false, true, true, false)), (String ((Ascii (false, false,
+    true, false, true, true, true, false)), (String ((Ascii (true, true,
+    true, true, false, true, true, false)), EmptyString)))))))))))))))))))),
+    (block ((SIf ((CByte (Npos (XI (XI (XO (XO (XO (XI XH)))))))),
+      (block ((SSetStep st_stateProtoc) :: (SRetNil :: []))),
+      (block ((SRetErr ((String ((Ascii (true, false, false, true, false,
+        true, true, false)), (String ((Ascii (false, true, true, true, false,
+        true, true, false)), (String ((Ascii (false, false, false, false,
+        false, true, false, false)), (String ((Ascii (true, true, false,
+        true, false, true, true, false)), (String ((Ascii (true, false, true,
+        false, false, true, true, false)), (String ((Ascii (true, false,
+        false, true, true, true, true, false)), (String ((Ascii (true, true,
+        true, false, true, true, true, false)), (String ((Ascii (true, true,
+        true, true, false, true, true, false)), (String ((Ascii (false, true,
+        false, false, true, true, true, false)), (String ((Ascii (false,
+        false, true, false, false, true, true, false)), (String ((Ascii
+        (false, false, false, false, false, true, false, false)), (String
+        ((Ascii (false, false, false, false, true, false, true, false)),
+        (String ((Ascii (false, true, false, false, true, true, true,
+        false)), (String ((Ascii (true, true, true, true, false, true, true,
+        false)), (String ((Ascii (false, false, true, false, true, true,
+        true, false)), (String ((Ascii (true, true, true, true, false, true,
+        true, false)), (String ((Ascii (true, true, false, false, false,
+        true, true, false)), (String ((Ascii (true, true, true, true, false,
+        true, true, false)), (String ((Ascii (false, false, true, true,
+        false, true, true, false)),
+        EmptyString)))))))))))))))))))))))))))))))))))))), (String ((Ascii
+        (true, true, false, false, false, true, true, false)),
+        EmptyString)))) :: [])))) :: []))) :: (((String ((Ascii (true, true,
+    false, false, true, true, true, false)), (String ((Ascii (false, false,
+    true, false, true, true, true, false)), (String ((Ascii (true, false,
+    false, false, false, true, true, false)), (String ((Ascii (false, false,
+    true, false, true, true, true, false)), (String ((Ascii (true, false,
+    true, false, false, true, true, false)), (String ((Ascii (false, false,
+    false, false, true, false, true, false)), (String ((Ascii (false, true,
+    false, false, true, true, true, false)), (String ((Ascii (true, true,
+    true, true, false, true, true, false)), (String ((Ascii (false, false,
+    true, false, true, true, true, false)), (String ((Ascii (true, true,
+    true, true, false, true, true, false)), (String ((Ascii (true, true,
+    false, false, false, true, true, false)),
+    EmptyString)))))))))))))))))))))),
+    (block ((SIf ((CByte (Npos (XI (XI (XI (XI (XO (XI XH)))))))),
+      (block ((SSetStep st_stateProtoco) :: (SRetNil :: []))),
+      (block ((SRetErr ((String ((Ascii (true, false, false, true, false,
+        true, true, false)), (String ((Ascii (false, true, true, true, false,
+        true, true, false)), (String ((Ascii (false, false, false, false,
+        false, true, false, false)), (String ((Ascii (true, true, false,
+        true, false, true, true, false)), (String ((Ascii (true, false, true,
+        false, false, true, true, false)), (String ((Ascii (true, false,
+        false, true, true, true, true, false)), (String ((Ascii (true, true,
+        true, false, true, true, true, false)), (String ((Ascii (true, true,
+        true, true, false, true, true, false)), (String ((Ascii (false, true,
+        false, false, true, true, true, false)), (String ((Ascii (false,
+        false, true, false, false, true, true, false)), (String ((Ascii
+        (false, false, false, false, false, true, false, false)), (String
+        ((Ascii (false, false, false, false, true, false, true, false)),
+        (String ((Ascii (false, true, false, false, true, true, true,
+        false)), (String ((Ascii (true, true, true, true, false, true, true,
+        false)), (String ((Ascii (false, false, true, false, true, true,
+        true, false)), (String ((Ascii (true, true, true, true, false, true,
+        true, false)), (String ((Ascii (true, true, false, false, false,
+        true, true, false)), (String ((Ascii (true, true, true, true, false,
+        true, true, false)), (String ((Ascii (false, false, true, true,
+        false, true, true, false)),
+        EmptyString)))))))))))))))))))))))))))))))))))))), (String ((Ascii
+        (true, true, true, true, false, true, true, false)),
+        EmptyString)))) :: [])))) :: []))) :: (((String ((Ascii (true, true,
+    false, false, true, true, true, false)), (String ((Ascii (false, false,
+    true, false, true, true, true, false)), (String ((Ascii (true, false,
+    false, false, false, true, true, false)), (String ((Ascii (false, false,
+    true, false, true, true, true, false)), (String ((Ascii (true, false,
+    true, false, false, true, true, false)), (String ((Ascii (false, false,
+    false, false, true, false, true, false)), (String ((Ascii (false, true,
+    false, false, true, true, true, false)), (String ((Ascii (true, true,
+    true, true, false, true, true, false)), (String ((Ascii (false, false,
+    true, false, true, true, true, false)), (String ((Ascii (true, true,
+    true, true, false, true, true, false)), (String ((Ascii (true, true,
+    false, false, false, true, true, false)), (String ((Ascii (true, true,
+    true, true, false, true, true, false)),
+    EmptyString)))))))))))))))))))))))),
+    (block ((SIf ((CByte (Npos (XO (XO (XI (XI (XO (XI XH)))))))),
+      (block ((SFound (KeywordEnd, Z0)) :: ((SPush
+        st_stateExpectKeyword) :: ((SSetStep
+        st_stateParameterOrAnnotation) :: (SRetNil :: []))))),
+      (block ((SRetErr ((String ((Ascii (true, false, false, true, false,
+        true, true, false)), (String ((Ascii (false, true, true, true, false,
+        true, true, false)), (String ((Ascii (false, false, false, false,
+        false, true, false, false)), (String ((Ascii (true, true, false,
+        true, false, true, true, false)), (String ((Ascii (true, false, true,
+        false, false, true, true, false)), (String ((Ascii (true, false,
+        false, true, true, true, true, false)), (String ((Ascii (true, true,
+        true, false, true, true, true, false)), (String ((Ascii (true, true,
+        true, true, false, true, true, false)), (String ((Ascii (false, true,
+        false, false, true, true, true, false)), (String ((Ascii (false,
+        false, true, false, false, true, true, false)), (String ((Ascii
+        (false, false, false, false, false, true, false, false)), (String
+        ((Ascii (false, false, false, false, true, false, true, false)),
+        (String ((Ascii (false, true, false, false, true, true, true,
+        false)), (String ((Ascii (true, true, true, true, false, true, true,
+        false)), (String ((Ascii (false, false, true, false, true, true,
+        true, false)), (String ((Ascii (true, true, true, true, false, true,
+        true, false)), (String ((Ascii (true, true, false, false, false,
+        true, true, false)), (String ((Ascii (true, true, true, true, false,
+        true, true, false)), (String ((Ascii (false, false, true, true,
+        false, true, true, false)),
+        EmptyString)))))))))))))))))))))))))))))))))))))), (String ((Ascii
+        (false, false, true, true, false, true, true, false)),
+        EmptyString)))) :: [])))) :: []))) :: (((String ((Ascii (true, true,
+    false, false, true, true, true, false)), (String ((Ascii (false, false,
+    true, false, true, true, true, false)), (String ((Ascii (true, false,
+    false, false, false, true, true, false)), (String ((Ascii (false, false,
+    true, false, true, true, true, false)), (String ((Ascii (true, false,
+    true, false, false, true, true, false)), (String ((Ascii (true, false,
+    false, false, true, false, true, false)), EmptyString)))))))))))),
+    (block ((SIf ((CByte (Npos (XI (XO (XI (XO (XI (XI XH)))))))),
+      (block ((SSetStep st_stateQu) :: (SRetNil :: []))),
+      (block ((SRetErr ((String ((Ascii (true, false, false, true, false,
+        true, true, false)), (String ((Ascii (false, true, true, true, false,
+        true, true, false)), (String ((Ascii (false, false, false, false,
+        false, true, false, false)), (String ((Ascii (true, true, false,
+        true, false, true, true, false)), (String ((Ascii (true, false, true,
+        false, false, true, true, false)), (String ((Ascii (true, false,
+        false, true, true, true, true, false)), (String ((Ascii (true, true,
+        true, false, true, true, true, false)), (String ((Ascii (true, true,
+        true, true, false, true, true, false)), (String ((Ascii (false, true,
+        false, false, true, true, true, false)), (String ((Ascii (false,
+        false, true, false, false, true, true, false)), (String ((Ascii
+        (false, false, false, false, false, true, false, false)), (String
+        ((Ascii (true, false, false, false, true, false, true, false)),
+        (String ((Ascii (true, false, true, false, true, true, true, false)),
+        (String ((Ascii (true, false, true, false, false, true, true,
+        false)), (String ((Ascii (false, true, false, false, true, true,
+        true, false)), (String ((Ascii (true, false, false, true, true, true,
+        true, false)), EmptyString)))))))))))))))))))))))))))))))), (String
+        ((Ascii (true, false, true, false, true, true, true, false)),
+        EmptyString)))) :: [])))) :: []))) :: (((String ((Ascii (true, true,
+    false, false, true, true, true, false)), (String ((Ascii (false, false,
+    true, false, true, true, true, false)), (String ((Ascii (true, false,
+    false, false, false, true, true, false)), (String ((Ascii (false, false,
+    true, false, true, true, true, false)), (String ((Ascii (true, false,
+    true, false, false, true, true, false)), (String ((Ascii (true, false,
+    false, false, true, false, true, false)), (String ((Ascii (true, false,
+    true, false, true, true, true, false)), EmptyString)))))))))))))),
+    (block ((SIf ((CByte (Npos (XI (XO (XI (XO (XO (XI XH)))))))),
+      (block ((SSetStep st_stateQue) :: (SRetNil :: []))),
+      (block ((SRetErr ((String ((Ascii (true, false, false, true, false,
+        true, true, false)), (String ((Ascii (false, true, true, true, false,
+        true, true, false)), (String ((Ascii (false, false, false, false,
+        false, true, false, false)), (String ((Ascii (true, true, false,
+        true, false, true, true, false)), (String ((Ascii (true, false, true,
+        false, false, true, true, false)), (String ((Ascii (true, false,
+        false, true, true, true, true, false)), (String ((Ascii (true, true,
+        true, false, true, true, true, false)), (String ((Ascii (true, true,
+        true, true, false, true, true, false)), (String ((Ascii (false, true,
+        false, false, true, true, true, false)), (String ((Ascii (false,
+        false, true, false, false, true, true, false)), (String ((Ascii
+        (false, false, false, false, false, true, false, false)), (String
+        ((Ascii (true, false, false, false, true, false, true, false)),
+        (String ((Ascii (true, false, true, false, true, true, true, false)),
+        (String ((Ascii (true, false, true, false, false, true, true,
+        false)), (String ((Ascii (false, true, false, false, true, true,
+        true, false)), (String ((Ascii (true, false, false, true, true, true,
+        true, false)), EmptyString)))))))))))))))))))))))))))))))), (String
+        ((Ascii (true, false, true, false, false, true, true, false)),
+        EmptyString)))) :: [])))) :: []))) :: (((String ((Ascii (true, true,
+    false, false, true, true, true, false)), (String ((Ascii (false, false,
+    true, false, true, true, true, false)), (String ((Ascii (true, false,
+    false, false, false, true, true, false)), (String ((Ascii (false, false,
+    true, false, true, true, true, false)), (String ((Ascii (true, false,
+    true, false, false, true, true, false)), (String ((Ascii (true, false,
+    false, false, true, false, true, false)), (String ((Ascii (true, false,
+    true, false, true, true, true, false)), (String ((Ascii (true, false,
+    true, false, false, true, true, false)), EmptyString)))))))))))))))),
+    (block ((SIf ((CByte (Npos (XO (XI (XO (XO (XI (XI XH)))))))),
+      (block ((SSetStep st_stateQuer) :: (SRetNil :: []))),
+      (block ((SRetErr ((String ((Ascii (true, false, false, true, false,
+        true, true, false)), (String ((Ascii (false, true, true, true, false,
+        true, true, false)), (String ((Ascii (false, false, false, false,
+        false, true, false, false)), (String ((Ascii (true, true, false,
+        true, false, true, true, false)), (String ((Ascii (true, false, true,
+        false, false, true, true, false)), (String ((Ascii (true, false,
+        false, true, true, true, true, false)), (String ((Ascii (true, true,
+        true, false, true, true, true, false)), (String ((Ascii (true, true,
+        true, true, false, true, true, false)), (String ((Ascii (false, true,
+        false, false, true, true, true, false)), (String ((Ascii (false,
+        false, true, false, false, true, true, false)), (String ((Ascii
+        (false, false, false, false, false, true, false, false)), (String
+        ((Ascii (true, false, false, false, true, false, true, false)),
+        (String ((Ascii (true, false, true, false, true, true, true, false)),
+        (String ((Ascii (true, false, true, false, false, true, true,
+        false)), (String ((Ascii (false, true, false, false, true, true,
+        true, false)), (String ((Ascii (true, false, false, true, true, true,
+        true, false)), EmptyString)))))))))))))))))))))))))))))))), (String
+        ((Ascii (false, true, false, false, true, true, true, false)),
+        EmptyString)))) :: [])))) :: []))) :: (((String ((Ascii (true, true,
+    false, false, true, true, true, false)), (String ((Ascii (false, false,
+    true, false, true, true, true, false)), (String ((Ascii (true, false,
+    false, false, false, true, true, false)), (String ((Ascii (false, false,
+    true, false, true, true, true, false)), (String ((Ascii (true, false,
+    true, false, false, true, true, false)), (String ((Ascii (true, false,
+    false, false, true, false, true, false)), (String ((Ascii (true, false,
+    true, false, true, true, true, false)), (String ((Ascii (true, false,
+    true, false, false, true, true, false)), (String ((Ascii (false, true,
+    false, false, true, true, true, false)), EmptyString)))))))))))))))))),
+    (block ((SIf ((CByte (Npos (XI (XO (XO (XI (XI (XI XH)))))))),
+      (block ((SFound (KeywordEnd, Z0)) :: ((SPush
+        st_stateQueryBodyOrKeyword) :: ((SSetStep
+        st_stateParameterOrAnnotation) :: (SRetNil :: []))))),
+      (block ((SRetErr ((String ((Ascii (true, false, false, true, false,
+        true, true, false)), (String ((Ascii (false, true, true, true, false,
+        true, true, false)), (String ((Ascii (false, false, false, false,
+        false, true, false, false)), (String ((Ascii (true, true, false,
+        true, false, true, true, false)), (String ((Ascii (true, false, true,
+        false, false, true, true, false)), (String ((Ascii (true, false,
+        false, true, true, true, true, false)), (String ((Ascii (true, true,
+        true, false, true, true, true, false)), (String ((Ascii (true, true,
+        true, true, false, true, true, false)), (String ((Ascii (false, true,
+        false, false, true, true, true, false)), (String ((Ascii (false,
+        false, true, false, false, true, true, false)), (String ((Ascii
+        (false, false, false, false, false, true, false, false)), (String
+        ((Ascii (true, false, false, false, true, false, true, false)),
+        (String ((Ascii (true, false, true, false, true, true, true, false)),
+        (String ((Ascii (true, false, true, false, false, true, true,
+        false)), (String ((Ascii (false, true, false, false, true, true,
+        true, false)), (String ((Ascii (true, false, false, true, true, true,
+        true, false)), EmptyString)))))))))))))))))))))))))))))))), (String
+        ((Ascii (true, false, false, true, true, true, true, false)),
+        EmptyString)))) :: [])))) :: []))) :: (((String ((Ascii (true, true,
+    false, false, true, true, true, false)), (String ((Ascii (false, false,
+    true, false, true, true, true, false)), (String ((Ascii (true, false,
+    false, false, false, true, true, false)), (String ((Ascii (false, false,
+    true, false, true, true, true, false)), (String ((Ascii (true, false,
+    true, false, false, true, true, false)), (String ((Ascii (true, false,
+    false, false, true, false, true, false)), (String ((Ascii (true, false,
+    true, false, true, true, true, false)), (String ((Ascii (true, false,
+    true, false, false, true, true, false)), (String ((Ascii (false, true,
+    false, false, true, true, true, false)), (String ((Ascii (true, false,
+    false, true, true, true, true, false)), (String ((Ascii (false, true,
+    false, false, false, false, true, false)), (String ((Ascii (true, true,
+    true, true, false, true, true, false)), (String ((Ascii (false, false,
+    true, false, false, true, true, false)), (String ((Ascii (true, false,
+    false, true, true, true, true, false)), (String ((Ascii (true, true,
+    true, true, false, false, true, false)), (String ((Ascii (false, true,
+    false, false, true, true, true, false)), (String ((Ascii (true, true,
+    false, true, false, false, true, false)), (String ((Ascii (true, false,
     true, false, false, true, true, false)), (String ((Ascii (true, false,
     false, true, true, true, true, false)), (String ((Ascii (true, true,
     true, false, true, true, true, false)), (String ((Ascii (true, true,
     true, true, false, true, true, false)), (String ((Ascii (false, true,
     false, false, true, true, true, false)), (String ((Ascii (false, false,
-    true, false, false, true, true, false)), (String ((Ascii (false, false,
-    false, false, false, true, false, false)), (String ((Ascii (true, false,
-    false, false, true, false, true, false)), (String ((Ascii (true, false,
-    true, false, true, true, true, false)), (String ((Ascii (true, false,
-    true, false, false, true, true, false)), (String ((Ascii (false, true,
-    false, false, true, true, true, false)), (String ((Ascii (true, false,
-    false, true, true, true, true, false)),
-    EmptyString)))))))))))))))))))))))))))))))), (String ((Ascii (true,
-    false, true, false, true, true, true, false)),
-    EmptyString)))) :: []))) :: [])) :: (((String ((Ascii (true, true, false,
-    false, true, true, true, false)), (String ((Ascii (false, false, true,
-    false, true, true, true, false)), (String ((Ascii (true, false, false,
-    false, false, true, true, false)), (String ((Ascii (false, false, true,
-    false, true, true, true, false)), (String ((Ascii (true, false, true,
-    false, false, true, true, false)), (String ((Ascii (true, false, false,
-    false, true, false, true, false)), (String ((Ascii (true, false, true,
-    false, true, true, true, false)), EmptyString)))))))))))))), ((SIf
-    ((CByte (Npos (XI (XO (XI (XO (XO (XI XH)))))))), ((SSetStep
-    st_stateQue) :: (SRetNil :: [])), ((SRetErr ((String ((Ascii (true,
-    false, false, true, false, true, true, false)), (String ((Ascii (false,
-    true, true, true, false, true, true, false)), (String ((Ascii (false,
-    false, false, false, false, true, false, false)), (String ((Ascii (true,
-    true, false, true, false, true, true, false)), (String ((Ascii (true,
-    false, true, false, false, true, true, false)), (String ((Ascii (true,
-    false, false, true, true, true, true, false)), (String ((Ascii (true,
-    true, true, false, true, true, true, false)), (String ((Ascii (true,
-    true, true, true, false, true, true, false)), (String ((Ascii (false,
-    true, false, false, true, true, true, false)), (String ((Ascii (false,
-    false, true, false, false, true, true, false)), (String ((Ascii (false,
-    false, false, false, false, true, false, false)), (String ((Ascii (true,
-    false, false, false, true, false, true, false)), (String ((Ascii (true,
-    false, true, false, true, true, true, false)), (String ((Ascii (true,
-    false, true, false, false, true, true, false)), (String ((Ascii (false,
-    true, false, false, true, true, true, false)), (String ((Ascii (true,
-    false, false, true, true, true, true, false)),
-    EmptyString)))))))))))))))))))))))))))))))), (String ((Ascii (true,
-    false, true, false, false, true, true, false)),
-    EmptyString)))) :: []))) :: [])) :: (((String ((Ascii (true, true, false,
-    false, true, true, true, false)), (String ((Ascii (false, false, true,
-    false, true, true, true, false)), (String ((Ascii (true, false, false,
-    false, false, true, true, false)), (String ((Ascii (false, false, true,
-    false, true, true, true, false)), (String ((Ascii (true, false, true,
-    false, false, true, true, false)), (String ((Ascii (true, false, false,
-    false, true, false, true, false)), (String ((Ascii (true, false, true,
-    false, true, true, true, false)), (String ((Ascii (true, false, true,
-    false, false, true, true, false)), EmptyString)))))))))))))))), ((SIf
-    ((CByte (Npos (XO (XI (XO (XO (XI (XI XH)))))))), ((SSetStep
-    st_stateQuer) :: (SRetNil :: [])), ((SRetErr ((String ((Ascii (true,
-    false, false, true, false, true, true, false)), (String ((Ascii (false,
-    true, true, true, false, true, true, false)), (String ((Ascii (false,
-    false, false, false, false, true, false, false)), (String ((Ascii (true,
-    true, false, true, false, true, true, false)), (String ((Ascii (true,
-    false, true, false, false, true, true, false)), (String ((Ascii (true,
-    false, false, true, true, true, true, false)), (String ((Ascii (true,
-    true, true, false, true, true, true, false)), (String ((Ascii (true,
-    true, true, true, false, true, true, false)), (String ((Ascii (false,
-    true, false, false, true, true, true, false)), (String ((Ascii (false,
-    false, true, false, false, true, true, false)), (String ((Ascii (false,
-    false, false, false, false, true, false, false)), (String ((Ascii (true,
-    false, false, false, true, false, true, false)), (String ((Ascii (true,
-    false, true, false, true, true, true, false)), (String ((Ascii (true,
-    false, true, false, false, true, true, false)), (String ((Ascii (false,
-    true, false, false, true, true, true, false)), (String ((Ascii (true,
-    false, false, true, true, true, true, false)),
-    EmptyString)))))))))))))))))))))))))))))))), (String ((Ascii (false,
-    true, false, false, true, true, true, false)),
-    EmptyString)))) :: []))) :: [])) :: (((String ((Ascii (true, true, false,
-    false, true, true, true, false)), (String ((Ascii (false, false, true,
-    false, true, true, true, false)), (String ((Ascii (true, false, false,
-    false, false, true, true, false)), (String ((Ascii (false, false, true,
-    false, true, true, true, false)), (String ((Ascii (true, false, true,
-    false, false, true, true, false)), (String ((Ascii (true, false, false,
-    false, true, false, true, false)), (String ((Ascii (true, false, true,
-    false, true, true, true, false)), (String ((Ascii (true, false, true,
-    false, false, true, true, false)), (String ((Ascii (false, true, false,
-    false, true, true, true, false)), EmptyString)))))))))))))))))), ((SIf
-    ((CByte (Npos (XI (XO (XO (XI (XI (XI XH)))))))), ((SFound (KeywordEnd,
-    Z0)) :: ((SPush st_stateQueryBodyOrKeyword) :: ((SSetStep
-    st_stateParameterOrAnnotation) :: (SRetNil :: [])))), ((SRetErr ((String
-    ((Ascii (true, false, false, true, false, true, true, false)), (String
-    ((Ascii (false, true, true, true, false, true, true, false)), (String
-    ((Ascii (false, false, false, false, false, true, false, false)), (String
-    ((Ascii (true, true, false, true, false, true, true, false)), (String
+    true, false, false, true, true, false)),
+    EmptyString)))))))))))))))))))))))))))))))))))))))))))))),
+    (block ((SIf ((CByte (Npos (XO (XO (XO (XI (XO XH))))))),
+      (block ((SFound (ContextOpen, Z0)) :: (SRetNil :: []))),
+      (block ((SIf ((COr (CWhitespace, CNewLine)), (block (SRetNil :: [])),
+        (block ((SIf ((CByte (Npos (XI (XI (XO (XO (XO XH))))))),
+          (block (SPushCur :: ((SSetStep
+            st_stateCommentStarted) :: (SRetNil :: [])))),
+          (block ((SRetCall st_stateJSchema) :: [])))) :: [])))) :: [])))) :: []))) :: (((String
+    ((Ascii (true, true, false, false, true, true, true, false)), (String
+    ((Ascii (false, false, true, false, true, true, true, false)), (String
+    ((Ascii (true, false, false, false, false, true, true, false)), (String
+    ((Ascii (false, false, true, false, true, true, true, false)), (String
     ((Ascii (true, false, true, false, false, true, true, false)), (String
-    ((Ascii (true, false, false, true, true, true, true, false)), (String
-    ((Ascii (true, true, true, false, true, true, true, false)), (String
-    ((Ascii (true, true, true, true, false, true, true, false)), (String
-    ((Ascii (false, true, false, false, true, true, true, false)), (String
-    ((Ascii (false, false, true, false, false, true, true, false)), (String
-    ((Ascii (false, false, false, false, false, true, false, false)), (String
-    ((Ascii (true, false, false, false, true, false, true, false)), (String
-    ((Ascii (true, false, true, false, true, true, true, false)), (String
+    ((Ascii (false, true, false, false, true, false, true, false)),
+    EmptyString)))))))))))),
+    (block ((SIf ((CByte (Npos (XI (XO (XI (XO (XO (XI XH)))))))),
+      (block ((SSetStep st_stateRe) :: (SRetNil :: []))),
+      (block ((SRetErr ((String ((Ascii (true, false, false, true, false,
+        true, true, false)), (String ((Ascii (false, true, true, true, false,
+        true, true, false)), (String ((Ascii (false, false, false, false,
+        false, true, false, false)), (String ((Ascii (false, false, true,
+        false, false, true, true, false)), (String ((Ascii (true, false,
+        false, true, false, true, true, false)), (String ((Ascii (false,
+        true, false, false, true, true, true, false)), (String ((Ascii (true,
+        false, true, false, false, true, true, false)), (String ((Ascii
+        (true, true, false, false, false, true, true, false)), (String
+        ((Ascii (false, false, true, false, true, true, true, false)),
+        (String ((Ascii (true, false, false, true, false, true, true,
+        false)), (String ((Ascii (false, true, true, false, true, true, true,
+        false)), (String ((Ascii (true, false, true, false, false, true,
+        true, false)), (String ((Ascii (false, false, false, false, false,
+        true, false, false)), (String ((Ascii (false, true, true, true,
+        false, true, true, false)), (String ((Ascii (true, false, false,
+        false, false, true, true, false)), (String ((Ascii (true, false,
+        true, true, false, true, true, false)), (String ((Ascii (true, false,
+        true, false, false, true, true, false)),
+        EmptyString)))))))))))))))))))))))))))))))))), EmptyString)) :: [])))) :: []))) :: (((String
+    ((Ascii (true, true, false, false, true, true, true, false)), (String
+    ((Ascii (false, false, true, false, true, true, true, false)), (String
+    ((Ascii (true, false, false, false, false, true, true, false)), (String
+    ((Ascii (false, false, true, false, true, true, true, false)), (String
     ((Ascii (true, false, true, false, false, true, true, false)), (String
-    ((Ascii (false, true, false, false, true, true, true, false)), (String
-    ((Ascii (true, false, false, true, true, true, true, false)),
-    EmptyString)))))))))))))))))))))))))))))))), (String ((Ascii (true,
-    false, false, true, true, true, true, false)),
-    EmptyString)))) :: []))) :: [])) :: (((String ((Ascii (true, true, false,
-    false, true, true, true, false)), (String ((Ascii (false, false, true,
-    false, true, true, true, false)), (String ((Ascii (true, false, false,
-    false, false, true, true, false)), (String ((Ascii (false, false, true,
-    false, true, true, true, false)), (String ((Ascii (true, false, true,
-    false, false, true, true, false)), (String ((Ascii (true, false, false,
-    false, true, false, true, false)), (String ((Ascii (true, false, true,
-    false, true, true, true, false)), (String ((Ascii (true, false, true,
-    false, false, true, true, false)), (String ((Ascii (false, true, false,
-    false, true, true, true, false)), (String ((Ascii (true, false, false,
-    true, true, true, true, false)), (String ((Ascii (false, true, false,
-    false, false, false, true, false)), (String ((Ascii (true, true, true,
-    true, false, true, true, false)), (String ((Ascii (false, false, true,
-    false, false, true, true, false)), (String ((Ascii (true, false, false,
-    true, true, true, true, false)), (String ((Ascii (true, true, true, true,
-    false, false, true, false)), (String ((Ascii (false, true, false, false,
-    true, true, true, false)), (String ((Ascii (true, true, false, true,
-    false, false, true, false)), (String ((Ascii (true, false, true, false,
-    false, true, true, false)), (String ((Ascii (true, false, false, true,
-    true, true, true, false)), (String ((Ascii (true, true, true, false,
-    true, true, true, false)), (String ((Ascii (true, true, true, true,
-    false, true, true, false)), (String ((Ascii (false, true, false, false,
-    true, true, true, false)), (String ((Ascii (false, false, true, false,
-    false, true, true, false)),
-    EmptyString)))))))))))))))))))))))))))))))))))))))))))))), ((SIf ((CByte
-    (Npos (XO (XO (XO (XI (XO XH))))))), ((SFound (ContextOpen,
-    Z0)) :: (SRetNil :: [])), ((SIf ((COr (CWhitespace, CNewLine)),
-    (SRetNil :: []), ((SIf ((CByte (Npos (XI (XI (XO (XO (XO XH))))))),
-    (SPushCur :: ((SSetStep st_stateCommentStarted) :: (SRetNil :: []))),
-    ((SRetCall
-    st_stateJSchema) :: []))) :: []))) :: []))) :: [])) :: (((String ((Ascii
+    ((Ascii (false, true, false, false, true, false, true, false)), (String
+    ((Ascii (true, false, true, false, false, true, true, false)),
+    EmptyString)))))))))))))),
+    (block ((SIf ((CByte (Npos (XI (XO (XO (XO (XI (XI XH)))))))),
+      (block ((SSetStep st_stateReq) :: (SRetNil :: []))),
+      (block ((SIf ((CByte (Npos (XI (XI (XO (XO (XI (XI XH)))))))),
+        (block ((SSetStep st_stateRes) :: (SRetNil :: []))),
+        (block ((SRetErr ((String ((Ascii (true, false, false, true, false,
+          true, true, false)), (String ((Ascii (false, true, true, true,
+          false, true, true, false)), (String ((Ascii (false, false, false,
+          false, false, true, false, false)), (String ((Ascii (false, false,
+          true, false, false, true, true, false)), (String ((Ascii (true,
+          false, false, true, false, true, true, false)), (String ((Ascii
+          (false, true, false, false, true, true, true, false)), (String
+          ((Ascii (true, false, true, false, false, true, true, false)),
+          (String ((Ascii (true, true, false, false, false, true, true,
+          false)), (String ((Ascii (false, false, true, false, true, true,
+          true, false)), (String ((Ascii (true, false, false, true, false,
+          true, true, false)), (String ((Ascii (false, true, true, false,
+          true, true, true, false)), (String ((Ascii (true, false, true,
+          false, false, true, true, false)), (String ((Ascii (false, false,
+          false, false, false, true, false, false)), (String ((Ascii (false,
+          true, true, true, false, true, true, false)), (String ((Ascii
+          (true, false, false, false, false, true, true, false)), (String
+          ((Ascii (true, false, true, true, false, true, true, false)),
+          (String ((Ascii (true, false, true, false, false, true, true,
+          false)), EmptyString)))))))))))))))))))))))))))))))))),
+          EmptyString)) :: [])))) :: [])))) :: []))) :: (((String ((Ascii
     (true, true, false, false, true, true, true, false)), (String ((Ascii
     (false, false, true, false, true, true, true, false)), (String ((Ascii
     (true, false, false, false, false, true, true, false)), (String ((Ascii
     (false, false, true, false, true, true, true, false)), (String ((Ascii
     (true, false, true, false, false, true, true, false)), (String ((Ascii
-    (false, true, false, false, true, false, true, false)),
-    EmptyString)))))))))))), ((SIf ((CByte (Npos (XI (XO (XI (XO (XO (XI
-    XH)))))))), ((SSetStep st_stateRe) :: (SRetNil :: [])), ((SRetErr
-    ((String ((Ascii (true, false, false, true, false, true, true, false)),
-    (String ((Ascii (false, true, true, true, false, true, true, false)),
-    (String ((Ascii (false, false, false, false, false, true, false, false)),
-    (String ((Ascii (false, false, true, false, false, true, true, false)),
-    (String ((Ascii (true, false, false, true, false, true, true, false)),
-    (String ((Ascii (false, true, false, false, true, true, true, false)),
-    (String ((Ascii (true, false, true, false, false, true, true, false)),
-    (String ((Ascii (true, true, false, false, false, true, true, false)),
-    (String ((Ascii (false, false, true, false, true, true, true, false)),
-    (String ((Ascii (true, false, false, true, false, true, true, false)),
-    (String ((Ascii (false, true, true, false, true, true, true, false)),
-    (String ((Ascii (true, false, true, false, false, true, true, false)),
-    (String ((Ascii (false, false, false, false, false, true, false, false)),
-    (String ((Ascii (false, true, true, true, false, true, true, false)),
-    (String ((Ascii (true, false, false, false, false, true, true, false)),
-    (String ((Ascii (true, false, true, true, false, true, true, false)),
-    (String ((Ascii (true, false, true, false, false, true, true, false)),
-    EmptyString)))))))))))))))))))))))))))))))))),
-    EmptyString)) :: []))) :: [])) :: (((String ((Ascii (true, true, false,
-    false, true, true, true, false)), (String ((Ascii (false, false, true,
-    false, true, true, true, false)), (String ((Ascii (true, false, false,
-    false, false, true, true, false)), (String ((Ascii (false, false, true,
-    false, true, true, true, false)), (String ((Ascii (true, false, true,
-    false, false, true, true, false)), (String ((Ascii (false, true, false,
-    false, true, false, true, false)), (String ((Ascii (true, false, true,
-    false, false, true, true, false)), EmptyString)))))))))))))), ((SIf
-    ((CByte (Npos (XI (XO (XO (XO (XI (XI XH)))))))), ((SSetStep
-    st_stateReq) :: (SRetNil :: [])), ((SIf ((CByte (Npos (XI (XI (XO (XO (XI
-    (XI XH)))))))), ((SSetStep st_stateRes) :: (SRetNil :: [])), ((SRetErr
-    ((String ((Ascii (true, false, false, true, false, true, true, false)),
-    (String ((Ascii (false, true, true, true, false, true, true, false)),
-    (String ((Ascii (false, false, false, false, false, true, false, false)),
-    (String ((Ascii (false, false, true, false, false, true, true, false)),
-    (String ((Ascii (true, false, false, true, false, true, true, false)),
-    (String ((Ascii (false, true, false, false, true, true, true, false)),
-    (String ((Ascii (true, false, true, false, false, true, true, false)),
-    (String ((Ascii (true, true, false, false, false, true, true, false)),
-    (String ((Ascii (false, false, true, false, true, true, true, false)),
-    (String ((Ascii (true, false, false, true, false, true, true, false)),
-    (String ((Ascii (false, true, true, false, true, true, true, false)),
-    (String ((Ascii (true, false, true, false, false, true, true, false)),
-    (String ((Ascii (false, false, false, false, false, true, false, false)),
-    (String ((Ascii (false, true, true, true, false, true, true, false)),
-    (String ((Ascii (true, false, false, false, false, true, true, false)),
-    (String ((Ascii (true, false, true, true, false, true, true, false)),
-    (String ((Ascii (true, false, true, false, false, true, true, false)),
-    EmptyString)))))))))))))))))))))))))))))))))),
-    EmptyString)) :: []))) :: []))) :: [])) :: (((String ((Ascii (true, true,
-    false, false, true, true, true, false)), (String ((Ascii (false, false,
-    true, false, true, true, true, false)), (String ((Ascii (true, false,
-    false, false, false, true, true, false)), (String ((Ascii (false, false,
-    true, false, true, true, true, false)), (String ((Ascii (true, false,
-    true, false, false, true, true, false)), (String ((Ascii (false, true,
-    false, false, true, false, true, false)), (String ((Ascii (true, false,
-    true, false, false, true, true, false)), (String ((Ascii (true, true,
-    true, false, false, true, true, false)), (String ((Ascii (true, false,
-    true, false, false, true, true, false)), (String ((Ascii (false, false,
-    false, true, true, true, true, false)), EmptyString)))))))))))))))))))),
-    ((SIf ((CNot (CByte (Npos (XI (XI (XI (XI (XO XH)))))))), ((SRetErr
-    ((String ((Ascii (true, false, false, true, false, true, true, false)),
-    (String ((Ascii (false, true, true, true, false, true, true, false)),
-    (String ((Ascii (false, false, false, false, false, true, false, false)),
-    (String ((Ascii (false, false, true, false, true, true, true, false)),
-    (String ((Ascii (false, false, false, true, false, true, true, false)),
-    (String ((Ascii (true, false, true, false, false, true, true, false)),
-    (String ((Ascii (false, false, false, false, false, true, false, false)),
-    (String ((Ascii (false, true, false, false, true, true, true, false)),
-    (String ((Ascii (true, false, true, false, false, true, true, false)),
-    (String ((Ascii (true, true, true, false, false, true, true, false)),
-    (String ((Ascii (true, false, true, false, true, true, true, false)),
-    (String ((Ascii (false, false, true, true, false, true, true, false)),
-    (String ((Ascii (true, false, false, false, false, true, true, false)),
-    (String ((Ascii (false, true, false, false, true, true, true, false)),
-    (String ((Ascii (false, false, false, false, false, true, false, false)),
-    (String ((Ascii (true, false, true, false, false, true, true, false)),
-    (String ((Ascii (false, false, false, true, true, true, true, false)),
-    (String ((Ascii (false, false, false, false, true, true, true, false)),
-    (String ((Ascii (false, true, false, false, true, true, true, false)),
-    (String ((Ascii (true, false, true, false, false, true, true, false)),
-    (String ((Ascii (true, true, false, false, true, true, true, false)),
-    (String ((Ascii (true, true, false, false, true, true, true, false)),
-    (String ((Ascii (true, false, false, true, false, true, true, false)),
-    (String ((Ascii (true, true, true, true, false, true, true, false)),
-    (String ((Ascii (false, true, true, true, false, true, true, false)),
-    EmptyString)))))))))))))))))))))))))))))))))))))))))))))))))), (String
-    ((Ascii (true, true, true, false, false, true, false, false)), (String
-    ((Ascii (true, true, true, true, false, true, false, false)), (String
-    ((Ascii (true, true, true, false, false, true, false, false)), (String
-    ((Ascii (false, false, false, false, false, true, false, false)), (String
-    ((Ascii (true, true, false, false, false, true, true, false)), (String
-    ((Ascii (false, false, false, true, false, true, true, false)), (String
-    ((Ascii (true, false, false, false, false, true, true, false)), (String
-    ((Ascii (false, true, false, false, true, true, true, false)), (String
-    ((Ascii (true, false, false, false, false, true, true, false)), (String
-    ((Ascii (true, true, false, false, false, true, true, false)), (String
-    ((Ascii (false, false, true, false, true, true, true, false)), (String
-    ((Ascii (true, false, true, false, false, true, true, false)), (String
-    ((Ascii (false, true, false, false, true, true, true, false)),
-    EmptyString)))))))))))))))))))))))))))) :: []), [])) :: ((SFound
-    (TextBegin, Z0)) :: ((SSetStep
-    st_stateRegexFirstChar) :: (SRetNil :: []))))) :: (((String ((Ascii
+    (false, true, false, false, true, false, true, false)), (String ((Ascii
+    (true, false, true, false, false, true, true, false)), (String ((Ascii
+    (true, true, true, false, false, true, true, false)), (String ((Ascii
+    (true, false, true, false, false, true, true, false)), (String ((Ascii
+    (false, false, false, true, true, true, true, false)),
+    EmptyString)))))))))))))))))))),
+    (block ((SIf ((CNot (CByte (Npos (XI (XI (XI (XI (XO XH)))))))),
+      (block ((SRetErr ((String ((Ascii (true, false, false, true, false,
+        true, true, false)), (String ((Ascii (false, true, true, true, false,
+        true, true, false)), (String ((Ascii (false, false, false, false,
+        false, true, false, false)), (String ((Ascii (false, false, true,
+        false, true, true, true, false)), (String ((Ascii (false, false,
+        false, true, false, true, true, false)), (String ((Ascii (true,
+        false, true, false, false, true, true, false)), (String ((Ascii
+        (false, false, false, false, false, true, false, false)), (String
+        ((Ascii (false, true, false, false, true, true, true, false)),
+        (String ((Ascii (true, false, true, false, false, true, true,
+        false)), (String ((Ascii (true, true, true, false, false, true, true,
+        false)), (String ((Ascii (true, false, true, false, true, true, true,
+        false)), (String ((Ascii (false, false, true, true, false, true,
+        true, false)), (String ((Ascii (true, false, false, false, false,
+        true, true, false)), (String ((Ascii (false, true, false, false,
+        true, true, true, false)), (String ((Ascii (false, false, false,
+        false, false, true, false, false)), (String ((Ascii (true, false,
+        true, false, false, true, true, false)), (String ((Ascii (false,
+        false, false, true, true, true, true, false)), (String ((Ascii
+        (false, false, false, false, true, true, true, false)), (String
+        ((Ascii (false, true, false, false, true, true, true, false)),
+        (String ((Ascii (true, false, true, false, false, true, true,
+        false)), (String ((Ascii (true, true, false, false, true, true, true,
+        false)), (String ((Ascii (true, true, false, false, true, true, true,
+        false)), (String ((Ascii (true, false, false, true, false, true,
+        true, false)), (String ((Ascii (true, true, true, true, false, true,
+        true, false)), (String ((Ascii (false, true, true, true, false, true,
+        true, false)),
+        EmptyString)))))))))))))))))))))))))))))))))))))))))))))))))),
+        (String ((Ascii (true, true, true, false, false, true, false,
+        false)), (String ((Ascii (true, true, true, true, false, true, false,
+        false)), (String ((Ascii (true, true, true, false, false, true,
+        false, false)), (String ((Ascii (false, false, false, false, false,
+        true, false, false)), (String ((Ascii (true, true, false, false,
+        false, true, true, false)), (String ((Ascii (false, false, false,
+        true, false, true, true, false)), (String ((Ascii (true, false,
+        false, false, false, true, true, false)), (String ((Ascii (false,
+        true, false, false, true, true, true, false)), (String ((Ascii (true,
+        false, false, false, false, true, true, false)), (String ((Ascii
+        (true, true, false, false, false, true, true, false)), (String
+        ((Ascii (false, false, true, false, true, true, true, false)),
+        (String ((Ascii (true, false, true, false, false, true, true,
+        false)), (String ((Ascii (false, true, false, false, true, true,
+        true, false)), EmptyString)))))))))))))))))))))))))))) :: [])),
+      SSkip)) :: ((SFound (TextBegin, Z0)) :: ((SSetStep
+      st_stateRegexFirstChar) :: (SRetNil :: [])))))) :: (((String ((Ascii
     (true, true, false, false, true, true, true, false)), (String ((Ascii
     (false, false, true, false, true, true, true, false)), (String ((Ascii
     (true, false, false, false, false, true, true, false)), (String ((Ascii
@@ -7212,103 +7597,111 @@ let prog_table =
     (true, true, true, true, false, true, true, false)), (String ((Ascii
     (false, false, true, false, false, true, true, false)), (String ((Ascii
     (true, false, false, true, true, true, true, false)),
-    EmptyString)))))))))))))))))))))))))))), ((SIf ((CByte (Npos (XI (XI (XI
-    (XI (XO XH))))))), ((SFound (TextEnd, Z0)) :: ((SSetStep
-    st_stateBodyEnded) :: [])), ((SIf ((CByte N0), ((SRetErr ((String ((Ascii
-    (true, false, false, true, false, true, true, false)), (String ((Ascii
-    (false, true, true, true, false, true, true, false)), (String ((Ascii
-    (true, true, false, false, true, true, true, false)), (String ((Ascii
-    (true, false, false, true, false, true, true, false)), (String ((Ascii
-    (false, false, true, false, false, true, true, false)), (String ((Ascii
-    (true, false, true, false, false, true, true, false)), (String ((Ascii
-    (false, false, false, false, false, true, false, false)), (String ((Ascii
-    (false, false, true, false, true, true, true, false)), (String ((Ascii
-    (false, false, false, true, false, true, true, false)), (String ((Ascii
-    (true, false, true, false, false, true, true, false)), (String ((Ascii
-    (false, false, false, false, false, true, false, false)), (String ((Ascii
-    (false, true, false, false, true, true, true, false)), (String ((Ascii
-    (true, false, true, false, false, true, true, false)), (String ((Ascii
-    (true, true, true, false, false, true, true, false)), (String ((Ascii
-    (true, false, true, false, true, true, true, false)), (String ((Ascii
-    (false, false, true, true, false, true, true, false)), (String ((Ascii
-    (true, false, false, false, false, true, true, false)), (String ((Ascii
-    (false, true, false, false, true, true, true, false)), (String ((Ascii
-    (false, false, false, false, false, true, false, false)), (String ((Ascii
-    (true, false, true, false, false, true, true, false)), (String ((Ascii
-    (false, false, false, true, true, true, true, false)), (String ((Ascii
-    (false, false, false, false, true, true, true, false)), (String ((Ascii
-    (false, true, false, false, true, true, true, false)), (String ((Ascii
-    (true, false, true, false, false, true, true, false)), (String ((Ascii
-    (true, true, false, false, true, true, true, false)), (String ((Ascii
-    (true, true, false, false, true, true, true, false)), (String ((Ascii
-    (true, false, false, true, false, true, true, false)), (String ((Ascii
-    (true, true, true, true, false, true, true, false)), (String ((Ascii
-    (false, true, true, true, false, true, true, false)),
-    EmptyString)))))))))))))))))))))))))))))))))))))))))))))))))))))))))),
-    EmptyString)) :: []), ((SIf ((CByte (Npos (XO (XO (XI (XI (XI (XO
-    XH)))))))), ((SSetStep st_stateRegexBodyAfterSlash) :: []),
-    [])) :: []))) :: []))) :: (SRetNil :: []))) :: (((String ((Ascii (true,
-    true, false, false, true, true, true, false)), (String ((Ascii (false,
-    false, true, false, true, true, true, false)), (String ((Ascii (true,
-    false, false, false, false, true, true, false)), (String ((Ascii (false,
-    false, true, false, true, true, true, false)), (String ((Ascii (true,
-    false, true, false, false, true, true, false)), (String ((Ascii (false,
-    true, false, false, true, false, true, false)), (String ((Ascii (true,
-    false, true, false, false, true, true, false)), (String ((Ascii (true,
-    true, true, false, false, true, true, false)), (String ((Ascii (true,
-    false, true, false, false, true, true, false)), (String ((Ascii (false,
-    false, false, true, true, true, true, false)), (String ((Ascii (false,
-    true, false, false, false, false, true, false)), (String ((Ascii (true,
-    true, true, true, false, true, true, false)), (String ((Ascii (false,
-    false, true, false, false, true, true, false)), (String ((Ascii (true,
-    false, false, true, true, true, true, false)), (String ((Ascii (true,
-    false, false, false, false, false, true, false)), (String ((Ascii (false,
-    true, true, false, false, true, true, false)), (String ((Ascii (false,
-    false, true, false, true, true, true, false)), (String ((Ascii (true,
-    false, true, false, false, true, true, false)), (String ((Ascii (false,
-    true, false, false, true, true, true, false)), (String ((Ascii (true,
-    true, false, false, true, false, true, false)), (String ((Ascii (false,
-    false, true, true, false, true, true, false)), (String ((Ascii (true,
-    false, false, false, false, true, true, false)), (String ((Ascii (true,
-    true, false, false, true, true, true, false)), (String ((Ascii (false,
-    false, false, true, false, true, true, false)),
-    EmptyString)))))))))))))))))))))))))))))))))))))))))))))))), ((SSetStep
-    st_stateRegexBody) :: (SRetNil :: []))) :: (((String ((Ascii (true, true,
-    false, false, true, true, true, false)), (String ((Ascii (false, false,
-    true, false, true, true, true, false)), (String ((Ascii (true, false,
-    false, false, false, true, true, false)), (String ((Ascii (false, false,
-    true, false, true, true, true, false)), (String ((Ascii (true, false,
-    true, false, false, true, true, false)), (String ((Ascii (false, true,
-    false, false, true, false, true, false)), (String ((Ascii (true, false,
-    true, false, false, true, true, false)), (String ((Ascii (true, true,
-    true, false, false, true, true, false)), (String ((Ascii (true, false,
-    true, false, false, true, true, false)), (String ((Ascii (false, false,
-    false, true, true, true, true, false)), (String ((Ascii (false, true,
-    true, false, false, false, true, false)), (String ((Ascii (true, false,
-    false, true, false, true, true, false)), (String ((Ascii (false, true,
-    false, false, true, true, true, false)), (String ((Ascii (true, true,
-    false, false, true, true, true, false)), (String ((Ascii (false, false,
-    true, false, true, true, true, false)), (String ((Ascii (true, true,
-    false, false, false, false, true, false)), (String ((Ascii (false, false,
-    false, true, false, true, true, false)), (String ((Ascii (true, false,
-    false, false, false, true, true, false)), (String ((Ascii (false, true,
-    false, false, true, true, true, false)),
-    EmptyString)))))))))))))))))))))))))))))))))))))), ((SIf ((CByte (Npos
-    (XI (XI (XI (XI (XO XH))))))), ((SRetErr ((String ((Ascii (true, false,
-    true, false, false, true, true, false)), (String ((Ascii (true, false,
-    true, true, false, true, true, false)), (String ((Ascii (false, false,
-    false, false, true, true, true, false)), (String ((Ascii (false, false,
-    true, false, true, true, true, false)), (String ((Ascii (true, false,
-    false, true, true, true, true, false)), (String ((Ascii (false, false,
-    false, false, false, true, false, false)), (String ((Ascii (false, true,
-    false, false, true, true, true, false)), (String ((Ascii (true, false,
-    true, false, false, true, true, false)), (String ((Ascii (true, true,
-    true, false, false, true, true, false)), (String ((Ascii (true, false,
-    true, false, false, true, true, false)), (String ((Ascii (false, false,
-    false, true, true, true, true, false)),
-    EmptyString)))))))))))))))))))))), EmptyString)) :: []),
-    [])) :: ((SSetStep
-    st_stateRegexBody) :: (SRetRedispatch :: [])))) :: (((String ((Ascii
+    EmptyString)))))))))))))))))))))))))))),
+    (block ((SIf ((CByte (Npos (XI (XI (XI (XI (XO XH))))))),
+      (block ((SFound (TextEnd, Z0)) :: ((SSetStep
+        st_stateBodyEnded) :: []))),
+      (block ((SIf ((CByte N0),
+        (block ((SRetErr ((String ((Ascii (true, false, false, true, false,
+          true, true, false)), (String ((Ascii (false, true, true, true,
+          false, true, true, false)), (String ((Ascii (true, true, false,
+          false, true, true, true, false)), (String ((Ascii (true, false,
+          false, true, false, true, true, false)), (String ((Ascii (false,
+          false, true, false, false, true, true, false)), (String ((Ascii
+          (true, false, true, false, false, true, true, false)), (String
+          ((Ascii (false, false, false, false, false, true, false, false)),
+          (String ((Ascii (false, false, true, false, true, true, true,
+          false)), (String ((Ascii (false, false, false, true, false, true,
+          true, false)), (String ((Ascii (true, false, true, false, false,
+          true, true, false)), (String ((Ascii (false, false, false, false,
+          false, true, false, false)), (String ((Ascii (false, true, false,
+          false, true, true, true, false)), (String ((Ascii (true, false,
+          true, false, false, true, true, false)), (String ((Ascii (true,
+          true, true, false, false, true, true, false)), (String ((Ascii
+          (true, false, true, false, true, true, true, false)), (String
+          ((Ascii (false, false, true, true, false, true, true, false)),
+          (String ((Ascii (true, false, false, false, false, true, true,
+          false)), (String ((Ascii (false, true, false, false, true, true,
+          true, false)), (String ((Ascii (false, false, false, false, false,
+          true, false, false)), (String ((Ascii (true, false, true, false,
+          false, true, true, false)), (String ((Ascii (false, false, false,
+          true, true, true, true, false)), (String ((Ascii (false, false,
+          false, false, true, true, true, false)), (String ((Ascii (false,
+          true, false, false, true, true, true, false)), (String ((Ascii
+          (true, false, true, false, false, true, true, false)), (String
+          ((Ascii (true, true, false, false, true, true, true, false)),
+          (String ((Ascii (true, true, false, false, true, true, true,
+          false)), (String ((Ascii (true, false, false, true, false, true,
+          true, false)), (String ((Ascii (true, true, true, true, false,
+          true, true, false)), (String ((Ascii (false, true, true, true,
+          false, true, true, false)),
+          EmptyString)))))))))))))))))))))))))))))))))))))))))))))))))))))))))),
+          EmptyString)) :: [])),
+        (block ((SIf ((CByte (Npos (XO (XO (XI (XI (XI (XO XH)))))))),
+          (block ((SSetStep st_stateRegexBodyAfterSlash) :: [])),
+          SSkip)) :: [])))) :: [])))) :: (SRetNil :: [])))) :: (((String
+    ((Ascii (true, true, false, false, true, true, true, false)), (String
+    ((Ascii (false, false, true, false, true, true, true, false)), (String
+    ((Ascii (true, false, false, false, false, true, true, false)), (String
+    ((Ascii (false, false, true, false, true, true, true, false)), (String
+    ((Ascii (true, false, true, false, false, true, true, false)), (String
+    ((Ascii (false, true, false, false, true, false, true, false)), (String
+    ((Ascii (true, false, true, false, false, true, true, false)), (String
+    ((Ascii (true, true, true, false, false, true, true, false)), (String
+    ((Ascii (true, false, true, false, false, true, true, false)), (String
+    ((Ascii (false, false, false, true, true, true, true, false)), (String
+    ((Ascii (false, true, false, false, false, false, true, false)), (String
+    ((Ascii (true, true, true, true, false, true, true, false)), (String
+    ((Ascii (false, false, true, false, false, true, true, false)), (String
+    ((Ascii (true, false, false, true, true, true, true, false)), (String
+    ((Ascii (true, false, false, false, false, false, true, false)), (String
+    ((Ascii (false, true, true, false, false, true, true, false)), (String
+    ((Ascii (false, false, true, false, true, true, true, false)), (String
+    ((Ascii (true, false, true, false, false, true, true, false)), (String
+    ((Ascii (false, true, false, false, true, true, true, false)), (String
+    ((Ascii (true, true, false, false, true, false, true, false)), (String
+    ((Ascii (false, false, true, true, false, true, true, false)), (String
+    ((Ascii (true, false, false, false, false, true, true, false)), (String
+    ((Ascii (true, true, false, false, true, true, true, false)), (String
+    ((Ascii (false, false, false, true, false, true, true, false)),
+    EmptyString)))))))))))))))))))))))))))))))))))))))))))))))),
+    (block ((SSetStep st_stateRegexBody) :: (SRetNil :: [])))) :: (((String
+    ((Ascii (true, true, false, false, true, true, true, false)), (String
+    ((Ascii (false, false, true, false, true, true, true, false)), (String
+    ((Ascii (true, false, false, false, false, true, true, false)), (String
+    ((Ascii (false, false, true, false, true, true, true, false)), (String
+    ((Ascii (true, false, true, false, false, true, true, false)), (String
+    ((Ascii (false, true, false, false, true, false, true, false)), (String
+    ((Ascii (true, false, true, false, false, true, true, false)), (String
+    ((Ascii (true, true, true, false, false, true, true, false)), (String
+    ((Ascii (true, false, true, false, false, true, true, false)), (String
+    ((Ascii (false, false, false, true, true, true, true, false)), (String
+    ((Ascii (false, true, true, false, false, false, true, false)), (String
+    ((Ascii (true, false, false, true, false, true, true, false)), (String
+    ((Ascii (false, true, false, false, true, true, true, false)), (String
+    ((Ascii (true, true, false, false, true, true, true, false)), (String
+    ((Ascii (false, false, true, false, true, true, true, false)), (String
+    ((Ascii (true, true, false, false, false, false, true, false)), (String
+    ((Ascii (false, false, false, true, false, true, true, false)), (String
+    ((Ascii (true, false, false, false, false, true, true, false)), (String
+    ((Ascii (false, true, false, false, true, true, true, false)),
+    EmptyString)))))))))))))))))))))))))))))))))))))),
+    (block ((SIf ((CByte (Npos (XI (XI (XI (XI (XO XH))))))),
+      (block ((SRetErr ((String ((Ascii (true, false, true, false, false,
+        true, true, false)), (String ((Ascii (true, false, true, true, false,
+        true, true, false)), (String ((Ascii (false, false, false, false,
+        true, true, true, false)), (String ((Ascii (false, false, true,
+        false, true, true, true, false)), (String ((Ascii (true, false,
+        false, true, true, true, true, false)), (String ((Ascii (false,
+        false, false, false, false, true, false, false)), (String ((Ascii
+        (false, true, false, false, true, true, true, false)), (String
+        ((Ascii (true, false, true, false, false, true, true, false)),
+        (String ((Ascii (true, true, true, false, false, true, true, false)),
+        (String ((Ascii (true, false, true, false, false, true, true,
+        false)), (String ((Ascii (false, false, false, true, true, true,
+        true, false)), EmptyString)))))))))))))))))))))),
+        EmptyString)) :: [])), SSkip)) :: ((SSetStep
+      st_stateRegexBody) :: (SRetRedispatch :: []))))) :: (((String ((Ascii
     (true, true, false, false, true, true, true, false)), (String ((Ascii
     (false, false, true, false, true, true, true, false)), (String ((Ascii
     (true, false, false, false, false, true, true, false)), (String ((Ascii
@@ -7317,155 +7710,170 @@ let prog_table =
     (false, true, false, false, true, false, true, false)), (String ((Ascii
     (true, false, true, false, false, true, true, false)), (String ((Ascii
     (true, false, false, false, true, true, true, false)),
-    EmptyString)))))))))))))))), ((SIf ((CByte (Npos (XI (XO (XI (XO (XI (XI
-    XH)))))))), ((SSetStep st_stateRequ) :: (SRetNil :: [])), ((SRetErr
-    ((String ((Ascii (true, false, false, true, false, true, true, false)),
-    (String ((Ascii (false, true, true, true, false, true, true, false)),
-    (String ((Ascii (false, false, false, false, false, true, false, false)),
-    (String ((Ascii (true, true, false, true, false, true, true, false)),
-    (String ((Ascii (true, false, true, false, false, true, true, false)),
-    (String ((Ascii (true, false, false, true, true, true, true, false)),
-    (String ((Ascii (true, true, true, false, true, true, true, false)),
-    (String ((Ascii (true, true, true, true, false, true, true, false)),
-    (String ((Ascii (false, true, false, false, true, true, true, false)),
-    (String ((Ascii (false, false, true, false, false, true, true, false)),
-    (String ((Ascii (false, false, false, false, false, true, false, false)),
-    (String ((Ascii (false, true, false, false, true, false, true, false)),
-    (String ((Ascii (true, false, true, false, false, true, true, false)),
-    (String ((Ascii (true, false, false, false, true, true, true, false)),
-    (String ((Ascii (true, false, true, false, true, true, true, false)),
-    (String ((Ascii (true, false, true, false, false, true, true, false)),
-    (String ((Ascii (true, true, false, false, true, true, true, false)),
-    (String ((Ascii (false, false, true, false, true, true, true, false)),
-    EmptyString)))))))))))))))))))))))))))))))))))), (String ((Ascii (true,
-    false, true, false, true, true, true, false)),
-    EmptyString)))) :: []))) :: [])) :: (((String ((Ascii (true, true, false,
-    false, true, true, true, false)), (String ((Ascii (false, false, true,
-    false, true, true, true, false)), (String ((Ascii (true, false, false,
-    false, false, true, true, false)), (String ((Ascii (false, false, true,
-    false, true, true, true, false)), (String ((Ascii (true, false, true,
-    false, false, true, true, false)), (String ((Ascii (false, true, false,
-    false, true, false, true, false)), (String ((Ascii (true, false, true,
-    false, false, true, true, false)), (String ((Ascii (true, false, false,
-    false, true, true, true, false)), (String ((Ascii (true, false, true,
-    false, true, true, true, false)), EmptyString)))))))))))))))))), ((SIf
-    ((CByte (Npos (XI (XO (XI (XO (XO (XI XH)))))))), ((SSetStep
-    st_stateReque) :: (SRetNil :: [])), ((SRetErr ((String ((Ascii (true,
-    false, false, true, false, true, true, false)), (String ((Ascii (false,
-    true, true, true, false, true, true, false)), (String ((Ascii (false,
-    false, false, false, false, true, false, false)), (String ((Ascii (true,
-    true, false, true, false, true, true, false)), (String ((Ascii (true,
-    false, true, false, false, true, true, false)), (String ((Ascii (true,
-    false, false, true, true, true, true, false)), (String ((Ascii (true,
-    true, true, false, true, true, true, false)), (String ((Ascii (true,
-    true, true, true, false, true, true, false)), (String ((Ascii (false,
-    true, false, false, true, true, true, false)), (String ((Ascii (false,
-    false, true, false, false, true, true, false)), (String ((Ascii (false,
-    false, false, false, false, true, false, false)), (String ((Ascii (false,
-    true, false, false, true, false, true, false)), (String ((Ascii (true,
-    false, true, false, false, true, true, false)), (String ((Ascii (true,
-    false, false, false, true, true, true, false)), (String ((Ascii (true,
-    false, true, false, true, true, true, false)), (String ((Ascii (true,
-    false, true, false, false, true, true, false)), (String ((Ascii (true,
-    true, false, false, true, true, true, false)), (String ((Ascii (false,
-    false, true, false, true, true, true, false)),
-    EmptyString)))))))))))))))))))))))))))))))))))), (String ((Ascii (true,
-    false, true, false, false, true, true, false)),
-    EmptyString)))) :: []))) :: [])) :: (((String ((Ascii (true, true, false,
-    false, true, true, true, false)), (String ((Ascii (false, false, true,
-    false, true, true, true, false)), (String ((Ascii (true, false, false,
-    false, false, true, true, false)), (String ((Ascii (false, false, true,
-    false, true, true, true, false)), (String ((Ascii (true, false, true,
-    false, false, true, true, false)), (String ((Ascii (false, true, false,
-    false, true, false, true, false)), (String ((Ascii (true, false, true,
-    false, false, true, true, false)), (String ((Ascii (true, false, false,
-    false, true, true, true, false)), (String ((Ascii (true, false, true,
-    false, true, true, true, false)), (String ((Ascii (true, false, true,
-    false, false, true, true, false)), EmptyString)))))))))))))))))))), ((SIf
-    ((CByte (Npos (XI (XI (XO (XO (XI (XI XH)))))))), ((SSetStep
-    st_stateReques) :: (SRetNil :: [])), ((SRetErr ((String ((Ascii (true,
-    false, false, true, false, true, true, false)), (String ((Ascii (false,
-    true, true, true, false, true, true, false)), (String ((Ascii (false,
-    false, false, false, false, true, false, false)), (String ((Ascii (true,
-    true, false, true, false, true, true, false)), (String ((Ascii (true,
-    false, true, false, false, true, true, false)), (String ((Ascii (true,
-    false, false, true, true, true, true, false)), (String ((Ascii (true,
-    true, true, false, true, true, true, false)), (String ((Ascii (true,
-    true, true, true, false, true, true, false)), (String ((Ascii (false,
-    true, false, false, true, true, true, false)), (String ((Ascii (false,
-    false, true, false, false, true, true, false)), (String ((Ascii (false,
-    false, false, false, false, true, false, false)), (String ((Ascii (false,
-    true, false, false, true, false, true, false)), (String ((Ascii (true,
-    false, true, false, false, true, true, false)), (String ((Ascii (true,
-    false, false, false, true, true, true, false)), (String ((Ascii (true,
-    false, true, false, true, true, true, false)), (String ((Ascii (true,
-    false, true, false, false, true, true, false)), (String ((Ascii (true,
-    true, false, false, true, true, true, false)), (String ((Ascii (false,
-    false, true, false, true, true, true, false)),
-    EmptyString)))))))))))))))))))))))))))))))))))), (String ((Ascii (true,
-    true, false, false, true, true, true, false)),
-    EmptyString)))) :: []))) :: [])) :: (((String ((Ascii (true, true, false,
-    false, true, true, true, false)), (String ((Ascii (false, false, true,
-    false, true, true, true, false)), (String ((Ascii (true, false, false,
-    false, false, true, true, false)), (String ((Ascii (false, false, true,
-    false, true, true, true, false)), (String ((Ascii (true, false, true,
-    false, false, true, true, false)), (String ((Ascii (false, true, false,
-    false, true, false, true, false)), (String ((Ascii (true, false, true,
-    false, false, true, true, false)), (String ((Ascii (true, false, false,
-    false, true, true, true, false)), (String ((Ascii (true, false, true,
-    false, true, true, true, false)), (String ((Ascii (true, false, true,
-    false, false, true, true, false)), (String ((Ascii (true, true, false,
-    false, true, true, true, false)), EmptyString)))))))))))))))))))))),
-    ((SIf ((CByte (Npos (XO (XO (XI (XO (XI (XI XH)))))))), ((SFound
-    (KeywordEnd, Z0)) :: ((SPush st_stateRequestBodyOrKeyword) :: ((SSetStep
-    st_stateParameterOrAnnotation) :: (SRetNil :: [])))), ((SRetErr ((String
-    ((Ascii (true, false, false, true, false, true, true, false)), (String
-    ((Ascii (false, true, true, true, false, true, true, false)), (String
-    ((Ascii (false, false, false, false, false, true, false, false)), (String
-    ((Ascii (true, true, false, true, false, true, true, false)), (String
-    ((Ascii (true, false, true, false, false, true, true, false)), (String
-    ((Ascii (true, false, false, true, true, true, true, false)), (String
-    ((Ascii (true, true, true, false, true, true, true, false)), (String
-    ((Ascii (true, true, true, true, false, true, true, false)), (String
-    ((Ascii (false, true, false, false, true, true, true, false)), (String
-    ((Ascii (false, false, true, false, false, true, true, false)), (String
-    ((Ascii (false, false, false, false, false, true, false, false)), (String
-    ((Ascii (false, true, false, false, true, false, true, false)), (String
-    ((Ascii (true, false, true, false, false, true, true, false)), (String
-    ((Ascii (true, false, false, false, true, true, true, false)), (String
-    ((Ascii (true, false, true, false, true, true, true, false)), (String
-    ((Ascii (true, false, true, false, false, true, true, false)), (String
-    ((Ascii (true, true, false, false, true, true, true, false)), (String
-    ((Ascii (false, false, true, false, true, true, true, false)),
-    EmptyString)))))))))))))))))))))))))))))))))))), (String ((Ascii (false,
-    false, true, false, true, true, true, false)),
-    EmptyString)))) :: []))) :: [])) :: (((String ((Ascii (true, true, false,
-    false, true, true, true, false)), (String ((Ascii (false, false, true,
-    false, true, true, true, false)), (String ((Ascii (true, false, false,
-    false, false, true, true, false)), (String ((Ascii (false, false, true,
-    false, true, true, true, false)), (String ((Ascii (true, false, true,
-    false, false, true, true, false)), (String ((Ascii (false, true, false,
-    false, true, false, true, false)), (String ((Ascii (true, false, true,
-    false, false, true, true, false)), (String ((Ascii (true, false, false,
-    false, true, true, true, false)), (String ((Ascii (true, false, true,
-    false, true, true, true, false)), (String ((Ascii (true, false, true,
-    false, false, true, true, false)), (String ((Ascii (true, true, false,
-    false, true, true, true, false)), (String ((Ascii (false, false, true,
-    false, true, true, true, false)), (String ((Ascii (false, true, false,
-    false, false, false, true, false)), (String ((Ascii (true, true, true,
-    true, false, true, true, false)), (String ((Ascii (false, false, true,
-    false, false, true, true, false)), (String ((Ascii (true, false, false,
-    true, true, true, true, false)),
-    EmptyString)))))))))))))))))))))))))))))))), ((SIf ((CByte (Npos (XO (XO
-    (XO (XI (XO XH))))))), ((SFound (ContextOpen, Z0)) :: (SRetNil :: [])),
-    ((SIf ((COr (CWhitespace, CNewLine)), (SRetNil :: []), ((SIf ((CByte
-    (Npos (XI (XI (XO (XO (XO XH))))))), (SPushCur :: ((SSetStep
-    st_stateCommentStarted) :: (SRetNil :: []))), ((SIf ((COr ((CByte (Npos
-    (XO (XI (XO (XO (XO (XO XH)))))))), (COr ((CByte (Npos (XO (XO (XO (XI
-    (XO (XO XH)))))))), (COr ((CByte (Npos (XO (XO (XO (XO (XI (XO
-    XH)))))))), (CByte (Npos (XI (XO (XO (XI (XO (XO XH)))))))))))))),
-    ((SRetCall st_stateExpectKeyword) :: []),
-    (SPop :: (SRetRedispatch :: [])))) :: []))) :: []))) :: []))) :: [])) :: (((String
+    EmptyString)))))))))))))))),
+    (block ((SIf ((CByte (Npos (XI (XO (XI (XO (XI (XI XH)))))))),
+      (block ((SSetStep st_stateRequ) :: (SRetNil :: []))),
+      (block ((SRetErr ((String ((Ascii (true, false, false, true, false,
+        true, true, false)), (String ((Ascii (false, true, true, true, false,
+        true, true, false)), (String ((Ascii (false, false, false, false,
+        false, true, false, false)), (String ((Ascii (true, true, false,
+        true, false, true, true, false)), (String ((Ascii (true, false, true,
+        false, false, true, true, false)), (String ((Ascii (true, false,
+        false, true, true, true, true, false)), (String ((Ascii (true, true,
+        true, false, true, true, true, false)), (String ((Ascii (true, true,
+        true, true, false, true, true, false)), (String ((Ascii (false, true,
+        false, false, true, true, true, false)), (String ((Ascii (false,
+        false, true, false, false, true, true, false)), (String ((Ascii
+        (false, false, false, false, false, true, false, false)), (String
+        ((Ascii (false, true, false, false, true, false, true, false)),
+        (String ((Ascii (true, false, true, false, false, true, true,
+        false)), (String ((Ascii (true, false, false, false, true, true,
+        true, false)), (String ((Ascii (true, false, true, false, true, true,
+        true, false)), (String ((Ascii (true, false, true, false, false,
+        true, true, false)), (String ((Ascii (true, true, false, false, true,
+        true, true, false)), (String ((Ascii (false, false, true, false,
+        true, true, true, false)),
+        EmptyString)))))))))))))))))))))))))))))))))))), (String ((Ascii
+        (true, false, true, false, true, true, true, false)),
+        EmptyString)))) :: [])))) :: []))) :: (((String ((Ascii (true, true,
+    false, false, true, true, true, false)), (String ((Ascii (false, false,
+    true, false, true, true, true, false)), (String ((Ascii (true, false,
+    false, false, false, true, true, false)), (String ((Ascii (false, false,
+    true, false, true, true, true, false)), (String ((Ascii (true, false,
+    true, false, false, true, true, false)), (String ((Ascii (false, true,
+    false, false, true, false, true, false)), (String ((Ascii (true, false,
+    true, false, false, true, true, false)), (String ((Ascii (true, false,
+    false, false, true, true, true, false)), (String ((Ascii (true, false,
+    true, false, true, true, true, false)), EmptyString)))))))))))))))))),
+    (block ((SIf ((CByte (Npos (XI (XO (XI (XO (XO (XI XH)))))))),
+      (block ((SSetStep st_stateReque) :: (SRetNil :: []))),
+      (block ((SRetErr ((String ((Ascii (true, false, false, true, false,
+        true, true, false)), (String ((Ascii (false, true, true, true, false,
+        true, true, false)), (String ((Ascii (false, false, false, false,
+        false, true, false, false)), (String ((Ascii (true, true, false,
+        true, false, true, true, false)), (String ((Ascii (true, false, true,
+        false, false, true, true, false)), (String ((Ascii (true, false,
+        false, true, true, true, true, false)), (String ((Ascii (true, true,
+        true, false, true, true, true, false)), (String ((Ascii (true, true,
+        true, true, false, true, true, false)), (String ((Ascii (false, true,
+        false, false, true, true, true, false)), (String ((Ascii (false,
+        false, true, false, false, true, true, false)), (String ((Ascii
+        (false, false, false, false, false, true, false, false)), (String
+        ((Ascii (false, true, false, false, true, false, true, false)),
+        (String ((Ascii (true, false, true, false, false, true, true,
+        false)), (String ((Ascii (true, false, false, false, true, true,
+        true, false)), (String ((Ascii (true, false, true, false, true, true,
+        true, false)), (String ((Ascii (true, false, true, false, false,
+        true, true, false)), (String ((Ascii (true, true, false, false, true,
+        true, true, false)), (String ((Ascii (false, false, true, false,
+        true, true, true, false)),
+        EmptyString)))))))))))))))))))))))))))))))))))), (String ((Ascii
+        (true, false, true, false, false, true, true, false)),
+        EmptyString)))) :: [])))) :: []))) :: (((String ((Ascii (true, true,
+    false, false, true, true, true, false)), (String ((Ascii (false, false,
+    true, false, true, true, true, false)), (String ((Ascii (true, false,
+    false, false, false, true, true, false)), (String ((Ascii (false, false,
+    true, false, true, true, true, false)), (String ((Ascii (true, false,
+    true, false, false, true, true, false)), (String ((Ascii (false, true,
+    false, false, true, false, true, false)), (String ((Ascii (true, false,
+    true, false, false, true, true, false)), (String ((Ascii (true, false,
+    false, false, true, true, true, false)), (String ((Ascii (true, false,
+    true, false, true, true, true, false)), (String ((Ascii (true, false,
+    true, false, false, true, true, false)), EmptyString)))))))))))))))))))),
+    (block ((SIf ((CByte (Npos (XI (XI (XO (XO (XI (XI XH)))))))),
+      (block ((SSetStep st_stateReques) :: (SRetNil :: []))),
+      (block ((SRetErr ((String ((Ascii (true, false, false, true, false,
+        true, true, false)), (String ((Ascii (false, true, true, true, false,
+        true, true, false)), (String ((Ascii (false, false, false, false,
+        false, true, false, false)), (String ((Ascii (true, true, false,
+        true, false, true, true, false)), (String ((Ascii (true, false, true,
+        false, false, true, true, false)), (String ((Ascii (true, false,
+        false, true, true, true, true, false)), (String ((Ascii (true, true,
+        true, false, true, true, true, false)), (String ((Ascii (true, true,
+        true, true, false, true, true, false)), (String ((Ascii (false, true,
+        false, false, true, true, true, false)), (String ((Ascii (false,
+        false, true, false, false, true, true, false)), (String ((Ascii
+        (false, false, false, false, false, true, false, false)), (String
+        ((Ascii (false, true, false, false, true, false, true, false)),
+        (String ((Ascii (true, false, true, false, false, true, true,
+        false)), (String ((Ascii (true, false, false, false, true, true,
+        true, false)), (String ((Ascii (true, false, true, false, true, true,
+        true, false)), (String ((Ascii (true, false, true, false, false,
+        true, true, false)), (String ((Ascii (true, true, false, false, true,
+        true, true, false)), (String ((Ascii (false, false, true, false,
+        true, true, true, false)),
+        EmptyString)))))))))))))))))))))))))))))))))))), (String ((Ascii
+        (true, true, false, false, true, true, true, false)),
+        EmptyString)))) :: [])))) :: []))) :: (((String ((Ascii (true, true,
+    false, false, true, true, true, false)), (String ((Ascii (false, false,
+    true, false, true, true, true, false)), (String ((Ascii (true, false,
+    false, false, false, true, true, false)), (String ((Ascii (false, false,
+    true, false, true, true, true, false)), (String ((Ascii (true, false,
+    true, false, false, true, true, false)), (String ((Ascii (false, true,
+    false, false, true, false, true, false)), (String ((Ascii (true, false,
+    true, false, false, true, true, false)), (String ((Ascii (true, false,
+    false, false, true, true, true, false)), (String ((Ascii (true, false,
+    true, false, true, true, true, false)), (String ((Ascii (true, false,
+    true, false, false, true, true, false)), (String ((Ascii (true, true,
+    false, false, true, true, true, false)),
+    EmptyString)))))))))))))))))))))),
+    (block ((SIf ((CByte (Npos (XO (XO (XI (XO (XI (XI XH)))))))),
+      (block ((SFound (KeywordEnd, Z0)) :: ((SPush
+        st_stateRequestBodyOrKeyword) :: ((SSetStep
+        st_stateParameterOrAnnotation) :: (SRetNil :: []))))),
+      (block ((SRetErr ((String ((Ascii (true, false, false, true, false,
+        true, true, false)), (String ((Ascii (false, true, true, true, false,
+        true, true, false)), (String ((Ascii (false, false, false, false,
+        false, true, false, false)), (String ((Ascii (true, true, false,
+        true, false, true, true, false)), (String ((Ascii (true, false, true,
+        false, false, true, true, false)), (String ((Ascii (true, false,
+        false, true, true, true, true, false)), (String ((Ascii (true, true,
+        true, false, true, true, true, false)), (String ((Ascii (true, true,
+        true, true, false, true, true, false)), (String ((Ascii (false, true,
+        false, false, true, true, true, false)), (String ((Ascii (false,
+        false, true, false, false, true, true, false)), (String ((Ascii
+        (false, false, false, false, false, true, false, false)), (String
+        ((Ascii (false, true, false, false, true, false, true, false)),
+        (String ((Ascii (true, false, true, false, false, true, true,
+        false)), (String ((Ascii (true, false, false, false, true, true,
+        true, false)), (String ((Ascii (true, false, true, false, true, true,
+        true, false)), (String ((Ascii (true, false, true, false, false,
+        true, true, false)), (String ((Ascii (true, true, false, false, true,
+        true, true, false)), (String ((Ascii (false, false, true, false,
+        true, true, true, false)),
+        EmptyString)))))))))))))))))))))))))))))))))))), (String ((Ascii
+        (false, false, true, false, true, true, true, false)),
+        EmptyString)))) :: [])))) :: []))) :: (((String ((Ascii (true, true,
+    false, false, true, true, true, false)), (String ((Ascii (false, false,
+    true, false, true, true, true, false)), (String ((Ascii (true, false,
+    false, false, false, true, true, false)), (String ((Ascii (false, false,
+    true, false, true, true, true, false)), (String ((Ascii (true, false,
+    true, false, false, true, true, false)), (String ((Ascii (false, true,
+    false, false, true, false, true, false)), (String ((Ascii (true, false,
+    true, false, false, true, true, false)), (String ((Ascii (true, false,
+    false, false, true, true, true, false)), (String ((Ascii (true, false,
+    true, false, true, true, true, false)), (String ((Ascii (true, false,
+    true, false, false, true, true, false)), (String ((Ascii (true, true,
+    false, false, true, true, true, false)), (String ((Ascii (false, false,
+    true, false, true, true, true, false)), (String ((Ascii (false, true,
+    false, false, false, false, true, false)), (String ((Ascii (true, true,
+    true, true, false, true, true, false)), (String ((Ascii (false, false,
+    true, false, false, true, true, false)), (String ((Ascii (true, false,
+    false, true, true, true, true, false)),
+    EmptyString)))))))))))))))))))))))))))))))),
+    (block ((SIf ((CByte (Npos (XO (XO (XO (XI (XO XH))))))),
+      (block ((SFound (ContextOpen, Z0)) :: (SRetNil :: []))),
+      (block ((SIf ((COr (CWhitespace, CNewLine)), (block (SRetNil :: [])),
+        (block ((SIf ((CByte (Npos (XI (XI (XO (XO (XO XH))))))),
+          (block (SPushCur :: ((SSetStep
+            st_stateCommentStarted) :: (SRetNil :: [])))),
+          (block ((SIf ((COr ((CByte (Npos (XO (XI (XO (XO (XO (XO
+            XH)))))))), (COr ((CByte (Npos (XO (XO (XO (XI (XO (XO
+            XH)))))))), (COr ((CByte (Npos (XO (XO (XO (XO (XI (XO
+            XH)))))))), (CByte (Npos (XI (XO (XO (XI (XO (XO
+            XH)))))))))))))),
+            (block ((SRetCall st_stateExpectKeyword) :: [])),
+            (block (SPop :: (SRetRedispatch :: []))))) :: [])))) :: [])))) :: [])))) :: []))) :: (((String
     ((Ascii (true, true, false, false, true, true, true, false)), (String
     ((Ascii (false, false, true, false, true, true, true, false)), (String
     ((Ascii (true, false, false, false, false, true, true, false)), (String
@@ -7491,11 +7899,12 @@ let prog_table =
     ((Ascii (true, true, true, true, false, true, true, false)), (String
     ((Ascii (false, true, false, false, true, true, true, false)), (String
     ((Ascii (false, false, true, false, false, true, true, false)),
-    EmptyString)))))))))))))))))))))))))))))))))))))))))))))))))), ((SIf
-    ((CNot (CCtx QTypeOrAnyOrEmpty)), ((SIf ((CCtx QRegex), ((SPush
-    st_stateRegex) :: []), ((SPush st_stateJSchema) :: []))) :: ((SSetStep
-    st_stateRequestBody) :: [])), ((SSetStep
-    st_stateExpectKeyword) :: []))) :: (SRetRedispatch :: []))) :: (((String
+    EmptyString)))))))))))))))))))))))))))))))))))))))))))))))))),
+    (block ((SIf ((CNot (CCtx QTypeOrAnyOrEmpty)),
+      (block ((SIf ((CCtx QRegex), (block ((SPush st_stateRegex) :: [])),
+        (block ((SPush st_stateJSchema) :: [])))) :: ((SSetStep
+        st_stateRequestBody) :: []))),
+      (block ((SSetStep st_stateExpectKeyword) :: [])))) :: (SRetRedispatch :: [])))) :: (((String
     ((Ascii (true, true, false, false, true, true, true, false)), (String
     ((Ascii (false, false, true, false, true, true, true, false)), (String
     ((Ascii (true, false, false, false, false, true, true, false)), (String
@@ -7504,55 +7913,61 @@ let prog_table =
     ((Ascii (false, true, false, false, true, false, true, false)), (String
     ((Ascii (true, false, true, false, false, true, true, false)), (String
     ((Ascii (true, true, false, false, true, true, true, false)),
-    EmptyString)))))))))))))))), ((SIf ((CByte (Npos (XI (XO (XI (XO (XI (XI
-    XH)))))))), ((SSetStep st_stateResu) :: (SRetNil :: [])), ((SRetErr
-    ((String ((Ascii (true, false, false, true, false, true, true, false)),
-    (String ((Ascii (false, true, true, true, false, true, true, false)),
-    (String ((Ascii (false, false, false, false, false, true, false, false)),
-    (String ((Ascii (true, true, false, true, false, true, true, false)),
-    (String ((Ascii (true, false, true, false, false, true, true, false)),
-    (String ((Ascii (true, false, false, true, true, true, true, false)),
-    (String ((Ascii (true, true, true, false, true, true, true, false)),
-    (String ((Ascii (true, true, true, true, false, true, true, false)),
-    (String ((Ascii (false, true, false, false, true, true, true, false)),
-    (String ((Ascii (false, false, true, false, false, true, true, false)),
-    (String ((Ascii (false, false, false, false, false, true, false, false)),
-    (String ((Ascii (false, true, false, false, true, false, true, false)),
-    (String ((Ascii (true, false, true, false, false, true, true, false)),
-    (String ((Ascii (true, true, false, false, true, true, true, false)),
-    (String ((Ascii (true, false, true, false, true, true, true, false)),
-    (String ((Ascii (false, false, true, true, false, true, true, false)),
-    (String ((Ascii (false, false, true, false, true, true, true, false)),
-    EmptyString)))))))))))))))))))))))))))))))))), (String ((Ascii (true,
-    false, true, false, true, true, true, false)),
-    EmptyString)))) :: []))) :: [])) :: (((String ((Ascii (true, true, false,
-    false, true, true, true, false)), (String ((Ascii (false, false, true,
-    false, true, true, true, false)), (String ((Ascii (true, false, false,
-    false, false, true, true, false)), (String ((Ascii (false, false, true,
-    false, true, true, true, false)), (String ((Ascii (true, false, true,
-    false, false, true, true, false)), (String ((Ascii (false, true, false,
-    false, true, false, true, false)), (String ((Ascii (true, false, true,
-    false, false, true, true, false)), (String ((Ascii (true, true, false,
-    false, true, true, true, false)), (String ((Ascii (false, false, false,
-    false, true, true, true, false)), (String ((Ascii (true, true, true,
-    true, false, true, true, false)), (String ((Ascii (false, true, true,
-    true, false, true, true, false)), (String ((Ascii (true, true, false,
-    false, true, true, true, false)), (String ((Ascii (true, false, true,
-    false, false, true, true, false)), (String ((Ascii (false, true, false,
-    false, false, false, true, false)), (String ((Ascii (true, true, true,
-    true, false, true, true, false)), (String ((Ascii (false, false, true,
-    false, false, true, true, false)), (String ((Ascii (true, false, false,
-    true, true, true, true, false)),
-    EmptyString)))))))))))))))))))))))))))))))))), ((SIf ((CByte (Npos (XO
-    (XO (XO (XI (XO XH))))))), ((SFound (ContextOpen,
-    Z0)) :: (SRetNil :: [])), ((SIf ((COr (CWhitespace, CNewLine)),
-    (SRetNil :: []), ((SIf ((CByte (Npos (XI (XI (XO (XO (XO XH))))))),
-    (SPushCur :: ((SSetStep st_stateCommentStarted) :: (SRetNil :: []))),
-    ((SIf ((COr ((CByte (Npos (XO (XI (XO (XO (XO (XO XH)))))))), (COr
-    ((CByte (Npos (XO (XO (XO (XI (XO (XO XH)))))))), (COr ((CByte (Npos (XO
-    (XO (XO (XO (XI (XO XH)))))))), (CByte (Npos (XI (XO (XO (XI (XO (XO
-    XH)))))))))))))), ((SRetCall st_stateExpectKeyword) :: []),
-    (SPop :: (SRetRedispatch :: [])))) :: []))) :: []))) :: []))) :: [])) :: (((String
+    EmptyString)))))))))))))))),
+    (block ((SIf ((CByte (Npos (XI (XO (XI (XO (XI (XI XH)))))))),
+      (block ((SSetStep st_stateResu) :: (SRetNil :: []))),
+      (block ((SRetErr ((String ((Ascii (true, false, false, true, false,
+        true, true, false)), (String ((Ascii (false, true, true, true, false,
+        true, true, false)), (String ((Ascii (false, false, false, false,
+        false, true, false, false)), (String ((Ascii (true, true, false,
+        true, false, true, true, false)), (String ((Ascii (true, false, true,
+        false, false, true, true, false)), (String ((Ascii (true, false,
+        false, true, true, true, true, false)), (String ((Ascii (true, true,
+        true, false, true, true, true, false)), (String ((Ascii (true, true,
+        true, true, false, true, true, false)), (String ((Ascii (false, true,
+        false, false, true, true, true, false)), (String ((Ascii (false,
+        false, true, false, false, true, true, false)), (String ((Ascii
+        (false, false, false, false, false, true, false, false)), (String
+        ((Ascii (false, true, false, false, true, false, true, false)),
+        (String ((Ascii (true, false, true, false, false, true, true,
+        false)), (String ((Ascii (true, true, false, false, true, true, true,
+        false)), (String ((Ascii (true, false, true, false, true, true, true,
+        false)), (String ((Ascii (false, false, true, true, false, true,
+        true, false)), (String ((Ascii (false, false, true, false, true,
+        true, true, false)), EmptyString)))))))))))))))))))))))))))))))))),
+        (String ((Ascii (true, false, true, false, true, true, true, false)),
+        EmptyString)))) :: [])))) :: []))) :: (((String ((Ascii (true, true,
+    false, false, true, true, true, false)), (String ((Ascii (false, false,
+    true, false, true, true, true, false)), (String ((Ascii (true, false,
+    false, false, false, true, true, false)), (String ((Ascii (false, false,
+    true, false, true, true, true, false)), (String ((Ascii (true, false,
+    true, false, false, true, true, false)), (String ((Ascii (false, true,
+    false, false, true, false, true, false)), (String ((Ascii (true, false,
+    true, false, false, true, true, false)), (String ((Ascii (true, true,
+    false, false, true, true, true, false)), (String ((Ascii (false, false,
+    false, false, true, true, true, false)), (String ((Ascii (true, true,
+    true, true, false, true, true, false)), (String ((Ascii (false, true,
+    true, true, false, true, true, false)), (String ((Ascii (true, true,
+    false, false, true, true, true, false)), (String ((Ascii (true, false,
+    true, false, false, true, true, false)), (String ((Ascii (false, true,
+    false, false, false, false, true, false)), (String ((Ascii (true, true,
+    true, true, false, true, true, false)), (String ((Ascii (false, false,
+    true, false, false, true, true, false)), (String ((Ascii (true, false,
+    false, true, true, true, true, false)),
+    EmptyString)))))))))))))))))))))))))))))))))),
+    (block ((SIf ((CByte (Npos (XO (XO (XO (XI (XO XH))))))),
+      (block ((SFound (ContextOpen, Z0)) :: (SRetNil :: []))),
+      (block ((SIf ((COr (CWhitespace, CNewLine)), (block (SRetNil :: [])),
+        (block ((SIf ((CByte (Npos (XI (XI (XO (XO (XO XH))))))),
+          (block (SPushCur :: ((SSetStep
+            st_stateCommentStarted) :: (SRetNil :: [])))),
+          (block ((SIf ((COr ((CByte (Npos (XO (XI (XO (XO (XO (XO
+            XH)))))))), (COr ((CByte (Npos (XO (XO (XO (XI (XO (XO
+            XH)))))))), (COr ((CByte (Npos (XO (XO (XO (XO (XI (XO
+            XH)))))))), (CByte (Npos (XI (XO (XO (XI (XO (XO
+            XH)))))))))))))),
+            (block ((SRetCall st_stateExpectKeyword) :: [])),
+            (block (SPop :: (SRetRedispatch :: []))))) :: [])))) :: [])))) :: [])))) :: []))) :: (((String
     ((Ascii (true, true, false, false, true, true, true, false)), (String
     ((Ascii (false, false, true, false, true, true, true, false)), (String
     ((Ascii (true, false, false, false, false, true, true, false)), (String
@@ -7579,11 +7994,12 @@ let prog_table =
     ((Ascii (true, true, true, true, false, true, true, false)), (String
     ((Ascii (false, true, false, false, true, true, true, false)), (String
     ((Ascii (false, false, true, false, false, true, true, false)),
-    EmptyString)))))))))))))))))))))))))))))))))))))))))))))))))))), ((SIf
-    ((CNot (CCtx QTypeOrAnyOrEmpty)), ((SIf ((CCtx QRegex), ((SPush
-    st_stateRegex) :: []), ((SPush st_stateJSchema) :: []))) :: ((SSetStep
-    st_stateResponseBody) :: [])), ((SSetStep
-    st_stateExpectKeyword) :: []))) :: (SRetRedispatch :: []))) :: (((String
+    EmptyString)))))))))))))))))))))))))))))))))))))))))))))))))))),
+    (block ((SIf ((CNot (CCtx QTypeOrAnyOrEmpty)),
+      (block ((SIf ((CCtx QRegex), (block ((SPush st_stateRegex) :: [])),
+        (block ((SPush st_stateJSchema) :: [])))) :: ((SSetStep
+        st_stateResponseBody) :: []))),
+      (block ((SSetStep st_stateExpectKeyword) :: [])))) :: (SRetRedispatch :: [])))) :: (((String
     ((Ascii (true, true, false, false, true, true, true, false)), (String
     ((Ascii (false, false, true, false, true, true, true, false)), (String
     ((Ascii (true, false, false, false, false, true, true, false)), (String
@@ -7610,21 +8026,54 @@ let prog_table =
     ((Ascii (true, true, true, true, false, true, true, false)), (String
     ((Ascii (false, true, true, true, false, true, true, false)), (String
     ((Ascii (false, false, true, false, false, true, true, false)),
-    EmptyString)))))))))))))))))))))))))))))))))))))))))))))))))))), ((SIf
-    ((COr ((CByte (Npos (XO (XO (XO (XO (XI XH))))))), (COr ((CByte (Npos (XI
-    (XO (XO (XO (XI XH))))))), (COr ((CByte (Npos (XO (XI (XO (XO (XI
-    XH))))))), (COr ((CByte (Npos (XI (XI (XO (XO (XI XH))))))), (COr ((CByte
-    (Npos (XO (XO (XI (XO (XI XH))))))), (COr ((CByte (Npos (XI (XO (XI (XO
-    (XI XH))))))), (COr ((CByte (Npos (XO (XI (XI (XO (XI XH))))))), (COr
-    ((CByte (Npos (XI (XI (XI (XO (XI XH))))))), (COr ((CByte (Npos (XO (XO
-    (XO (XI (XI XH))))))), (CByte (Npos (XI (XO (XO (XI (XI
-    XH))))))))))))))))))))))))), ((SFound (KeywordEnd, Z0)) :: ((SPush
-    st_stateResponseBodyOrKeyword) :: ((SSetStep
-    st_stateParameterOrAnnotation) :: (SRetNil :: [])))), ((SRetErr ((String
+    EmptyString)))))))))))))))))))))))))))))))))))))))))))))))))))),
+    (block ((SIf ((COr ((CByte (Npos (XO (XO (XO (XO (XI XH))))))), (COr
+      ((CByte (Npos (XI (XO (XO (XO (XI XH))))))), (COr ((CByte (Npos (XO (XI
+      (XO (XO (XI XH))))))), (COr ((CByte (Npos (XI (XI (XO (XO (XI
+      XH))))))), (COr ((CByte (Npos (XO (XO (XI (XO (XI XH))))))), (COr
+      ((CByte (Npos (XI (XO (XI (XO (XI XH))))))), (COr ((CByte (Npos (XO (XI
+      (XI (XO (XI XH))))))), (COr ((CByte (Npos (XI (XI (XI (XO (XI
+      XH))))))), (COr ((CByte (Npos (XO (XO (XO (XI (XI XH))))))), (CByte
+      (Npos (XI (XO (XO (XI (XI XH))))))))))))))))))))))))),
+      (block ((SFound (KeywordEnd, Z0)) :: ((SPush
+        st_stateResponseBodyOrKeyword) :: ((SSetStep
+        st_stateParameterOrAnnotation) :: (SRetNil :: []))))),
+      (block ((SRetErr ((String ((Ascii (true, false, false, false, false,
+        true, true, false)), (String ((Ascii (false, false, true, false,
+        true, true, true, false)), (String ((Ascii (false, false, false,
+        false, false, true, false, false)), (String ((Ascii (false, true,
+        false, false, true, true, true, false)), (String ((Ascii (true,
+        false, true, false, false, true, true, false)), (String ((Ascii
+        (true, true, false, false, true, true, true, false)), (String ((Ascii
+        (false, false, false, false, true, true, true, false)), (String
+        ((Ascii (true, true, true, true, false, true, true, false)), (String
+        ((Ascii (false, true, true, true, false, true, true, false)), (String
+        ((Ascii (true, true, false, false, true, true, true, false)), (String
+        ((Ascii (true, false, true, false, false, true, true, false)),
+        (String ((Ascii (false, false, false, false, false, true, false,
+        false)), (String ((Ascii (false, false, true, false, false, true,
+        true, false)), (String ((Ascii (true, false, false, true, false,
+        true, true, false)), (String ((Ascii (false, true, false, false,
+        true, true, true, false)), (String ((Ascii (true, false, true, false,
+        false, true, true, false)), (String ((Ascii (true, true, false,
+        false, false, true, true, false)), (String ((Ascii (false, false,
+        true, false, true, true, true, false)), (String ((Ascii (true, false,
+        false, true, false, true, true, false)), (String ((Ascii (false,
+        true, true, false, true, true, true, false)), (String ((Ascii (true,
+        false, true, false, false, true, true, false)),
+        EmptyString)))))))))))))))))))))))))))))))))))))))))), (String
+        ((Ascii (false, false, true, false, false, true, true, false)),
+        (String ((Ascii (true, false, false, true, false, true, true,
+        false)), (String ((Ascii (true, true, true, false, false, true, true,
+        false)), (String ((Ascii (true, false, false, true, false, true,
+        true, false)), (String ((Ascii (false, false, true, false, true,
+        true, true, false)), EmptyString)))))))))))) :: [])))) :: []))) :: (((String
+    ((Ascii (true, true, false, false, true, true, true, false)), (String
+    ((Ascii (false, false, true, false, true, true, true, false)), (String
     ((Ascii (true, false, false, false, false, true, true, false)), (String
     ((Ascii (false, false, true, false, true, true, true, false)), (String
-    ((Ascii (false, false, false, false, false, true, false, false)), (String
-    ((Ascii (false, true, false, false, true, true, true, false)), (String
+    ((Ascii (true, false, true, false, false, true, true, false)), (String
+    ((Ascii (false, true, false, false, true, false, true, false)), (String
     ((Ascii (true, false, true, false, false, true, true, false)), (String
     ((Ascii (true, true, false, false, true, true, true, false)), (String
     ((Ascii (false, false, false, false, true, true, true, false)), (String
@@ -7632,425 +8081,426 @@ let prog_table =
     ((Ascii (false, true, true, true, false, true, true, false)), (String
     ((Ascii (true, true, false, false, true, true, true, false)), (String
     ((Ascii (true, false, true, false, false, true, true, false)), (String
-    ((Ascii (false, false, false, false, false, true, false, false)), (String
-    ((Ascii (false, false, true, false, false, true, true, false)), (String
-    ((Ascii (true, false, false, true, false, true, true, false)), (String
-    ((Ascii (false, true, false, false, true, true, true, false)), (String
-    ((Ascii (true, false, true, false, false, true, true, false)), (String
-    ((Ascii (true, true, false, false, false, true, true, false)), (String
-    ((Ascii (false, false, true, false, true, true, true, false)), (String
-    ((Ascii (true, false, false, true, false, true, true, false)), (String
-    ((Ascii (false, true, true, false, true, true, true, false)), (String
-    ((Ascii (true, false, true, false, false, true, true, false)),
-    EmptyString)))))))))))))))))))))))))))))))))))))))))), (String ((Ascii
-    (false, false, true, false, false, true, true, false)), (String ((Ascii
-    (true, false, false, true, false, true, true, false)), (String ((Ascii
-    (true, true, true, false, false, true, true, false)), (String ((Ascii
-    (true, false, false, true, false, true, true, false)), (String ((Ascii
-    (false, false, true, false, true, true, true, false)),
-    EmptyString)))))))))))) :: []))) :: [])) :: (((String ((Ascii (true,
-    true, false, false, true, true, true, false)), (String ((Ascii (false,
-    false, true, false, true, true, true, false)), (String ((Ascii (true,
-    false, false, false, false, true, true, false)), (String ((Ascii (false,
-    false, true, false, true, true, true, false)), (String ((Ascii (true,
-    false, true, false, false, true, true, false)), (String ((Ascii (false,
-    true, false, false, true, false, true, false)), (String ((Ascii (true,
-    false, true, false, false, true, true, false)), (String ((Ascii (true,
-    true, false, false, true, true, true, false)), (String ((Ascii (false,
-    false, false, false, true, true, true, false)), (String ((Ascii (true,
-    true, true, true, false, true, true, false)), (String ((Ascii (false,
-    true, true, true, false, true, true, false)), (String ((Ascii (true,
-    true, false, false, true, true, true, false)), (String ((Ascii (true,
-    false, true, false, false, true, true, false)), (String ((Ascii (true,
-    true, false, true, false, false, true, false)), (String ((Ascii (true,
-    false, true, false, false, true, true, false)), (String ((Ascii (true,
-    false, false, true, true, true, true, false)), (String ((Ascii (true,
-    true, true, false, true, true, true, false)), (String ((Ascii (true,
-    true, true, true, false, true, true, false)), (String ((Ascii (false,
-    true, false, false, true, true, true, false)), (String ((Ascii (false,
-    false, true, false, false, true, true, false)), (String ((Ascii (true,
-    true, false, false, true, false, true, false)), (String ((Ascii (false,
-    false, true, false, true, true, true, false)), (String ((Ascii (true,
-    false, false, false, false, true, true, false)), (String ((Ascii (false,
-    true, false, false, true, true, true, false)), (String ((Ascii (false,
-    false, true, false, true, true, true, false)), (String ((Ascii (true,
-    false, true, false, false, true, true, false)), (String ((Ascii (false,
-    false, true, false, false, true, true, false)),
-    EmptyString)))))))))))))))))))))))))))))))))))))))))))))))))))))), ((SIf
-    ((COr ((CByte (Npos (XO (XO (XO (XO (XI XH))))))), (COr ((CByte (Npos (XI
-    (XO (XO (XO (XI XH))))))), (COr ((CByte (Npos (XO (XI (XO (XO (XI
-    XH))))))), (COr ((CByte (Npos (XI (XI (XO (XO (XI XH))))))), (COr ((CByte
-    (Npos (XO (XO (XI (XO (XI XH))))))), (COr ((CByte (Npos (XI (XO (XI (XO
-    (XI XH))))))), (COr ((CByte (Npos (XO (XI (XI (XO (XI XH))))))), (COr
-    ((CByte (Npos (XI (XI (XI (XO (XI XH))))))), (COr ((CByte (Npos (XO (XO
-    (XO (XI (XI XH))))))), (CByte (Npos (XI (XO (XO (XI (XI
-    XH))))))))))))))))))))))))), ((SSetStep
-    st_stateResponseKeywordSecond) :: (SRetNil :: [])), ((SRetErr ((String
-    ((Ascii (true, false, false, false, false, true, true, false)), (String
-    ((Ascii (false, false, true, false, true, true, true, false)), (String
-    ((Ascii (false, false, false, false, false, true, false, false)), (String
-    ((Ascii (false, true, false, false, true, true, true, false)), (String
-    ((Ascii (true, false, true, false, false, true, true, false)), (String
-    ((Ascii (true, true, false, false, true, true, true, false)), (String
-    ((Ascii (false, false, false, false, true, true, true, false)), (String
-    ((Ascii (true, true, true, true, false, true, true, false)), (String
-    ((Ascii (false, true, true, true, false, true, true, false)), (String
-    ((Ascii (true, true, false, false, true, true, true, false)), (String
-    ((Ascii (true, false, true, false, false, true, true, false)), (String
-    ((Ascii (false, false, false, false, false, true, false, false)), (String
-    ((Ascii (false, false, true, false, false, true, true, false)), (String
-    ((Ascii (true, false, false, true, false, true, true, false)), (String
-    ((Ascii (false, true, false, false, true, true, true, false)), (String
-    ((Ascii (true, false, true, false, false, true, true, false)), (String
-    ((Ascii (true, true, false, false, false, true, true, false)), (String
-    ((Ascii (false, false, true, false, true, true, true, false)), (String
-    ((Ascii (true, false, false, true, false, true, true, false)), (String
-    ((Ascii (false, true, true, false, true, true, true, false)), (String
-    ((Ascii (true, false, true, false, false, true, true, false)),
-    EmptyString)))))))))))))))))))))))))))))))))))))))))), (String ((Ascii
-    (false, false, true, false, false, true, true, false)), (String ((Ascii
-    (true, false, false, true, false, true, true, false)), (String ((Ascii
-    (true, true, true, false, false, true, true, false)), (String ((Ascii
-    (true, false, false, true, false, true, true, false)), (String ((Ascii
-    (false, false, true, false, true, true, true, false)),
-    EmptyString)))))))))))) :: []))) :: [])) :: (((String ((Ascii (true,
-    true, false, false, true, true, true, false)), (String ((Ascii (false,
-    false, true, false, true, true, true, false)), (String ((Ascii (true,
-    false, false, false, false, true, true, false)), (String ((Ascii (false,
-    false, true, false, true, true, true, false)), (String ((Ascii (true,
-    false, true, false, false, true, true, false)), (String ((Ascii (false,
-    true, false, false, true, false, true, false)), (String ((Ascii (true,
-    false, true, false, false, true, true, false)), (String ((Ascii (true,
-    true, false, false, true, true, true, false)), (String ((Ascii (true,
-    false, true, false, true, true, true, false)),
-    EmptyString)))))))))))))))))), ((SIf ((CByte (Npos (XO (XO (XI (XI (XO
-    (XI XH)))))))), ((SSetStep st_stateResul) :: (SRetNil :: [])), ((SRetErr
-    ((String ((Ascii (true, false, false, true, false, true, true, false)),
-    (String ((Ascii (false, true, true, true, false, true, true, false)),
-    (String ((Ascii (false, false, false, false, false, true, false, false)),
-    (String ((Ascii (true, true, false, true, false, true, true, false)),
-    (String ((Ascii (true, false, true, false, false, true, true, false)),
-    (String ((Ascii (true, false, false, true, true, true, true, false)),
-    (String ((Ascii (true, true, true, false, true, true, true, false)),
-    (String ((Ascii (true, true, true, true, false, true, true, false)),
-    (String ((Ascii (false, true, false, false, true, true, true, false)),
-    (String ((Ascii (false, false, true, false, false, true, true, false)),
-    (String ((Ascii (false, false, false, false, false, true, false, false)),
-    (String ((Ascii (false, true, false, false, true, false, true, false)),
-    (String ((Ascii (true, false, true, false, false, true, true, false)),
-    (String ((Ascii (true, true, false, false, true, true, true, false)),
-    (String ((Ascii (true, false, true, false, true, true, true, false)),
-    (String ((Ascii (false, false, true, true, false, true, true, false)),
-    (String ((Ascii (false, false, true, false, true, true, true, false)),
-    EmptyString)))))))))))))))))))))))))))))))))), (String ((Ascii (false,
-    false, true, true, false, true, true, false)),
-    EmptyString)))) :: []))) :: [])) :: (((String ((Ascii (true, true, false,
-    false, true, true, true, false)), (String ((Ascii (false, false, true,
-    false, true, true, true, false)), (String ((Ascii (true, false, false,
-    false, false, true, true, false)), (String ((Ascii (false, false, true,
-    false, true, true, true, false)), (String ((Ascii (true, false, true,
-    false, false, true, true, false)), (String ((Ascii (false, true, false,
-    false, true, false, true, false)), (String ((Ascii (true, false, true,
-    false, false, true, true, false)), (String ((Ascii (true, true, false,
-    false, true, true, true, false)), (String ((Ascii (true, false, true,
-    false, true, true, true, false)), (String ((Ascii (false, false, true,
-    true, false, true, true, false)), EmptyString)))))))))))))))))))), ((SIf
-    ((CByte (Npos (XO (XO (XI (XO (XI (XI XH)))))))), ((SFound (KeywordEnd,
-    Z0)) :: ((SPush st_stateResultBody) :: ((SSetStep
-    st_stateParameterOrAnnotation) :: (SRetNil :: [])))), ((SRetErr ((String
-    ((Ascii (true, false, false, true, false, true, true, false)), (String
-    ((Ascii (false, true, true, true, false, true, true, false)), (String
-    ((Ascii (false, false, false, false, false, true, false, false)), (String
-    ((Ascii (true, true, false, true, false, true, true, false)), (String
+    ((Ascii (true, true, false, true, false, false, true, false)), (String
     ((Ascii (true, false, true, false, false, true, true, false)), (String
     ((Ascii (true, false, false, true, true, true, true, false)), (String
     ((Ascii (true, true, true, false, true, true, true, false)), (String
     ((Ascii (true, true, true, true, false, true, true, false)), (String
     ((Ascii (false, true, false, false, true, true, true, false)), (String
     ((Ascii (false, false, true, false, false, true, true, false)), (String
-    ((Ascii (false, false, false, false, false, true, false, false)), (String
+    ((Ascii (true, true, false, false, true, false, true, false)), (String
+    ((Ascii (false, false, true, false, true, true, true, false)), (String
+    ((Ascii (true, false, false, false, false, true, true, false)), (String
+    ((Ascii (false, true, false, false, true, true, true, false)), (String
+    ((Ascii (false, false, true, false, true, true, true, false)), (String
+    ((Ascii (true, false, true, false, false, true, true, false)), (String
+    ((Ascii (false, false, true, false, false, true, true, false)),
+    EmptyString)))))))))))))))))))))))))))))))))))))))))))))))))))))),
+    (block ((SIf ((COr ((CByte (Npos (XO (XO (XO (XO (XI XH))))))), (COr
+      ((CByte (Npos (XI (XO (XO (XO (XI XH))))))), (COr ((CByte (Npos (XO (XI
+      (XO (XO (XI XH))))))), (COr ((CByte (Npos (XI (XI (XO (XO (XI
+      XH))))))), (COr ((CByte (Npos (XO (XO (XI (XO (XI XH))))))), (COr
+      ((CByte (Npos (XI (XO (XI (XO (XI XH))))))), (COr ((CByte (Npos (XO (XI
+      (XI (XO (XI XH))))))), (COr ((CByte (Npos (XI (XI (XI (XO (XI
+      XH))))))), (COr ((CByte (Npos (XO (XO (XO (XI (XI XH))))))), (CByte
+      (Npos (XI (XO (XO (XI (XI XH))))))))))))))))))))))))),
+      (block ((SSetStep st_stateResponseKeywordSecond) :: (SRetNil :: []))),
+      (block ((SRetErr ((String ((Ascii (true, false, false, false, false,
+        true, true, false)), (String ((Ascii (false, false, true, false,
+        true, true, true, false)), (String ((Ascii (false, false, false,
+        false, false, true, false, false)), (String ((Ascii (false, true,
+        false, false, true, true, true, false)), (String ((Ascii (true,
+        false, true, false, false, true, true, false)), (String ((Ascii
+        (true, true, false, false, true, true, true, false)), (String ((Ascii
+        (false, false, false, false, true, true, true, false)), (String
+        ((Ascii (true, true, true, true, false, true, true, false)), (String
+        ((Ascii (false, true, true, true, false, true, true, false)), (String
+        ((Ascii (true, true, false, false, true, true, true, false)), (String
+        ((Ascii (true, false, true, false, false, true, true, false)),
+        (String ((Ascii (false, false, false, false, false, true, false,
+        false)), (String ((Ascii (false, false, true, false, false, true,
+        true, false)), (String ((Ascii (true, false, false, true, false,
+        true, true, false)), (String ((Ascii (false, true, false, false,
+        true, true, true, false)), (String ((Ascii (true, false, true, false,
+        false, true, true, false)), (String ((Ascii (true, true, false,
+        false, false, true, true, false)), (String ((Ascii (false, false,
+        true, false, true, true, true, false)), (String ((Ascii (true, false,
+        false, true, false, true, true, false)), (String ((Ascii (false,
+        true, true, false, true, true, true, false)), (String ((Ascii (true,
+        false, true, false, false, true, true, false)),
+        EmptyString)))))))))))))))))))))))))))))))))))))))))), (String
+        ((Ascii (false, false, true, false, false, true, true, false)),
+        (String ((Ascii (true, false, false, true, false, true, true,
+        false)), (String ((Ascii (true, true, true, false, false, true, true,
+        false)), (String ((Ascii (true, false, false, true, false, true,
+        true, false)), (String ((Ascii (false, false, true, false, true,
+        true, true, false)), EmptyString)))))))))))) :: [])))) :: []))) :: (((String
+    ((Ascii (true, true, false, false, true, true, true, false)), (String
+    ((Ascii (false, false, true, false, true, true, true, false)), (String
+    ((Ascii (true, false, false, false, false, true, true, false)), (String
+    ((Ascii (false, false, true, false, true, true, true, false)), (String
+    ((Ascii (true, false, true, false, false, true, true, false)), (String
     ((Ascii (false, true, false, false, true, false, true, false)), (String
     ((Ascii (true, false, true, false, false, true, true, false)), (String
     ((Ascii (true, true, false, false, true, true, true, false)), (String
-    ((Ascii (true, false, true, false, true, true, true, false)), (String
-    ((Ascii (false, false, true, true, false, true, true, false)), (String
-    ((Ascii (false, false, true, false, true, true, true, false)),
-    EmptyString)))))))))))))))))))))))))))))))))), (String ((Ascii (false,
-    false, true, false, true, true, true, false)),
-    EmptyString)))) :: []))) :: [])) :: (((String ((Ascii (true, true, false,
-    false, true, true, true, false)), (String ((Ascii (false, false, true,
-    false, true, true, true, false)), (String ((Ascii (true, false, false,
-    false, false, true, true, false)), (String ((Ascii (false, false, true,
-    false, true, true, true, false)), (String ((Ascii (true, false, true,
-    false, false, true, true, false)), (String ((Ascii (false, true, false,
-    false, true, false, true, false)), (String ((Ascii (true, false, true,
-    false, false, true, true, false)), (String ((Ascii (true, true, false,
-    false, true, true, true, false)), (String ((Ascii (true, false, true,
-    false, true, true, true, false)), (String ((Ascii (false, false, true,
-    true, false, true, true, false)), (String ((Ascii (false, false, true,
-    false, true, true, true, false)), (String ((Ascii (false, true, false,
-    false, false, false, true, false)), (String ((Ascii (true, true, true,
-    true, false, true, true, false)), (String ((Ascii (false, false, true,
-    false, false, true, true, false)), (String ((Ascii (true, false, false,
-    true, true, true, true, false)),
-    EmptyString)))))))))))))))))))))))))))))), ((SIf ((CByte (Npos (XO (XO
-    (XO (XI (XO XH))))))), ((SFound (ContextOpen, Z0)) :: (SRetNil :: [])),
-    ((SIf ((COr (CWhitespace, CNewLine)), (SRetNil :: []), ((SIf ((CByte
-    (Npos (XI (XI (XO (XO (XO XH))))))), (SPushCur :: ((SSetStep
-    st_stateCommentStarted) :: (SRetNil :: []))), ((SRetCall
-    st_stateJSchema) :: []))) :: []))) :: []))) :: [])) :: (((String ((Ascii
+    ((Ascii (true, false, true, false, true, true, true, false)),
+    EmptyString)))))))))))))))))),
+    (block ((SIf ((CByte (Npos (XO (XO (XI (XI (XO (XI XH)))))))),
+      (block ((SSetStep st_stateResul) :: (SRetNil :: []))),
+      (block ((SRetErr ((String ((Ascii (true, false, false, true, false,
+        true, true, false)), (String ((Ascii (false, true, true, true, false,
+        true, true, false)), (String ((Ascii (false, false, false, false,
+        false, true, false, false)), (String ((Ascii (true, true, false,
+        true, false, true, true, false)), (String ((Ascii (true, false, true,
+        false, false, true, true, false)), (String ((Ascii (true, false,
+        false, true, true, true, true, false)), (String ((Ascii (true, true,
+        true, false, true, true, true, false)), (String ((Ascii (true, true,
+        true, true, false, true, true, false)), (String ((Ascii (false, true,
+        false, false, true, true, true, false)), (String ((Ascii (false,
+        false, true, false, false, true, true, false)), (String ((Ascii
+        (false, false, false, false, false, true, false, false)), (String
+        ((Ascii (false, true, false, false, true, false, true, false)),
+        (String ((Ascii (true, false, true, false, false, true, true,
+        false)), (String ((Ascii (true, true, false, false, true, true, true,
+        false)), (String ((Ascii (true, false, true, false, true, true, true,
+        false)), (String ((Ascii (false, false, true, true, false, true,
+        true, false)), (String ((Ascii (false, false, true, false, true,
+        true, true, false)), EmptyString)))))))))))))))))))))))))))))))))),
+        (String ((Ascii (false, false, true, true, false, true, true,
+        false)), EmptyString)))) :: [])))) :: []))) :: (((String ((Ascii
     (true, true, false, false, true, true, true, false)), (String ((Ascii
     (false, false, true, false, true, true, true, false)), (String ((Ascii
     (true, false, false, false, false, true, true, false)), (String ((Ascii
     (false, false, true, false, true, true, true, false)), (String ((Ascii
     (true, false, true, false, false, true, true, false)), (String ((Ascii
     (false, true, false, false, true, false, true, false)), (String ((Ascii
-    (true, true, true, true, false, true, true, false)), (String ((Ascii
-    (true, true, true, true, false, true, true, false)), (String ((Ascii
-    (false, false, true, false, true, true, true, false)),
-    EmptyString)))))))))))))))))), ((SIf ((CByte (Npos (XI (XI (XO (XO (XO
-    XH))))))), (SPushCur :: ((SSetStep
-    st_stateCommentStarted) :: (SRetNil :: []))), [])) :: ((SRetCall
-    st_stateExpectKeyword) :: []))) :: (((String ((Ascii (true, true, false,
-    false, true, true, true, false)), (String ((Ascii (false, false, true,
-    false, true, true, true, false)), (String ((Ascii (true, false, false,
-    false, false, true, true, false)), (String ((Ascii (false, false, true,
-    false, true, true, true, false)), (String ((Ascii (true, false, true,
-    false, false, true, true, false)), (String ((Ascii (true, true, false,
-    false, true, false, true, false)), EmptyString)))))))))))), ((SIf ((CByte
-    (Npos (XI (XO (XI (XO (XO (XO XH)))))))), ((SSetStep
-    st_stateSe) :: (SRetNil :: [])), ((SRetErr ((String ((Ascii (true, false,
-    false, true, false, true, true, false)), (String ((Ascii (false, true,
-    true, true, false, true, true, false)), (String ((Ascii (false, false,
-    false, false, false, true, false, false)), (String ((Ascii (true, true,
-    false, true, false, true, true, false)), (String ((Ascii (true, false,
-    true, false, false, true, true, false)), (String ((Ascii (true, false,
-    false, true, true, true, true, false)), (String ((Ascii (true, true,
-    true, false, true, true, true, false)), (String ((Ascii (true, true,
-    true, true, false, true, true, false)), (String ((Ascii (false, true,
-    false, false, true, true, true, false)), (String ((Ascii (false, false,
-    true, false, false, true, true, false)), (String ((Ascii (false, false,
-    false, false, false, true, false, false)), (String ((Ascii (true, true,
-    false, false, true, false, true, false)), (String ((Ascii (true, false,
-    true, false, false, false, true, false)), (String ((Ascii (false, true,
-    false, false, true, false, true, false)), (String ((Ascii (false, true,
-    true, false, true, false, true, false)), (String ((Ascii (true, false,
-    true, false, false, false, true, false)), (String ((Ascii (false, true,
-    false, false, true, false, true, false)),
-    EmptyString)))))))))))))))))))))))))))))))))), (String ((Ascii (true,
-    false, true, false, false, false, true, false)),
-    EmptyString)))) :: []))) :: [])) :: (((String ((Ascii (true, true, false,
-    false, true, true, true, false)), (String ((Ascii (false, false, true,
-    false, true, true, true, false)), (String ((Ascii (true, false, false,
-    false, false, true, true, false)), (String ((Ascii (false, false, true,
-    false, true, true, true, false)), (String ((Ascii (true, false, true,
-    false, false, true, true, false)), (String ((Ascii (true, true, false,
-    false, true, false, true, false)), (String ((Ascii (true, true, false,
-    false, false, true, true, false)), (String ((Ascii (false, false, false,
-    true, false, true, true, false)), (String ((Ascii (true, false, true,
-    false, false, true, true, false)), (String ((Ascii (true, false, true,
-    true, false, true, true, false)), (String ((Ascii (true, false, false,
-    false, false, true, true, false)), (String ((Ascii (true, true, false,
-    false, false, false, true, false)), (String ((Ascii (false, false, true,
-    true, false, true, true, false)), (String ((Ascii (true, true, true,
-    true, false, true, true, false)), (String ((Ascii (true, true, false,
-    false, true, true, true, false)), (String ((Ascii (true, false, true,
-    false, false, true, true, false)), (String ((Ascii (false, false, true,
-    false, false, true, true, false)),
-    EmptyString)))))))))))))))))))))))))))))))))), ((SIf (CWhitespace,
-    ((SFound (SchemaEnd, (Zneg XH))) :: ((SSetStep
-    st_stateBodyEnded) :: (SRetNil :: []))), ((SIf ((COr (CNewLine, (CByte
-    N0))), ((SFound (SchemaEnd, (Zneg XH))) :: ((SSetStep
-    st_stateExpectKeyword) :: (SRetNil :: []))), ((SRetErr ((String ((Ascii
+    (true, false, true, false, false, true, true, false)), (String ((Ascii
+    (true, true, false, false, true, true, true, false)), (String ((Ascii
+    (true, false, true, false, true, true, true, false)), (String ((Ascii
+    (false, false, true, true, false, true, true, false)),
+    EmptyString)))))))))))))))))))),
+    (block ((SIf ((CByte (Npos (XO (XO (XI (XO (XI (XI XH)))))))),
+      (block ((SFound (KeywordEnd, Z0)) :: ((SPush
+        st_stateResultBody) :: ((SSetStep
+        st_stateParameterOrAnnotation) :: (SRetNil :: []))))),
+      (block ((SRetErr ((String ((Ascii (true, false, false, true, false,
+        true, true, false)), (String ((Ascii (false, true, true, true, false,
+        true, true, false)), (String ((Ascii (false, false, false, false,
+        false, true, false, false)), (String ((Ascii (true, true, false,
+        true, false, true, true, false)), (String ((Ascii (true, false, true,
+        false, false, true, true, false)), (String ((Ascii (true, false,
+        false, true, true, true, true, false)), (String ((Ascii (true, true,
+        true, false, true, true, true, false)), (String ((Ascii (true, true,
+        true, true, false, true, true, false)), (String ((Ascii (false, true,
+        false, false, true, true, true, false)), (String ((Ascii (false,
+        false, true, false, false, true, true, false)), (String ((Ascii
+        (false, false, false, false, false, true, false, false)), (String
+        ((Ascii (false, true, false, false, true, false, true, false)),
+        (String ((Ascii (true, false, true, false, false, true, true,
+        false)), (String ((Ascii (true, true, false, false, true, true, true,
+        false)), (String ((Ascii (true, false, true, false, true, true, true,
+        false)), (String ((Ascii (false, false, true, true, false, true,
+        true, false)), (String ((Ascii (false, false, true, false, true,
+        true, true, false)), EmptyString)))))))))))))))))))))))))))))))))),
+        (String ((Ascii (false, false, true, false, true, true, true,
+        false)), EmptyString)))) :: [])))) :: []))) :: (((String ((Ascii
+    (true, true, false, false, true, true, true, false)), (String ((Ascii
+    (false, false, true, false, true, true, true, false)), (String ((Ascii
     (true, false, false, false, false, true, true, false)), (String ((Ascii
-    (false, true, true, false, false, true, true, false)), (String ((Ascii
     (false, false, true, false, true, true, true, false)), (String ((Ascii
     (true, false, true, false, false, true, true, false)), (String ((Ascii
-    (false, true, false, false, true, true, true, false)), (String ((Ascii
-    (false, false, false, false, false, true, false, false)), (String ((Ascii
-    (true, true, false, false, true, true, true, false)), (String ((Ascii
-    (true, true, false, false, false, true, true, false)), (String ((Ascii
-    (false, false, false, true, false, true, true, false)), (String ((Ascii
+    (false, true, false, false, true, false, true, false)), (String ((Ascii
     (true, false, true, false, false, true, true, false)), (String ((Ascii
-    (true, false, true, true, false, true, true, false)), (String ((Ascii
-    (true, false, false, false, false, true, true, false)),
-    EmptyString)))))))))))))))))))))))),
-    EmptyString)) :: []))) :: []))) :: [])) :: (((String ((Ascii (true, true,
+    (true, true, false, false, true, true, true, false)), (String ((Ascii
+    (true, false, true, false, true, true, true, false)), (String ((Ascii
+    (false, false, true, true, false, true, true, false)), (String ((Ascii
+    (false, false, true, false, true, true, true, false)), (String ((Ascii
+    (false, true, false, false, false, false, true, false)), (String ((Ascii
+    (true, true, true, true, false, true, true, false)), (String ((Ascii
+    (false, false, true, false, false, true, true, false)), (String ((Ascii
+    (true, false, false, true, true, true, true, false)),
+    EmptyString)))))))))))))))))))))))))))))),
+    (block ((SIf ((CByte (Npos (XO (XO (XO (XI (XO XH))))))),
+      (block ((SFound (ContextOpen, Z0)) :: (SRetNil :: []))),
+      (block ((SIf ((COr (CWhitespace, CNewLine)), (block (SRetNil :: [])),
+        (block ((SIf ((CByte (Npos (XI (XI (XO (XO (XO XH))))))),
+          (block (SPushCur :: ((SSetStep
+            st_stateCommentStarted) :: (SRetNil :: [])))),
+          (block ((SRetCall st_stateJSchema) :: [])))) :: [])))) :: [])))) :: []))) :: (((String
+    ((Ascii (true, true, false, false, true, true, true, false)), (String
+    ((Ascii (false, false, true, false, true, true, true, false)), (String
+    ((Ascii (true, false, false, false, false, true, true, false)), (String
+    ((Ascii (false, false, true, false, true, true, true, false)), (String
+    ((Ascii (true, false, true, false, false, true, true, false)), (String
+    ((Ascii (false, true, false, false, true, false, true, false)), (String
+    ((Ascii (true, true, true, true, false, true, true, false)), (String
+    ((Ascii (true, true, true, true, false, true, true, false)), (String
+    ((Ascii (false, false, true, false, true, true, true, false)),
+    EmptyString)))))))))))))))))),
+    (block ((SIf ((CByte (Npos (XI (XI (XO (XO (XO XH))))))),
+      (block (SPushCur :: ((SSetStep
+        st_stateCommentStarted) :: (SRetNil :: [])))), SSkip)) :: ((SRetCall
+      st_stateExpectKeyword) :: [])))) :: (((String ((Ascii (true, true,
+    false, false, true, true, true, false)), (String ((Ascii (false, false,
+    true, false, true, true, true, false)), (String ((Ascii (true, false,
+    false, false, false, true, true, false)), (String ((Ascii (false, false,
+    true, false, true, true, true, false)), (String ((Ascii (true, false,
+    true, false, false, true, true, false)), (String ((Ascii (true, true,
+    false, false, true, false, true, false)), EmptyString)))))))))))),
+    (block ((SIf ((CByte (Npos (XI (XO (XI (XO (XO (XO XH)))))))),
+      (block ((SSetStep st_stateSe) :: (SRetNil :: []))),
+      (block ((SRetErr ((String ((Ascii (true, false, false, true, false,
+        true, true, false)), (String ((Ascii (false, true, true, true, false,
+        true, true, false)), (String ((Ascii (false, false, false, false,
+        false, true, false, false)), (String ((Ascii (true, true, false,
+        true, false, true, true, false)), (String ((Ascii (true, false, true,
+        false, false, true, true, false)), (String ((Ascii (true, false,
+        false, true, true, true, true, false)), (String ((Ascii (true, true,
+        true, false, true, true, true, false)), (String ((Ascii (true, true,
+        true, true, false, true, true, false)), (String ((Ascii (false, true,
+        false, false, true, true, true, false)), (String ((Ascii (false,
+        false, true, false, false, true, true, false)), (String ((Ascii
+        (false, false, false, false, false, true, false, false)), (String
+        ((Ascii (true, true, false, false, true, false, true, false)),
+        (String ((Ascii (true, false, true, false, false, false, true,
+        false)), (String ((Ascii (false, true, false, false, true, false,
+        true, false)), (String ((Ascii (false, true, true, false, true,
+        false, true, false)), (String ((Ascii (true, false, true, false,
+        false, false, true, false)), (String ((Ascii (false, true, false,
+        false, true, false, true, false)),
+        EmptyString)))))))))))))))))))))))))))))))))), (String ((Ascii (true,
+        false, true, false, false, false, true, false)),
+        EmptyString)))) :: [])))) :: []))) :: (((String ((Ascii (true, true,
+    false, false, true, true, true, false)), (String ((Ascii (false, false,
+    true, false, true, true, true, false)), (String ((Ascii (true, false,
+    false, false, false, true, true, false)), (String ((Ascii (false, false,
+    true, false, true, true, true, false)), (String ((Ascii (true, false,
+    true, false, false, true, true, false)), (String ((Ascii (true, true,
+    false, false, true, false, true, false)), (String ((Ascii (true, true,
+    false, false, false, true, true, false)), (String ((Ascii (false, false,
+    false, true, false, true, true, false)), (String ((Ascii (true, false,
+    true, false, false, true, true, false)), (String ((Ascii (true, false,
+    true, true, false, true, true, false)), (String ((Ascii (true, false,
+    false, false, false, true, true, false)), (String ((Ascii (true, true,
+    false, false, false, false, true, false)), (String ((Ascii (false, false,
+    true, true, false, true, true, false)), (String ((Ascii (true, true,
+    true, true, false, true, true, false)), (String ((Ascii (true, true,
+    false, false, true, true, true, false)), (String ((Ascii (true, false,
+    true, false, false, true, true, false)), (String ((Ascii (false, false,
+    true, false, false, true, true, false)),
+    EmptyString)))))))))))))))))))))))))))))))))),
+    (block ((SIf (CWhitespace,
+      (block ((SFound (SchemaEnd, (Zneg XH))) :: ((SSetStep
+        st_stateBodyEnded) :: (SRetNil :: [])))),
+      (block ((SIf ((COr (CNewLine, (CByte N0))),
+        (block ((SFound (SchemaEnd, (Zneg XH))) :: ((SSetStep
+          st_stateExpectKeyword) :: (SRetNil :: [])))),
+        (block ((SRetErr ((String ((Ascii (true, false, false, false, false,
+          true, true, false)), (String ((Ascii (false, true, true, false,
+          false, true, true, false)), (String ((Ascii (false, false, true,
+          false, true, true, true, false)), (String ((Ascii (true, false,
+          true, false, false, true, true, false)), (String ((Ascii (false,
+          true, false, false, true, true, true, false)), (String ((Ascii
+          (false, false, false, false, false, true, false, false)), (String
+          ((Ascii (true, true, false, false, true, true, true, false)),
+          (String ((Ascii (true, true, false, false, false, true, true,
+          false)), (String ((Ascii (false, false, false, true, false, true,
+          true, false)), (String ((Ascii (true, false, true, false, false,
+          true, true, false)), (String ((Ascii (true, false, true, true,
+          false, true, true, false)), (String ((Ascii (true, false, false,
+          false, false, true, true, false)),
+          EmptyString)))))))))))))))))))))))), EmptyString)) :: [])))) :: [])))) :: []))) :: (((String
+    ((Ascii (true, true, false, false, true, true, true, false)), (String
+    ((Ascii (false, false, true, false, true, true, true, false)), (String
+    ((Ascii (true, false, false, false, false, true, true, false)), (String
+    ((Ascii (false, false, true, false, true, true, true, false)), (String
+    ((Ascii (true, false, true, false, false, true, true, false)), (String
+    ((Ascii (true, true, false, false, true, false, true, false)), (String
+    ((Ascii (true, false, true, false, false, true, true, false)),
+    EmptyString)))))))))))))),
+    (block ((SIf ((CByte (Npos (XO (XI (XO (XO (XI (XO XH)))))))),
+      (block ((SSetStep st_stateSer) :: (SRetNil :: []))),
+      (block ((SRetErr ((String ((Ascii (true, false, false, true, false,
+        true, true, false)), (String ((Ascii (false, true, true, true, false,
+        true, true, false)), (String ((Ascii (false, false, false, false,
+        false, true, false, false)), (String ((Ascii (true, true, false,
+        true, false, true, true, false)), (String ((Ascii (true, false, true,
+        false, false, true, true, false)), (String ((Ascii (true, false,
+        false, true, true, true, true, false)), (String ((Ascii (true, true,
+        true, false, true, true, true, false)), (String ((Ascii (true, true,
+        true, true, false, true, true, false)), (String ((Ascii (false, true,
+        false, false, true, true, true, false)), (String ((Ascii (false,
+        false, true, false, false, true, true, false)), (String ((Ascii
+        (false, false, false, false, false, true, false, false)), (String
+        ((Ascii (true, true, false, false, true, false, true, false)),
+        (String ((Ascii (true, false, true, false, false, false, true,
+        false)), (String ((Ascii (false, true, false, false, true, false,
+        true, false)), (String ((Ascii (false, true, true, false, true,
+        false, true, false)), (String ((Ascii (true, false, true, false,
+        false, false, true, false)), (String ((Ascii (false, true, false,
+        false, true, false, true, false)),
+        EmptyString)))))))))))))))))))))))))))))))))), (String ((Ascii
+        (false, true, false, false, true, false, true, false)),
+        EmptyString)))) :: [])))) :: []))) :: (((String ((Ascii (true, true,
     false, false, true, true, true, false)), (String ((Ascii (false, false,
     true, false, true, true, true, false)), (String ((Ascii (true, false,
     false, false, false, true, true, false)), (String ((Ascii (false, false,
     true, false, true, true, true, false)), (String ((Ascii (true, false,
     true, false, false, true, true, false)), (String ((Ascii (true, true,
     false, false, true, false, true, false)), (String ((Ascii (true, false,
-    true, false, false, true, true, false)), EmptyString)))))))))))))), ((SIf
-    ((CByte (Npos (XO (XI (XO (XO (XI (XO XH)))))))), ((SSetStep
-    st_stateSer) :: (SRetNil :: [])), ((SRetErr ((String ((Ascii (true,
-    false, false, true, false, true, true, false)), (String ((Ascii (false,
-    true, true, true, false, true, true, false)), (String ((Ascii (false,
-    false, false, false, false, true, false, false)), (String ((Ascii (true,
-    true, false, true, false, true, true, false)), (String ((Ascii (true,
-    false, true, false, false, true, true, false)), (String ((Ascii (true,
-    false, false, true, true, true, true, false)), (String ((Ascii (true,
-    true, true, false, true, true, true, false)), (String ((Ascii (true,
-    true, true, true, false, true, true, false)), (String ((Ascii (false,
-    true, false, false, true, true, true, false)), (String ((Ascii (false,
-    false, true, false, false, true, true, false)), (String ((Ascii (false,
-    false, false, false, false, true, false, false)), (String ((Ascii (true,
-    true, false, false, true, false, true, false)), (String ((Ascii (true,
-    false, true, false, false, false, true, false)), (String ((Ascii (false,
-    true, false, false, true, false, true, false)), (String ((Ascii (false,
-    true, true, false, true, false, true, false)), (String ((Ascii (true,
-    false, true, false, false, false, true, false)), (String ((Ascii (false,
-    true, false, false, true, false, true, false)),
-    EmptyString)))))))))))))))))))))))))))))))))), (String ((Ascii (false,
-    true, false, false, true, false, true, false)),
-    EmptyString)))) :: []))) :: [])) :: (((String ((Ascii (true, true, false,
-    false, true, true, true, false)), (String ((Ascii (false, false, true,
-    false, true, true, true, false)), (String ((Ascii (true, false, false,
-    false, false, true, true, false)), (String ((Ascii (false, false, true,
-    false, true, true, true, false)), (String ((Ascii (true, false, true,
-    false, false, true, true, false)), (String ((Ascii (true, true, false,
-    false, true, false, true, false)), (String ((Ascii (true, false, true,
-    false, false, true, true, false)), (String ((Ascii (false, true, false,
-    false, true, true, true, false)), EmptyString)))))))))))))))), ((SIf
-    ((CByte (Npos (XO (XI (XI (XO (XI (XO XH)))))))), ((SSetStep
-    st_stateServ) :: (SRetNil :: [])), ((SRetErr ((String ((Ascii (true,
-    false, false, true, false, true, true, false)), (String ((Ascii (false,
-    true, true, true, false, true, true, false)), (String ((Ascii (false,
-    false, false, false, false, true, false, false)), (String ((Ascii (true,
-    true, false, true, false, true, true, false)), (String ((Ascii (true,
-    false, true, false, false, true, true, false)), (String ((Ascii (true,
-    false, false, true, true, true, true, false)), (String ((Ascii (true,
-    true, true, false, true, true, true, false)), (String ((Ascii (true,
-    true, true, true, false, true, true, false)), (String ((Ascii (false,
-    true, false, false, true, true, true, false)), (String ((Ascii (false,
-    false, true, false, false, true, true, false)), (String ((Ascii (false,
-    false, false, false, false, true, false, false)), (String ((Ascii (true,
-    true, false, false, true, false, true, false)), (String ((Ascii (true,
-    false, true, false, false, false, true, false)), (String ((Ascii (false,
-    true, false, false, true, false, true, false)), (String ((Ascii (false,
-    true, true, false, true, false, true, false)), (String ((Ascii (true,
-    false, true, false, false, false, true, false)), (String ((Ascii (false,
-    true, false, false, true, false, true, false)),
-    EmptyString)))))))))))))))))))))))))))))))))), (String ((Ascii (false,
-    true, true, false, true, false, true, false)),
-    EmptyString)))) :: []))) :: [])) :: (((String ((Ascii (true, true, false,
-    false, true, true, true, false)), (String ((Ascii (false, false, true,
-    false, true, true, true, false)), (String ((Ascii (true, false, false,
-    false, false, true, true, false)), (String ((Ascii (false, false, true,
-    false, true, true, true, false)), (String ((Ascii (true, false, true,
-    false, false, true, true, false)), (String ((Ascii (true, true, false,
-    false, true, false, true, false)), (String ((Ascii (true, false, true,
-    false, false, true, true, false)), (String ((Ascii (false, true, false,
-    false, true, true, true, false)), (String ((Ascii (false, true, true,
-    false, true, true, true, false)), EmptyString)))))))))))))))))), ((SIf
-    ((CByte (Npos (XI (XO (XI (XO (XO (XO XH)))))))), ((SSetStep
-    st_stateServe) :: (SRetNil :: [])), ((SRetErr ((String ((Ascii (true,
-    false, false, true, false, true, true, false)), (String ((Ascii (false,
-    true, true, true, false, true, true, false)), (String ((Ascii (false,
-    false, false, false, false, true, false, false)), (String ((Ascii (true,
-    true, false, true, false, true, true, false)), (String ((Ascii (true,
-    false, true, false, false, true, true, false)), (String ((Ascii (true,
-    false, false, true, true, true, true, false)), (String ((Ascii (true,
-    true, true, false, true, true, true, false)), (String ((Ascii (true,
-    true, true, true, false, true, true, false)), (String ((Ascii (false,
-    true, false, false, true, true, true, false)), (String ((Ascii (false,
-    false, true, false, false, true, true, false)), (String ((Ascii (false,
-    false, false, false, false, true, false, false)), (String ((Ascii (true,
-    true, false, false, true, false, true, false)), (String ((Ascii (true,
-    false, true, false, false, false, true, false)), (String ((Ascii (false,
-    true, false, false, true, false, true, false)), (String ((Ascii (false,
-    true, true, false, true, false, true, false)), (String ((Ascii (true,
-    false, true, false, false, false, true, false)), (String ((Ascii (false,
-    true, false, false, true, false, true, false)),
-    EmptyString)))))))))))))))))))))))))))))))))), (String ((Ascii (true,
-    false, true, false, false, false, true, false)),
-    EmptyString)))) :: []))) :: [])) :: (((String ((Ascii (true, true, false,
-    false, true, true, true, false)), (String ((Ascii (false, false, true,
-    false, true, true, true, false)), (String ((Ascii (true, false, false,
-    false, false, true, true, false)), (String ((Ascii (false, false, true,
-    false, true, true, true, false)), (String ((Ascii (true, false, true,
-    false, false, true, true, false)), (String ((Ascii (true, true, false,
-    false, true, false, true, false)), (String ((Ascii (true, false, true,
-    false, false, true, true, false)), (String ((Ascii (false, true, false,
-    false, true, true, true, false)), (String ((Ascii (false, true, true,
-    false, true, true, true, false)), (String ((Ascii (true, false, true,
-    false, false, true, true, false)), EmptyString)))))))))))))))))))), ((SIf
-    ((CByte (Npos (XO (XI (XO (XO (XI (XO XH)))))))), ((SFound (KeywordEnd,
-    Z0)) :: ((SPush st_stateExpectKeyword) :: ((SSetStep
-    st_stateParameterOrAnnotation) :: (SRetNil :: [])))), ((SRetErr ((String
-    ((Ascii (true, false, false, true, false, true, true, false)), (String
-    ((Ascii (false, true, true, true, false, true, true, false)), (String
-    ((Ascii (false, false, false, false, false, true, false, false)), (String
-    ((Ascii (true, true, false, true, false, true, true, false)), (String
-    ((Ascii (true, false, true, false, false, true, true, false)), (String
-    ((Ascii (true, false, false, true, true, true, true, false)), (String
-    ((Ascii (true, true, true, false, true, true, true, false)), (String
-    ((Ascii (true, true, true, true, false, true, true, false)), (String
-    ((Ascii (false, true, false, false, true, true, true, false)), (String
-    ((Ascii (false, false, true, false, false, true, true, false)), (String
-    ((Ascii (false, false, false, false, false, true, false, false)), (String
-    ((Ascii (true, true, false, false, true, false, true, false)), (String
-    ((Ascii (true, false, true, false, false, false, true, false)), (String
-    ((Ascii (false, true, false, false, true, false, true, false)), (String
-    ((Ascii (false, true, true, false, true, false, true, false)), (String
-    ((Ascii (true, false, true, false, false, false, true, false)), (String
-    ((Ascii (false, true, false, false, true, false, true, false)),
-    EmptyString)))))))))))))))))))))))))))))))))), (String ((Ascii (false,
-    true, false, false, true, false, true, false)),
-    EmptyString)))) :: []))) :: [])) :: (((String ((Ascii (true, true, false,
-    false, true, true, true, false)), (String ((Ascii (false, false, true,
-    false, true, true, true, false)), (String ((Ascii (true, false, false,
-    false, false, true, true, false)), (String ((Ascii (false, false, true,
-    false, true, true, true, false)), (String ((Ascii (true, false, true,
-    false, false, true, true, false)), (String ((Ascii (true, true, false,
-    false, true, false, true, false)), (String ((Ascii (true, false, false,
-    true, false, true, true, false)), (String ((Ascii (false, true, true,
-    true, false, true, true, false)), (String ((Ascii (true, true, true,
-    false, false, true, true, false)), (String ((Ascii (false, false, true,
-    true, false, true, true, false)), (String ((Ascii (true, false, true,
-    false, false, true, true, false)), (String ((Ascii (true, true, false,
-    false, false, false, true, false)), (String ((Ascii (true, true, true,
-    true, false, true, true, false)), (String ((Ascii (true, false, true,
-    true, false, true, true, false)), (String ((Ascii (true, false, true,
-    true, false, true, true, false)), (String ((Ascii (true, false, true,
-    false, false, true, true, false)), (String ((Ascii (false, true, true,
-    true, false, true, true, false)), (String ((Ascii (false, false, true,
-    false, true, true, true, false)),
-    EmptyString)))))))))))))))))))))))))))))))))))), ((SIf ((COr (CNewLine,
-    (CByte N0))), (SPop :: (SRetRedispatch :: [])),
-    (SRetNil :: []))) :: [])) :: (((String ((Ascii (true, true, false, false,
-    true, true, true, false)), (String ((Ascii (false, false, true, false,
-    true, true, true, false)), (String ((Ascii (true, false, false, false,
-    false, true, true, false)), (String ((Ascii (false, false, true, false,
-    true, true, true, false)), (String ((Ascii (true, false, true, false,
-    false, true, true, false)), (String ((Ascii (false, false, true, false,
-    true, false, true, false)), EmptyString)))))))))))), ((SIf ((CByte (Npos
-    (XI (XO (XO (XI (XO (XI XH)))))))), ((SSetStep
-    st_stateTi) :: (SRetNil :: [])), ((SIf ((CByte (Npos (XI (XO (XO (XI (XI
-    (XO XH)))))))), ((SSetStep st_stateTy) :: (SRetNil :: [])), ((SIf ((CByte
-    (Npos (XI (XO (XO (XO (XO (XO XH)))))))), ((SSetStep
-    st_stateTA) :: (SRetNil :: [])), ((SIf ((CByte (Npos (XI (XO (XO (XO (XO
-    (XI XH)))))))), ((SSetStep st_stateTa) :: (SRetNil :: [])), ((SRetErr
-    ((String ((Ascii (true, false, false, true, false, true, true, false)),
-    (String ((Ascii (false, true, true, true, false, true, true, false)),
-    (String ((Ascii (false, false, false, false, false, true, false, false)),
-    (String ((Ascii (false, false, true, false, false, true, true, false)),
-    (String ((Ascii (true, false, false, true, false, true, true, false)),
-    (String ((Ascii (false, true, false, false, true, true, true, false)),
-    (String ((Ascii (true, false, true, false, false, true, true, false)),
-    (String ((Ascii (true, true, false, false, false, true, true, false)),
-    (String ((Ascii (false, false, true, false, true, true, true, false)),
-    (String ((Ascii (true, false, false, true, false, true, true, false)),
-    (String ((Ascii (false, true, true, false, true, true, true, false)),
-    (String ((Ascii (true, false, true, false, false, true, true, false)),
-    (String ((Ascii (false, false, false, false, false, true, false, false)),
-    (String ((Ascii (false, true, true, true, false, true, true, false)),
-    (String ((Ascii (true, false, false, false, false, true, true, false)),
-    (String ((Ascii (true, false, true, true, false, true, true, false)),
-    (String ((Ascii (true, false, true, false, false, true, true, false)),
-    EmptyString)))))))))))))))))))))))))))))))))),
-    EmptyString)) :: []))) :: []))) :: []))) :: []))) :: [])) :: (((String
+    true, false, false, true, true, false)), (String ((Ascii (false, true,
+    false, false, true, true, true, false)), EmptyString)))))))))))))))),
+    (block ((SIf ((CByte (Npos (XO (XI (XI (XO (XI (XO XH)))))))),
+      (block ((SSetStep st_stateServ) :: (SRetNil :: []))),
+      (block ((SRetErr ((String ((Ascii (true, false, false, true, false,
+        true, true, false)), (String ((Ascii (false, true, true, true, false,
+        true, true, false)), (String ((Ascii (false, false, false, false,
+        false, true, false, false)), (String ((Ascii (true, true, false,
+        true, false, true, true, false)), (String ((Ascii (true, false, true,
+        false, false, true, true, false)), (String ((Ascii (true, false,
+        false, true, true, true, true, false)), (String ((Ascii (true, true,
+        true, false, true, true, true, false)), (String ((Ascii (true, true,
+        true, true, false, true, true, false)), (String ((Ascii (false, true,
+        false, false, true, true, true, false)), (String ((Ascii (false,
+        false, true, false, false, true, true, false)), (String ((Ascii
+        (false, false, false, false, false, true, false, false)), (String
+        ((Ascii (true, true, false, false, true, false, true, false)),
+        (String ((Ascii (true, false, true, false, false, false, true,
+        false)), (String ((Ascii (false, true, false, false, true, false,
+        true, false)), (String ((Ascii (false, true, true, false, true,
+        false, true, false)), (String ((Ascii (true, false, true, false,
+        false, false, true, false)), (String ((Ascii (false, true, false,
+        false, true, false, true, false)),
+        EmptyString)))))))))))))))))))))))))))))))))), (String ((Ascii
+        (false, true, true, false, true, false, true, false)),
+        EmptyString)))) :: [])))) :: []))) :: (((String ((Ascii (true, true,
+    false, false, true, true, true, false)), (String ((Ascii (false, false,
+    true, false, true, true, true, false)), (String ((Ascii (true, false,
+    false, false, false, true, true, false)), (String ((Ascii (false, false,
+    true, false, true, true, true, false)), (String ((Ascii (true, false,
+    true, false, false, true, true, false)), (String ((Ascii (true, true,
+    false, false, true, false, true, false)), (String ((Ascii (true, false,
+    true, false, false, true, true, false)), (String ((Ascii (false, true,
+    false, false, true, true, true, false)), (String ((Ascii (false, true,
+    true, false, true, true, true, false)), EmptyString)))))))))))))))))),
+    (block ((SIf ((CByte (Npos (XI (XO (XI (XO (XO (XO XH)))))))),
+      (block ((SSetStep st_stateServe) :: (SRetNil :: []))),
+      (block ((SRetErr ((String ((Ascii (true, false, false, true, false,
+        true, true, false)), (String ((Ascii (false, true, true, true, false,
+        true, true, false)), (String ((Ascii (false, false, false, false,
+        false, true, false, false)), (String ((Ascii (true, true, false,
+        true, false, true, true, false)), (String ((Ascii (true, false, true,
+        false, false, true, true, false)), (String ((Ascii (true, false,
+        false, true, true, true, true, false)), (String ((Ascii (true, true,
+        true, false, true, true, true, false)), (String ((Ascii (true, true,
+        true, true, false, true, true, false)), (String ((Ascii (false, true,
+        false, false, true, true, true, false)), (String ((Ascii (false,
+        false, true, false, false, true, true, false)), (String ((Ascii
+        (false, false, false, false, false, true, false, false)), (String
+        ((Ascii (true, true, false, false, true, false, true, false)),
+        (String ((Ascii (true, false, true, false, false, false, true,
+        false)), (String ((Ascii (false, true, false, false, true, false,
+        true, false)), (String ((Ascii (false, true, true, false, true,
+        false, true, false)), (String ((Ascii (true, false, true, false,
+        false, false, true, false)), (String ((Ascii (false, true, false,
+        false, true, false, true, false)),
+        EmptyString)))))))))))))))))))))))))))))))))), (String ((Ascii (true,
+        false, true, false, false, false, true, false)),
+        EmptyString)))) :: [])))) :: []))) :: (((String ((Ascii (true, true,
+    false, false, true, true, true, false)), (String ((Ascii (false, false,
+    true, false, true, true, true, false)), (String ((Ascii (true, false,
+    false, false, false, true, true, false)), (String ((Ascii (false, false,
+    true, false, true, true, true, false)), (String ((Ascii (true, false,
+    true, false, false, true, true, false)), (String ((Ascii (true, true,
+    false, false, true, false, true, false)), (String ((Ascii (true, false,
+    true, false, false, true, true, false)), (String ((Ascii (false, true,
+    false, false, true, true, true, false)), (String ((Ascii (false, true,
+    true, false, true, true, true, false)), (String ((Ascii (true, false,
+    true, false, false, true, true, false)), EmptyString)))))))))))))))))))),
+    (block ((SIf ((CByte (Npos (XO (XI (XO (XO (XI (XO XH)))))))),
+      (block ((SFound (KeywordEnd, Z0)) :: ((SPush
+        st_stateExpectKeyword) :: ((SSetStep
+        st_stateParameterOrAnnotation) :: (SRetNil :: []))))),
+      (block ((SRetErr ((String ((Ascii (true, false, false, true, false,
+        true, true, false)), (String ((Ascii (false, true, true, true, false,
+        true, true, false)), (String ((Ascii (false, false, false, false,
+        false, true, false, false)), (String ((Ascii (true, true, false,
+        true, false, true, true, false)), (String ((Ascii (true, false, true,
+        false, false, true, true, false)), (String ((Ascii (true, false,
+        false, true, true, true, true, false)), (String ((Ascii (true, true,
+        true, false, true, true, true, false)), (String ((Ascii (true, true,
+        true, true, false, true, true, false)), (String ((Ascii (false, true,
+        false, false, true, true, true, false)), (String ((Ascii (false,
+        false, true, false, false, true, true, false)), (String ((Ascii
+        (false, false, false, false, false, true, false, false)), (String
+        ((Ascii (true, true, false, false, true, false, true, false)),
+        (String ((Ascii (true, false, true, false, false, false, true,
+        false)), (String ((Ascii (false, true, false, false, true, false,
+        true, false)), (String ((Ascii (false, true, true, false, true,
+        false, true, false)), (String ((Ascii (true, false, true, false,
+        false, false, true, false)), (String ((Ascii (false, true, false,
+        false, true, false, true, false)),
+        EmptyString)))))))))))))))))))))))))))))))))), (String ((Ascii
+        (false, true, false, false, true, false, true, false)),
+        EmptyString)))) :: [])))) :: []))) :: (((String ((Ascii (true, true,
+    false, false, true, true, true, false)), (String ((Ascii (false, false,
+    true, false, true, true, true, false)), (String ((Ascii (true, false,
+    false, false, false, true, true, false)), (String ((Ascii (false, false,
+    true, false, true, true, true, false)), (String ((Ascii (true, false,
+    true, false, false, true, true, false)), (String ((Ascii (true, true,
+    false, false, true, false, true, false)), (String ((Ascii (true, false,
+    false, true, false, true, true, false)), (String ((Ascii (false, true,
+    true, true, false, true, true, false)), (String ((Ascii (true, true,
+    true, false, false, true, true, false)), (String ((Ascii (false, false,
+    true, true, false, true, true, false)), (String ((Ascii (true, false,
+    true, false, false, true, true, false)), (String ((Ascii (true, true,
+    false, false, false, false, true, false)), (String ((Ascii (true, true,
+    true, true, false, true, true, false)), (String ((Ascii (true, false,
+    true, true, false, true, true, false)), (String ((Ascii (true, false,
+    true, true, false, true, true, false)), (String ((Ascii (true, false,
+    true, false, false, true, true, false)), (String ((Ascii (false, true,
+    true, true, false, true, true, false)), (String ((Ascii (false, false,
+    true, false, true, true, true, false)),
+    EmptyString)))))))))))))))))))))))))))))))))))),
+    (block ((SIf ((COr (CNewLine, (CByte N0))),
+      (block (SPop :: (SRetRedispatch :: []))),
+      (block (SRetNil :: [])))) :: []))) :: (((String ((Ascii (true, true,
+    false, false, true, true, true, false)), (String ((Ascii (false, false,
+    true, false, true, true, true, false)), (String ((Ascii (true, false,
+    false, false, false, true, true, false)), (String ((Ascii (false, false,
+    true, false, true, true, true, false)), (String ((Ascii (true, false,
+    true, false, false, true, true, false)), (String ((Ascii (false, false,
+    true, false, true, false, true, false)), EmptyString)))))))))))),
+    (block ((SIf ((CByte (Npos (XI (XO (XO (XI (XO (XI XH)))))))),
+      (block ((SSetStep st_stateTi) :: (SRetNil :: []))),
+      (block ((SIf ((CByte (Npos (XI (XO (XO (XI (XI (XO XH)))))))),
+        (block ((SSetStep st_stateTy) :: (SRetNil :: []))),
+        (block ((SIf ((CByte (Npos (XI (XO (XO (XO (XO (XO XH)))))))),
+          (block ((SSetStep st_stateTA) :: (SRetNil :: []))),
+          (block ((SIf ((CByte (Npos (XI (XO (XO (XO (XO (XI XH)))))))),
+            (block ((SSetStep st_stateTa) :: (SRetNil :: []))),
+            (block ((SRetErr ((String ((Ascii (true, false, false, true,
+              false, true, true, false)), (String ((Ascii (false, true, true,
+              true, false, true, true, false)), (String ((Ascii (false,
+              false, false, false, false, true, false, false)), (String
+              ((Ascii (false, false, true, false, false, true, true, false)),
+              (String ((Ascii (true, false, false, true, false, true, true,
+              false)), (String ((Ascii (false, true, false, false, true,
+              true, true, false)), (String ((Ascii (true, false, true, false,
+              false, true, true, false)), (String ((Ascii (true, true, false,
+              false, false, true, true, false)), (String ((Ascii (false,
+              false, true, false, true, true, true, false)), (String ((Ascii
+              (true, false, false, true, false, true, true, false)), (String
+              ((Ascii (false, true, true, false, true, true, true, false)),
+              (String ((Ascii (true, false, true, false, false, true, true,
+              false)), (String ((Ascii (false, false, false, false, false,
+              true, false, false)), (String ((Ascii (false, true, true, true,
+              false, true, true, false)), (String ((Ascii (true, false,
+              false, false, false, true, true, false)), (String ((Ascii
+              (true, false, true, true, false, true, true, false)), (String
+              ((Ascii (true, false, true, false, false, true, true, false)),
+              EmptyString)))))))))))))))))))))))))))))))))),
+              EmptyString)) :: [])))) :: [])))) :: [])))) :: [])))) :: []))) :: (((String
     ((Ascii (true, true, false, false, true, true, true, false)), (String
     ((Ascii (false, false, true, false, true, true, true, false)), (String
     ((Ascii (true, false, false, false, false, true, true, false)), (String
@@ -8058,26 +8508,28 @@ let prog_table =
     ((Ascii (true, false, true, false, false, true, true, false)), (String
     ((Ascii (false, false, true, false, true, false, true, false)), (String
     ((Ascii (true, false, false, false, false, false, true, false)),
-    EmptyString)))))))))))))), ((SIf ((CNot (CByte (Npos (XI (XI (XI (XO (XO
-    (XO XH))))))))), ((SRetErr ((String ((Ascii (true, false, false, true,
-    false, true, true, false)), (String ((Ascii (false, true, true, true,
-    false, true, true, false)), (String ((Ascii (false, false, false, false,
-    false, true, false, false)), (String ((Ascii (true, true, false, true,
-    false, true, true, false)), (String ((Ascii (true, false, true, false,
-    false, true, true, false)), (String ((Ascii (true, false, false, true,
-    true, true, true, false)), (String ((Ascii (true, true, true, false,
-    true, true, true, false)), (String ((Ascii (true, true, true, true,
-    false, true, true, false)), (String ((Ascii (false, true, false, false,
-    true, true, true, false)), (String ((Ascii (false, false, true, false,
-    false, true, true, false)), (String ((Ascii (false, false, false, false,
-    false, true, false, false)), (String ((Ascii (false, false, true, false,
-    true, false, true, false)), (String ((Ascii (true, false, false, false,
-    false, false, true, false)), (String ((Ascii (true, true, true, false,
-    false, false, true, false)), EmptyString)))))))))))))))))))))))))))),
-    (String ((Ascii (true, true, true, false, false, false, true, false)),
-    EmptyString)))) :: []), [])) :: ((SFound (KeywordEnd, Z0)) :: ((SPush
-    st_stateExpectKeyword) :: ((SSetStep
-    st_stateParameterOrAnnotation) :: (SRetNil :: [])))))) :: (((String
+    EmptyString)))))))))))))),
+    (block ((SIf ((CNot (CByte (Npos (XI (XI (XI (XO (XO (XO XH))))))))),
+      (block ((SRetErr ((String ((Ascii (true, false, false, true, false,
+        true, true, false)), (String ((Ascii (false, true, true, true, false,
+        true, true, false)), (String ((Ascii (false, false, false, false,
+        false, true, false, false)), (String ((Ascii (true, true, false,
+        true, false, true, true, false)), (String ((Ascii (true, false, true,
+        false, false, true, true, false)), (String ((Ascii (true, false,
+        false, true, true, true, true, false)), (String ((Ascii (true, true,
+        true, false, true, true, true, false)), (String ((Ascii (true, true,
+        true, true, false, true, true, false)), (String ((Ascii (false, true,
+        false, false, true, true, true, false)), (String ((Ascii (false,
+        false, true, false, false, true, true, false)), (String ((Ascii
+        (false, false, false, false, false, true, false, false)), (String
+        ((Ascii (false, false, true, false, true, false, true, false)),
+        (String ((Ascii (true, false, false, false, false, false, true,
+        false)), (String ((Ascii (true, true, true, false, false, false,
+        true, false)), EmptyString)))))))))))))))))))))))))))), (String
+        ((Ascii (true, true, true, false, false, false, true, false)),
+        EmptyString)))) :: [])), SSkip)) :: ((SFound (KeywordEnd,
+      Z0)) :: ((SPush st_stateExpectKeyword) :: ((SSetStep
+      st_stateParameterOrAnnotation) :: (SRetNil :: []))))))) :: (((String
     ((Ascii (true, true, false, false, true, true, true, false)), (String
     ((Ascii (false, false, true, false, true, true, true, false)), (String
     ((Ascii (true, false, false, false, false, true, true, false)), (String
@@ -8085,60 +8537,62 @@ let prog_table =
     ((Ascii (true, false, true, false, false, true, true, false)), (String
     ((Ascii (false, false, true, false, true, false, true, false)), (String
     ((Ascii (true, false, false, false, false, true, true, false)),
-    EmptyString)))))))))))))), ((SIf ((CNot (CByte (Npos (XI (XI (XI (XO (XO
-    (XI XH))))))))), ((SRetErr ((String ((Ascii (true, false, false, true,
-    false, true, true, false)), (String ((Ascii (false, true, true, true,
-    false, true, true, false)), (String ((Ascii (false, false, false, false,
-    false, true, false, false)), (String ((Ascii (true, true, false, true,
-    false, true, true, false)), (String ((Ascii (true, false, true, false,
-    false, true, true, false)), (String ((Ascii (true, false, false, true,
-    true, true, true, false)), (String ((Ascii (true, true, true, false,
-    true, true, true, false)), (String ((Ascii (true, true, true, true,
-    false, true, true, false)), (String ((Ascii (false, true, false, false,
-    true, true, true, false)), (String ((Ascii (false, false, true, false,
-    false, true, true, false)), (String ((Ascii (false, false, false, false,
-    false, true, false, false)), (String ((Ascii (false, true, false, false,
-    false, true, false, false)), (String ((Ascii (false, false, true, false,
-    true, false, true, false)), (String ((Ascii (true, false, false, false,
-    false, true, true, false)), (String ((Ascii (true, true, true, false,
-    false, true, true, false)), (String ((Ascii (true, true, false, false,
-    true, true, true, false)), (String ((Ascii (false, true, false, false,
-    false, true, false, false)),
-    EmptyString)))))))))))))))))))))))))))))))))), (String ((Ascii (true,
-    true, true, false, false, true, true, false)), EmptyString)))) :: []),
-    [])) :: ((SSetStep st_stateTag) :: (SRetNil :: [])))) :: (((String
-    ((Ascii (true, true, false, false, true, true, true, false)), (String
-    ((Ascii (false, false, true, false, true, true, true, false)), (String
-    ((Ascii (true, false, false, false, false, true, true, false)), (String
-    ((Ascii (false, false, true, false, true, true, true, false)), (String
-    ((Ascii (true, false, true, false, false, true, true, false)), (String
-    ((Ascii (false, false, true, false, true, false, true, false)), (String
-    ((Ascii (true, false, false, false, false, true, true, false)), (String
-    ((Ascii (true, true, true, false, false, true, true, false)),
-    EmptyString)))))))))))))))), ((SIf ((CNot (CByte (Npos (XI (XI (XO (XO
-    (XI (XI XH))))))))), ((SRetErr ((String ((Ascii (true, false, false,
-    true, false, true, true, false)), (String ((Ascii (false, true, true,
-    true, false, true, true, false)), (String ((Ascii (false, false, false,
-    false, false, true, false, false)), (String ((Ascii (true, true, false,
-    true, false, true, true, false)), (String ((Ascii (true, false, true,
-    false, false, true, true, false)), (String ((Ascii (true, false, false,
-    true, true, true, true, false)), (String ((Ascii (true, true, true,
-    false, true, true, true, false)), (String ((Ascii (true, true, true,
-    true, false, true, true, false)), (String ((Ascii (false, true, false,
-    false, true, true, true, false)), (String ((Ascii (false, false, true,
-    false, false, true, true, false)), (String ((Ascii (false, false, false,
-    false, false, true, false, false)), (String ((Ascii (false, true, false,
-    false, false, true, false, false)), (String ((Ascii (false, false, true,
-    false, true, false, true, false)), (String ((Ascii (true, false, false,
-    false, false, true, true, false)), (String ((Ascii (true, true, true,
-    false, false, true, true, false)), (String ((Ascii (true, true, false,
-    false, true, true, true, false)), (String ((Ascii (false, true, false,
-    false, false, true, false, false)),
-    EmptyString)))))))))))))))))))))))))))))))))), (String ((Ascii (true,
-    true, false, false, true, true, true, false)), EmptyString)))) :: []),
-    [])) :: ((SFound (KeywordEnd, Z0)) :: ((SPush
-    st_stateExpectKeyword) :: ((SSetStep
-    st_stateParameterOrAnnotation) :: (SRetNil :: [])))))) :: (((String
+    EmptyString)))))))))))))),
+    (block ((SIf ((CNot (CByte (Npos (XI (XI (XI (XO (XO (XI XH))))))))),
+      (block ((SRetErr ((String ((Ascii (true, false, false, true, false,
+        true, true, false)), (String ((Ascii (false, true, true, true, false,
+        true, true, false)), (String ((Ascii (false, false, false, false,
+        false, true, false, false)), (String ((Ascii (true, true, false,
+        true, false, true, true, false)), (String ((Ascii (true, false, true,
+        false, false, true, true, false)), (String ((Ascii (true, false,
+        false, true, true, true, true, false)), (String ((Ascii (true, true,
+        true, false, true, true, true, false)), (String ((Ascii (true, true,
+        true, true, false, true, true, false)), (String ((Ascii (false, true,
+        false, false, true, true, true, false)), (String ((Ascii (false,
+        false, true, false, false, true, true, false)), (String ((Ascii
+        (false, false, false, false, false, true, false, false)), (String
+        ((Ascii (false, true, false, false, false, true, false, false)),
+        (String ((Ascii (false, false, true, false, true, false, true,
+        false)), (String ((Ascii (true, false, false, false, false, true,
+        true, false)), (String ((Ascii (true, true, true, false, false, true,
+        true, false)), (String ((Ascii (true, true, false, false, true, true,
+        true, false)), (String ((Ascii (false, true, false, false, false,
+        true, false, false)), EmptyString)))))))))))))))))))))))))))))))))),
+        (String ((Ascii (true, true, true, false, false, true, true, false)),
+        EmptyString)))) :: [])), SSkip)) :: ((SSetStep
+      st_stateTag) :: (SRetNil :: []))))) :: (((String ((Ascii (true, true,
+    false, false, true, true, true, false)), (String ((Ascii (false, false,
+    true, false, true, true, true, false)), (String ((Ascii (true, false,
+    false, false, false, true, true, false)), (String ((Ascii (false, false,
+    true, false, true, true, true, false)), (String ((Ascii (true, false,
+    true, false, false, true, true, false)), (String ((Ascii (false, false,
+    true, false, true, false, true, false)), (String ((Ascii (true, false,
+    false, false, false, true, true, false)), (String ((Ascii (true, true,
+    true, false, false, true, true, false)), EmptyString)))))))))))))))),
+    (block ((SIf ((CNot (CByte (Npos (XI (XI (XO (XO (XI (XI XH))))))))),
+      (block ((SRetErr ((String ((Ascii (true, false, false, true, false,
+        true, true, false)), (String ((Ascii (false, true, true, true, false,
+        true, true, false)), (String ((Ascii (false, false, false, false,
+        false, true, false, false)), (String ((Ascii (true, true, false,
+        true, false, true, true, false)), (String ((Ascii (true, false, true,
+        false, false, true, true, false)), (String ((Ascii (true, false,
+        false, true, true, true, true, false)), (String ((Ascii (true, true,
+        true, false, true, true, true, false)), (String ((Ascii (true, true,
+        true, true, false, true, true, false)), (String ((Ascii (false, true,
+        false, false, true, true, true, false)), (String ((Ascii (false,
+        false, true, false, false, true, true, false)), (String ((Ascii
+        (false, false, false, false, false, true, false, false)), (String
+        ((Ascii (false, true, false, false, false, true, false, false)),
+        (String ((Ascii (false, false, true, false, true, false, true,
+        false)), (String ((Ascii (true, false, false, false, false, true,
+        true, false)), (String ((Ascii (true, true, true, false, false, true,
+        true, false)), (String ((Ascii (true, true, false, false, true, true,
+        true, false)), (String ((Ascii (false, true, false, false, false,
+        true, false, false)), EmptyString)))))))))))))))))))))))))))))))))),
+        (String ((Ascii (true, true, false, false, true, true, true, false)),
+        EmptyString)))) :: [])), SSkip)) :: ((SFound (KeywordEnd,
+      Z0)) :: ((SPush st_stateExpectKeyword) :: ((SSetStep
+      st_stateParameterOrAnnotation) :: (SRetNil :: []))))))) :: (((String
     ((Ascii (true, true, false, false, true, true, true, false)), (String
     ((Ascii (false, false, true, false, true, true, true, false)), (String
     ((Ascii (true, false, false, false, false, true, true, false)), (String
@@ -8146,160 +8600,155 @@ let prog_table =
     ((Ascii (true, false, true, false, false, true, true, false)), (String
     ((Ascii (false, false, true, false, true, false, true, false)), (String
     ((Ascii (true, false, false, true, false, true, true, false)),
-    EmptyString)))))))))))))), ((SIf ((CByte (Npos (XO (XO (XI (XO (XI (XI
-    XH)))))))), ((SSetStep st_stateTit) :: (SRetNil :: [])), ((SRetErr
-    ((String ((Ascii (true, false, false, true, false, true, true, false)),
-    (String ((Ascii (false, true, true, true, false, true, true, false)),
-    (String ((Ascii (false, false, false, false, false, true, false, false)),
-    (String ((Ascii (true, true, false, true, false, true, true, false)),
-    (String ((Ascii (true, false, true, false, false, true, true, false)),
-    (String ((Ascii (true, false, false, true, true, true, true, false)),
-    (String ((Ascii (true, true, true, false, true, true, true, false)),
-    (String ((Ascii (true, true, true, true, false, true, true, false)),
-    (String ((Ascii (false, true, false, false, true, true, true, false)),
-    (String ((Ascii (false, false, true, false, false, true, true, false)),
-    (String ((Ascii (false, false, false, false, false, true, false, false)),
-    (String ((Ascii (false, false, true, false, true, false, true, false)),
-    (String ((Ascii (true, false, false, true, false, true, true, false)),
-    (String ((Ascii (false, false, true, false, true, true, true, false)),
-    (String ((Ascii (false, false, true, true, false, true, true, false)),
-    (String ((Ascii (true, false, true, false, false, true, true, false)),
-    EmptyString)))))))))))))))))))))))))))))))), (String ((Ascii (false,
-    false, true, false, true, true, true, false)),
-    EmptyString)))) :: []))) :: [])) :: (((String ((Ascii (true, true, false,
-    false, true, true, true, false)), (String ((Ascii (false, false, true,
-    false, true, true, true, false)), (String ((Ascii (true, false, false,
-    false, false, true, true, false)), (String ((Ascii (false, false, true,
-    false, true, true, true, false)), (String ((Ascii (true, false, true,
-    false, false, true, true, false)), (String ((Ascii (false, false, true,
-    false, true, false, true, false)), (String ((Ascii (true, false, false,
-    true, false, true, true, false)), (String ((Ascii (false, false, true,
-    false, true, true, true, false)), EmptyString)))))))))))))))), ((SIf
-    ((CByte (Npos (XO (XO (XI (XI (XO (XI XH)))))))), ((SSetStep
-    st_stateTitl) :: (SRetNil :: [])), ((SRetErr ((String ((Ascii (true,
-    false, false, true, false, true, true, false)), (String ((Ascii (false,
-    true, true, true, false, true, true, false)), (String ((Ascii (false,
-    false, false, false, false, true, false, false)), (String ((Ascii (true,
-    true, false, true, false, true, true, false)), (String ((Ascii (true,
-    false, true, false, false, true, true, false)), (String ((Ascii (true,
-    false, false, true, true, true, true, false)), (String ((Ascii (true,
-    true, true, false, true, true, true, false)), (String ((Ascii (true,
-    true, true, true, false, true, true, false)), (String ((Ascii (false,
-    true, false, false, true, true, true, false)), (String ((Ascii (false,
-    false, true, false, false, true, true, false)), (String ((Ascii (false,
-    false, false, false, false, true, false, false)), (String ((Ascii (false,
-    false, true, false, true, false, true, false)), (String ((Ascii (true,
-    false, false, true, false, true, true, false)), (String ((Ascii (false,
-    false, true, false, true, true, true, false)), (String ((Ascii (false,
-    false, true, true, false, true, true, false)), (String ((Ascii (true,
-    false, true, false, false, true, true, false)),
-    EmptyString)))))))))))))))))))))))))))))))), (String ((Ascii (false,
-    false, true, true, false, true, true, false)),
-    EmptyString)))) :: []))) :: [])) :: (((String ((Ascii (true, true, false,
-    false, true, true, true, false)), (String ((Ascii (false, false, true,
-    false, true, true, true, false)), (String ((Ascii (true, false, false,
-    false, false, true, true, false)), (String ((Ascii (false, false, true,
-    false, true, true, true, false)), (String ((Ascii (true, false, true,
-    false, false, true, true, false)), (String ((Ascii (false, false, true,
-    false, true, false, true, false)), (String ((Ascii (true, false, false,
-    true, false, true, true, false)), (String ((Ascii (false, false, true,
-    false, true, true, true, false)), (String ((Ascii (false, false, true,
-    true, false, true, true, false)), EmptyString)))))))))))))))))), ((SIf
-    ((CByte (Npos (XI (XO (XI (XO (XO (XI XH)))))))), ((SFound (KeywordEnd,
-    Z0)) :: ((SPush st_stateExpectKeyword) :: ((SSetStep
-    st_stateParameterOrAnnotation) :: (SRetNil :: [])))), ((SRetErr ((String
-    ((Ascii (true, false, false, true, false, true, true, false)), (String
-    ((Ascii (false, true, true, true, false, true, true, false)), (String
-    ((Ascii (false, false, false, false, false, true, false, false)), (String
-    ((Ascii (true, true, false, true, false, true, true, false)), (String
-    ((Ascii (true, false, true, false, false, true, true, false)), (String
-    ((Ascii (true, false, false, true, true, true, true, false)), (String
-    ((Ascii (true, true, true, false, true, true, true, false)), (String
-    ((Ascii (true, true, true, true, false, true, true, false)), (String
-    ((Ascii (false, true, false, false, true, true, true, false)), (String
-    ((Ascii (false, false, true, false, false, true, true, false)), (String
-    ((Ascii (false, false, false, false, false, true, false, false)), (String
-    ((Ascii (false, false, true, false, true, false, true, false)), (String
-    ((Ascii (true, false, false, true, false, true, true, false)), (String
-    ((Ascii (false, false, true, false, true, true, true, false)), (String
-    ((Ascii (false, false, true, true, false, true, true, false)), (String
-    ((Ascii (true, false, true, false, false, true, true, false)),
-    EmptyString)))))))))))))))))))))))))))))))), (String ((Ascii (false,
-    false, true, true, false, true, true, false)),
-    EmptyString)))) :: []))) :: [])) :: (((String ((Ascii (true, true, false,
-    false, true, true, true, false)), (String ((Ascii (false, false, true,
-    false, true, true, true, false)), (String ((Ascii (true, false, false,
-    false, false, true, true, false)), (String ((Ascii (false, false, true,
-    false, true, true, true, false)), (String ((Ascii (true, false, true,
-    false, false, true, true, false)), (String ((Ascii (false, false, true,
-    false, true, false, true, false)), (String ((Ascii (true, false, false,
-    true, true, true, true, false)), EmptyString)))))))))))))), ((SIf ((CByte
-    (Npos (XO (XO (XO (XO (XI (XO XH)))))))), ((SSetStep
-    st_stateTyp) :: (SRetNil :: [])), ((SRetErr ((String ((Ascii (true,
-    false, false, true, false, true, true, false)), (String ((Ascii (false,
-    true, true, true, false, true, true, false)), (String ((Ascii (false,
-    false, false, false, false, true, false, false)), (String ((Ascii (true,
-    true, false, true, false, true, true, false)), (String ((Ascii (true,
-    false, true, false, false, true, true, false)), (String ((Ascii (true,
-    false, false, true, true, true, true, false)), (String ((Ascii (true,
-    true, true, false, true, true, true, false)), (String ((Ascii (true,
-    true, true, true, false, true, true, false)), (String ((Ascii (false,
-    true, false, false, true, true, true, false)), (String ((Ascii (false,
-    false, true, false, false, true, true, false)), (String ((Ascii (false,
-    false, false, false, false, true, false, false)), (String ((Ascii (false,
-    false, true, false, true, false, true, false)), (String ((Ascii (true,
-    false, false, true, true, false, true, false)), (String ((Ascii (false,
-    false, false, false, true, false, true, false)), (String ((Ascii (true,
-    false, true, false, false, false, true, false)),
-    EmptyString)))))))))))))))))))))))))))))), (String ((Ascii (false, false,
-    false, false, true, false, true, false)),
-    EmptyString)))) :: []))) :: [])) :: (((String ((Ascii (true, true, false,
-    false, true, true, true, false)), (String ((Ascii (false, false, true,
-    false, true, true, true, false)), (String ((Ascii (true, false, false,
-    false, false, true, true, false)), (String ((Ascii (false, false, true,
-    false, true, true, true, false)), (String ((Ascii (true, false, true,
-    false, false, true, true, false)), (String ((Ascii (false, false, true,
-    false, true, false, true, false)), (String ((Ascii (true, false, false,
-    true, true, true, true, false)), (String ((Ascii (false, false, false,
-    false, true, true, true, false)), EmptyString)))))))))))))))), ((SIf
-    ((CByte (Npos (XI (XO (XI (XO (XO (XO XH)))))))), ((SFound (KeywordEnd,
-    Z0)) :: ((SPush st_stateTypeBodyOrKeyword) :: ((SSetStep
-    st_stateParameterOrAnnotation) :: (SRetNil :: [])))), ((SRetErr ((String
-    ((Ascii (true, false, false, true, false, true, true, false)), (String
-    ((Ascii (false, true, true, true, false, true, true, false)), (String
-    ((Ascii (false, false, false, false, false, true, false, false)), (String
-    ((Ascii (true, true, false, true, false, true, true, false)), (String
-    ((Ascii (true, false, true, false, false, true, true, false)), (String
-    ((Ascii (true, false, false, true, true, true, true, false)), (String
-    ((Ascii (true, true, true, false, true, true, true, false)), (String
-    ((Ascii (true, true, true, true, false, true, true, false)), (String
-    ((Ascii (false, true, false, false, true, true, true, false)), (String
-    ((Ascii (false, false, true, false, false, true, true, false)), (String
-    ((Ascii (false, false, false, false, false, true, false, false)), (String
-    ((Ascii (false, false, true, false, true, false, true, false)), (String
-    ((Ascii (true, false, false, true, true, false, true, false)), (String
-    ((Ascii (false, false, false, false, true, false, true, false)), (String
-    ((Ascii (true, false, true, false, false, false, true, false)),
-    EmptyString)))))))))))))))))))))))))))))), (String ((Ascii (true, false,
-    true, false, false, false, true, false)),
-    EmptyString)))) :: []))) :: [])) :: (((String ((Ascii (true, true, false,
-    false, true, true, true, false)), (String ((Ascii (false, false, true,
-    false, true, true, true, false)), (String ((Ascii (true, false, false,
-    false, false, true, true, false)), (String ((Ascii (false, false, true,
-    false, true, true, true, false)), (String ((Ascii (true, false, true,
-    false, false, true, true, false)), (String ((Ascii (false, false, true,
-    false, true, false, true, false)), (String ((Ascii (true, false, false,
-    true, true, true, true, false)), (String ((Ascii (false, false, false,
-    false, true, true, true, false)), (String ((Ascii (true, false, true,
-    false, false, true, true, false)), (String ((Ascii (false, true, false,
-    false, false, false, true, false)), (String ((Ascii (true, true, true,
-    true, false, true, true, false)), (String ((Ascii (false, false, true,
-    false, false, true, true, false)), (String ((Ascii (true, false, false,
-    true, true, true, true, false)), EmptyString)))))))))))))))))))))))))),
-    ((SIf ((COr (CWhitespace, CNewLine)), (SRetNil :: []), ((SIf ((CByte
-    (Npos (XO (XO (XO (XI (XO XH))))))), ((SFound (ContextOpen,
-    Z0)) :: (SRetNil :: [])),
-    (SPop :: (SRetRedispatch :: [])))) :: []))) :: [])) :: (((String ((Ascii
+    EmptyString)))))))))))))),
+    (block ((SIf ((CByte (Npos (XO (XO (XI (XO (XI (XI XH)))))))),
+      (block ((SSetStep st_stateTit) :: (SRetNil :: []))),
+      (block ((SRetErr ((String ((Ascii (true, false, false, true, false,
+        true, true, false)), (String ((Ascii (false, true, true, true, false,
+        true, true, false)), (String ((Ascii (false, false, false, false,
+        false, true, false, false)), (String ((Ascii (true, true, false,
+        true, false, true, true, false)), (String ((Ascii (true, false, true,
+        false, false, true, true, false)), (String ((Ascii (true, false,
+        false, true, true, true, true, false)), (String ((Ascii (true, true,
+        true, false, true, true, true, false)), (String ((Ascii (true, true,
+        true, true, false, true, true, false)), (String ((Ascii (false, true,
+        false, false, true, true, true, false)), (String ((Ascii (false,
+        false, true, false, false, true, true, false)), (String ((Ascii
+        (false, false, false, false, false, true, false, false)), (String
+        ((Ascii (false, false, true, false, true, false, true, false)),
+        (String ((Ascii (true, false, false, true, false, true, true,
+        false)), (String ((Ascii (false, false, true, false, true, true,
+        true, false)), (String ((Ascii (false, false, true, true, false,
+        true, true, false)), (String ((Ascii (true, false, true, false,
+        false, true, true, false)),
+        EmptyString)))))))))))))))))))))))))))))))), (String ((Ascii (false,
+        false, true, false, true, true, true, false)),
+        EmptyString)))) :: [])))) :: []))) :: (((String ((Ascii (true, true,
+    false, false, true, true, true, false)), (String ((Ascii (false, false,
+    true, false, true, true, true, false)), (String ((Ascii (true, false,
+    false, false, false, true, true, false)), (String ((Ascii (false, false,
+    true, false, true, true, true, false)), (String ((Ascii (true, false,
+    true, false, false, true, true, false)), (String ((Ascii (false, false,
+    true, false, true, false, true, false)), (String ((Ascii (true, false,
+    false, true, false, true, true, false)), (String ((Ascii (false, false,
+    true, false, true, true, true, false)), EmptyString)))))))))))))))),
+    (block ((SIf ((CByte (Npos (XO (XO (XI (XI (XO (XI XH)))))))),
+      (block ((SSetStep st_stateTitl) :: (SRetNil :: []))),
+      (block ((SRetErr ((String ((Ascii (true, false, false, true, false,
+        true, true, false)), (String ((Ascii (false, true, true, true, false,
+        true, true, false)), (String ((Ascii (false, false, false, false,
+        false, true, false, false)), (String ((Ascii (true, true, false,
+        true, false, true, true, false)), (String ((Ascii (true, false, true,
+        false, false, true, true, false)), (String ((Ascii (true, false,
+        false, true, true, true, true, false)), (String ((Ascii (true, true,
+        true, false, true, true, true, false)), (String ((Ascii (true, true,
+        true, true, false, true, true, false)), (String ((Ascii (false, true,
+        false, false, true, true, true, false)), (String ((Ascii (false,
+        false, true, false, false, true, true, false)), (String ((Ascii
+        (false, false, false, false, false, true, false, false)), (String
+        ((Ascii (false, false, true, false, true, false, true, false)),
+        (String ((Ascii (true, false, false, true, false, true, true,
+        false)), (String ((Ascii (false, false, true, false, true, true,
+        true, false)), (String ((Ascii (false, false, true, true, false,
+        true, true, false)), (String ((Ascii (true, false, true, false,
+        false, true, true, false)),
+        EmptyString)))))))))))))))))))))))))))))))), (String ((Ascii (false,
+        false, true, true, false, true, true, false)),
+        EmptyString)))) :: [])))) :: []))) :: (((String ((Ascii (true, true,
+    false, false, true, true, true, false)), (String ((Ascii (false, false,
+    true, false, true, true, true, false)), (String ((Ascii (true, false,
+    false, false, false, true, true, false)), (String ((Ascii (false, false,
+    true, false, true, true, true, false)), (String ((Ascii (true, false,
+    true, false, false, true, true, false)), (String ((Ascii (false, false,
+    true, false, true, false, true, false)), (String ((Ascii (true, false,
+    false, true, false, true, true, false)), (String ((Ascii (false, false,
+    true, false, true, true, true, false)), (String ((Ascii (false, false,
+    true, true, false, true, true, false)), EmptyString)))))))))))))))))),
+    (block ((SIf ((CByte (Npos (XI (XO (XI (XO (XO (XI XH)))))))),
+      (block ((SFound (KeywordEnd, Z0)) :: ((SPush
+        st_stateExpectKeyword) :: ((SSetStep
+        st_stateParameterOrAnnotation) :: (SRetNil :: []))))),
+      (block ((SRetErr ((String ((Ascii (true, false, false, true, false,
+        true, true, false)), (String ((Ascii (false, true, true, true, false,
+        true, true, false)), (String ((Ascii (false, false, false, false,
+        false, true, false, false)), (String ((Ascii (true, true, false,
+        true, false, true, true, false)), (String ((Ascii (true, false, true,
+        false, false, true, true, false)), (String ((Ascii (true, false,
+        false, true, true, true, true, false)), (String ((Ascii (true, true,
+        true, false, true, true, true, false)), (String ((Ascii (true, true,
+        true, true, false, true, true, false)), (String ((Ascii (false, true,
+        false, false, true, true, true, false)), (String ((Ascii (false,
+        false, true, false, false, true, true, false)), (String ((Ascii
+        (false, false, false, false, false, true, false, false)), (String
+        ((Ascii (false, false, true, false, true, false, true, false)),
+        (String ((Ascii (true, false, false, true, false, true, true,
+        false)), (String ((Ascii (false, false, true, false, true, true,
+        true, false)), (String ((Ascii (false, false, true, true, false,
+        true, true, false)), (String ((Ascii (true, false, true, false,
+        false, true, true, false)),
+        EmptyString)))))))))))))))))))))))))))))))), (String ((Ascii (false,
+        false, true, true, false, true, true, false)),
+        EmptyString)))) :: [])))) :: []))) :: (((String ((Ascii (true, true,
+    false, false, true, true, true, false)), (String ((Ascii (false, false,
+    true, false, true, true, true, false)), (String ((Ascii (true, false,
+    false, false, false, true, true, false)), (String ((Ascii (false, false,
+    true, false, true, true, true, false)), (String ((Ascii (true, false,
+    true, false, false, true, true, false)), (String ((Ascii (false, false,
+    true, false, true, false, true, false)), (String ((Ascii (true, false,
+    false, true, true, true, true, false)), EmptyString)))))))))))))),
+    (block ((SIf ((CByte (Npos (XO (XO (XO (XO (XI (XO XH)))))))),
+      (block ((SSetStep st_stateTyp) :: (SRetNil :: []))),
+      (block ((SRetErr ((String ((Ascii (true, false, false, true, false,
+        true, true, false)), (String ((Ascii (false, true, true, true, false,
+        true, true, false)), (String ((Ascii (false, false, false, false,
+        false, true, false, false)), (String ((Ascii (true, true, false,
+        true, false, true, true, false)), (String ((Ascii (true, false, true,
+        false, false, true, true, false)), (String ((Ascii (true, false,
+        false, true, true, true, true, false)), (String ((Ascii (true, true,
+        true, false, true, true, true, false)), (String ((Ascii (true, true,
+        true, true, false, true, true, false)), (String ((Ascii (false, true,
+        false, false, true, true, true, false)), (String ((Ascii (false,
+        false, true, false, false, true, true, false)), (String ((Ascii
+        (false, false, false, false, false, true, false, false)), (String
+        ((Ascii (false, false, true, false, true, false, true, false)),
+        (String ((Ascii (true, false, false, true, true, false, true,
+        false)), (String ((Ascii (false, false, false, false, true, false,
+        true, false)), (String ((Ascii (true, false, true, false, false,
+        false, true, false)), EmptyString)))))))))))))))))))))))))))))),
+        (String ((Ascii (false, false, false, false, true, false, true,
+        false)), EmptyString)))) :: [])))) :: []))) :: (((String ((Ascii
+    (true, true, false, false, true, true, true, false)), (String ((Ascii
+    (false, false, true, false, true, true, true, false)), (String ((Ascii
+    (true, false, false, false, false, true, true, false)), (String ((Ascii
+    (false, false, true, false, true, true, true, false)), (String ((Ascii
+    (true, false, true, false, false, true, true, false)), (String ((Ascii
+    (false, false, true, false, true, false, true, false)), (String ((Ascii
+    (true, false, false, true, true, true, true, false)), (String ((Ascii
+    (false, false, false, false, true, true, true, false)),
+    EmptyString)))))))))))))))),
+    (block ((SIf ((CByte (Npos (XI (XO (XI (XO (XO (XO XH)))))))),
+      (block ((SFound (KeywordEnd, Z0)) :: ((SPush
+        st_stateTypeBodyOrKeyword) :: ((SSetStep
+        st_stateParameterOrAnnotation) :: (SRetNil :: []))))),
+      (block ((SRetErr ((String ((Ascii (true, false, false, true, false,
+        true, true, false)), (String ((Ascii (false, true, true, true, false,
+        true, true, false)), (String ((Ascii (false, false, false, false,
+        false, true, false, false)), (String ((Ascii (true, true, false,
+        true, false, true, true, false)), (String ((Ascii (true, false, true,
+        false, false, true, true, false)), (String ((Ascii (true, false,
+        false, true, true, true, true, false)), (String ((Ascii (true, true,
+        true, false, true, true, true, false)), (String ((Ascii (true, true,
+        true, true, false, true, true, false)), (String ((Ascii (false, true,
+        false, false, true, true, true, false)), (String ((Ascii (false,
+        false, true, false, false, true, true, false)), (String ((Ascii
+        (false, false, false, false, false, true, false, false)), (String
+        ((Ascii (false, false, true, false, true, false, true, false)),
+        (String ((Ascii (true, false, false, true, true, false, true,
+        false)), (String ((Ascii (false, false, false, false, true, false,
+        true, false)), (String ((Ascii (true, false, true, false, false,
+        false, true, false)), EmptyString)))))))))))))))))))))))))))))),
+        (String ((Ascii (true, false, true, false, false, false, true,
+        false)), EmptyString)))) :: [])))) :: []))) :: (((String ((Ascii
     (true, true, false, false, true, true, true, false)), (String ((Ascii
     (false, false, true, false, true, true, true, false)), (String ((Ascii
     (true, false, false, false, false, true, true, false)), (String ((Ascii
@@ -8312,265 +8761,299 @@ let prog_table =
     (false, true, false, false, false, false, true, false)), (String ((Ascii
     (true, true, true, true, false, true, true, false)), (String ((Ascii
     (false, false, true, false, false, true, true, false)), (String ((Ascii
-    (true, false, false, true, true, true, true, false)), (String ((Ascii
-    (true, true, true, true, false, false, true, false)), (String ((Ascii
-    (false, true, false, false, true, true, true, false)), (String ((Ascii
-    (true, true, false, true, false, false, true, false)), (String ((Ascii
-    (true, false, true, false, false, true, true, false)), (String ((Ascii
-    (true, false, false, true, true, true, true, false)), (String ((Ascii
-    (true, true, true, false, true, true, true, false)), (String ((Ascii
-    (true, true, true, true, false, true, true, false)), (String ((Ascii
-    (false, true, false, false, true, true, true, false)), (String ((Ascii
-    (false, false, true, false, false, true, true, false)),
-    EmptyString)))))))))))))))))))))))))))))))))))))))))))), ((SIf ((CCtx
-    QAnyOrEmpty), ((SIf ((CCtx QRegex), ((SPush st_stateRegex) :: []),
-    ((SPush st_stateJSchema) :: []))) :: ((SSetStep
-    st_stateTypeBody) :: [])), ((SSetStep
-    st_stateExpectKeyword) :: []))) :: (SRetRedispatch :: []))) :: (((String
+    (true, false, false, true, true, true, true, false)),
+    EmptyString)))))))))))))))))))))))))),
+    (block ((SIf ((COr (CWhitespace, CNewLine)), (block (SRetNil :: [])),
+      (block ((SIf ((CByte (Npos (XO (XO (XO (XI (XO XH))))))),
+        (block ((SFound (ContextOpen, Z0)) :: (SRetNil :: []))),
+        (block (SPop :: (SRetRedispatch :: []))))) :: [])))) :: []))) :: (((String
+    ((Ascii (true, true, false, false, true, true, true, false)), (String
+    ((Ascii (false, false, true, false, true, true, true, false)), (String
+    ((Ascii (true, false, false, false, false, true, true, false)), (String
+    ((Ascii (false, false, true, false, true, true, true, false)), (String
+    ((Ascii (true, false, true, false, false, true, true, false)), (String
+    ((Ascii (false, false, true, false, true, false, true, false)), (String
+    ((Ascii (true, false, false, true, true, true, true, false)), (String
+    ((Ascii (false, false, false, false, true, true, true, false)), (String
+    ((Ascii (true, false, true, false, false, true, true, false)), (String
+    ((Ascii (false, true, false, false, false, false, true, false)), (String
+    ((Ascii (true, true, true, true, false, true, true, false)), (String
+    ((Ascii (false, false, true, false, false, true, true, false)), (String
+    ((Ascii (true, false, false, true, true, true, true, false)), (String
+    ((Ascii (true, true, true, true, false, false, true, false)), (String
+    ((Ascii (false, true, false, false, true, true, true, false)), (String
+    ((Ascii (true, true, false, true, false, false, true, false)), (String
+    ((Ascii (true, false, true, false, false, true, true, false)), (String
+    ((Ascii (true, false, false, true, true, true, true, false)), (String
+    ((Ascii (true, true, true, false, true, true, true, false)), (String
+    ((Ascii (true, true, true, true, false, true, true, false)), (String
+    ((Ascii (false, true, false, false, true, true, true, false)), (String
+    ((Ascii (false, false, true, false, false, true, true, false)),
+    EmptyString)))))))))))))))))))))))))))))))))))))))))))),
+    (block ((SIf ((CCtx QAnyOrEmpty),
+      (block ((SIf ((CCtx QRegex), (block ((SPush st_stateRegex) :: [])),
+        (block ((SPush st_stateJSchema) :: [])))) :: ((SSetStep
+        st_stateTypeBody) :: []))),
+      (block ((SSetStep st_stateExpectKeyword) :: [])))) :: (SRetRedispatch :: [])))) :: (((String
     ((Ascii (true, true, false, false, true, true, true, false)), (String
     ((Ascii (false, false, true, false, true, true, true, false)), (String
     ((Ascii (true, false, false, false, false, true, true, false)), (String
     ((Ascii (false, false, true, false, true, true, true, false)), (String
     ((Ascii (true, false, true, false, false, true, true, false)), (String
     ((Ascii (true, false, true, false, true, false, true, false)),
-    EmptyString)))))))))))), ((SIf ((CByte (Npos (XO (XI (XO (XO (XI (XO
-    XH)))))))), ((SSetStep st_stateUR) :: (SRetNil :: [])), ((SRetErr
-    ((String ((Ascii (true, false, false, true, false, true, true, false)),
-    (String ((Ascii (false, true, true, true, false, true, true, false)),
-    (String ((Ascii (false, false, false, false, false, true, false, false)),
-    (String ((Ascii (true, true, false, true, false, true, true, false)),
-    (String ((Ascii (true, false, true, false, false, true, true, false)),
-    (String ((Ascii (true, false, false, true, true, true, true, false)),
-    (String ((Ascii (true, true, true, false, true, true, true, false)),
-    (String ((Ascii (true, true, true, true, false, true, true, false)),
-    (String ((Ascii (false, true, false, false, true, true, true, false)),
-    (String ((Ascii (false, false, true, false, false, true, true, false)),
-    (String ((Ascii (false, false, false, false, false, true, false, false)),
-    (String ((Ascii (true, false, true, false, true, false, true, false)),
-    (String ((Ascii (false, true, false, false, true, false, true, false)),
-    (String ((Ascii (false, false, true, true, false, false, true, false)),
-    EmptyString)))))))))))))))))))))))))))), (String ((Ascii (false, true,
-    false, false, true, false, true, false)),
-    EmptyString)))) :: []))) :: [])) :: (((String ((Ascii (true, true, false,
-    false, true, true, true, false)), (String ((Ascii (false, false, true,
-    false, true, true, true, false)), (String ((Ascii (true, false, false,
-    false, false, true, true, false)), (String ((Ascii (false, false, true,
-    false, true, true, true, false)), (String ((Ascii (true, false, true,
-    false, false, true, true, false)), (String ((Ascii (true, false, true,
-    false, true, false, true, false)), (String ((Ascii (false, true, false,
-    false, true, false, true, false)), EmptyString)))))))))))))), ((SIf
-    ((CByte (Npos (XO (XO (XI (XI (XO (XO XH)))))))), ((SFound (KeywordEnd,
-    Z0)) :: ((SPush st_stateExpectKeyword) :: ((SSetStep
-    st_stateParameterOrAnnotation) :: (SRetNil :: [])))), ((SRetErr ((String
-    ((Ascii (true, false, false, true, false, true, true, false)), (String
-    ((Ascii (false, true, true, true, false, true, true, false)), (String
-    ((Ascii (false, false, false, false, false, true, false, false)), (String
-    ((Ascii (true, true, false, true, false, true, true, false)), (String
-    ((Ascii (true, false, true, false, false, true, true, false)), (String
-    ((Ascii (true, false, false, true, true, true, true, false)), (String
-    ((Ascii (true, true, true, false, true, true, true, false)), (String
-    ((Ascii (true, true, true, true, false, true, true, false)), (String
-    ((Ascii (false, true, false, false, true, true, true, false)), (String
-    ((Ascii (false, false, true, false, false, true, true, false)), (String
-    ((Ascii (false, false, false, false, false, true, false, false)), (String
-    ((Ascii (true, false, true, false, true, false, true, false)), (String
-    ((Ascii (false, true, false, false, true, false, true, false)), (String
-    ((Ascii (false, false, true, true, false, false, true, false)),
-    EmptyString)))))))))))))))))))))))))))), (String ((Ascii (false, false,
-    true, true, false, false, true, false)),
-    EmptyString)))) :: []))) :: [])) :: (((String ((Ascii (true, true, false,
-    false, true, true, true, false)), (String ((Ascii (false, false, true,
-    false, true, true, true, false)), (String ((Ascii (true, false, false,
-    false, false, true, true, false)), (String ((Ascii (false, false, true,
-    false, true, true, true, false)), (String ((Ascii (true, false, true,
-    false, false, true, true, false)), (String ((Ascii (false, true, true,
-    false, true, false, true, false)), EmptyString)))))))))))), ((SIf ((CByte
-    (Npos (XI (XO (XI (XO (XO (XI XH)))))))), ((SSetStep
-    st_stateVe) :: (SRetNil :: [])), ((SRetErr ((String ((Ascii (true, false,
-    false, true, false, true, true, false)), (String ((Ascii (false, true,
-    true, true, false, true, true, false)), (String ((Ascii (false, false,
-    false, false, false, true, false, false)), (String ((Ascii (false, false,
-    true, false, false, true, true, false)), (String ((Ascii (true, false,
-    false, true, false, true, true, false)), (String ((Ascii (false, true,
-    false, false, true, true, true, false)), (String ((Ascii (true, false,
-    true, false, false, true, true, false)), (String ((Ascii (true, true,
+    EmptyString)))))))))))),
+    (block ((SIf ((CByte (Npos (XO (XI (XO (XO (XI (XO XH)))))))),
+      (block ((SSetStep st_stateUR) :: (SRetNil :: []))),
+      (block ((SRetErr ((String ((Ascii (true, false, false, true, false,
+        true, true, false)), (String ((Ascii (false, true, true, true, false,
+        true, true, false)), (String ((Ascii (false, false, false, false,
+        false, true, false, false)), (String ((Ascii (true, true, false,
+        true, false, true, true, false)), (String ((Ascii (true, false, true,
+        false, false, true, true, false)), (String ((Ascii (true, false,
+        false, true, true, true, true, false)), (String ((Ascii (true, true,
+        true, false, true, true, true, false)), (String ((Ascii (true, true,
+        true, true, false, true, true, false)), (String ((Ascii (false, true,
+        false, false, true, true, true, false)), (String ((Ascii (false,
+        false, true, false, false, true, true, false)), (String ((Ascii
+        (false, false, false, false, false, true, false, false)), (String
+        ((Ascii (true, false, true, false, true, false, true, false)),
+        (String ((Ascii (false, true, false, false, true, false, true,
+        false)), (String ((Ascii (false, false, true, true, false, false,
+        true, false)), EmptyString)))))))))))))))))))))))))))), (String
+        ((Ascii (false, true, false, false, true, false, true, false)),
+        EmptyString)))) :: [])))) :: []))) :: (((String ((Ascii (true, true,
+    false, false, true, true, true, false)), (String ((Ascii (false, false,
+    true, false, true, true, true, false)), (String ((Ascii (true, false,
     false, false, false, true, true, false)), (String ((Ascii (false, false,
     true, false, true, true, true, false)), (String ((Ascii (true, false,
-    false, true, false, true, true, false)), (String ((Ascii (false, true,
+    true, false, false, true, true, false)), (String ((Ascii (true, false,
+    true, false, true, false, true, false)), (String ((Ascii (false, true,
+    false, false, true, false, true, false)), EmptyString)))))))))))))),
+    (block ((SIf ((CByte (Npos (XO (XO (XI (XI (XO (XO XH)))))))),
+      (block ((SFound (KeywordEnd, Z0)) :: ((SPush
+        st_stateExpectKeyword) :: ((SSetStep
+        st_stateParameterOrAnnotation) :: (SRetNil :: []))))),
+      (block ((SRetErr ((String ((Ascii (true, false, false, true, false,
+        true, true, false)), (String ((Ascii (false, true, true, true, false,
+        true, true, false)), (String ((Ascii (false, false, false, false,
+        false, true, false, false)), (String ((Ascii (true, true, false,
+        true, false, true, true, false)), (String ((Ascii (true, false, true,
+        false, false, true, true, false)), (String ((Ascii (true, false,
+        false, true, true, true, true, false)), (String ((Ascii (true, true,
+        true, false, true, true, true, false)), (String ((Ascii (true, true,
+        true, true, false, true, true, false)), (String ((Ascii (false, true,
+        false, false, true, true, true, false)), (String ((Ascii (false,
+        false, true, false, false, true, true, false)), (String ((Ascii
+        (false, false, false, false, false, true, false, false)), (String
+        ((Ascii (true, false, true, false, true, false, true, false)),
+        (String ((Ascii (false, true, false, false, true, false, true,
+        false)), (String ((Ascii (false, false, true, true, false, false,
+        true, false)), EmptyString)))))))))))))))))))))))))))), (String
+        ((Ascii (false, false, true, true, false, false, true, false)),
+        EmptyString)))) :: [])))) :: []))) :: (((String ((Ascii (true, true,
+    false, false, true, true, true, false)), (String ((Ascii (false, false,
     true, false, true, true, true, false)), (String ((Ascii (true, false,
-    true, false, false, true, true, false)), (String ((Ascii (false, false,
-    false, false, false, true, false, false)), (String ((Ascii (false, true,
+    false, false, false, true, true, false)), (String ((Ascii (false, false,
+    true, false, true, true, true, false)), (String ((Ascii (true, false,
+    true, false, false, true, true, false)), (String ((Ascii (false, true,
+    true, false, true, false, true, false)), EmptyString)))))))))))),
+    (block ((SIf ((CByte (Npos (XI (XO (XI (XO (XO (XI XH)))))))),
+      (block ((SSetStep st_stateVe) :: (SRetNil :: []))),
+      (block ((SRetErr ((String ((Ascii (true, false, false, true, false,
+        true, true, false)), (String ((Ascii (false, true, true, true, false,
+        true, true, false)), (String ((Ascii (false, false, false, false,
+        false, true, false, false)), (String ((Ascii (false, false, true,
+        false, false, true, true, false)), (String ((Ascii (true, false,
+        false, true, false, true, true, false)), (String ((Ascii (false,
+        true, false, false, true, true, true, false)), (String ((Ascii (true,
+        false, true, false, false, true, true, false)), (String ((Ascii
+        (true, true, false, false, false, true, true, false)), (String
+        ((Ascii (false, false, true, false, true, true, true, false)),
+        (String ((Ascii (true, false, false, true, false, true, true,
+        false)), (String ((Ascii (false, true, true, false, true, true, true,
+        false)), (String ((Ascii (true, false, true, false, false, true,
+        true, false)), (String ((Ascii (false, false, false, false, false,
+        true, false, false)), (String ((Ascii (false, true, true, false,
+        true, false, true, false)), (String ((Ascii (true, false, true,
+        false, false, true, true, false)), (String ((Ascii (false, true,
+        false, false, true, true, true, false)), (String ((Ascii (true, true,
+        false, false, true, true, true, false)), (String ((Ascii (true,
+        false, false, true, false, true, true, false)), (String ((Ascii
+        (true, true, true, true, false, true, true, false)), (String ((Ascii
+        (false, true, true, true, false, true, true, false)),
+        EmptyString)))))))))))))))))))))))))))))))))))))))), (String ((Ascii
+        (true, false, true, false, false, true, true, false)),
+        EmptyString)))) :: [])))) :: []))) :: (((String ((Ascii (true, true,
+    false, false, true, true, true, false)), (String ((Ascii (false, false,
+    true, false, true, true, true, false)), (String ((Ascii (true, false,
+    false, false, false, true, true, false)), (String ((Ascii (false, false,
+    true, false, true, true, true, false)), (String ((Ascii (true, false,
+    true, false, false, true, true, false)), (String ((Ascii (false, true,
+    true, false, true, false, true, false)), (String ((Ascii (true, false,
+    true, false, false, true, true, false)), EmptyString)))))))))))))),
+    (block ((SIf ((CByte (Npos (XO (XI (XO (XO (XI (XI XH)))))))),
+      (block ((SSetStep st_stateVer) :: (SRetNil :: []))),
+      (block ((SRetErr ((String ((Ascii (true, false, false, true, false,
+        true, true, false)), (String ((Ascii (false, true, true, true, false,
+        true, true, false)), (String ((Ascii (false, false, false, false,
+        false, true, false, false)), (String ((Ascii (true, true, false,
+        true, false, true, true, false)), (String ((Ascii (true, false, true,
+        false, false, true, true, false)), (String ((Ascii (true, false,
+        false, true, true, true, true, false)), (String ((Ascii (true, true,
+        true, false, true, true, true, false)), (String ((Ascii (true, true,
+        true, true, false, true, true, false)), (String ((Ascii (false, true,
+        false, false, true, true, true, false)), (String ((Ascii (false,
+        false, true, false, false, true, true, false)), (String ((Ascii
+        (false, false, false, false, false, true, false, false)), (String
+        ((Ascii (false, true, true, false, true, false, true, false)),
+        (String ((Ascii (true, false, true, false, false, true, true,
+        false)), (String ((Ascii (false, true, false, false, true, true,
+        true, false)), (String ((Ascii (true, true, false, false, true, true,
+        true, false)), (String ((Ascii (true, false, false, true, false,
+        true, true, false)), (String ((Ascii (true, true, true, true, false,
+        true, true, false)), (String ((Ascii (false, true, true, true, false,
+        true, true, false)), EmptyString)))))))))))))))))))))))))))))))))))),
+        (String ((Ascii (false, true, false, false, true, true, true,
+        false)), EmptyString)))) :: [])))) :: []))) :: (((String ((Ascii
+    (true, true, false, false, true, true, true, false)), (String ((Ascii
+    (false, false, true, false, true, true, true, false)), (String ((Ascii
+    (true, false, false, false, false, true, true, false)), (String ((Ascii
+    (false, false, true, false, true, true, true, false)), (String ((Ascii
+    (true, false, true, false, false, true, true, false)), (String ((Ascii
+    (false, true, true, false, true, false, true, false)), (String ((Ascii
+    (true, false, true, false, false, true, true, false)), (String ((Ascii
+    (false, true, false, false, true, true, true, false)),
+    EmptyString)))))))))))))))),
+    (block ((SIf ((CByte (Npos (XI (XI (XO (XO (XI (XI XH)))))))),
+      (block ((SSetStep st_stateVers) :: (SRetNil :: []))),
+      (block ((SRetErr ((String ((Ascii (true, false, false, true, false,
+        true, true, false)), (String ((Ascii (false, true, true, true, false,
+        true, true, false)), (String ((Ascii (false, false, false, false,
+        false, true, false, false)), (String ((Ascii (true, true, false,
+        true, false, true, true, false)), (String ((Ascii (true, false, true,
+        false, false, true, true, false)), (String ((Ascii (true, false,
+        false, true, true, true, true, false)), (String ((Ascii (true, true,
+        true, false, true, true, true, false)), (String ((Ascii (true, true,
+        true, true, false, true, true, false)), (String ((Ascii (false, true,
+        false, false, true, true, true, false)), (String ((Ascii (false,
+        false, true, false, false, true, true, false)), (String ((Ascii
+        (false, false, false, false, false, true, false, false)), (String
+        ((Ascii (false, true, true, false, true, false, true, false)),
+        (String ((Ascii (true, false, true, false, false, true, true,
+        false)), (String ((Ascii (false, true, false, false, true, true,
+        true, false)), (String ((Ascii (true, true, false, false, true, true,
+        true, false)), (String ((Ascii (true, false, false, true, false,
+        true, true, false)), (String ((Ascii (true, true, true, true, false,
+        true, true, false)), (String ((Ascii (false, true, true, true, false,
+        true, true, false)), EmptyString)))))))))))))))))))))))))))))))))))),
+        (String ((Ascii (true, true, false, false, true, true, true, false)),
+        EmptyString)))) :: [])))) :: []))) :: (((String ((Ascii (true, true,
+    false, false, true, true, true, false)), (String ((Ascii (false, false,
+    true, false, true, true, true, false)), (String ((Ascii (true, false,
+    false, false, false, true, true, false)), (String ((Ascii (false, false,
+    true, false, true, true, true, false)), (String ((Ascii (true, false,
+    true, false, false, true, true, false)), (String ((Ascii (false, true,
+    true, false, true, false, true, false)), (String ((Ascii (true, false,
+    true, false, false, true, true, false)), (String ((Ascii (false, true,
+    false, false, true, true, true, false)), (String ((Ascii (true, true,
+    false, false, true, true, true, false)), EmptyString)))))))))))))))))),
+    (block ((SIf ((CByte (Npos (XI (XO (XO (XI (XO (XI XH)))))))),
+      (block ((SSetStep st_stateVersi) :: (SRetNil :: []))),
+      (block ((SRetErr ((String ((Ascii (true, false, false, true, false,
+        true, true, false)), (String ((Ascii (false, true, true, true, false,
+        true, true, false)), (String ((Ascii (false, false, false, false,
+        false, true, false, false)), (String ((Ascii (true, true, false,
+        true, false, true, true, false)), (String ((Ascii (true, false, true,
+        false, false, true, true, false)), (String ((Ascii (true, false,
+        false, true, true, true, true, false)), (String ((Ascii (true, true,
+        true, false, true, true, true, false)), (String ((Ascii (true, true,
+        true, true, false, true, true, false)), (String ((Ascii (false, true,
+        false, false, true, true, true, false)), (String ((Ascii (false,
+        false, true, false, false, true, true, false)), (String ((Ascii
+        (false, false, false, false, false, true, false, false)), (String
+        ((Ascii (false, true, true, false, true, false, true, false)),
+        (String ((Ascii (true, false, true, false, false, true, true,
+        false)), (String ((Ascii (false, true, false, false, true, true,
+        true, false)), (String ((Ascii (true, true, false, false, true, true,
+        true, false)), (String ((Ascii (true, false, false, true, false,
+        true, true, false)), (String ((Ascii (true, true, true, true, false,
+        true, true, false)), (String ((Ascii (false, true, true, true, false,
+        true, true, false)), EmptyString)))))))))))))))))))))))))))))))))))),
+        (String ((Ascii (true, false, false, true, false, true, true,
+        false)), EmptyString)))) :: [])))) :: []))) :: (((String ((Ascii
+    (true, true, false, false, true, true, true, false)), (String ((Ascii
+    (false, false, true, false, true, true, true, false)), (String ((Ascii
+    (true, false, false, false, false, true, true, false)), (String ((Ascii
+    (false, false, true, false, true, true, true, false)), (String ((Ascii
+    (true, false, true, false, false, true, true, false)), (String ((Ascii
+    (false, true, true, false, true, false, true, false)), (String ((Ascii
+    (true, false, true, false, false, true, true, false)), (String ((Ascii
+    (false, true, false, false, true, true, true, false)), (String ((Ascii
+    (true, true, false, false, true, true, true, false)), (String ((Ascii
+    (true, false, false, true, false, true, true, false)),
+    EmptyString)))))))))))))))))))),
+    (block ((SIf ((CByte (Npos (XI (XI (XI (XI (XO (XI XH)))))))),
+      (block ((SSetStep st_stateVersio) :: (SRetNil :: []))),
+      (block ((SRetErr ((String ((Ascii (true, false, false, true, false,
+        true, true, false)), (String ((Ascii (false, true, true, true, false,
+        true, true, false)), (String ((Ascii (false, false, false, false,
+        false, true, false, false)), (String ((Ascii (true, true, false,
+        true, false, true, true, false)), (String ((Ascii (true, false, true,
+        false, false, true, true, false)), (String ((Ascii (true, false,
+        false, true, true, true, true, false)), (String ((Ascii (true, true,
+        true, false, true, true, true, false)), (String ((Ascii (true, true,
+        true, true, false, true, true, false)), (String ((Ascii (false, true,
+        false, false, true, true, true, false)), (String ((Ascii (false,
+        false, true, false, false, true, true, false)), (String ((Ascii
+        (false, false, false, false, false, true, false, false)), (String
+        ((Ascii (false, true, true, false, true, false, true, false)),
+        (String ((Ascii (true, false, true, false, false, true, true,
+        false)), (String ((Ascii (false, true, false, false, true, true,
+        true, false)), (String ((Ascii (true, true, false, false, true, true,
+        true, false)), (String ((Ascii (true, false, false, true, false,
+        true, true, false)), (String ((Ascii (true, true, true, true, false,
+        true, true, false)), (String ((Ascii (false, true, true, true, false,
+        true, true, false)), EmptyString)))))))))))))))))))))))))))))))))))),
+        (String ((Ascii (true, true, true, true, false, true, true, false)),
+        EmptyString)))) :: [])))) :: []))) :: (((String ((Ascii (true, true,
+    false, false, true, true, true, false)), (String ((Ascii (false, false,
+    true, false, true, true, true, false)), (String ((Ascii (true, false,
+    false, false, false, true, true, false)), (String ((Ascii (false, false,
+    true, false, true, true, true, false)), (String ((Ascii (true, false,
+    true, false, false, true, true, false)), (String ((Ascii (false, true,
     true, false, true, false, true, false)), (String ((Ascii (true, false,
     true, false, false, true, true, false)), (String ((Ascii (false, true,
     false, false, true, true, true, false)), (String ((Ascii (true, true,
     false, false, true, true, true, false)), (String ((Ascii (true, false,
     false, true, false, true, true, false)), (String ((Ascii (true, true,
-    true, true, false, true, true, false)), (String ((Ascii (false, true,
     true, true, false, true, true, false)),
-    EmptyString)))))))))))))))))))))))))))))))))))))))), (String ((Ascii
-    (true, false, true, false, false, true, true, false)),
-    EmptyString)))) :: []))) :: [])) :: (((String ((Ascii (true, true, false,
-    false, true, true, true, false)), (String ((Ascii (false, false, true,
-    false, true, true, true, false)), (String ((Ascii (true, false, false,
-    false, false, true, true, false)), (String ((Ascii (false, false, true,
-    false, true, true, true, false)), (String ((Ascii (true, false, true,
-    false, false, true, true, false)), (String ((Ascii (false, true, true,
-    false, true, false, true, false)), (String ((Ascii (true, false, true,
-    false, false, true, true, false)), EmptyString)))))))))))))), ((SIf
-    ((CByte (Npos (XO (XI (XO (XO (XI (XI XH)))))))), ((SSetStep
-    st_stateVer) :: (SRetNil :: [])), ((SRetErr ((String ((Ascii (true,
-    false, false, true, false, true, true, false)), (String ((Ascii (false,
-    true, true, true, false, true, true, false)), (String ((Ascii (false,
-    false, false, false, false, true, false, false)), (String ((Ascii (true,
-    true, false, true, false, true, true, false)), (String ((Ascii (true,
-    false, true, false, false, true, true, false)), (String ((Ascii (true,
-    false, false, true, true, true, true, false)), (String ((Ascii (true,
-    true, true, false, true, true, true, false)), (String ((Ascii (true,
-    true, true, true, false, true, true, false)), (String ((Ascii (false,
-    true, false, false, true, true, true, false)), (String ((Ascii (false,
-    false, true, false, false, true, true, false)), (String ((Ascii (false,
-    false, false, false, false, true, false, false)), (String ((Ascii (false,
-    true, true, false, true, false, true, false)), (String ((Ascii (true,
-    false, true, false, false, true, true, false)), (String ((Ascii (false,
-    true, false, false, true, true, true, false)), (String ((Ascii (true,
-    true, false, false, true, true, true, false)), (String ((Ascii (true,
-    false, false, true, false, true, true, false)), (String ((Ascii (true,
-    true, true, true, false, true, true, false)), (String ((Ascii (false,
-    true, true, true, false, true, true, false)),
-    EmptyString)))))))))))))))))))))))))))))))))))), (String ((Ascii (false,
-    true, false, false, true, true, true, false)),
-    EmptyString)))) :: []))) :: [])) :: (((String ((Ascii (true, true, false,
-    false, true, true, true, false)), (String ((Ascii (false, false, true,
-    false, true, true, true, false)), (String ((Ascii (true, false, false,
-    false, false, true, true, false)), (String ((Ascii (false, false, true,
-    false, true, true, true, false)), (String ((Ascii (true, false, true,
-    false, false, true, true, false)), (String ((Ascii (false, true, true,
-    false, true, false, true, false)), (String ((Ascii (true, false, true,
-    false, false, true, true, false)), (String ((Ascii (false, true, false,
-    false, true, true, true, false)), EmptyString)))))))))))))))), ((SIf
-    ((CByte (Npos (XI (XI (XO (XO (XI (XI XH)))))))), ((SSetStep
-    st_stateVers) :: (SRetNil :: [])), ((SRetErr ((String ((Ascii (true,
-    false, false, true, false, true, true, false)), (String ((Ascii (false,
-    true, true, true, false, true, true, false)), (String ((Ascii (false,
-    false, false, false, false, true, false, false)), (String ((Ascii (true,
-    true, false, true, false, true, true, false)), (String ((Ascii (true,
-    false, true, false, false, true, true, false)), (String ((Ascii (true,
-    false, false, true, true, true, true, false)), (String ((Ascii (true,
-    true, true, false, true, true, true, false)), (String ((Ascii (true,
-    true, true, true, false, true, true, false)), (String ((Ascii (false,
-    true, false, false, true, true, true, false)), (String ((Ascii (false,
-    false, true, false, false, true, true, false)), (String ((Ascii (false,
-    false, false, false, false, true, false, false)), (String ((Ascii (false,
-    true, true, false, true, false, true, false)), (String ((Ascii (true,
-    false, true, false, false, true, true, false)), (String ((Ascii (false,
-    true, false, false, true, true, true, false)), (String ((Ascii (true,
-    true, false, false, true, true, true, false)), (String ((Ascii (true,
-    false, false, true, false, true, true, false)), (String ((Ascii (true,
-    true, true, true, false, true, true, false)), (String ((Ascii (false,
-    true, true, true, false, true, true, false)),
-    EmptyString)))))))))))))))))))))))))))))))))))), (String ((Ascii (true,
-    true, false, false, true, true, true, false)),
-    EmptyString)))) :: []))) :: [])) :: (((String ((Ascii (true, true, false,
-    false, true, true, true, false)), (String ((Ascii (false, false, true,
-    false, true, true, true, false)), (String ((Ascii (true, false, false,
-    false, false, true, true, false)), (String ((Ascii (false, false, true,
-    false, true, true, true, false)), (String ((Ascii (true, false, true,
-    false, false, true, true, false)), (String ((Ascii (false, true, true,
-    false, true, false, true, false)), (String ((Ascii (true, false, true,
-    false, false, true, true, false)), (String ((Ascii (false, true, false,
-    false, true, true, true, false)), (String ((Ascii (true, true, false,
-    false, true, true, true, false)), EmptyString)))))))))))))))))), ((SIf
-    ((CByte (Npos (XI (XO (XO (XI (XO (XI XH)))))))), ((SSetStep
-    st_stateVersi) :: (SRetNil :: [])), ((SRetErr ((String ((Ascii (true,
-    false, false, true, false, true, true, false)), (String ((Ascii (false,
-    true, true, true, false, true, true, false)), (String ((Ascii (false,
-    false, false, false, false, true, false, false)), (String ((Ascii (true,
-    true, false, true, false, true, true, false)), (String ((Ascii (true,
-    false, true, false, false, true, true, false)), (String ((Ascii (true,
-    false, false, true, true, true, true, false)), (String ((Ascii (true,
-    true, true, false, true, true, true, false)), (String ((Ascii (true,
-    true, true, true, false, true, true, false)), (String ((Ascii (false,
-    true, false, false, true, true, true, false)), (String ((Ascii (false,
-    false, true, false, false, true, true, false)), (String ((Ascii (false,
-    false, false, false, false, true, false, false)), (String ((Ascii (false,
-    true, true, false, true, false, true, false)), (String ((Ascii (true,
-    false, true, false, false, true, true, false)), (String ((Ascii (false,
-    true, false, false, true, true, true, false)), (String ((Ascii (true,
-    true, false, false, true, true, true, false)), (String ((Ascii (true,
-    false, false, true, false, true, true, false)), (String ((Ascii (true,
-    true, true, true, false, true, true, false)), (String ((Ascii (false,
-    true, true, true, false, true, true, false)),
-    EmptyString)))))))))))))))))))))))))))))))))))), (String ((Ascii (true,
-    false, false, true, false, true, true, false)),
-    EmptyString)))) :: []))) :: [])) :: (((String ((Ascii (true, true, false,
-    false, true, true, true, false)), (String ((Ascii (false, false, true,
-    false, true, true, true, false)), (String ((Ascii (true, false, false,
-    false, false, true, true, false)), (String ((Ascii (false, false, true,
-    false, true, true, true, false)), (String ((Ascii (true, false, true,
-    false, false, true, true, false)), (String ((Ascii (false, true, true,
-    false, true, false, true, false)), (String ((Ascii (true, false, true,
-    false, false, true, true, false)), (String ((Ascii (false, true, false,
-    false, true, true, true, false)), (String ((Ascii (true, true, false,
-    false, true, true, true, false)), (String ((Ascii (true, false, false,
-    true, false, true, true, false)), EmptyString)))))))))))))))))))), ((SIf
-    ((CByte (Npos (XI (XI (XI (XI (XO (XI XH)))))))), ((SSetStep
-    st_stateVersio) :: (SRetNil :: [])), ((SRetErr ((String ((Ascii (true,
-    false, false, true, false, true, true, false)), (String ((Ascii (false,
-    true, true, true, false, true, true, false)), (String ((Ascii (false,
-    false, false, false, false, true, false, false)), (String ((Ascii (true,
-    true, false, true, false, true, true, false)), (String ((Ascii (true,
-    false, true, false, false, true, true, false)), (String ((Ascii (true,
-    false, false, true, true, true, true, false)), (String ((Ascii (true,
-    true, true, false, true, true, true, false)), (String ((Ascii (true,
-    true, true, true, false, true, true, false)), (String ((Ascii (false,
-    true, false, false, true, true, true, false)), (String ((Ascii (false,
-    false, true, false, false, true, true, false)), (String ((Ascii (false,
-    false, false, false, false, true, false, false)), (String ((Ascii (false,
-    true, true, false, true, false, true, false)), (String ((Ascii (true,
-    false, true, false, false, true, true, false)), (String ((Ascii (false,
-    true, false, false, true, true, true, false)), (String ((Ascii (true,
-    true, false, false, true, true, true, false)), (String ((Ascii (true,
-    false, false, true, false, true, true, false)), (String ((Ascii (true,
-    true, true, true, false, true, true, false)), (String ((Ascii (false,
-    true, true, true, false, true, true, false)),
-    EmptyString)))))))))))))))))))))))))))))))))))), (String ((Ascii (true,
-    true, true, true, false, true, true, false)),
-    EmptyString)))) :: []))) :: [])) :: (((String ((Ascii (true, true, false,
-    false, true, true, true, false)), (String ((Ascii (false, false, true,
-    false, true, true, true, false)), (String ((Ascii (true, false, false,
-    false, false, true, true, false)), (String ((Ascii (false, false, true,
-    false, true, true, true, false)), (String ((Ascii (true, false, true,
-    false, false, true, true, false)), (String ((Ascii (false, true, true,
-    false, true, false, true, false)), (String ((Ascii (true, false, true,
-    false, false, true, true, false)), (String ((Ascii (false, true, false,
-    false, true, true, true, false)), (String ((Ascii (true, true, false,
-    false, true, true, true, false)), (String ((Ascii (true, false, false,
-    true, false, true, true, false)), (String ((Ascii (true, true, true,
-    true, false, true, true, false)), EmptyString)))))))))))))))))))))),
-    ((SIf ((CByte (Npos (XO (XI (XI (XI (XO (XI XH)))))))), ((SFound
-    (KeywordEnd, Z0)) :: ((SPush st_stateExpectKeyword) :: ((SSetStep
-    st_stateParameterOrAnnotation) :: (SRetNil :: [])))), ((SRetErr ((String
-    ((Ascii (true, false, false, true, false, true, true, false)), (String
-    ((Ascii (false, true, true, true, false, true, true, false)), (String
-    ((Ascii (false, false, false, false, false, true, false, false)), (String
-    ((Ascii (true, true, false, true, false, true, true, false)), (String
-    ((Ascii (true, false, true, false, false, true, true, false)), (String
-    ((Ascii (true, false, false, true, true, true, true, false)), (String
-    ((Ascii (true, true, true, false, true, true, true, false)), (String
-    ((Ascii (true, true, true, true, false, true, true, false)), (String
-    ((Ascii (false, true, false, false, true, true, true, false)), (String
-    ((Ascii (false, false, true, false, false, true, true, false)), (String
-    ((Ascii (false, false, false, false, false, true, false, false)), (String
-    ((Ascii (false, true, true, false, true, false, true, false)), (String
-    ((Ascii (true, false, true, false, false, true, true, false)), (String
-    ((Ascii (false, true, false, false, true, true, true, false)), (String
-    ((Ascii (true, true, false, false, true, true, true, false)), (String
-    ((Ascii (true, false, false, true, false, true, true, false)), (String
-    ((Ascii (true, true, true, true, false, true, true, false)), (String
-    ((Ascii (false, true, true, true, false, true, true, false)),
-    EmptyString)))))))))))))))))))))))))))))))))))), (String ((Ascii (false,
-    true, true, true, false, true, true, false)),
-    EmptyString)))) :: []))) :: [])) :: [])))))))))))))))))))))))))))))))))))))))))))))))))))))))))))))))))))))))))))))))))))))))))))))))))))))))))))))))))))))))))))))))))))))))))))))))))))))))))))))))))))))))))
+    EmptyString)))))))))))))))))))))),
+    (block ((SIf ((CByte (Npos (XO (XI (XI (XI (XO (XI XH)))))))),
+      (block ((SFound (KeywordEnd, Z0)) :: ((SPush
+        st_stateExpectKeyword) :: ((SSetStep
+        st_stateParameterOrAnnotation) :: (SRetNil :: []))))),
+      (block ((SRetErr ((String ((Ascii (true, false, false, true, false,
+        true, true, false)), (String ((Ascii (false, true, true, true, false,
+        true, true, false)), (String ((Ascii (false, false, false, false,
+        false, true, false, false)), (String ((Ascii (true, true, false,
+        true, false, true, true, false)), (String ((Ascii (true, false, true,
+        false, false, true, true, false)), (String ((Ascii (true, false,
+        false, true, true, true, true, false)), (String ((Ascii (true, true,
+        true, false, true, true, true, false)), (String ((Ascii (true, true,
+        true, true, false, true, true, false)), (String ((Ascii (false, true,
+        false, false, true, true, true, false)), (String ((Ascii (false,
+        false, true, false, false, true, true, false)), (String ((Ascii
+        (false, false, false, false, false, true, false, false)), (String
+        ((Ascii (false, true, true, false, true, false, true, false)),
+        (String ((Ascii (true, false, true, false, false, true, true,
+        false)), (String ((Ascii (false, true, false, false, true, true,
+        true, false)), (String ((Ascii (true, true, false, false, true, true,
+        true, false)), (String ((Ascii (true, false, false, true, false,
+        true, true, false)), (String ((Ascii (true, true, true, true, false,
+        true, true, false)), (String ((Ascii (false, true, true, true, false,
+        true, true, false)), EmptyString)))))))))))))))))))))))))))))))))))),
+        (String ((Ascii (false, true, true, true, false, true, true, false)),
+        EmptyString)))) :: [])))) :: []))) :: [])))))))))))))))))))))))))))))))))))))))))))))))))))))))))))))))))))))))))))))))))))))))))))))))))))))))))))))))))))))))))))))))))))))))))))))))))))))))))))))))))))))))))
 
 (** val is_newline_cond : cond **)
 
